@@ -16,20 +16,32 @@ import Generated.Fingerprints
 
   An entry `fp! "pkg.Recv.Name" 0x<hash>` is the triple
   `("pkg.Recv.Name", Generated.Fingerprints.fn.«pkg.Recv.Name», 0x<hash>)`: key, fingerprint on this
-  run (the generated constant of that name — an entry whose key is not in
-  harness/cmd/extract/fingerprints_list.go does not elaborate), fingerprint at validation time.
+  run (the generated constant of that name; for a key that is neither listed in
+  harness/cmd/extract/fingerprints_list.go nor reached from a listed function there is no such
+  constant and the component is 0 = "missing"), fingerprint at validation time.
   (Numbers, not strings: string equality is very slow in the kernel.  0 means "missing".)
 
-  Layout: one list per model file ("group"), then per property `extra_Cxx` (functions named in the
-  property's anchors in /verif/properties.jsonl that are not in one of its groups) and
-  `expected_Cxx` = the groups of the models the property's theorem modules import or whose Go
-  functions its anchors name, ++ `extra_Cxx`.
+  Layout.  One hand-written list `X_roots` per model file ("group") or per property
+  (`extra_Cxx_roots`: functions named in the property's anchors in /verif/properties.jsonl, or shown
+  relevant by a seeded change, that are not in one of its groups).  Each is completed mechanically:
+  `X_deps` = every declaration the entries of `X_roots` REACH inside their package — functions they
+  call (transitively), package-level constants and variables used on the way (keys `pkg.const:Name`,
+  `pkg.var:Name`) — and `X = X_roots ++ X_deps`.  The `X_deps` lists and the recorded entries they
+  refer to (namespace `dep`) are written by tools/update_fingerprints.py from
+  `Generated.Fingerprints.deps`; do not edit them by hand.  Why explicit entries and not one combined
+  hash per listed function: the failing theorem then names exactly the helper or constant that
+  changed, and the Lean side needs no second notion of fingerprint.  The call graph can only change
+  when the text of a listed or reached function changes, which makes an entry stale; so between two
+  runs of the tool the `X_deps` lists are complete.
+  `expected_Cxx` = the groups of the models the property's theorem modules import, of the codecs its
+  inputs pass through, or whose Go functions its anchors name, ++ `extra_Cxx`.
 
   Maintenance.  After an INTENDED change of a listed Go function: re-validate the model against the
   new text (read the diff, adapt the model, run the property's suites), then run
   /verif/tools/update_fingerprints.py, which rewrites the hashes below from the current
   Generated/Fingerprints.lean and prints what changed.  ./check never runs that tool.
-  A newly transcribed function needs an entry here AND in harness/cmd/extract/fingerprints_list.go.
+  A newly transcribed function needs an entry in an `X_roots` list here AND in
+  harness/cmd/extract/fingerprints_list.go (then run the tool: it fills in `X_deps`).
 -/
 namespace Webp.Impl.Transcribed
 
@@ -37,18 +49,1079 @@ namespace Webp.Impl.Transcribed
 abbrev Entry := String × Nat × Nat
 
 open Lean in
-/-- `fp! "key" 0xHASH` = `("key", Generated.Fingerprints.fn.«key», 0xHASH)` -/
-macro "fp!" k:str h:num : term =>
-  `(($k, $(mkIdent (Name.str `Generated.Fingerprints.fn k.getString)), $h))
+/-- `fp! "key" 0xHASH` = `("key", Generated.Fingerprints.fn.«key», 0xHASH)`; when the extractor emitted
+    no constant of that name on this run (a reached helper that was deleted or renamed, a key that is
+    not fingerprinted) the middle component is `0`, i.e. "missing", so that the entry is reported as
+    stale by name instead of breaking the elaboration of this file -/
+macro "fp!" k:str h:num : term => do
+  let n := Name.str `Generated.Fingerprints.fn k.getString
+  if (← Macro.hasDecl n) then `(($k, $(mkIdent n), $h)) else `(($k, (0 : Nat), $h))
 
 /-- keys of the entries whose current fingerprint differs from the recorded one -/
 def stale (expected : List Entry) : List String :=
   (expected.filter (fun e => e.2.1 != e.2.2)).map (·.1)
 
+/-! ## closure entries
+
+  One recorded entry per declaration that some list below REACHES without listing it: same-package
+  functions called (transitively) by a listed function, package-level constants and variables they
+  use (key forms `pkg.Name`, `pkg.Recv.Name`, `pkg.const:Name`, `pkg.var:Name`).  Which keys a list
+  reaches is `Generated.Fingerprints.deps`; the `…_deps` lists below refer to these entries. -/
+
+-- BEGIN closure entries (written by tools/update_fingerprints.py — do not edit by hand)
+namespace dep
+def «animation.Animation.DecodeFrames» : Entry := fp! "animation.Animation.DecodeFrames" 0x4b216a8b4a7737e1
+def «animation.Frame.Bounds» : Entry := fp! "animation.Frame.Bounds" 0x2371a71e4d603889
+def «animation.argbToNRGBA» : Entry := fp! "animation.argbToNRGBA" 0x89274599b13ca87a
+def «animation.bitstreamFrame.Bounds» : Entry := fp! "animation.bitstreamFrame.Bounds" 0xec8d240fc958c1b3
+def «animation.clampLoopCount» : Entry := fp! "animation.clampLoopCount" 0xda63291eb0d677a4
+def «animation.const:BlendAlpha» : Entry := fp! "animation.const:BlendAlpha" 0xf21784852f927ebc
+def «animation.const:BlendNone» : Entry := fp! "animation.const:BlendNone" 0x6123147b99b7d208
+def «animation.const:DisposeBackground» : Entry := fp! "animation.const:DisposeBackground" 0x8e35191fa558464d
+def «animation.const:DisposeNone» : Entry := fp! "animation.const:DisposeNone" 0x2256f1a6eb716a51
+def «animation.const:maxCanvasArea» : Entry := fp! "animation.const:maxCanvasArea" 0xd2f66fbd36f3476c
+def «animation.const:maxCanvasDimension» : Entry := fp! "animation.const:maxCanvasDimension" 0x2be158cf9977122f
+def «animation.const:maxDuration» : Entry := fp! "animation.const:maxDuration" 0x45e6d396033cdabd
+def «animation.const:maxInputSize» : Entry := fp! "animation.const:maxInputSize" 0x2c0a31f9bda331ed
+def «animation.const:maxLoopCount» : Entry := fp! "animation.const:maxLoopCount" 0xd5a9f1596416f11b
+def «animation.fillRect» : Entry := fp! "animation.fillRect" 0x35289ba0284d6fde
+def «animation.nrgbaToARGB» : Entry := fp! "animation.nrgbaToARGB" 0xf539c1bfe7e9d02f
+def «animation.sanitizeKeyframeOptions» : Entry := fp! "animation.sanitizeKeyframeOptions" 0x77eff691921a42b3
+def «animation.toNRGBA» : Entry := fp! "animation.toNRGBA" 0x3a9203454c43ee91
+def «animation.var:ErrNilImage» : Entry := fp! "animation.var:ErrNilImage" 0x77d3ad0fad65f125
+def «animation.var:ErrNoDecoder» : Entry := fp! "animation.var:ErrNoDecoder" 0x5ba36a027c85a39c
+def «animation.var:ErrNoFrames» : Entry := fp! "animation.var:ErrNoFrames" 0xbe6fc3d2c69cc28f
+def «animation.var:FrameDecoderFunc» : Entry := fp! "animation.var:FrameDecoderFunc" 0xfe25418b1de0164b
+def «animation.var:FrameEncoderFunc» : Entry := fp! "animation.var:FrameEncoderFunc" 0xb137b95e4e9d918a
+def «animation.var:SimpleEncodeFunc» : Entry := fp! "animation.var:SimpleEncodeFunc" 0x774101cc2c48c5df
+def «internal/bitio.LosslessReader.PrefetchBits» : Entry := fp! "internal/bitio.LosslessReader.PrefetchBits" 0x8e78ebb0f6d45615
+def «internal/bitio.LosslessReader.setEndOfStream» : Entry := fp! "internal/bitio.LosslessReader.setEndOfStream" 0xa63a7c6dc946d591
+def «internal/bitio.LosslessReader.shiftBytes» : Entry := fp! "internal/bitio.LosslessReader.shiftBytes" 0x4198adfccfb0ebb7
+def «internal/bitio.boolToInt» : Entry := fp! "internal/bitio.boolToInt" 0x4b3ccb225cbbd8fe
+def «internal/bitio.const:boolBITS» : Entry := fp! "internal/bitio.const:boolBITS" 0x0f977e5e2d29cc17
+def «internal/bitio.const:vp8lLBits» : Entry := fp! "internal/bitio.const:vp8lLBits" 0x3a0eea19fea6312d
+def «internal/bitio.const:vp8lMaxNumBitRead» : Entry := fp! "internal/bitio.const:vp8lMaxNumBitRead" 0xcae53010e421fe20
+def «internal/bitio.const:vp8lWBits» : Entry := fp! "internal/bitio.const:vp8lWBits" 0x3e623914f2ae8de0
+def «internal/bitio.const:writerBits» : Entry := fp! "internal/bitio.const:writerBits" 0xfd9b93cb9deb8b55
+def «internal/bitio.const:writerBytes» : Entry := fp! "internal/bitio.const:writerBytes" 0xdd61d4c6b8064cf5
+def «internal/bitio.var:kBitMask» : Entry := fp! "internal/bitio.var:kBitMask" 0x558276dd857983df
+def «internal/bitio.var:kNewRange» : Entry := fp! "internal/bitio.var:kNewRange" 0x46aaba9425968787
+def «internal/bitio.var:kNorm» : Entry := fp! "internal/bitio.var:kNorm" 0x176329885de8dfbd
+def «internal/bitio.var:kVP8Log2Range» : Entry := fp! "internal/bitio.var:kVP8Log2Range" 0x08954ed36497c24c
+def «internal/bitio.var:kVP8NewRange» : Entry := fp! "internal/bitio.var:kVP8NewRange" 0x901792f8c49c8a1e
+def «internal/container.FourCCString» : Entry := fp! "internal/container.FourCCString" 0x0f3ef46a045eeb2f
+def «internal/container.const:ANIMChunkSize» : Entry := fp! "internal/container.const:ANIMChunkSize" 0x0d622592e5690b6a
+def «internal/container.const:ANMFChunkSize» : Entry := fp! "internal/container.const:ANMFChunkSize" 0xb0e33744a3a2a2e3
+def «internal/container.const:AllValidFlags» : Entry := fp! "internal/container.const:AllValidFlags" 0xb285ba93185ff236
+def «internal/container.const:AlphaFlag» : Entry := fp! "internal/container.const:AlphaFlag" 0x221d098177e0ffea
+def «internal/container.const:AnimationFlag» : Entry := fp! "internal/container.const:AnimationFlag" 0x9dd80f85f18b4e4e
+def «internal/container.const:BlendNone» : Entry := fp! "internal/container.const:BlendNone" 0x9b1ff78661d34a98
+def «internal/container.const:ChunkHeaderSize» : Entry := fp! "internal/container.const:ChunkHeaderSize" 0x088ffaa2bf2588ac
+def «internal/container.const:DisposeBackground» : Entry := fp! "internal/container.const:DisposeBackground" 0x6295d8318f3fae9a
+def «internal/container.const:EXIFFlag» : Entry := fp! "internal/container.const:EXIFFlag" 0x5b7e86a22798ff4d
+def «internal/container.const:FormatVP8» : Entry := fp! "internal/container.const:FormatVP8" 0x683855ed08dce469
+def «internal/container.const:FormatVP8L» : Entry := fp! "internal/container.const:FormatVP8L" 0x22cac7152884fb62
+def «internal/container.const:FormatVP8X» : Entry := fp! "internal/container.const:FormatVP8X" 0x3baacd360d5a6b26
+def «internal/container.const:ICCPFlag» : Entry := fp! "internal/container.const:ICCPFlag" 0x489f1646c888f92d
+def «internal/container.const:MaxChunkPayload» : Entry := fp! "internal/container.const:MaxChunkPayload" 0xcdc688f798461019
+def «internal/container.const:MaxChunks» : Entry := fp! "internal/container.const:MaxChunks" 0xf6f99943b10506f5
+def «internal/container.const:MaxFrames» : Entry := fp! "internal/container.const:MaxFrames" 0xec2cbb270d77ad39
+def «internal/container.const:MaxImageArea» : Entry := fp! "internal/container.const:MaxImageArea" 0x8a71354d05472ff9
+def «internal/container.const:MaxMetadataSize» : Entry := fp! "internal/container.const:MaxMetadataSize" 0xfadef4830f34cdba
+def «internal/container.const:RIFFHeaderSize» : Entry := fp! "internal/container.const:RIFFHeaderSize" 0x21ac4f511d934add
+def «internal/container.const:VP8FrameHeaderSize» : Entry := fp! "internal/container.const:VP8FrameHeaderSize" 0x57e3dba5982fbeab
+def «internal/container.const:VP8LFrameHeaderSize» : Entry := fp! "internal/container.const:VP8LFrameHeaderSize" 0xa2805741b49a71f9
+def «internal/container.const:VP8LMagicByte» : Entry := fp! "internal/container.const:VP8LMagicByte" 0x7f5e064b72e42f72
+def «internal/container.const:VP8LVersion» : Entry := fp! "internal/container.const:VP8LVersion" 0xc01fdba6fba70be6
+def «internal/container.const:VP8Signature» : Entry := fp! "internal/container.const:VP8Signature" 0x2ebc448861d99938
+def «internal/container.const:VP8XChunkSize» : Entry := fp! "internal/container.const:VP8XChunkSize" 0x48c5d505fb29a844
+def «internal/container.const:XMPFlag» : Entry := fp! "internal/container.const:XMPFlag" 0xf17991c0620ac1bc
+def «internal/container.var:ErrInvalidChunk» : Entry := fp! "internal/container.var:ErrInvalidChunk" 0x22905f48093a9fc1
+def «internal/container.var:ErrInvalidFlags» : Entry := fp! "internal/container.var:ErrInvalidFlags" 0x51beea15ab5cd8db
+def «internal/container.var:ErrInvalidImage» : Entry := fp! "internal/container.var:ErrInvalidImage" 0x15ef174154fd41a7
+def «internal/container.var:ErrInvalidRIFF» : Entry := fp! "internal/container.var:ErrInvalidRIFF" 0x183e7929537199f8
+def «internal/container.var:ErrInvalidVP8X» : Entry := fp! "internal/container.var:ErrInvalidVP8X" 0xd2bd9a72c727b67b
+def «internal/container.var:ErrInvalidWebP» : Entry := fp! "internal/container.var:ErrInvalidWebP" 0xef3f6fca3b842f87
+def «internal/container.var:ErrTooLarge» : Entry := fp! "internal/container.var:ErrTooLarge" 0x5b135d47c5824ddf
+def «internal/container.var:ErrTruncated» : Entry := fp! "internal/container.var:ErrTruncated" 0xe49b5ab58bc56a2d
+def «internal/container.var:ErrUnsupported» : Entry := fp! "internal/container.var:ErrUnsupported" 0x0cb45b71511d8ba0
+def «internal/container.var:FourCCALPH» : Entry := fp! "internal/container.var:FourCCALPH" 0xe6a0e9b4269603e2
+def «internal/container.var:FourCCANIM» : Entry := fp! "internal/container.var:FourCCANIM" 0x672e86218951addc
+def «internal/container.var:FourCCANMF» : Entry := fp! "internal/container.var:FourCCANMF" 0x152947919863e44d
+def «internal/container.var:FourCCEXIF» : Entry := fp! "internal/container.var:FourCCEXIF" 0xe00d23d16ebd7747
+def «internal/container.var:FourCCICCP» : Entry := fp! "internal/container.var:FourCCICCP" 0xd0f9e8e2835a286d
+def «internal/container.var:FourCCRIFF» : Entry := fp! "internal/container.var:FourCCRIFF" 0x9e5e124fee8ff00b
+def «internal/container.var:FourCCVP8» : Entry := fp! "internal/container.var:FourCCVP8" 0xe8ce796cfed82d47
+def «internal/container.var:FourCCVP8L» : Entry := fp! "internal/container.var:FourCCVP8L" 0x88426fc7ea5b3b38
+def «internal/container.var:FourCCVP8X» : Entry := fp! "internal/container.var:FourCCVP8X" 0x8ed5fca0b70ffef6
+def «internal/container.var:FourCCWEBP» : Entry := fp! "internal/container.var:FourCCWEBP" 0x8d3ca48e9b0a635a
+def «internal/container.var:FourCCXMP» : Entry := fp! "internal/container.var:FourCCXMP" 0xfcef79f3947e0fa0
+def «internal/dsp.Clip8b» : Entry := fp! "internal/dsp.Clip8b" 0x2149951e95093e83
+def «internal/dsp.Init» : Entry := fp! "internal/dsp.Init" 0x33f2eea4c9ebffa3
+def «internal/dsp.Kabs0» : Entry := fp! "internal/dsp.Kabs0" 0x8cb6d6808ce0d416
+def «internal/dsp.Kclip1» : Entry := fp! "internal/dsp.Kclip1" 0x1705458b67ac2573
+def «internal/dsp.Ksclip1» : Entry := fp! "internal/dsp.Ksclip1" 0x3c07d429c203dc6e
+def «internal/dsp.Ksclip2» : Entry := fp! "internal/dsp.Ksclip2" 0x9463b769943b057f
+def «internal/dsp.YUVToB» : Entry := fp! "internal/dsp.YUVToB" 0x45ef69afbb5169e4
+def «internal/dsp.YUVToG» : Entry := fp! "internal/dsp.YUVToG" 0x03fa375bcb49c523
+def «internal/dsp.YUVToR» : Entry := fp! "internal/dsp.YUVToR" 0x635996e7558f3f75
+def «internal/dsp.YUVToRGB» : Entry := fp! "internal/dsp.YUVToRGB" 0x8a31841169aa14ad
+def «internal/dsp.abs» : Entry := fp! "internal/dsp.abs" 0x8573db51f91c713e
+def «internal/dsp.addGreenToBlueAndRedAVX2» : Entry := fp! "internal/dsp.addGreenToBlueAndRedAVX2" 0xbf78d0cd0e6c8640
+def «internal/dsp.addGreenToBlueAndRedGo» : Entry := fp! "internal/dsp.addGreenToBlueAndRedGo" 0x1bf73c4ae5f257d5
+def «internal/dsp.addGreenToBlueAndRedNEON» : Entry := fp! "internal/dsp.addGreenToBlueAndRedNEON" 0x8c806fee726d1f74
+def «internal/dsp.addGreenToBlueAndRedSSE2» : Entry := fp! "internal/dsp.addGreenToBlueAndRedSSE2" 0xbfd509e93adebdb9
+def «internal/dsp.avg2» : Entry := fp! "internal/dsp.avg2" 0xaf10a2348114dbe0
+def «internal/dsp.avg3» : Entry := fp! "internal/dsp.avg3" 0xe5608bfda1e67715
+def «internal/dsp.b2i» : Entry := fp! "internal/dsp.b2i" 0x00e39e6a050abcf5
+def «internal/dsp.const:BPS» : Entry := fp! "internal/dsp.const:BPS" 0x4411a0e0db0fd725
+def «internal/dsp.const:abs0Offset» : Entry := fp! "internal/dsp.const:abs0Offset" 0xba2f1f2940c82c02
+def «internal/dsp.const:c1» : Entry := fp! "internal/dsp.const:c1" 0x6a95cf388c662970
+def «internal/dsp.const:c2» : Entry := fp! "internal/dsp.const:c2" 0x8bac83552800005c
+def «internal/dsp.const:clip1Offset» : Entry := fp! "internal/dsp.const:clip1Offset" 0xf2dedf1b5d1d1666
+def «internal/dsp.const:kBBias» : Entry := fp! "internal/dsp.const:kBBias" 0x6987b588dd909cc1
+def «internal/dsp.const:kBCb» : Entry := fp! "internal/dsp.const:kBCb" 0x625d687b81ffc276
+def «internal/dsp.const:kGBias» : Entry := fp! "internal/dsp.const:kGBias" 0x1d238225d22d17d9
+def «internal/dsp.const:kGCb» : Entry := fp! "internal/dsp.const:kGCb" 0x770fe718c4e50506
+def «internal/dsp.const:kGCr» : Entry := fp! "internal/dsp.const:kGCr" 0x350bbda37753c3dc
+def «internal/dsp.const:kRBias» : Entry := fp! "internal/dsp.const:kRBias" 0x424bbbe7ff19bf99
+def «internal/dsp.const:kRCr» : Entry := fp! "internal/dsp.const:kRCr" 0x9ab5f622b28b7232
+def «internal/dsp.const:kYScale» : Entry := fp! "internal/dsp.const:kYScale" 0x7f8d2af7007f74a1
+def «internal/dsp.const:sclip1Offset» : Entry := fp! "internal/dsp.const:sclip1Offset" 0xd9ecd6acd29c563d
+def «internal/dsp.const:sclip2Offset» : Entry := fp! "internal/dsp.const:sclip2Offset" 0x4fc1d2aadde72486
+def «internal/dsp.const:vp8RandomDitherFix» : Entry := fp! "internal/dsp.const:vp8RandomDitherFix" 0x94cd9ad232ee0138
+def «internal/dsp.const:vp8RandomTableSize» : Entry := fp! "internal/dsp.const:vp8RandomTableSize" 0x1be4cdfc2a6da668
+def «internal/dsp.const:yuvFix» : Entry := fp! "internal/dsp.const:yuvFix" 0xc519d1506d5bc6da
+def «internal/dsp.const:yuvFix2» : Entry := fp! "internal/dsp.const:yuvFix2" 0xa5863edfef860084
+def «internal/dsp.const:yuvMask» : Entry := fp! "internal/dsp.const:yuvMask" 0x4674e8ac53042d8e
+def «internal/dsp.cpuidAVX2Check» : Entry := fp! "internal/dsp.cpuidAVX2Check" 0xd7abab8337c921eb
+def «internal/dsp.dc16» : Entry := fp! "internal/dsp.dc16" 0xc47849710a807d49
+def «internal/dsp.dc16NEON» : Entry := fp! "internal/dsp.dc16NEON" 0x4a171c75e7c7fc99
+def «internal/dsp.dc16NoLeft» : Entry := fp! "internal/dsp.dc16NoLeft" 0x07e14eb07b9d6a4f
+def «internal/dsp.dc16NoTop» : Entry := fp! "internal/dsp.dc16NoTop" 0xefd9b73d9ba3fea7
+def «internal/dsp.dc16NoTopLeft» : Entry := fp! "internal/dsp.dc16NoTopLeft" 0xce8c3fe59c56cb17
+def «internal/dsp.dc16SSE2» : Entry := fp! "internal/dsp.dc16SSE2" 0xaaeb6ed007757593
+def «internal/dsp.dc16asmNEON» : Entry := fp! "internal/dsp.dc16asmNEON" 0x02d3e82632063006
+def «internal/dsp.dc16asmSSE2» : Entry := fp! "internal/dsp.dc16asmSSE2" 0x76d70bf06904a9bb
+def «internal/dsp.dc4» : Entry := fp! "internal/dsp.dc4" 0x4ed2c997e867fff1
+def «internal/dsp.dc8uv» : Entry := fp! "internal/dsp.dc8uv" 0x712ce9c72b182f61
+def «internal/dsp.dc8uvNEON» : Entry := fp! "internal/dsp.dc8uvNEON" 0x024147bfde4aab3f
+def «internal/dsp.dc8uvNoLeft» : Entry := fp! "internal/dsp.dc8uvNoLeft" 0x7e537c9cc6adf5a1
+def «internal/dsp.dc8uvNoTop» : Entry := fp! "internal/dsp.dc8uvNoTop" 0xa93ccb9d172f51e2
+def «internal/dsp.dc8uvNoTopLeft» : Entry := fp! "internal/dsp.dc8uvNoTopLeft" 0xe1e95bd118325ef4
+def «internal/dsp.dc8uvSSE2» : Entry := fp! "internal/dsp.dc8uvSSE2" 0x955e930350155d66
+def «internal/dsp.dc8uvasmNEON» : Entry := fp! "internal/dsp.dc8uvasmNEON" 0x4f2c83963ccd8ee1
+def «internal/dsp.dc8uvasmSSE2» : Entry := fp! "internal/dsp.dc8uvasmSSE2" 0x50f89b21f2de49d0
+def «internal/dsp.fTransform» : Entry := fp! "internal/dsp.fTransform" 0x5827adfade404d7b
+def «internal/dsp.fTransform2» : Entry := fp! "internal/dsp.fTransform2" 0xbe1a9dcee59894d7
+def «internal/dsp.fTransform2AVX2» : Entry := fp! "internal/dsp.fTransform2AVX2" 0x562fa5537447c99c
+def «internal/dsp.fTransformAVX2» : Entry := fp! "internal/dsp.fTransformAVX2" 0x8fe74ae9e54a148f
+def «internal/dsp.fTransformSSE2» : Entry := fp! "internal/dsp.fTransformSSE2" 0xfb14f8981a70b79b
+def «internal/dsp.fTransformWHT» : Entry := fp! "internal/dsp.fTransformWHT" 0x51990f7b8cb20757
+def «internal/dsp.fTransformWHTNEON» : Entry := fp! "internal/dsp.fTransformWHTNEON" 0x9afc498aa7ab9f34
+def «internal/dsp.fTransformWHTSSE2» : Entry := fp! "internal/dsp.fTransformWHTSSE2" 0x0fa604d5d04928f2
+def «internal/dsp.hd4» : Entry := fp! "internal/dsp.hd4" 0x0550b10e1848ee9f
+def «internal/dsp.he16» : Entry := fp! "internal/dsp.he16" 0xc097acc60b2dc055
+def «internal/dsp.he16NEON» : Entry := fp! "internal/dsp.he16NEON" 0x01a01043010e336d
+def «internal/dsp.he16SSE2» : Entry := fp! "internal/dsp.he16SSE2" 0x49af479d3bd30bf6
+def «internal/dsp.he16asmNEON» : Entry := fp! "internal/dsp.he16asmNEON" 0xf77099656f6f7d30
+def «internal/dsp.he16asmSSE2» : Entry := fp! "internal/dsp.he16asmSSE2" 0xf43734ff711501a6
+def «internal/dsp.he4» : Entry := fp! "internal/dsp.he4" 0xdb139959ca6b744d
+def «internal/dsp.he8uv» : Entry := fp! "internal/dsp.he8uv" 0x1703537427f2cd41
+def «internal/dsp.he8uvNEON» : Entry := fp! "internal/dsp.he8uvNEON" 0x6d90d5c3ecf59574
+def «internal/dsp.he8uvSSE2» : Entry := fp! "internal/dsp.he8uvSSE2" 0x2fe5e8dddf6c3158
+def «internal/dsp.he8uvasmNEON» : Entry := fp! "internal/dsp.he8uvasmNEON" 0xdeb94eea6a708491
+def «internal/dsp.he8uvasmSSE2» : Entry := fp! "internal/dsp.he8uvasmSSE2" 0xd911da54910a6a2a
+def «internal/dsp.hu4» : Entry := fp! "internal/dsp.hu4" 0xa1a751a777816ff3
+def «internal/dsp.iTransform» : Entry := fp! "internal/dsp.iTransform" 0x24afee0de2eaadd4
+def «internal/dsp.iTransformAVX2» : Entry := fp! "internal/dsp.iTransformAVX2" 0x877ce8a1c5acefca
+def «internal/dsp.iTransformNEON» : Entry := fp! "internal/dsp.iTransformNEON" 0xfa8061da7043cb7d
+def «internal/dsp.iTransformOne» : Entry := fp! "internal/dsp.iTransformOne" 0x6129a3b298a8d380
+def «internal/dsp.iTransformOneAVX2» : Entry := fp! "internal/dsp.iTransformOneAVX2" 0x91f69810657a0847
+def «internal/dsp.iTransformOneNEON» : Entry := fp! "internal/dsp.iTransformOneNEON" 0x63520b5875fff2d1
+def «internal/dsp.iTransformOneSSE2» : Entry := fp! "internal/dsp.iTransformOneSSE2" 0x60fda2eb21683bf1
+def «internal/dsp.iTransformSSE2» : Entry := fp! "internal/dsp.iTransformSSE2" 0x0dfeafad180cc907
+def «internal/dsp.initClipTables» : Entry := fp! "internal/dsp.initClipTables" 0x788ac4af6caf3878
+def «internal/dsp.initLevelCosts» : Entry := fp! "internal/dsp.initLevelCosts" 0xfe60855f42fb3b6e
+def «internal/dsp.initLosslessPredictors» : Entry := fp! "internal/dsp.initLosslessPredictors" 0xe6d57743fa5d48f5
+def «internal/dsp.initPredictors» : Entry := fp! "internal/dsp.initPredictors" 0x69800a57e922eb96
+def «internal/dsp.initSSIM» : Entry := fp! "internal/dsp.initSSIM" 0x56ebd121c3432e46
+def «internal/dsp.initScanTable» : Entry := fp! "internal/dsp.initScanTable" 0x37022c8257c81a7c
+def «internal/dsp.initYUVTables» : Entry := fp! "internal/dsp.initYUVTables" 0xbff96ccb66366ca0
+def «internal/dsp.lAbs» : Entry := fp! "internal/dsp.lAbs" 0x74cfbc8df33f0733
+def «internal/dsp.lAverage2» : Entry := fp! "internal/dsp.lAverage2" 0xe7063160c3df110d
+def «internal/dsp.lAverage3» : Entry := fp! "internal/dsp.lAverage3" 0xf06c0fae556a8d5e
+def «internal/dsp.lAverage4» : Entry := fp! "internal/dsp.lAverage4" 0x719b765a27158179
+def «internal/dsp.lClamp» : Entry := fp! "internal/dsp.lClamp" 0x479b315c90c3c517
+def «internal/dsp.lClampedAddSubtractFull» : Entry := fp! "internal/dsp.lClampedAddSubtractFull" 0xfce4dfae058bd33d
+def «internal/dsp.lClampedAddSubtractHalf» : Entry := fp! "internal/dsp.lClampedAddSubtractHalf" 0xc28965ef30f6ec55
+def «internal/dsp.lSelect» : Entry := fp! "internal/dsp.lSelect" 0x75f820a73b2e2315
+def «internal/dsp.ld4» : Entry := fp! "internal/dsp.ld4" 0xe588de0b7fc21991
+def «internal/dsp.loadUV» : Entry := fp! "internal/dsp.loadUV" 0xbaab60d134aec456
+def «internal/dsp.mul1» : Entry := fp! "internal/dsp.mul1" 0x4efa0e79c96d0476
+def «internal/dsp.mul2» : Entry := fp! "internal/dsp.mul2" 0x3ccf5716eb7729b1
+def «internal/dsp.multHi» : Entry := fp! "internal/dsp.multHi" 0x6a9d717a70bc843b
+def «internal/dsp.pred0» : Entry := fp! "internal/dsp.pred0" 0x025fe0e93ad9ae6d
+def «internal/dsp.pred1» : Entry := fp! "internal/dsp.pred1" 0xaf0c3ae85c0c9277
+def «internal/dsp.pred10» : Entry := fp! "internal/dsp.pred10" 0x3148ad3ef0e80799
+def «internal/dsp.pred11» : Entry := fp! "internal/dsp.pred11" 0x09514c052c7d4a88
+def «internal/dsp.pred12» : Entry := fp! "internal/dsp.pred12" 0x94cad009969f1e03
+def «internal/dsp.pred13» : Entry := fp! "internal/dsp.pred13" 0xf281e0e380bb2786
+def «internal/dsp.pred2» : Entry := fp! "internal/dsp.pred2" 0x81561a2c4d02a8cd
+def «internal/dsp.pred3» : Entry := fp! "internal/dsp.pred3" 0x25434d7ca734e873
+def «internal/dsp.pred4» : Entry := fp! "internal/dsp.pred4" 0x77dbf07ee499cc4e
+def «internal/dsp.pred5» : Entry := fp! "internal/dsp.pred5" 0x6980191c88be3861
+def «internal/dsp.pred6» : Entry := fp! "internal/dsp.pred6" 0x04c6f8c927df56f3
+def «internal/dsp.pred7» : Entry := fp! "internal/dsp.pred7" 0x5a15daeada21be64
+def «internal/dsp.pred8» : Entry := fp! "internal/dsp.pred8" 0x3d63fcb87326ecaa
+def «internal/dsp.pred9» : Entry := fp! "internal/dsp.pred9" 0x8f01073931e8fcb2
+def «internal/dsp.rd4» : Entry := fp! "internal/dsp.rd4" 0xbeabfa01f7722a97
+def «internal/dsp.simpleVFilter16AVX2» : Entry := fp! "internal/dsp.simpleVFilter16AVX2" 0x99eca2e83b0e2298
+def «internal/dsp.simpleVFilter16SSE2» : Entry := fp! "internal/dsp.simpleVFilter16SSE2" 0xb72760db6e40a788
+def «internal/dsp.sse16x16» : Entry := fp! "internal/dsp.sse16x16" 0xdbe928d33eb0548a
+def «internal/dsp.sse16x16AVX2» : Entry := fp! "internal/dsp.sse16x16AVX2" 0xdc8647df4e4c7d3f
+def «internal/dsp.sse16x16NEON» : Entry := fp! "internal/dsp.sse16x16NEON" 0xf0547cf0bd747395
+def «internal/dsp.sse16x16SSE2» : Entry := fp! "internal/dsp.sse16x16SSE2" 0x31d1cd1c5ce604e3
+def «internal/dsp.sse4x4» : Entry := fp! "internal/dsp.sse4x4" 0xb02f46cd7a724f6f
+def «internal/dsp.sse4x4NEON» : Entry := fp! "internal/dsp.sse4x4NEON" 0x8dd61f522fa890a5
+def «internal/dsp.sse4x4SSE2» : Entry := fp! "internal/dsp.sse4x4SSE2" 0x88886b8f1eff9d22
+def «internal/dsp.store» : Entry := fp! "internal/dsp.store" 0x65471a5764d12578
+def «internal/dsp.subtractGreenAVX2» : Entry := fp! "internal/dsp.subtractGreenAVX2" 0x34afabc136f3d8b2
+def «internal/dsp.subtractGreenGo» : Entry := fp! "internal/dsp.subtractGreenGo" 0xb067e37112d3aa78
+def «internal/dsp.subtractGreenNEON» : Entry := fp! "internal/dsp.subtractGreenNEON" 0xbca260d3d95a0120
+def «internal/dsp.subtractGreenSSE2» : Entry := fp! "internal/dsp.subtractGreenSSE2" 0x6e42f2bc63831c1a
+def «internal/dsp.tDisto4x4AVX2» : Entry := fp! "internal/dsp.tDisto4x4AVX2" 0xcc16a8a8c03883fe
+def «internal/dsp.tDisto4x4Go» : Entry := fp! "internal/dsp.tDisto4x4Go" 0x95c76ff88f253e73
+def «internal/dsp.tDisto4x4SSE2» : Entry := fp! "internal/dsp.tDisto4x4SSE2" 0x024ba9908bd392e7
+def «internal/dsp.tTransform» : Entry := fp! "internal/dsp.tTransform" 0x14873e5fa4134148
+def «internal/dsp.tm16» : Entry := fp! "internal/dsp.tm16" 0x094a7601a2240172
+def «internal/dsp.tm16NEON» : Entry := fp! "internal/dsp.tm16NEON" 0x0e65e83be9f0ad5f
+def «internal/dsp.tm16SSE2» : Entry := fp! "internal/dsp.tm16SSE2" 0x6a368df2b81f09bb
+def «internal/dsp.tm16asmNEON» : Entry := fp! "internal/dsp.tm16asmNEON" 0x61232e90e1c824ee
+def «internal/dsp.tm16asmSSE2» : Entry := fp! "internal/dsp.tm16asmSSE2" 0xd042fe8310c0fc4e
+def «internal/dsp.tm4» : Entry := fp! "internal/dsp.tm4" 0x851e98d53c9232f8
+def «internal/dsp.tm8uv» : Entry := fp! "internal/dsp.tm8uv" 0x9948e98674dbc3df
+def «internal/dsp.tm8uvNEON» : Entry := fp! "internal/dsp.tm8uvNEON" 0x578d67fd0b610c5a
+def «internal/dsp.tm8uvSSE2» : Entry := fp! "internal/dsp.tm8uvSSE2" 0x5e4ea47032f3df50
+def «internal/dsp.tm8uvasmNEON» : Entry := fp! "internal/dsp.tm8uvasmNEON" 0x1f7fbf2cbddece1d
+def «internal/dsp.tm8uvasmSSE2» : Entry := fp! "internal/dsp.tm8uvasmSSE2" 0x884538c1025f32e0
+def «internal/dsp.transformAC3» : Entry := fp! "internal/dsp.transformAC3" 0x3b85dbfac7c6d0b0
+def «internal/dsp.transformDC» : Entry := fp! "internal/dsp.transformDC" 0x237283ba7d39ad2e
+def «internal/dsp.transformDCUV» : Entry := fp! "internal/dsp.transformDCUV" 0x283cbfc993d54cf7
+def «internal/dsp.transformOne» : Entry := fp! "internal/dsp.transformOne" 0x865c0eca4b1fdf6c
+def «internal/dsp.transformTwo» : Entry := fp! "internal/dsp.transformTwo" 0x81fb1ad72015c2a3
+def «internal/dsp.transformTwoDecAVX2» : Entry := fp! "internal/dsp.transformTwoDecAVX2" 0xffeed82e8c155741
+def «internal/dsp.transformTwoDecNEON» : Entry := fp! "internal/dsp.transformTwoDecNEON" 0xdd06e87ec9c43d49
+def «internal/dsp.transformTwoDecSSE2» : Entry := fp! "internal/dsp.transformTwoDecSSE2" 0x53d066385c0e8f17
+def «internal/dsp.transformUV» : Entry := fp! "internal/dsp.transformUV" 0x91fc8c49c305a673
+def «internal/dsp.transformUVAVX2» : Entry := fp! "internal/dsp.transformUVAVX2" 0x26250eec1f9721cb
+def «internal/dsp.transformUVNEON» : Entry := fp! "internal/dsp.transformUVNEON" 0x213da097e896e1a1
+def «internal/dsp.transformUVSSE2» : Entry := fp! "internal/dsp.transformUVSSE2" 0x0a399ab255a11a3f
+def «internal/dsp.transformWHT» : Entry := fp! "internal/dsp.transformWHT" 0x364717cdd07c6033
+def «internal/dsp.transformWHTNEON» : Entry := fp! "internal/dsp.transformWHTNEON" 0xcd4c94f522c2e209
+def «internal/dsp.transformWHTSSE2» : Entry := fp! "internal/dsp.transformWHTSSE2" 0xaa755eaffd14f22c
+def «internal/dsp.upsampleLinePairNRGBAGo» : Entry := fp! "internal/dsp.upsampleLinePairNRGBAGo" 0x9aa0915e5ac814e4
+def «internal/dsp.var:AddGreenToBlueAndRedFunc» : Entry := fp! "internal/dsp.var:AddGreenToBlueAndRedFunc" 0x451a344419ffbfb7
+def «internal/dsp.var:DspScan» : Entry := fp! "internal/dsp.var:DspScan" 0x47ae821d84632902
+def «internal/dsp.var:DspScanUV» : Entry := fp! "internal/dsp.var:DspScanUV" 0xcbaddac1869cb8ca
+def «internal/dsp.var:FTransform» : Entry := fp! "internal/dsp.var:FTransform" 0x8071d99fe7bbba66
+def «internal/dsp.var:FTransform2» : Entry := fp! "internal/dsp.var:FTransform2" 0x8f1d7cc9dc055d2d
+def «internal/dsp.var:FTransformWHT» : Entry := fp! "internal/dsp.var:FTransformWHT" 0x3a4f8f7093b5bf52
+def «internal/dsp.var:ITransform» : Entry := fp! "internal/dsp.var:ITransform" 0x55d9ea7e4c756769
+def «internal/dsp.var:LosslessPredictors» : Entry := fp! "internal/dsp.var:LosslessPredictors" 0x130dc0a9aa176806
+def «internal/dsp.var:PredChroma8» : Entry := fp! "internal/dsp.var:PredChroma8" 0xf062ec6d82b6296e
+def «internal/dsp.var:PredLuma16» : Entry := fp! "internal/dsp.var:PredLuma16" 0x50b5242ae6f0b410
+def «internal/dsp.var:PredLuma4» : Entry := fp! "internal/dsp.var:PredLuma4" 0x23d0ae2f9123e1a6
+def «internal/dsp.var:SSE16x16» : Entry := fp! "internal/dsp.var:SSE16x16" 0xcb501c32a7781196
+def «internal/dsp.var:SSE4x4» : Entry := fp! "internal/dsp.var:SSE4x4" 0x0f51c3cbf5c8e7a6
+def «internal/dsp.var:SubtractGreenFunc» : Entry := fp! "internal/dsp.var:SubtractGreenFunc" 0xeb7b2571634fb985
+def «internal/dsp.var:Transform» : Entry := fp! "internal/dsp.var:Transform" 0x2b2192179c877545
+def «internal/dsp.var:TransformAC3» : Entry := fp! "internal/dsp.var:TransformAC3" 0x51f969b82894731d
+def «internal/dsp.var:TransformDC» : Entry := fp! "internal/dsp.var:TransformDC" 0x57602fe703f44b85
+def «internal/dsp.var:TransformDCUV» : Entry := fp! "internal/dsp.var:TransformDCUV" 0x783cf496b93cc2e9
+def «internal/dsp.var:TransformUV» : Entry := fp! "internal/dsp.var:TransformUV" 0xc48547dbaa8eb1bd
+def «internal/dsp.var:TransformWHT» : Entry := fp! "internal/dsp.var:TransformWHT" 0xb6372314e6278067
+def «internal/dsp.var:VP8LevelFixedCosts» : Entry := fp! "internal/dsp.var:VP8LevelFixedCosts" 0xab0d6f2b778fbaaa
+def «internal/dsp.var:abs0» : Entry := fp! "internal/dsp.var:abs0" 0xd66604c2bf37ac70
+def «internal/dsp.var:clip1» : Entry := fp! "internal/dsp.var:clip1" 0xb4a5805d4604866b
+def «internal/dsp.var:hasAVX2» : Entry := fp! "internal/dsp.var:hasAVX2" 0xe7601f2a7263d325
+def «internal/dsp.var:kRandomTable» : Entry := fp! "internal/dsp.var:kRandomTable" 0x3211a8ef34c6cab4
+def «internal/dsp.var:kWeightY» : Entry := fp! "internal/dsp.var:kWeightY" 0xee2eebb8b6fea0df
+def «internal/dsp.var:sclip1» : Entry := fp! "internal/dsp.var:sclip1" 0x086f8deb23844fc1
+def «internal/dsp.var:sclip2» : Entry := fp! "internal/dsp.var:sclip2" 0xeecde30768ccd13a
+def «internal/dsp.var:vp8LevelFixedCostsTable» : Entry := fp! "internal/dsp.var:vp8LevelFixedCostsTable" 0x98c6867af470bc46
+def «internal/dsp.var:vp8kClip» : Entry := fp! "internal/dsp.var:vp8kClip" 0xa9c043548d1ea263
+def «internal/dsp.var:vp8kClip4Bits» : Entry := fp! "internal/dsp.var:vp8kClip4Bits" 0xe8481119264feb35
+def «internal/dsp.ve16» : Entry := fp! "internal/dsp.ve16" 0x6ac0cb7a72deabb6
+def «internal/dsp.ve16NEON» : Entry := fp! "internal/dsp.ve16NEON" 0xecc22a0c959b8576
+def «internal/dsp.ve16SSE2» : Entry := fp! "internal/dsp.ve16SSE2" 0xd221a57f50b4281d
+def «internal/dsp.ve16asmNEON» : Entry := fp! "internal/dsp.ve16asmNEON" 0x8bd61bb6719a94bd
+def «internal/dsp.ve16asmSSE2» : Entry := fp! "internal/dsp.ve16asmSSE2" 0x109b83b1750678d1
+def «internal/dsp.ve4» : Entry := fp! "internal/dsp.ve4" 0x865849e4d5c17bd5
+def «internal/dsp.ve8uv» : Entry := fp! "internal/dsp.ve8uv" 0xbee1191884022146
+def «internal/dsp.ve8uvNEON» : Entry := fp! "internal/dsp.ve8uvNEON" 0x77a3ceb1e87dc7d7
+def «internal/dsp.ve8uvSSE2» : Entry := fp! "internal/dsp.ve8uvSSE2" 0xc709819e388023de
+def «internal/dsp.ve8uvasmNEON» : Entry := fp! "internal/dsp.ve8uvasmNEON" 0x011b8c1a8c3efc14
+def «internal/dsp.ve8uvasmSSE2» : Entry := fp! "internal/dsp.ve8uvasmSSE2" 0xb0842d12cd707106
+def «internal/dsp.vl4» : Entry := fp! "internal/dsp.vl4" 0x155dbc72e1f219ef
+def «internal/dsp.vr4» : Entry := fp! "internal/dsp.vr4" 0x10946fd14950043d
+def «internal/dsp.yuvPackedToNRGBABatchAVX2» : Entry := fp! "internal/dsp.yuvPackedToNRGBABatchAVX2" 0x5b058b79903046a1
+def «internal/dsp.yuvPackedToNRGBABatchSSE2» : Entry := fp! "internal/dsp.yuvPackedToNRGBABatchSSE2" 0xe7c021fe8a1f11f6
+def «internal/lossless.ApplyNearLossless» : Entry := fp! "internal/lossless.ApplyNearLossless" 0xf7afe806a2ac661c
+def «internal/lossless.ApplyPaletteTransform» : Entry := fp! "internal/lossless.ApplyPaletteTransform" 0xc7e27aa2d709c02e
+def «internal/lossless.BackwardReferences2DLocality» : Entry := fp! "internal/lossless.BackwardReferences2DLocality" 0xa250f28edc484b32
+def «internal/lossless.BackwardReferencesLz77» : Entry := fp! "internal/lossless.BackwardReferencesLz77" 0xa5fa063de2af0ea4
+def «internal/lossless.BackwardReferencesLz77Box» : Entry := fp! "internal/lossless.BackwardReferencesLz77Box" 0x91ca3eb9aad371d3
+def «internal/lossless.BackwardReferencesRle» : Entry := fp! "internal/lossless.BackwardReferencesRle" 0x2aee9b4c2fae4b1d
+def «internal/lossless.BackwardRefs.Add» : Entry := fp! "internal/lossless.BackwardRefs.Add" 0x5c64d92ab558f780
+def «internal/lossless.BackwardRefs.Len» : Entry := fp! "internal/lossless.BackwardRefs.Len" 0xcd0aa05c80b06a51
+def «internal/lossless.BackwardRefs.Refs» : Entry := fp! "internal/lossless.BackwardRefs.Refs" 0xc0ba16400fac07e0
+def «internal/lossless.BackwardRefs.Reset» : Entry := fp! "internal/lossless.BackwardRefs.Reset" 0x55a8f1c5bddc9a43
+def «internal/lossless.BackwardRefsWithLocalCache» : Entry := fp! "internal/lossless.BackwardRefsWithLocalCache" 0x950f58ccc2bd21f0
+def «internal/lossless.BuildCodeLengthTokens» : Entry := fp! "internal/lossless.BuildCodeLengthTokens" 0x02444363aec74b2c
+def «internal/lossless.BuildCodeLengthTokensScratch» : Entry := fp! "internal/lossless.BuildCodeLengthTokensScratch" 0x2472fd9408a4e98d
+def «internal/lossless.BuildHuffmanTableScratch» : Entry := fp! "internal/lossless.BuildHuffmanTableScratch" 0xeae64f6489ea4c1f
+def «internal/lossless.CachePixel» : Entry := fp! "internal/lossless.CachePixel" 0x2d449fdcc59689f3
+def «internal/lossless.CalculateBestCacheSize» : Entry := fp! "internal/lossless.CalculateBestCacheSize" 0x5028818c7ea2ec66
+def «internal/lossless.ColorCache.Contains» : Entry := fp! "internal/lossless.ColorCache.Contains" 0x1237de9d633fe048
+def «internal/lossless.ColorCache.HashPix» : Entry := fp! "internal/lossless.ColorCache.HashPix" 0xe1c3568b621396fa
+def «internal/lossless.ColorCache.Insert» : Entry := fp! "internal/lossless.ColorCache.Insert" 0xbae54310ed06fa49
+def «internal/lossless.ColorCache.Lookup» : Entry := fp! "internal/lossless.ColorCache.Lookup" 0xa60743a9aeb8d6cf
+def «internal/lossless.ColorCache.Reset» : Entry := fp! "internal/lossless.ColorCache.Reset" 0x37326803261a9758
+def «internal/lossless.ColorIndexBuild» : Entry := fp! "internal/lossless.ColorIndexBuild" 0x4d7993d5f16e6e83
+def «internal/lossless.ColorSpaceTransform» : Entry := fp! "internal/lossless.ColorSpaceTransform" 0xafd9d90b258e6b34
+def «internal/lossless.CopyPixel» : Entry := fp! "internal/lossless.CopyPixel" 0xfb200e55fd0013bf
+def «internal/lossless.CreateHuffmanTreeScratch» : Entry := fp! "internal/lossless.CreateHuffmanTreeScratch" 0x20585713546e1515
+def «internal/lossless.Decoder.applyInverseTransforms» : Entry := fp! "internal/lossless.Decoder.applyInverseTransforms" 0x3d47c423f2c66f0b
+def «internal/lossless.Decoder.decodeHeader» : Entry := fp! "internal/lossless.Decoder.decodeHeader" 0xf48ce041e0ec8c61
+def «internal/lossless.Decoder.decodeImageData» : Entry := fp! "internal/lossless.Decoder.decodeImageData" 0xface28a325742152
+def «internal/lossless.Decoder.decodeImageStream» : Entry := fp! "internal/lossless.Decoder.decodeImageStream" 0xa89562674f52d4c9
+def «internal/lossless.Decoder.decodeSubImage» : Entry := fp! "internal/lossless.Decoder.decodeSubImage" 0x8727b4c422d4cbc8
+def «internal/lossless.Decoder.getHTreeGroup» : Entry := fp! "internal/lossless.Decoder.getHTreeGroup" 0xd26ef5b07d2865d8
+def «internal/lossless.Decoder.getMetaIndex» : Entry := fp! "internal/lossless.Decoder.getMetaIndex" 0x2a2f9ed793bef621
+def «internal/lossless.Decoder.huffTableScratch» : Entry := fp! "internal/lossless.Decoder.huffTableScratch" 0xf06b55ca44fee099
+def «internal/lossless.Decoder.readHuffmanCode» : Entry := fp! "internal/lossless.Decoder.readHuffmanCode" 0x8f6b9bb571b5245d
+def «internal/lossless.Decoder.readHuffmanCodeLengths» : Entry := fp! "internal/lossless.Decoder.readHuffmanCodeLengths" 0x03a76dff6b6d47d4
+def «internal/lossless.Decoder.readHuffmanCodes» : Entry := fp! "internal/lossless.Decoder.readHuffmanCodes" 0x3635e6f7425b3c09
+def «internal/lossless.Decoder.readTransform» : Entry := fp! "internal/lossless.Decoder.readTransform" 0xa7604f17566de0d1
+def «internal/lossless.Decoder.updateDecoder» : Entry := fp! "internal/lossless.Decoder.updateDecoder" 0x46a52b79ce2c17b8
+def «internal/lossless.DefaultEncoderConfig» : Entry := fp! "internal/lossless.DefaultEncoderConfig" 0xbc0fdbec252f99bf
+def «internal/lossless.DistanceToPlaneCode» : Entry := fp! "internal/lossless.DistanceToPlaneCode" 0x7cbd05cd440a141d
+def «internal/lossless.Encoder.analyze» : Entry := fp! "internal/lossless.Encoder.analyze" 0x55adab9c673c3577
+def «internal/lossless.Encoder.applyPaletteTransform» : Entry := fp! "internal/lossless.Encoder.applyPaletteTransform" 0xa9496cb913a7244b
+def «internal/lossless.Encoder.applyTransforms» : Entry := fp! "internal/lossless.Encoder.applyTransforms" 0x3176f71390052bd5
+def «internal/lossless.Encoder.encodePalette» : Entry := fp! "internal/lossless.Encoder.encodePalette" 0x597a4fae4d3fb7c9
+def «internal/lossless.Encoder.encodeStream» : Entry := fp! "internal/lossless.Encoder.encodeStream" 0xe6d4c65aa60c28aa
+def «internal/lossless.Encoder.encodeSubImage» : Entry := fp! "internal/lossless.Encoder.encodeSubImage" 0xb5bfcbe0fb0b68ea
+def «internal/lossless.Encoder.storeImageData» : Entry := fp! "internal/lossless.Encoder.storeImageData" 0x8adbe784f4c4761c
+def «internal/lossless.Encoder.storeSubImageData» : Entry := fp! "internal/lossless.Encoder.storeSubImageData" 0xd8b82d725935bec2
+def «internal/lossless.Encoder.writeTransformData» : Entry := fp! "internal/lossless.Encoder.writeTransformData" 0xf746e59ed5fac3af
+def «internal/lossless.GetBackwardReferences» : Entry := fp! "internal/lossless.GetBackwardReferences" 0xec482a030d58b6ef
+def «internal/lossless.GetBackwardReferencesWithScratch» : Entry := fp! "internal/lossless.GetBackwardReferencesWithScratch" 0x1c6eac4bd29bacc4
+def «internal/lossless.GetHistoImageSymbols» : Entry := fp! "internal/lossless.GetHistoImageSymbols" 0xd86eb4566668ab72
+def «internal/lossless.GetWindowSizeForHashChain» : Entry := fp! "internal/lossless.GetWindowSizeForHashChain" 0x4f7f82b258661408
+def «internal/lossless.HashChain.Fill» : Entry := fp! "internal/lossless.HashChain.Fill" 0x31868e57d6b7da4b
+def «internal/lossless.HashChain.GetLength» : Entry := fp! "internal/lossless.HashChain.GetLength" 0xb6d4de3a655b953a
+def «internal/lossless.HashChain.GetOffset» : Entry := fp! "internal/lossless.HashChain.GetOffset" 0xffc81a06829e1e32
+def «internal/lossless.HashChain.fillParallel» : Entry := fp! "internal/lossless.HashChain.fillParallel" 0x7faa9efe4e666803
+def «internal/lossless.HashChain.fillSerial» : Entry := fp! "internal/lossless.HashChain.fillSerial" 0xdd3f8c0ca622e8a4
+def «internal/lossless.HistoSet.Get» : Entry := fp! "internal/lossless.HistoSet.Get" 0xf8bee4663f92aacd
+def «internal/lossless.HistoSet.Size» : Entry := fp! "internal/lossless.HistoSet.Size" 0x27370ebdb5bdd3cf
+def «internal/lossless.HistoSet.clearAll» : Entry := fp! "internal/lossless.HistoSet.clearAll" 0xb1e25516a20a93a9
+def «internal/lossless.HistoSet.remove» : Entry := fp! "internal/lossless.HistoSet.remove" 0xca9079f143d69116
+def «internal/lossless.Histogram.AddRefs» : Entry := fp! "internal/lossless.Histogram.AddRefs" 0xbaccd6418b141e59
+def «internal/lossless.Histogram.AddSingle» : Entry := fp! "internal/lossless.Histogram.AddSingle" 0xeb370978a9ce537f
+def «internal/lossless.Histogram.Clear» : Entry := fp! "internal/lossless.Histogram.Clear" 0x712a0fd88ec2d1fe
+def «internal/lossless.Histogram.computeHistogramCost» : Entry := fp! "internal/lossless.Histogram.computeHistogramCost" 0xe69dea88b363a008
+def «internal/lossless.Histogram.copyFrom» : Entry := fp! "internal/lossless.Histogram.copyFrom" 0x3b77a719785d9abc
+def «internal/lossless.Histogram.population» : Entry := fp! "internal/lossless.Histogram.population" 0x465e153a4a69d1fa
+def «internal/lossless.Histogram.resetStats» : Entry := fp! "internal/lossless.Histogram.resetStats" 0x9045c9dc8f5f9378
+def «internal/lossless.HuffmanScratch.AllocTree» : Entry := fp! "internal/lossless.HuffmanScratch.AllocTree" 0x11fc7187e8bd268d
+def «internal/lossless.HuffmanScratch.ResetTreePool» : Entry := fp! "internal/lossless.HuffmanScratch.ResetTreePool" 0xd75e4e0020b6ef35
+def «internal/lossless.LiteralPixel» : Entry := fp! "internal/lossless.LiteralPixel" 0x99850c594cc34de1
+def «internal/lossless.NearLosslessBits» : Entry := fp! "internal/lossless.NearLosslessBits" 0xd203a9d182af1f54
+def «internal/lossless.NewBackwardRefs» : Entry := fp! "internal/lossless.NewBackwardRefs" 0xf88966b8653466df
+def «internal/lossless.NewColorCache» : Entry := fp! "internal/lossless.NewColorCache" 0x147e74f0fc609cca
+def «internal/lossless.NewHashChain» : Entry := fp! "internal/lossless.NewHashChain" 0x3e8fa35f52b5ac64
+def «internal/lossless.NewHistogram» : Entry := fp! "internal/lossless.NewHistogram" 0x294b27acd61f7987
+def «internal/lossless.PixOrCopy.Argb» : Entry := fp! "internal/lossless.PixOrCopy.Argb" 0x6574422231d88d29
+def «internal/lossless.PixOrCopy.CacheIndex» : Entry := fp! "internal/lossless.PixOrCopy.CacheIndex" 0x48103543f868a0e5
+def «internal/lossless.PixOrCopy.Distance» : Entry := fp! "internal/lossless.PixOrCopy.Distance" 0xd64f6212de605ed8
+def «internal/lossless.PixOrCopy.IsCacheIdx» : Entry := fp! "internal/lossless.PixOrCopy.IsCacheIdx" 0x72538d6347b03220
+def «internal/lossless.PixOrCopy.IsCopy» : Entry := fp! "internal/lossless.PixOrCopy.IsCopy" 0x57266f37d2e2c1e2
+def «internal/lossless.PixOrCopy.IsLiteral» : Entry := fp! "internal/lossless.PixOrCopy.IsLiteral" 0xc7f85e424bf44448
+def «internal/lossless.PixOrCopy.Length» : Entry := fp! "internal/lossless.PixOrCopy.Length" 0x03c79b72487115e0
+def «internal/lossless.PlaneCodeToDistance» : Entry := fp! "internal/lossless.PlaneCodeToDistance" 0xe80d0822bde0c387
+def «internal/lossless.PopulationCost» : Entry := fp! "internal/lossless.PopulationCost" 0xe613c93635a227c7
+def «internal/lossless.PrefixEncodeBitsNoLUT» : Entry := fp! "internal/lossless.PrefixEncodeBitsNoLUT" 0x0af82b408d6ee608
+def «internal/lossless.PrefixEncodeNoLUT» : Entry := fp! "internal/lossless.PrefixEncodeNoLUT" 0x689d81e057d3da19
+def «internal/lossless.ReadSymbol» : Entry := fp! "internal/lossless.ReadSymbol" 0x69e32bfcf8c46287
+def «internal/lossless.ResidualImage» : Entry := fp! "internal/lossless.ResidualImage" 0x61fc2ce633a8ff06
+def «internal/lossless.ReuseColorCache» : Entry := fp! "internal/lossless.ReuseColorCache" 0xe6c53d899ae5bb95
+def «internal/lossless.StoreHuffmanCodeScratch» : Entry := fp! "internal/lossless.StoreHuffmanCodeScratch" 0x8c95dfd72b2f0573
+def «internal/lossless.StoreHuffmanTreeOfHuffmanTreeToBitMask» : Entry := fp! "internal/lossless.StoreHuffmanTreeOfHuffmanTreeToBitMask" 0x2995672801320f58
+def «internal/lossless.StoreHuffmanTreeToBitMask» : Entry := fp! "internal/lossless.StoreHuffmanTreeToBitMask" 0xbb2846bdac905493
+def «internal/lossless.SubtractGreen» : Entry := fp! "internal/lossless.SubtractGreen" 0xb1e25eaccf6437c4
+def «internal/lossless.VP8LSubSampleSize» : Entry := fp! "internal/lossless.VP8LSubSampleSize" 0x7be6781b6b955825
+def «internal/lossless.accumulateHCode» : Entry := fp! "internal/lossless.accumulateHCode" 0xf44f68e817f52029
+def «internal/lossless.acquireDecoder» : Entry := fp! "internal/lossless.acquireDecoder" 0x73efacba07a27fb1
+def «internal/lossless.acquireEncoder» : Entry := fp! "internal/lossless.acquireEncoder" 0x731378e2e5d97c30
+def «internal/lossless.addGreenToBlueAndRed» : Entry := fp! "internal/lossless.addGreenToBlueAndRed" 0x6361e5bd3a956f60
+def «internal/lossless.addPixels» : Entry := fp! "internal/lossless.addPixels" 0x704384510638a805
+def «internal/lossless.addSingleLiteralWithCostModel» : Entry := fp! "internal/lossless.addSingleLiteralWithCostModel" 0x8ac23847653ddefe
+def «internal/lossless.allocateHistoSetReuse» : Entry := fp! "internal/lossless.allocateHistoSetReuse" 0x64df1fc865a96456
+def «internal/lossless.applyColorTransformPixel» : Entry := fp! "internal/lossless.applyColorTransformPixel" 0x151aa0caa0e8742c
+def «internal/lossless.applyColorTransformTile» : Entry := fp! "internal/lossless.applyColorTransformTile" 0x183b5611471383a8
+def «internal/lossless.argbHasAlpha» : Entry := fp! "internal/lossless.argbHasAlpha" 0xab7003d387ee9714
+def «internal/lossless.argbSliceToBytes» : Entry := fp! "internal/lossless.argbSliceToBytes" 0x36df35b96ffe1f09
+def «internal/lossless.argbToNRGBA» : Entry := fp! "internal/lossless.argbToNRGBA" 0x83b414181bfe68b3
+def «internal/lossless.argbToNRGBARows» : Entry := fp! "internal/lossless.argbToNRGBARows" 0xf8fd6c00764f6b0a
+def «internal/lossless.assignCodeLengths» : Entry := fp! "internal/lossless.assignCodeLengths" 0x0a81056553a620be
+def «internal/lossless.average2» : Entry := fp! "internal/lossless.average2" 0xcea11dfd93a59559
+def «internal/lossless.avg2» : Entry := fp! "internal/lossless.avg2" 0x446cbbd3b8ab6066
+def «internal/lossless.backwardReferencesHashChainDistanceOnly» : Entry := fp! "internal/lossless.backwardReferencesHashChainDistanceOnly" 0x4fe5a6c3a36403a3
+def «internal/lossless.backwardReferencesHashChainFollowChosenPath» : Entry := fp! "internal/lossless.backwardReferencesHashChainFollowChosenPath" 0x19615c75352c6dc5
+def «internal/lossless.backwardReferencesTraceBackwardsWithDist» : Entry := fp! "internal/lossless.backwardReferencesTraceBackwardsWithDist" 0xff80b4a313165089
+def «internal/lossless.bitsEntropyRefine» : Entry := fp! "internal/lossless.bitsEntropyRefine" 0xe49fbdf1ab8ee271
+def «internal/lossless.bitsLog2Floor» : Entry := fp! "internal/lossless.bitsLog2Floor" 0xbe26fa8e08be8a28
+def «internal/lossless.buildHuffmanTableSize» : Entry := fp! "internal/lossless.buildHuffmanTableSize" 0x053b6fa796c93b64
+def «internal/lossless.buildPackedTable» : Entry := fp! "internal/lossless.buildPackedTable" 0xa1e27ca6a7bffe08
+def «internal/lossless.buildTreeAndExtractLengths» : Entry := fp! "internal/lossless.buildTreeAndExtractLengths" 0x82bb7e5ed05b94f4
+def «internal/lossless.bytesToARGBSlice» : Entry := fp! "internal/lossless.bytesToARGBSlice" 0x8748b22b23a51d17
+def «internal/lossless.cacheBitsForEncoder» : Entry := fp! "internal/lossless.cacheBitsForEncoder" 0x40dc597a94197606
+def «internal/lossless.clampAddSubFull» : Entry := fp! "internal/lossless.clampAddSubFull" 0xa50ee7c1bbc5c807
+def «internal/lossless.clampAddSubHalf» : Entry := fp! "internal/lossless.clampAddSubHalf" 0x3556d71e189fa4ca
+def «internal/lossless.clampBits» : Entry := fp! "internal/lossless.clampBits" 0x4a8843e49bde25c0
+def «internal/lossless.clampByte» : Entry := fp! "internal/lossless.clampByte" 0x7fb89861620bbad2
+def «internal/lossless.clampedAddSubtractFull» : Entry := fp! "internal/lossless.clampedAddSubtractFull" 0xd4a39602197f4994
+def «internal/lossless.clampedAddSubtractHalf» : Entry := fp! "internal/lossless.clampedAddSubtractHalf" 0xdd4ffad4c57cc9b3
+def «internal/lossless.clearHuffmanTreeIfOnlyOneSymbol» : Entry := fp! "internal/lossless.clearHuffmanTreeIfOnlyOneSymbol" 0x91ad8901948000f8
+def «internal/lossless.closestDiscretizedArgb» : Entry := fp! "internal/lossless.closestDiscretizedArgb" 0x5d4a2f7c452b3df4
+def «internal/lossless.codeRepeatedValues» : Entry := fp! "internal/lossless.codeRepeatedValues" 0x1b557168320610a7
+def «internal/lossless.codeRepeatedZeros» : Entry := fp! "internal/lossless.codeRepeatedZeros" 0x55981a7cb94cccaf
+def «internal/lossless.colorIndexInverseTransform» : Entry := fp! "internal/lossless.colorIndexInverseTransform" 0x44fadfc26c8ffbdc
+def «internal/lossless.colorSpaceInverseTransform» : Entry := fp! "internal/lossless.colorSpaceInverseTransform" 0xa54855962ec555e3
+def «internal/lossless.colorSpaceInverseTransformParallel» : Entry := fp! "internal/lossless.colorSpaceInverseTransformParallel" 0xc8613aa706e393bc
+def «internal/lossless.const:ARGBBlack» : Entry := fp! "internal/lossless.const:ARGBBlack" 0x98c7794c2a811a27
+def «internal/lossless.const:CodeLengthCodes» : Entry := fp! "internal/lossless.const:CodeLengthCodes" 0xf8d9f7baec374401
+def «internal/lossless.const:CodeLengthLiterals» : Entry := fp! "internal/lossless.const:CodeLengthLiterals" 0xf32fc441646dff7b
+def «internal/lossless.const:CodeLengthRepeatCode» : Entry := fp! "internal/lossless.const:CodeLengthRepeatCode" 0x4efbc1af0fc9675e
+def «internal/lossless.const:CodeToPlaneCodesCount» : Entry := fp! "internal/lossless.const:CodeToPlaneCodesCount" 0x7a3c91380896a71c
+def «internal/lossless.const:ColorIndexingTransform» : Entry := fp! "internal/lossless.const:ColorIndexingTransform" 0x6106b59fe2b096b8
+def «internal/lossless.const:CrossColorTransform» : Entry := fp! "internal/lossless.const:CrossColorTransform" 0x68b728cd5fe54f11
+def «internal/lossless.const:DefaultCodeLength» : Entry := fp! "internal/lossless.const:DefaultCodeLength" 0x3aa4f0e42e81a71a
+def «internal/lossless.const:HuffAlpha» : Entry := fp! "internal/lossless.const:HuffAlpha" 0x8dbf2ecc611511a6
+def «internal/lossless.const:HuffBlue» : Entry := fp! "internal/lossless.const:HuffBlue" 0xb5baeffee172cd05
+def «internal/lossless.const:HuffDist» : Entry := fp! "internal/lossless.const:HuffDist" 0xbd0d1e946dde1bca
+def «internal/lossless.const:HuffGreen» : Entry := fp! "internal/lossless.const:HuffGreen" 0x147f8905d100e498
+def «internal/lossless.const:HuffRed» : Entry := fp! "internal/lossless.const:HuffRed" 0x5d905852275f0457
+def «internal/lossless.const:HuffmanCodesPerMetaCode» : Entry := fp! "internal/lossless.const:HuffmanCodesPerMetaCode" 0xf659d937a1add352
+def «internal/lossless.const:HuffmanPackedBits» : Entry := fp! "internal/lossless.const:HuffmanPackedBits" 0xc107326ef1443990
+def «internal/lossless.const:HuffmanPackedTableSize» : Entry := fp! "internal/lossless.const:HuffmanPackedTableSize" 0xd864364fc1e267a1
+def «internal/lossless.const:HuffmanTableBits» : Entry := fp! "internal/lossless.const:HuffmanTableBits" 0x3472a229eeefedce
+def «internal/lossless.const:HuffmanTableMask» : Entry := fp! "internal/lossless.const:HuffmanTableMask" 0xc51207ff4f48b4b1
+def «internal/lossless.const:LengthsTableBits» : Entry := fp! "internal/lossless.const:LengthsTableBits" 0xe14a99a473aff095
+def «internal/lossless.const:LengthsTableMask» : Entry := fp! "internal/lossless.const:LengthsTableMask" 0x6370ae368d8614a9
+def «internal/lossless.const:MaxAllowedCodeLength» : Entry := fp! "internal/lossless.const:MaxAllowedCodeLength" 0xf7a226591e17ae19
+def «internal/lossless.const:MaxCacheBits» : Entry := fp! "internal/lossless.const:MaxCacheBits" 0x916c545bd031db1b
+def «internal/lossless.const:MaxPaletteSize» : Entry := fp! "internal/lossless.const:MaxPaletteSize" 0x2958b084ab2b7f70
+def «internal/lossless.const:MinHuffmanBits» : Entry := fp! "internal/lossless.const:MinHuffmanBits" 0xb2d9f3203a98b8f0
+def «internal/lossless.const:MinTransformBits» : Entry := fp! "internal/lossless.const:MinTransformBits" 0x2d01193a02e6b69d
+def «internal/lossless.const:NumDistanceCodes» : Entry := fp! "internal/lossless.const:NumDistanceCodes" 0x74ce481f9d271b9e
+def «internal/lossless.const:NumHuffmanBits» : Entry := fp! "internal/lossless.const:NumHuffmanBits" 0xc718f27ced3340e1
+def «internal/lossless.const:NumLengthCodes» : Entry := fp! "internal/lossless.const:NumLengthCodes" 0x65b052b0350d0333
+def «internal/lossless.const:NumLiteralCodes» : Entry := fp! "internal/lossless.const:NumLiteralCodes" 0x0f8596783eb3b736
+def «internal/lossless.const:NumTransformBits» : Entry := fp! "internal/lossless.const:NumTransformBits" 0xad9a1c8acfff7154
+def «internal/lossless.const:PredictorTransform» : Entry := fp! "internal/lossless.const:PredictorTransform" 0xf7eee30c23c74d3f
+def «internal/lossless.const:SubtractGreenTransform» : Entry := fp! "internal/lossless.const:SubtractGreenTransform" 0x481d625f3c7ec70a
+def «internal/lossless.const:TransformPresent» : Entry := fp! "internal/lossless.const:TransformPresent" 0xaa31773becf0b239
+def «internal/lossless.const:VP8LHeaderSize» : Entry := fp! "internal/lossless.const:VP8LHeaderSize" 0x1560a49923ff5e42
+def «internal/lossless.const:VP8LImageSizeBits» : Entry := fp! "internal/lossless.const:VP8LImageSizeBits" 0x3d362203dd9788c6
+def «internal/lossless.const:VP8LMagicByte» : Entry := fp! "internal/lossless.const:VP8LMagicByte" 0x7f5e064b72e42f72
+def «internal/lossless.const:VP8LVersion» : Entry := fp! "internal/lossless.const:VP8LVersion" 0xc01fdba6fba70be6
+def «internal/lossless.const:VP8LVersionBits» : Entry := fp! "internal/lossless.const:VP8LVersionBits" 0x3ecc51e102c54513
+def «internal/lossless.const:binSize» : Entry := fp! "internal/lossless.const:binSize" 0xa932669c547efdf4
+def «internal/lossless.const:bitsSpecialMarker» : Entry := fp! "internal/lossless.const:bitsSpecialMarker" 0xec631d44ab78f98c
+def «internal/lossless.const:costCacheIntervalSizeMax» : Entry := fp! "internal/lossless.const:costCacheIntervalSizeMax" 0x58a52e31836e7f25
+def «internal/lossless.const:fastSLog2LUTSize» : Entry := fp! "internal/lossless.const:fastSLog2LUTSize" 0xcdf9c4e6ae7b7013
+def «internal/lossless.const:hashBits» : Entry := fp! "internal/lossless.const:hashBits" 0xd871307357420348
+def «internal/lossless.const:hashSize» : Entry := fp! "internal/lossless.const:hashSize" 0xee90ee948bae556f
+def «internal/lossless.const:histAlpha» : Entry := fp! "internal/lossless.const:histAlpha" 0xe1aa5734b7424793
+def «internal/lossless.const:histBlue» : Entry := fp! "internal/lossless.const:histBlue" 0x76cd1277052f87d3
+def «internal/lossless.const:histDistance» : Entry := fp! "internal/lossless.const:histDistance" 0xe689b7c811c73093
+def «internal/lossless.const:histLiteral» : Entry := fp! "internal/lossless.const:histLiteral" 0x9d354677498170c6
+def «internal/lossless.const:histRed» : Entry := fp! "internal/lossless.const:histRed" 0x61b352a624ba29ca
+def «internal/lossless.const:kHashMul» : Entry := fp! "internal/lossless.const:kHashMul" 0xa7f91311ecf0da1f
+def «internal/lossless.const:kHashMultiplierHi» : Entry := fp! "internal/lossless.const:kHashMultiplierHi" 0xc35d3137039f7e00
+def «internal/lossless.const:kHashMultiplierLo» : Entry := fp! "internal/lossless.const:kHashMultiplierLo" 0x18b0ed982ca5c022
+def «internal/lossless.const:kLZ77Box» : Entry := fp! "internal/lossless.const:kLZ77Box" 0xfba7363454b3a0ed
+def «internal/lossless.const:kLZ77RLE» : Entry := fp! "internal/lossless.const:kLZ77RLE" 0x269cd6b6ea51cd82
+def «internal/lossless.const:kLZ77Standard» : Entry := fp! "internal/lossless.const:kLZ77Standard" 0xb2da7316e286e7ce
+def «internal/lossless.const:maxColorCacheBitsEnc» : Entry := fp! "internal/lossless.const:maxColorCacheBitsEnc" 0xe79723f496cc2477
+def «internal/lossless.const:maxHistoGreedy» : Entry := fp! "internal/lossless.const:maxHistoGreedy" 0x20ea9668b29088ac
+def «internal/lossless.const:maxHuffImageSize» : Entry := fp! "internal/lossless.const:maxHuffImageSize" 0x1351d4975ccab57c
+def «internal/lossless.const:maxHuffmanBits» : Entry := fp! "internal/lossless.const:maxHuffmanBits" 0xd16200f93e022958
+def «internal/lossless.const:maxLength» : Entry := fp! "internal/lossless.const:maxLength" 0x249a8ca1f7c4f5e5
+def «internal/lossless.const:maxLengthBits» : Entry := fp! "internal/lossless.const:maxLengthBits" 0x1aed5eb450dfe8e0
+def «internal/lossless.const:maxLimitBits» : Entry := fp! "internal/lossless.const:maxLimitBits" 0xd868d9b6c1b0a7cc
+def «internal/lossless.const:minDimForNearLossless» : Entry := fp! "internal/lossless.const:minDimForNearLossless" 0x234024bc825e607c
+def «internal/lossless.const:minLength» : Entry := fp! "internal/lossless.const:minLength" 0x693e79018c3b1fe1
+def «internal/lossless.const:minPixelsForParallel» : Entry := fp! "internal/lossless.const:minPixelsForParallel" 0x4b47c7a65e775a6b
+def «internal/lossless.const:modeCacheIdx» : Entry := fp! "internal/lossless.const:modeCacheIdx" 0xcd93cbe8bac1d54e
+def «internal/lossless.const:modeCopy» : Entry := fp! "internal/lossless.const:modeCopy" 0xf346f893b1107103
+def «internal/lossless.const:modeLiteral» : Entry := fp! "internal/lossless.const:modeLiteral" 0x094d9e819cd23a80
+def «internal/lossless.const:nonTrivialSym» : Entry := fp! "internal/lossless.const:nonTrivialSym" 0x02fe81bbf1de8e43
+def «internal/lossless.const:numArgbCacheRows» : Entry := fp! "internal/lossless.const:numArgbCacheRows" 0x650546dc6e4b56e0
+def «internal/lossless.const:numPartitions» : Entry := fp! "internal/lossless.const:numPartitions" 0x74b28d2f434d3d88
+def «internal/lossless.const:numPredictors» : Entry := fp! "internal/lossless.const:numPredictors" 0x200d982d16f9f2ea
+def «internal/lossless.const:windowOffsetsMaxSize» : Entry := fp! "internal/lossless.const:windowOffsetsMaxSize" 0xd4459a7df84ccd72
+def «internal/lossless.const:windowSize» : Entry := fp! "internal/lossless.const:windowSize" 0x496ac61388662e21
+def «internal/lossless.const:windowSizeBits» : Entry := fp! "internal/lossless.const:windowSizeBits" 0x5513b99a23941485
+def «internal/lossless.convertPopulationCountToBitEstimates» : Entry := fp! "internal/lossless.convertPopulationCountToBitEstimates" 0x94cb6820a196199d
+def «internal/lossless.copyBlock32» : Entry := fp! "internal/lossless.copyBlock32" 0xf03c489b21d96299
+def «internal/lossless.copyImageWithPrediction» : Entry := fp! "internal/lossless.copyImageWithPrediction" 0x15470999fec8cb33
+def «internal/lossless.costManager.allocInterval» : Entry := fp! "internal/lossless.costManager.allocInterval" 0x35a2c80eaac8a96c
+def «internal/lossless.costManager.connectIntervals» : Entry := fp! "internal/lossless.costManager.connectIntervals" 0x968d4eb490df0ba7
+def «internal/lossless.costManager.freeInterval» : Entry := fp! "internal/lossless.costManager.freeInterval" 0x95270b7d776fc1c6
+def «internal/lossless.costManager.insertInterval» : Entry := fp! "internal/lossless.costManager.insertInterval" 0xe4bc5e759367bbfd
+def «internal/lossless.costManager.popInterval» : Entry := fp! "internal/lossless.costManager.popInterval" 0x9c1ce92e0986b8c1
+def «internal/lossless.costManager.positionOrphanInterval» : Entry := fp! "internal/lossless.costManager.positionOrphanInterval" 0x65c96c64acfd55d3
+def «internal/lossless.costManager.pushInterval» : Entry := fp! "internal/lossless.costManager.pushInterval" 0x97fd4d95625d837d
+def «internal/lossless.costManager.updateCost» : Entry := fp! "internal/lossless.costManager.updateCost" 0x602dee43dcf5b07c
+def «internal/lossless.costManager.updateCostAtIndex» : Entry := fp! "internal/lossless.costManager.updateCostAtIndex" 0xf94fb6871767721e
+def «internal/lossless.costManager.updateCostPerInterval» : Entry := fp! "internal/lossless.costManager.updateCostPerInterval" 0x3f14c1ebee94445e
+def «internal/lossless.costModelTrace.build» : Entry := fp! "internal/lossless.costModelTrace.build" 0x2ceb76cc9a240242
+def «internal/lossless.costModelTrace.getCacheCost» : Entry := fp! "internal/lossless.costModelTrace.getCacheCost" 0x039fe4ce002aa824
+def «internal/lossless.costModelTrace.getDistanceCost» : Entry := fp! "internal/lossless.costModelTrace.getDistanceCost" 0x3fcde0c4c23b81cd
+def «internal/lossless.costModelTrace.getLengthCost» : Entry := fp! "internal/lossless.costModelTrace.getLengthCost" 0x1cc45faa3d57c194
+def «internal/lossless.costModelTrace.getLiteralCost» : Entry := fp! "internal/lossless.costModelTrace.getLiteralCost" 0x3921b7565e78197e
+def «internal/lossless.dominantCostRange.update» : Entry := fp! "internal/lossless.dominantCostRange.update" 0x0eb32cd51f02be6e
+def «internal/lossless.encColorTransformDelta» : Entry := fp! "internal/lossless.encColorTransformDelta" 0xcfb6326e973d4aa6
+def «internal/lossless.estimateEntropy» : Entry := fp! "internal/lossless.estimateEntropy" 0x7a53d593a421565a
+def «internal/lossless.expandColorMap» : Entry := fp! "internal/lossless.expandColorMap" 0x575a8cf50e270740
+def «internal/lossless.extraCost» : Entry := fp! "internal/lossless.extraCost" 0x894326b4891a5159
+def «internal/lossless.extractClusterCenters» : Entry := fp! "internal/lossless.extractClusterCenters" 0xdb41a9414919fda0
+def «internal/lossless.fastSLog2» : Entry := fp! "internal/lossless.fastSLog2" 0xa7b87014d39261cb
+def «internal/lossless.fillMatchRange» : Entry := fp! "internal/lossless.fillMatchRange" 0x980166b6afac43e5
+def «internal/lossless.finalHuffmanCost» : Entry := fp! "internal/lossless.finalHuffmanCost" 0x8fe0d988caeb8138
+def «internal/lossless.findBestMultiplier» : Entry := fp! "internal/lossless.findBestMultiplier" 0x136fd7681750614c
+def «internal/lossless.findBestMultipliers» : Entry := fp! "internal/lossless.findBestMultipliers" 0xbfb0d6bef532050a
+def «internal/lossless.findClosestDiscretized» : Entry := fp! "internal/lossless.findClosestDiscretized" 0x17d833cc2b834296
+def «internal/lossless.findMatchLength» : Entry := fp! "internal/lossless.findMatchLength" 0x324d82651300819b
+def «internal/lossless.fixPair» : Entry := fp! "internal/lossless.fixPair" 0x649b581c8a606309
+def «internal/lossless.generateCanonicalCodes» : Entry := fp! "internal/lossless.generateCanonicalCodes" 0x17df4405d68ae7b3
+def «internal/lossless.getARGBIndex» : Entry := fp! "internal/lossless.getARGBIndex" 0x6f127e20cbc8b78e
+def «internal/lossless.getBinIDForEntropy» : Entry := fp! "internal/lossless.getBinIDForEntropy" 0x0027a1bab3354012
+def «internal/lossless.getCombineCostFactor» : Entry := fp! "internal/lossless.getCombineCostFactor" 0xc83404f1033f80d7
+def «internal/lossless.getCombinedEntropy» : Entry := fp! "internal/lossless.getCombinedEntropy" 0x79fe47ee8e100335
+def «internal/lossless.getCombinedEntropyUnrefined» : Entry := fp! "internal/lossless.getCombinedEntropyUnrefined" 0xf8c227aba5ab8333
+def «internal/lossless.getCombinedHistogramEntropy» : Entry := fp! "internal/lossless.getCombinedHistogramEntropy" 0x82d4bc0c95c71466
+def «internal/lossless.getEntropyUnrefined» : Entry := fp! "internal/lossless.getEntropyUnrefined" 0xa46f620a88e8070f
+def «internal/lossless.getEntropyUnrefinedHelper» : Entry := fp! "internal/lossless.getEntropyUnrefinedHelper" 0x9e08d2fc4be0f6af
+def «internal/lossless.getHistoBinIndex» : Entry := fp! "internal/lossless.getHistoBinIndex" 0xea94d69092ffd20d
+def «internal/lossless.getHistoBits» : Entry := fp! "internal/lossless.getHistoBits" 0x9337d5a01ed28c4c
+def «internal/lossless.getMaxItersForQuality» : Entry := fp! "internal/lossless.getMaxItersForQuality" 0xf676d87a4768bf2b
+def «internal/lossless.getNextKey» : Entry := fp! "internal/lossless.getNextKey" 0xba42335c27534752
+def «internal/lossless.getPixPairHash64» : Entry := fp! "internal/lossless.getPixPairHash64" 0xf2333259dd955c29
+def «internal/lossless.getPixPairHash64Values» : Entry := fp! "internal/lossless.getPixPairHash64Values" 0x5617408f4053b6b1
+def «internal/lossless.getTransformBits» : Entry := fp! "internal/lossless.getTransformBits" 0xd8dd792162547644
+def «internal/lossless.histoQueue.popAt» : Entry := fp! "internal/lossless.histoQueue.popAt" 0x9853e8f107db299e
+def «internal/lossless.histoQueue.push» : Entry := fp! "internal/lossless.histoQueue.push" 0xd923f022d4c217fd
+def «internal/lossless.histoQueue.size» : Entry := fp! "internal/lossless.histoQueue.size" 0x5c527eb821302ff5
+def «internal/lossless.histoQueue.updateHead» : Entry := fp! "internal/lossless.histoQueue.updateHead" 0x239c88542ed45591
+def «internal/lossless.histogramAdd» : Entry := fp! "internal/lossless.histogramAdd" 0x5eef64c69582a5c0
+def «internal/lossless.histogramAddEvalThresh» : Entry := fp! "internal/lossless.histogramAddEvalThresh" 0xcc2a4347f19e770b
+def «internal/lossless.histogramAddThresh» : Entry := fp! "internal/lossless.histogramAddThresh" 0xbe810bbd1b901b3e
+def «internal/lossless.histogramBuild» : Entry := fp! "internal/lossless.histogramBuild" 0x72aae853e05f424f
+def «internal/lossless.histogramCombineEntropyBin» : Entry := fp! "internal/lossless.histogramCombineEntropyBin" 0x264ebfc2d8159aec
+def «internal/lossless.histogramCombineGreedy» : Entry := fp! "internal/lossless.histogramCombineGreedy" 0x73e984e3ef951cbd
+def «internal/lossless.histogramCombineStochastic» : Entry := fp! "internal/lossless.histogramCombineStochastic" 0x92242ba403bf0f68
+def «internal/lossless.histogramEstimateBitsFromRefsScratch» : Entry := fp! "internal/lossless.histogramEstimateBitsFromRefsScratch" 0x3ecf18236a26213b
+def «internal/lossless.histogramEstimateBitsUint64» : Entry := fp! "internal/lossless.histogramEstimateBitsUint64" 0x4a0cbffe9e166c7c
+def «internal/lossless.histogramNumCodes» : Entry := fp! "internal/lossless.histogramNumCodes" 0xb9039fb67a96a96b
+def «internal/lossless.histogramRemap» : Entry := fp! "internal/lossless.histogramRemap" 0x864f3b324bdf4c37
+def «internal/lossless.initialHuffmanCost» : Entry := fp! "internal/lossless.initialHuffmanCost" 0xab053e18cbc09764
+def «internal/lossless.inverseTransform» : Entry := fp! "internal/lossless.inverseTransform" 0xf8d7cd3656e7c5a1
+def «internal/lossless.isNear» : Entry := fp! "internal/lossless.isNear" 0x67d2bbb365675522
+def «internal/lossless.isSmooth» : Entry := fp! "internal/lossless.isSmooth" 0x52ba8bcb9f95125e
+def «internal/lossless.lehmerRand» : Entry := fp! "internal/lossless.lehmerRand" 0x5bbf6183fab4334e
+def «internal/lossless.maxFindCopyLength» : Entry := fp! "internal/lossless.maxFindCopyLength" 0x9a1222ecf392437b
+def «internal/lossless.multiplierCost» : Entry := fp! "internal/lossless.multiplierCost" 0x816943bd0303281e
+def «internal/lossless.nearLosslessPass» : Entry := fp! "internal/lossless.nearLosslessPass" 0x0187c3a7fdc00265
+def «internal/lossless.newCostManager» : Entry := fp! "internal/lossless.newCostManager" 0x8bd12dc544d6ec27
+def «internal/lossless.newCostModelTrace» : Entry := fp! "internal/lossless.newCostModelTrace" 0xc0d0e667db38fa8e
+def «internal/lossless.newDominantCostRange» : Entry := fp! "internal/lossless.newDominantCostRange" 0x2d99cd0760664554
+def «internal/lossless.nextTableBitSize» : Entry := fp! "internal/lossless.nextTableBitSize" 0xe6faae51b535735f
+def «internal/lossless.nodeHeap.Len» : Entry := fp! "internal/lossless.nodeHeap.Len" 0x251b150e4e4803f1
+def «internal/lossless.nodeHeap.heapInit» : Entry := fp! "internal/lossless.nodeHeap.heapInit" 0x45e8ee267c8ed277
+def «internal/lossless.nodeHeap.less» : Entry := fp! "internal/lossless.nodeHeap.less" 0x459fc42701158f08
+def «internal/lossless.nodeHeap.pop» : Entry := fp! "internal/lossless.nodeHeap.pop" 0xabd0461694f322be
+def «internal/lossless.nodeHeap.push» : Entry := fp! "internal/lossless.nodeHeap.push" 0xbd84409dc09956a1
+def «internal/lossless.nodeHeap.siftDown» : Entry := fp! "internal/lossless.nodeHeap.siftDown" 0x2b721ec871bb8074
+def «internal/lossless.nodeHeap.swap» : Entry := fp! "internal/lossless.nodeHeap.swap" 0x308f4c5d3d6cf6a3
+def «internal/lossless.optimizeSampling» : Entry := fp! "internal/lossless.optimizeSampling" 0xc3a0d8d905430fc8
+def «internal/lossless.packMultipliers» : Entry := fp! "internal/lossless.packMultipliers" 0x1b2251c455d9fd02
+def «internal/lossless.paletteCodeBits» : Entry := fp! "internal/lossless.paletteCodeBits" 0xca5341b0d315af09
+def «internal/lossless.parallelComputeHistogramCost» : Entry := fp! "internal/lossless.parallelComputeHistogramCost" 0x8dfdc93d537930ee
+def «internal/lossless.populationCost» : Entry := fp! "internal/lossless.populationCost" 0x440221d7461862c2
+def «internal/lossless.predictPixel» : Entry := fp! "internal/lossless.predictPixel" 0x41ab5a5cbec14002
+def «internal/lossless.predictorInverseTransform» : Entry := fp! "internal/lossless.predictorInverseTransform" 0xc6ecaa9431b511d5
+def «internal/lossless.readPackedSymbols» : Entry := fp! "internal/lossless.readPackedSymbols" 0xcada2b847a2db7db
+def «internal/lossless.releaseDecoder» : Entry := fp! "internal/lossless.releaseDecoder" 0x2a43743b8597d39e
+def «internal/lossless.releaseEncoder» : Entry := fp! "internal/lossless.releaseEncoder" 0x5d3cc46cbe294693
+def «internal/lossless.removeUnusedHistograms» : Entry := fp! "internal/lossless.removeUnusedHistograms" 0xfb81932011c19abc
+def «internal/lossless.replicateValue» : Entry := fp! "internal/lossless.replicateValue" 0x28110c4d4970dfaf
+def «internal/lossless.reverseBits» : Entry := fp! "internal/lossless.reverseBits" 0x8525511f268e229f
+def «internal/lossless.selectPred» : Entry := fp! "internal/lossless.selectPred" 0x232d2c75beb5800d
+def «internal/lossless.selectPredictor» : Entry := fp! "internal/lossless.selectPredictor" 0xb9dc39b68ce06a4a
+def «internal/lossless.storeFullHuffmanCodeScratch» : Entry := fp! "internal/lossless.storeFullHuffmanCodeScratch" 0x6bdbcd9cc72267cf
+def «internal/lossless.storeSimpleHuffmanCode» : Entry := fp! "internal/lossless.storeSimpleHuffmanCode" 0xe14fe120e08ebf0f
+def «internal/lossless.subPixels» : Entry := fp! "internal/lossless.subPixels" 0xe1ddccfe20ad7518
+def «internal/lossless.subPixelsEnc» : Entry := fp! "internal/lossless.subPixelsEnc" 0x903d146e0b7a4a23
+def «internal/lossless.tileTracker.merge» : Entry := fp! "internal/lossless.tileTracker.merge" 0xfa81e8d3be5869e0
+def «internal/lossless.tileTracker.swapRemove» : Entry := fp! "internal/lossless.tileTracker.swapRemove" 0x34692abac375ac0d
+def «internal/lossless.traceBackwards» : Entry := fp! "internal/lossless.traceBackwards" 0x1e9c5d626dec81b0
+def «internal/lossless.var:CodeLengthCodeOrder» : Entry := fp! "internal/lossless.var:CodeLengthCodeOrder" 0x6a71f0cc58c7325d
+def «internal/lossless.var:CodeLengthExtraBits» : Entry := fp! "internal/lossless.var:CodeLengthExtraBits" 0xe2ddd757b269b293
+def «internal/lossless.var:CodeLengthRepeatOffsets» : Entry := fp! "internal/lossless.var:CodeLengthRepeatOffsets" 0xb0ead1cd31a7cd27
+def «internal/lossless.var:CodeToPlane» : Entry := fp! "internal/lossless.var:CodeToPlane" 0xcf8a5da7a688ea18
+def «internal/lossless.var:ErrBadSignature» : Entry := fp! "internal/lossless.var:ErrBadSignature" 0x920f02760e72e20e
+def «internal/lossless.var:ErrBadVersion» : Entry := fp! "internal/lossless.var:ErrBadVersion" 0x5905b8aefb48779c
+def «internal/lossless.var:ErrBitstream» : Entry := fp! "internal/lossless.var:ErrBitstream" 0xb15785eca187349a
+def «internal/lossless.var:ErrEmptyCodeLengths» : Entry := fp! "internal/lossless.var:ErrEmptyCodeLengths" 0xf4ec55a0936074d6
+def «internal/lossless.var:ErrImageTooLarge» : Entry := fp! "internal/lossless.var:ErrImageTooLarge" 0x3d2e7691666e4c93
+def «internal/lossless.var:ErrInvalidTree» : Entry := fp! "internal/lossless.var:ErrInvalidTree" 0xc0e34aaf81f40255
+def «internal/lossless.var:KLiteralMap» : Entry := fp! "internal/lossless.var:KLiteralMap" 0x090c9bd4994b750d
+def «internal/lossless.var:fastSLog2LUT» : Entry := fp! "internal/lossless.var:fastSLog2LUT" 0xebf0ac96317d1269
+def «internal/lossless.var:kBaseAlphabetSize» : Entry := fp! "internal/lossless.var:kBaseAlphabetSize" 0x02a0da1b68d3a6a0
+def «internal/lossless.var:losslessDecoderPool» : Entry := fp! "internal/lossless.var:losslessDecoderPool" 0xbd8bb93d6d5015ac
+def «internal/lossless.var:losslessEncoderPool» : Entry := fp! "internal/lossless.var:losslessEncoderPool" 0xf931fdec45e6ec26
+def «internal/lossless.var:multiplierDeltaByteLUT» : Entry := fp! "internal/lossless.var:multiplierDeltaByteLUT" 0x3bd0c24a2c2abc58
+def «internal/lossless.var:planeToCodeLUT» : Entry := fp! "internal/lossless.var:planeToCodeLUT" 0xb4d8d424e7bc55af
+def «internal/lossless.writeHuffmanCode» : Entry := fp! "internal/lossless.writeHuffmanCode" 0xbb743e63d829bc40
+def «internal/lossy.Decoder.decodeMB» : Entry := fp! "internal/lossy.Decoder.decodeMB" 0x14cd709595f4f4c0
+def «internal/lossy.Decoder.doFilter» : Entry := fp! "internal/lossy.Decoder.doFilter" 0x03447b47c533beff
+def «internal/lossy.Decoder.filterRowAt» : Entry := fp! "internal/lossy.Decoder.filterRowAt" 0xa49bddb16e72bb5b
+def «internal/lossy.Decoder.initFrame» : Entry := fp! "internal/lossy.Decoder.initFrame" 0x690a8c48506f66ea
+def «internal/lossy.Decoder.initScanline» : Entry := fp! "internal/lossy.Decoder.initScanline" 0x872a7fca75c3ed27
+def «internal/lossy.Decoder.parseFilterHeader» : Entry := fp! "internal/lossy.Decoder.parseFilterHeader" 0xca9adfbba28d138f
+def «internal/lossy.Decoder.parseFrame» : Entry := fp! "internal/lossy.Decoder.parseFrame" 0xc7a933f1bc45e6e0
+def «internal/lossy.Decoder.parseHeaders» : Entry := fp! "internal/lossy.Decoder.parseHeaders" 0x2d0b0a4e64fe87af
+def «internal/lossy.Decoder.parseIntraModeRow» : Entry := fp! "internal/lossy.Decoder.parseIntraModeRow" 0x907d3df5a7487c5a
+def «internal/lossy.Decoder.parsePartitions» : Entry := fp! "internal/lossy.Decoder.parsePartitions" 0xf81891a20822b56c
+def «internal/lossy.Decoder.parseResiduals» : Entry := fp! "internal/lossy.Decoder.parseResiduals" 0x486cef17dab7b497
+def «internal/lossy.Decoder.parseSegmentHeader» : Entry := fp! "internal/lossy.Decoder.parseSegmentHeader" 0x216c491ad5d42b6a
+def «internal/lossy.Decoder.precomputeFilterStrengths» : Entry := fp! "internal/lossy.Decoder.precomputeFilterStrengths" 0x29d12a0306b8f0b8
+def «internal/lossy.Decoder.reconstructRow» : Entry := fp! "internal/lossy.Decoder.reconstructRow" 0xcd18bbb2eb4b0d25
+def «internal/lossy.DequantCoeffs» : Entry := fp! "internal/lossy.DequantCoeffs" 0x1561ef35b35a2eb8
+def «internal/lossy.MBIterator.Export» : Entry := fp! "internal/lossy.MBIterator.Export" 0x14019dfc824910e6
+def «internal/lossy.MBIterator.FillPredContext» : Entry := fp! "internal/lossy.MBIterator.FillPredContext" 0xed7d04c4ee6376f0
+def «internal/lossy.MBIterator.FillPredictionContext» : Entry := fp! "internal/lossy.MBIterator.FillPredictionContext" 0xff60051e8bbcfb99
+def «internal/lossy.MBIterator.GetTopModes» : Entry := fp! "internal/lossy.MBIterator.GetTopModes" 0x6bba709e2c042c89
+def «internal/lossy.MBIterator.Import» : Entry := fp! "internal/lossy.MBIterator.Import" 0xea1f4e187ace3afa
+def «internal/lossy.MBIterator.IsDone» : Entry := fp! "internal/lossy.MBIterator.IsDone" 0x2eae71cce1142e66
+def «internal/lossy.MBIterator.Next» : Entry := fp! "internal/lossy.MBIterator.Next" 0xa713cc4b1b5f45a7
+def «internal/lossy.MBIterator.SaveTopModes» : Entry := fp! "internal/lossy.MBIterator.SaveTopModes" 0x3fa3c23f17a59b09
+def «internal/lossy.MBIterator.resetLeftContext» : Entry := fp! "internal/lossy.MBIterator.resetLeftContext" 0x99a24de84d3e2afe
+def «internal/lossy.ParseQuant» : Entry := fp! "internal/lossy.ParseQuant" 0x69547494a70a55c5
+def «internal/lossy.PickBestI16Mode» : Entry := fp! "internal/lossy.PickBestI16Mode" 0xbf6b512c25117bfb
+def «internal/lossy.PickBestI4Mode» : Entry := fp! "internal/lossy.PickBestI4Mode" 0xffb4274cba82a27a
+def «internal/lossy.PickBestUVMode» : Entry := fp! "internal/lossy.PickBestUVMode" 0x953fbd3b37f1aa27
+def «internal/lossy.QuantizeCoeffs» : Entry := fp! "internal/lossy.QuantizeCoeffs" 0x9d5f204a89bc1ad4
+def «internal/lossy.RDScore» : Entry := fp! "internal/lossy.RDScore" 0x48f7d753f503d62a
+def «internal/lossy.ReleaseDecoder» : Entry := fp! "internal/lossy.ReleaseDecoder" 0x5e51ca865e7dae59
+def «internal/lossy.ResetProba» : Entry := fp! "internal/lossy.ResetProba" 0xd08825b0e929bd2b
+def «internal/lossy.TokenBuffer.EmitTokens» : Entry := fp! "internal/lossy.TokenBuffer.EmitTokens" 0xc4c419e2830f93db
+def «internal/lossy.TokenBuffer.EmitTokensPartitioned» : Entry := fp! "internal/lossy.TokenBuffer.EmitTokensPartitioned" 0x615500966ad8cbfd
+def «internal/lossy.TokenBuffer.Init» : Entry := fp! "internal/lossy.TokenBuffer.Init" 0x97bef2513558d2e3
+def «internal/lossy.TokenBuffer.MarkMBStart» : Entry := fp! "internal/lossy.TokenBuffer.MarkMBStart" 0xf124fe6f4541e3f9
+def «internal/lossy.TokenBuffer.RecordCoeffs» : Entry := fp! "internal/lossy.TokenBuffer.RecordCoeffs" 0x45cf37761670cddb
+def «internal/lossy.TokenBuffer.RecordToken» : Entry := fp! "internal/lossy.TokenBuffer.RecordToken" 0x94c0a157b39ae2a2
+def «internal/lossy.TokenBuffer.Reset» : Entry := fp! "internal/lossy.TokenBuffer.Reset" 0x338647bf305df811
+def «internal/lossy.TokenBuffer.addPage» : Entry := fp! "internal/lossy.TokenBuffer.addPage" 0x5f03fb3db8db57b5
+def «internal/lossy.TokenBuffer.recordLevelVP8» : Entry := fp! "internal/lossy.TokenBuffer.recordLevelVP8" 0xb7bbfbf9bc688f4c
+def «internal/lossy.TokenBuffer.tokenCount» : Entry := fp! "internal/lossy.TokenBuffer.tokenCount" 0xbe53e3de8446c167
+def «internal/lossy.TokenCostForCoeffs» : Entry := fp! "internal/lossy.TokenCostForCoeffs" 0x918570946113cda6
+def «internal/lossy.TrellisQuantizeBlock» : Entry := fp! "internal/lossy.TrellisQuantizeBlock" 0xbd731a5b811c07b3
+def «internal/lossy.VP8Encoder.InitIterator» : Entry := fp! "internal/lossy.VP8Encoder.InitIterator" 0xd00bb1f62f338cfc
+def «internal/lossy.VP8Encoder.PickBestI16ModeRD» : Entry := fp! "internal/lossy.VP8Encoder.PickBestI16ModeRD" 0xe891cf99d1a34651
+def «internal/lossy.VP8Encoder.PickBestI4ModeRD» : Entry := fp! "internal/lossy.VP8Encoder.PickBestI4ModeRD" 0xc166998431dda9be
+def «internal/lossy.VP8Encoder.PickBestI4ModeRDTrellis» : Entry := fp! "internal/lossy.VP8Encoder.PickBestI4ModeRDTrellis" 0xfe5d658baea44c00
+def «internal/lossy.VP8Encoder.PickBestUVModeRD» : Entry := fp! "internal/lossy.VP8Encoder.PickBestUVModeRD" 0x84151ca8f7f316a7
+def «internal/lossy.VP8Encoder.adjustQuantForTarget» : Entry := fp! "internal/lossy.VP8Encoder.adjustQuantForTarget" 0x973ba38679700ec3
+def «internal/lossy.VP8Encoder.allocateBuffers» : Entry := fp! "internal/lossy.VP8Encoder.allocateBuffers" 0xab291cd4210a78eb
+def «internal/lossy.VP8Encoder.analysis» : Entry := fp! "internal/lossy.VP8Encoder.analysis" 0xbb3bd89f3141d0a2
+def «internal/lossy.VP8Encoder.assembleFrame» : Entry := fp! "internal/lossy.VP8Encoder.assembleFrame" 0xb0fac7bd9270457e
+def «internal/lossy.VP8Encoder.buildSegmentHeader» : Entry := fp! "internal/lossy.VP8Encoder.buildSegmentHeader" 0xa416ac6b28b06792
+def «internal/lossy.VP8Encoder.collectAllStats» : Entry := fp! "internal/lossy.VP8Encoder.collectAllStats" 0x1d0299c8f5a665b8
+def «internal/lossy.VP8Encoder.collectMBStats» : Entry := fp! "internal/lossy.VP8Encoder.collectMBStats" 0x965be58140d1debf
+def «internal/lossy.VP8Encoder.computeStats» : Entry := fp! "internal/lossy.VP8Encoder.computeStats" 0x69d5692ac8941f5d
+def «internal/lossy.VP8Encoder.correctDCValues» : Entry := fp! "internal/lossy.VP8Encoder.correctDCValues" 0x64d9e1859321fbe8
+def «internal/lossy.VP8Encoder.emitFrame» : Entry := fp! "internal/lossy.VP8Encoder.emitFrame" 0x29a6d3bb1525df9f
+def «internal/lossy.VP8Encoder.emitPartition0» : Entry := fp! "internal/lossy.VP8Encoder.emitPartition0" 0xf6cfee7f08cd08d8
+def «internal/lossy.VP8Encoder.emitTokenPartitions» : Entry := fp! "internal/lossy.VP8Encoder.emitTokenPartitions" 0x0431ab2920e6fedc
+def «internal/lossy.VP8Encoder.encodeFrame» : Entry := fp! "internal/lossy.VP8Encoder.encodeFrame" 0xbf531c0793dbc470
+def «internal/lossy.VP8Encoder.encodeFrameParallel» : Entry := fp! "internal/lossy.VP8Encoder.encodeFrameParallel" 0xe9284025720335ec
+def «internal/lossy.VP8Encoder.encodeI16Residuals» : Entry := fp! "internal/lossy.VP8Encoder.encodeI16Residuals" 0x725c616ae4162995
+def «internal/lossy.VP8Encoder.encodeI4Residuals» : Entry := fp! "internal/lossy.VP8Encoder.encodeI4Residuals" 0x034aec3d5fce8103
+def «internal/lossy.VP8Encoder.encodeResiduals» : Entry := fp! "internal/lossy.VP8Encoder.encodeResiduals" 0x557f39441ac954f8
+def «internal/lossy.VP8Encoder.encodeRow» : Entry := fp! "internal/lossy.VP8Encoder.encodeRow" 0x785a17019aedc49a
+def «internal/lossy.VP8Encoder.encodeUVResiduals» : Entry := fp! "internal/lossy.VP8Encoder.encodeUVResiduals" 0xab67d2c104336f9d
+def «internal/lossy.VP8Encoder.importImage» : Entry := fp! "internal/lossy.VP8Encoder.importImage" 0xdcbead9ae5c81b42
+def «internal/lossy.VP8Encoder.importYCbCr» : Entry := fp! "internal/lossy.VP8Encoder.importYCbCr" 0x2c90d78613403233
+def «internal/lossy.VP8Encoder.initEncoderParams» : Entry := fp! "internal/lossy.VP8Encoder.initEncoderParams" 0xa12e062c76e89079
+def «internal/lossy.VP8Encoder.initPassStats» : Entry := fp! "internal/lossy.VP8Encoder.initPassStats" 0xbcd995291864d78f
+def «internal/lossy.VP8Encoder.initSegments» : Entry := fp! "internal/lossy.VP8Encoder.initSegments" 0x7cfa6a4d50323136
+def «internal/lossy.VP8Encoder.pickBestMode» : Entry := fp! "internal/lossy.VP8Encoder.pickBestMode" 0xfd26cd955d33de3a
+def «internal/lossy.VP8Encoder.reconstructMB» : Entry := fp! "internal/lossy.VP8Encoder.reconstructMB" 0xc2ce2c0e619be98b
+def «internal/lossy.VP8Encoder.recordAllTokens» : Entry := fp! "internal/lossy.VP8Encoder.recordAllTokens" 0x9e7fc64d34eab2a0
+def «internal/lossy.VP8Encoder.recordMBTokens» : Entry := fp! "internal/lossy.VP8Encoder.recordMBTokens" 0xb124212ca74aa0de
+def «internal/lossy.VP8Encoder.refreshProbas» : Entry := fp! "internal/lossy.VP8Encoder.refreshProbas" 0xfab4488e65cba4a9
+def «internal/lossy.VP8Encoder.rerecordAllTokens» : Entry := fp! "internal/lossy.VP8Encoder.rerecordAllTokens" 0x9234a00e5d1f2f2b
+def «internal/lossy.VP8Encoder.resetForReuse» : Entry := fp! "internal/lossy.VP8Encoder.resetForReuse" 0x8c9d2f78b6de5265
+def «internal/lossy.VP8Encoder.restoreSourcePixels» : Entry := fp! "internal/lossy.VP8Encoder.restoreSourcePixels" 0x8759dbed41b44ef5
+def «internal/lossy.VP8Encoder.saveSourcePixels» : Entry := fp! "internal/lossy.VP8Encoder.saveSourcePixels" 0x46863c1558a1f6e7
+def «internal/lossy.VP8Encoder.setSegmentParams» : Entry := fp! "internal/lossy.VP8Encoder.setSegmentParams" 0x256b7156d9832eb3
+def «internal/lossy.VP8Encoder.setSegmentProbas» : Entry := fp! "internal/lossy.VP8Encoder.setSegmentProbas" 0x8e2039b8659fab35
+def «internal/lossy.VP8Encoder.setupFilterStrength» : Entry := fp! "internal/lossy.VP8Encoder.setupFilterStrength" 0x4f5bf1f620ffbb1f
+def «internal/lossy.VP8Encoder.simplifySegments» : Entry := fp! "internal/lossy.VP8Encoder.simplifySegments" 0xc1fa716ea22faa5e
+def «internal/lossy.VP8Encoder.statLoop» : Entry := fp! "internal/lossy.VP8Encoder.statLoop" 0xcb7593ee62a0c4b8
+def «internal/lossy.VP8Encoder.storeDiffusionErrors» : Entry := fp! "internal/lossy.VP8Encoder.storeDiffusionErrors" 0x465493361a3c2eba
+def «internal/lossy.VP8Encoder.tryI4Modes» : Entry := fp! "internal/lossy.VP8Encoder.tryI4Modes" 0xa588e785a4f797f2
+def «internal/lossy.VP8Encoder.tryI4ModesRD» : Entry := fp! "internal/lossy.VP8Encoder.tryI4ModesRD" 0xb8289657481d219f
+def «internal/lossy.VP8Encoder.updateNZContext» : Entry := fp! "internal/lossy.VP8Encoder.updateNZContext" 0x6b38d2e1902733d1
+def «internal/lossy.VP8Encoder.writeCoeffProba» : Entry := fp! "internal/lossy.VP8Encoder.writeCoeffProba" 0x18f5209870aa9d91
+def «internal/lossy.VP8Encoder.writeFilterHeader» : Entry := fp! "internal/lossy.VP8Encoder.writeFilterHeader" 0x41dff051abbc20ed
+def «internal/lossy.VP8Encoder.writeMBModes» : Entry := fp! "internal/lossy.VP8Encoder.writeMBModes" 0x2eda066cff52b8af
+def «internal/lossy.VP8Encoder.writeQuantParams» : Entry := fp! "internal/lossy.VP8Encoder.writeQuantParams" 0xf5b9f864b6dc9f29
+def «internal/lossy.VP8Encoder.writeSegmentHeader» : Entry := fp! "internal/lossy.VP8Encoder.writeSegmentHeader" 0x9dfe319dafa87b7a
+def «internal/lossy.abs» : Entry := fp! "internal/lossy.abs" 0xdef51228dbb218b5
+def «internal/lossy.acquireDecoder» : Entry := fp! "internal/lossy.acquireDecoder" 0x150b38a57a16dc7e
+def «internal/lossy.alphaUnfilterGradient» : Entry := fp! "internal/lossy.alphaUnfilterGradient" 0xeb24c3ac6f7e7536
+def «internal/lossy.alphaUnfilterHorizontal» : Entry := fp! "internal/lossy.alphaUnfilterHorizontal" 0x534f02f0837cd3d7
+def «internal/lossy.alphaUnfilterHorizontalRow» : Entry := fp! "internal/lossy.alphaUnfilterHorizontalRow" 0xe75d8bf9a7b354d3
+def «internal/lossy.alphaUnfilterVertical» : Entry := fp! "internal/lossy.alphaUnfilterVertical" 0x35794c7cffaa3e56
+def «internal/lossy.alphaVP8LStream» : Entry := fp! "internal/lossy.alphaVP8LStream" 0xa584bcb425594381
+def «internal/lossy.assignSegments» : Entry := fp! "internal/lossy.assignSegments" 0x492f4798563e412d
+def «internal/lossy.b2i» : Entry := fp! "internal/lossy.b2i" 0x00e39e6a050abcf5
+def «internal/lossy.boolToIntEnc» : Entry := fp! "internal/lossy.boolToIntEnc" 0x33e72bcea95d26f8
+def «internal/lossy.brLoad» : Entry := fp! "internal/lossy.brLoad" 0x56b6dc395b4072ec
+def «internal/lossy.brSync» : Entry := fp! "internal/lossy.brSync" 0xd406afe22fd37e42
+def «internal/lossy.branchCost» : Entry := fp! "internal/lossy.branchCost" 0xa1d5407fa17dfd77
+def «internal/lossy.checkMode» : Entry := fp! "internal/lossy.checkMode" 0x283fb73655e49092
+def «internal/lossy.clamp255» : Entry := fp! "internal/lossy.clamp255" 0x403f2acb84b0f5a7
+def «internal/lossy.clampInt» : Entry := fp! "internal/lossy.clampInt" 0x36557d74c015ad18
+def «internal/lossy.clip» : Entry := fp! "internal/lossy.clip" 0x123880c144584ac1
+def «internal/lossy.collectCoeffStats» : Entry := fp! "internal/lossy.collectCoeffStats" 0xf3e720be7cac6293
+def «internal/lossy.collectHistogramAlphaWith» : Entry := fp! "internal/lossy.collectHistogramAlphaWith" 0x285f0ff0b03ce473
+def «internal/lossy.collectLevelStats» : Entry := fp! "internal/lossy.collectLevelStats" 0x5255e0d951184038
+def «internal/lossy.computeAlphas» : Entry := fp! "internal/lossy.computeAlphas" 0x060c454d74a79b24
+def «internal/lossy.computeAlphasSerial» : Entry := fp! "internal/lossy.computeAlphasSerial" 0xf39bf9017e8e2182
+def «internal/lossy.computeMBAlphaDCT» : Entry := fp! "internal/lossy.computeMBAlphaDCT" 0x077d139c40b20224
+def «internal/lossy.computeMBAlphaDCTWith» : Entry := fp! "internal/lossy.computeMBAlphaDCTWith" 0xff5a35593297b89e
+def «internal/lossy.computeMBAlphaDCTWorker» : Entry := fp! "internal/lossy.computeMBAlphaDCTWorker" 0x4fd4d4a23817a301
+def «internal/lossy.computeMBUVAlphaDCT» : Entry := fp! "internal/lossy.computeMBUVAlphaDCT" 0xb734b73e6ce8463a
+def «internal/lossy.computeMBUVAlphaDCTWith» : Entry := fp! "internal/lossy.computeMBUVAlphaDCTWith" 0x074967e7fd802c84
+def «internal/lossy.computeMBUVAlphaDCTWorker» : Entry := fp! "internal/lossy.computeMBUVAlphaDCTWorker" 0x2880e034dea230e5
+def «internal/lossy.const:AlphaFilterGradient» : Entry := fp! "internal/lossy.const:AlphaFilterGradient" 0xd45c097c2aa6283a
+def «internal/lossy.const:AlphaFilterHorizontal» : Entry := fp! "internal/lossy.const:AlphaFilterHorizontal" 0x8e4d6bcd41bc47be
+def «internal/lossy.const:AlphaFilterModeFast» : Entry := fp! "internal/lossy.const:AlphaFilterModeFast" 0x991f0470911dc8cc
+def «internal/lossy.const:AlphaFilterModeNone» : Entry := fp! "internal/lossy.const:AlphaFilterModeNone" 0x9431541d92e8c0cc
+def «internal/lossy.const:AlphaFilterNone» : Entry := fp! "internal/lossy.const:AlphaFilterNone" 0x60c5908f284959f1
+def «internal/lossy.const:AlphaFilterVertical» : Entry := fp! "internal/lossy.const:AlphaFilterVertical" 0xca451f4c4afb0253
+def «internal/lossy.const:AlphaLosslessCompression» : Entry := fp! "internal/lossy.const:AlphaLosslessCompression" 0x4c7a86f9ab2f8fbc
+def «internal/lossy.const:AlphaNoCompression» : Entry := fp! "internal/lossy.const:AlphaNoCompression" 0xed496885bce8fb7e
+def «internal/lossy.const:BDCPred» : Entry := fp! "internal/lossy.const:BDCPred" 0x32398b37ccff920d
+def «internal/lossy.const:BDCPredNoLeft» : Entry := fp! "internal/lossy.const:BDCPredNoLeft" 0x54d0f4e216171a6b
+def «internal/lossy.const:BDCPredNoTop» : Entry := fp! "internal/lossy.const:BDCPredNoTop" 0x32e76572d15800af
+def «internal/lossy.const:BDCPredNoTopLeft» : Entry := fp! "internal/lossy.const:BDCPredNoTopLeft" 0xfe942b8020d29c3f
+def «internal/lossy.const:BHDPred» : Entry := fp! "internal/lossy.const:BHDPred" 0x105232020e0591d3
+def «internal/lossy.const:BHEPred» : Entry := fp! "internal/lossy.const:BHEPred" 0x659dd6c17676a355
+def «internal/lossy.const:BHUPred» : Entry := fp! "internal/lossy.const:BHUPred" 0xd582570c2703dad9
+def «internal/lossy.const:BLDPred» : Entry := fp! "internal/lossy.const:BLDPred" 0x459e2e5f402eacc2
+def «internal/lossy.const:BPS» : Entry := fp! "internal/lossy.const:BPS" 0x4411a0e0db0fd725
+def «internal/lossy.const:BRDPred» : Entry := fp! "internal/lossy.const:BRDPred" 0x723f239202320c47
+def «internal/lossy.const:BTMPred» : Entry := fp! "internal/lossy.const:BTMPred" 0xe55f319eaceadd8e
+def «internal/lossy.const:BVEPred» : Entry := fp! "internal/lossy.const:BVEPred" 0xfde5c44a7844ad95
+def «internal/lossy.const:BVLPred» : Entry := fp! "internal/lossy.const:BVLPred" 0xdb4f07392a4128d2
+def «internal/lossy.const:BVRPred» : Entry := fp! "internal/lossy.const:BVRPred" 0xb7da1bb53f44623c
+def «internal/lossy.const:DCPred» : Entry := fp! "internal/lossy.const:DCPred" 0x78533fc30b9a8f2c
+def «internal/lossy.const:HPred» : Entry := fp! "internal/lossy.const:HPred" 0x3a84e8de5aa4b8b8
+def «internal/lossy.const:MBFeatureTreeProbs» : Entry := fp! "internal/lossy.const:MBFeatureTreeProbs" 0x1329021e7f0fc4e7
+def «internal/lossy.const:MaxNumPartitions» : Entry := fp! "internal/lossy.const:MaxNumPartitions" 0x57c7fb72a379c5de
+def «internal/lossy.const:NumBModes» : Entry := fp! "internal/lossy.const:NumBModes" 0x4a1d42c4cdd04953
+def «internal/lossy.const:NumBands» : Entry := fp! "internal/lossy.const:NumBands" 0x8a5e62eeeda40021
+def «internal/lossy.const:NumCTX» : Entry := fp! "internal/lossy.const:NumCTX" 0x5d3dd98c87356f86
+def «internal/lossy.const:NumMBSegments» : Entry := fp! "internal/lossy.const:NumMBSegments" 0x48e1ea0489c978e1
+def «internal/lossy.const:NumModeLFDeltas» : Entry := fp! "internal/lossy.const:NumModeLFDeltas" 0xc9a598d14a4d9b0c
+def «internal/lossy.const:NumPredModes» : Entry := fp! "internal/lossy.const:NumPredModes" 0x94f39bc2c79907b6
+def «internal/lossy.const:NumProbas» : Entry := fp! "internal/lossy.const:NumProbas" 0x1b09b4541b6c5174
+def «internal/lossy.const:NumRefLFDeltas» : Entry := fp! "internal/lossy.const:NumRefLFDeltas" 0x3934d161b34e6c1f
+def «internal/lossy.const:NumTypes» : Entry := fp! "internal/lossy.const:NumTypes" 0xdf44662daac5fdb5
+def «internal/lossy.const:TMPred» : Entry := fp! "internal/lossy.const:TMPred" 0xf82554d8bfb036b2
+def «internal/lossy.const:UOff» : Entry := fp! "internal/lossy.const:UOff" 0x6fef6d03c7690eda
+def «internal/lossy.const:VOff» : Entry := fp! "internal/lossy.const:VOff" 0x497b4c3801a9e4f2
+def «internal/lossy.const:VPred» : Entry := fp! "internal/lossy.const:VPred" 0x29d290db1be44b96
+def «internal/lossy.const:YOff» : Entry := fp! "internal/lossy.const:YOff" 0x0434fe48d0842ce1
+def «internal/lossy.const:YUVSize» : Entry := fp! "internal/lossy.const:YUVSize" 0x25f0d3a5f6870f6f
+def «internal/lossy.const:alphaFilterLast» : Entry := fp! "internal/lossy.const:alphaFilterLast" 0x479f89cd16e740f9
+def «internal/lossy.const:alphaPreprocessedLevels» : Entry := fp! "internal/lossy.const:alphaPreprocessedLevels" 0xd59300ca4bf9fa3d
+def «internal/lossy.const:alphaScale» : Entry := fp! "internal/lossy.const:alphaScale" 0x18c45369f005289c
+def «internal/lossy.const:derrC1» : Entry := fp! "internal/lossy.const:derrC1" 0xa9f4f43123325211
+def «internal/lossy.const:derrC2» : Entry := fp! "internal/lossy.const:derrC2" 0xc2ba7891754e3b74
+def «internal/lossy.const:derrDScale» : Entry := fp! "internal/lossy.const:derrDScale" 0xeea36bf821c1e1c1
+def «internal/lossy.const:derrDShift» : Entry := fp! "internal/lossy.const:derrDShift" 0x89f67493afe1bff4
+def «internal/lossy.const:flatnessLimitI16» : Entry := fp! "internal/lossy.const:flatnessLimitI16" 0x3b39a2ad83b66a7d
+def «internal/lossy.const:flatnessLimitI4» : Entry := fp! "internal/lossy.const:flatnessLimitI4" 0x0220b0ecfd267714
+def «internal/lossy.const:flatnessLimitUV» : Entry := fp! "internal/lossy.const:flatnessLimitUV" 0xde597de60fbe4c97
+def «internal/lossy.const:flatnessPenalty» : Entry := fp! "internal/lossy.const:flatnessPenalty" 0x0c0b3f31acb6a37e
+def «internal/lossy.const:fstrengthCutoff» : Entry := fp! "internal/lossy.const:fstrengthCutoff" 0x6dafab49d439110f
+def «internal/lossy.const:maxAlpha» : Entry := fp! "internal/lossy.const:maxAlpha" 0x49af8c248c265692
+def «internal/lossy.const:maxCoeffThresh» : Entry := fp! "internal/lossy.const:maxCoeffThresh" 0xeb11d7d2123d0da3
+def «internal/lossy.const:maxIntra16Mode» : Entry := fp! "internal/lossy.const:maxIntra16Mode" 0xc563e259511f629d
+def «internal/lossy.const:maxItersKMeans» : Entry := fp! "internal/lossy.const:maxItersKMeans" 0x7b41a6eea645980a
+def «internal/lossy.const:maxPartition0Size» : Entry := fp! "internal/lossy.const:maxPartition0Size" 0x3e6315a443ce72bd
+def «internal/lossy.const:maxPartitionSize» : Entry := fp! "internal/lossy.const:maxPartitionSize" 0x3c1004150985e9a2
+def «internal/lossy.const:minRefreshCount» : Entry := fp! "internal/lossy.const:minRefreshCount" 0x3c2604104e3ab39a
+def «internal/lossy.const:rdDistoMult» : Entry := fp! "internal/lossy.const:rdDistoMult" 0x114d23618f088aa4
+def «internal/lossy.const:tokenPageSize» : Entry := fp! "internal/lossy.const:tokenPageSize" 0xd0c6e5ba0c55eba6
+def «internal/lossy.dequantCoeffsGo» : Entry := fp! "internal/lossy.dequantCoeffsGo" 0x8f5bed0319984d42
+def «internal/lossy.dequantCoeffsSSE2» : Entry := fp! "internal/lossy.dequantCoeffsSSE2" 0xa5a5dc3774ce366b
+def «internal/lossy.doSimpleFilter2» : Entry := fp! "internal/lossy.doSimpleFilter2" 0x01fa77a162aa75ee
+def «internal/lossy.doSimpleFilter4» : Entry := fp! "internal/lossy.doSimpleFilter4" 0x5edfb78511bf3b06
+def «internal/lossy.doSimpleFilter6» : Entry := fp! "internal/lossy.doSimpleFilter6" 0x960dee2a28f4e7ac
+def «internal/lossy.doTransform» : Entry := fp! "internal/lossy.doTransform" 0x6410bfb238cc1c67
+def «internal/lossy.doTransformDCBlock» : Entry := fp! "internal/lossy.doTransformDCBlock" 0x177a0bd4e1111ae1
+def «internal/lossy.doUVTransform» : Entry := fp! "internal/lossy.doUVTransform" 0x6adc9120aa8de603
+def «internal/lossy.encodeI16ResidualsParallel» : Entry := fp! "internal/lossy.encodeI16ResidualsParallel" 0xdb760bd9bb684f5f
+def «internal/lossy.encodeI4ResidualsParallel» : Entry := fp! "internal/lossy.encodeI4ResidualsParallel" 0xdbbd159569019a37
+def «internal/lossy.encodeResidualsParallel» : Entry := fp! "internal/lossy.encodeResidualsParallel" 0xbc5401d47b1dce84
+def «internal/lossy.encodeUVResidualsParallel» : Entry := fp! "internal/lossy.encodeUVResidualsParallel" 0x4a92b2b26b386ad0
+def «internal/lossy.exportParallel» : Entry := fp! "internal/lossy.exportParallel" 0x09da722b8bc3a505
+def «internal/lossy.fastBit» : Entry := fp! "internal/lossy.fastBit" 0xeec6feac2babb492
+def «internal/lossy.fastSigned» : Entry := fp! "internal/lossy.fastSigned" 0x5def6b59201c8d4d
+def «internal/lossy.fastVariableLevelCost» : Entry := fp! "internal/lossy.fastVariableLevelCost" 0x2e4d012fef7af70c
+def «internal/lossy.fillBytes» : Entry := fp! "internal/lossy.fillBytes" 0x594b2a8e18fd6244
+def «internal/lossy.fillPredContextParallel» : Entry := fp! "internal/lossy.fillPredContextParallel" 0x2d12a6b9c1a3976a
+def «internal/lossy.filterLoop24HAt» : Entry := fp! "internal/lossy.filterLoop24HAt" 0x354df9c0fac2b5a9
+def «internal/lossy.filterLoop24VAt» : Entry := fp! "internal/lossy.filterLoop24VAt" 0xef619ca4c2ef5f0f
+def «internal/lossy.filterLoop26At» : Entry := fp! "internal/lossy.filterLoop26At" 0x7b8ca0156db01393
+def «internal/lossy.filterLoop26HAt» : Entry := fp! "internal/lossy.filterLoop26HAt" 0xd97fd4e8a63bd7ba
+def «internal/lossy.filterLoop26VAt» : Entry := fp! "internal/lossy.filterLoop26VAt" 0x8641e5846e5fd956
+def «internal/lossy.filterStrengthFromDelta» : Entry := fp! "internal/lossy.filterStrengthFromDelta" 0x6dc172f9e79616eb
+def «internal/lossy.generateI16Prediction» : Entry := fp! "internal/lossy.generateI16Prediction" 0x59902b343665d52f
+def «internal/lossy.getBoolWriter» : Entry := fp! "internal/lossy.getBoolWriter" 0xa40ca9cffd8b79db
+def «internal/lossy.getCoeffsInline» : Entry := fp! "internal/lossy.getCoeffsInline" 0x4b5693d9ffcc7d97
+def «internal/lossy.getImportUVWorker» : Entry := fp! "internal/lossy.getImportUVWorker" 0xa690f484de048da3
+def «internal/lossy.getMaxI4RDModes» : Entry := fp! "internal/lossy.getMaxI4RDModes" 0x71c4eecf3918d000
+def «internal/lossy.getPSNR» : Entry := fp! "internal/lossy.getPSNR" 0xb5a62c6b1424b80d
+def «internal/lossy.getParallelState» : Entry := fp! "internal/lossy.getParallelState" 0xf716f40f33a2e6cf
+def «internal/lossy.hFilter16iAt» : Entry := fp! "internal/lossy.hFilter16iAt" 0x6e021535365a9b9e
+def «internal/lossy.hFilter8iAt» : Entry := fp! "internal/lossy.hFilter8iAt" 0xfbd9d48eb2456fb6
+def «internal/lossy.i4SubtreeContains» : Entry := fp! "internal/lossy.i4SubtreeContains" 0x404ad63d7c3d378b
+def «internal/lossy.imageHasAlpha» : Entry := fp! "internal/lossy.imageHasAlpha" 0xe14937ed8e191b9a
+def «internal/lossy.importBlock» : Entry := fp! "internal/lossy.importBlock" 0xdd29a1cde692befc
+def «internal/lossy.importBlockParallel» : Entry := fp! "internal/lossy.importBlockParallel" 0xc7616111b493f6c8
+def «internal/lossy.initRowWorker» : Entry := fp! "internal/lossy.initRowWorker" 0x815bf44952a33299
+def «internal/lossy.initSegmentQuant» : Entry := fp! "internal/lossy.initSegmentQuant" 0x02944d529a02706f
+def «internal/lossy.isFlat» : Entry := fp! "internal/lossy.isFlat" 0xcd516e60b0825361
+def «internal/lossy.isFlatSource16» : Entry := fp! "internal/lossy.isFlatSource16" 0xea4482b6d50d6c75
+def «internal/lossy.isHEV» : Entry := fp! "internal/lossy.isHEV" 0xa4727306f2449aab
+def «internal/lossy.maxInt» : Entry := fp! "internal/lossy.maxInt" 0x78dd2890f2d124db
+def «internal/lossy.needsFilter2At» : Entry := fp! "internal/lossy.needsFilter2At" 0x08522ea7eeb7f81f
+def «internal/lossy.needsLeft4» : Entry := fp! "internal/lossy.needsLeft4" 0x1b7a5b123fd7ee9b
+def «internal/lossy.needsTop4» : Entry := fp! "internal/lossy.needsTop4" 0x5ddb8f7e3a579810
+def «internal/lossy.newRowSync» : Entry := fp! "internal/lossy.newRowSync" 0xd025aa1d2e02ed81
+def «internal/lossy.nzCodeBits» : Entry := fp! "internal/lossy.nzCodeBits" 0xa0eb092d268c46ad
+def «internal/lossy.nzCountACSSE2» : Entry := fp! "internal/lossy.nzCountACSSE2" 0x6681d41a23cc2e31
+def «internal/lossy.optimizeProba» : Entry := fp! "internal/lossy.optimizeProba" 0x40eca6f4f9241f50
+def «internal/lossy.parseProba» : Entry := fp! "internal/lossy.parseProba" 0x0e591a027be741c7
+def «internal/lossy.passStats.computeNextQ» : Entry := fp! "internal/lossy.passStats.computeNextQ" 0xdd3b1d96e4276079
+def «internal/lossy.pickBestI16ModeRDParallel» : Entry := fp! "internal/lossy.pickBestI16ModeRDParallel" 0xdea6af8e9fb70409
+def «internal/lossy.pickBestI4ModeRDParallel» : Entry := fp! "internal/lossy.pickBestI4ModeRDParallel" 0x5e7fa49e0ef6572f
+def «internal/lossy.pickBestI4ModeRDTrellisParallel» : Entry := fp! "internal/lossy.pickBestI4ModeRDTrellisParallel" 0xf3bd410db8ac31dc
+def «internal/lossy.pickBestModeParallel» : Entry := fp! "internal/lossy.pickBestModeParallel" 0xa8dcb31891d8bdc2
+def «internal/lossy.pickBestUVModeRDParallel» : Entry := fp! "internal/lossy.pickBestUVModeRDParallel" 0xbcbbad20087c3cd6
+def «internal/lossy.putBoolWriter» : Entry := fp! "internal/lossy.putBoolWriter" 0xda087df5b1234e5b
+def «internal/lossy.putParallelState» : Entry := fp! "internal/lossy.putParallelState" 0x9bda47d7951dcb03
+def «internal/lossy.qualityToCompression» : Entry := fp! "internal/lossy.qualityToCompression" 0x83de498f69336fe0
+def «internal/lossy.qualityToQIndex» : Entry := fp! "internal/lossy.qualityToQIndex" 0x8f3fd3be36d63d8f
+def «internal/lossy.quantizeACAVX2» : Entry := fp! "internal/lossy.quantizeACAVX2" 0x9f58591fa7743c97
+def «internal/lossy.quantizeACSSE2» : Entry := fp! "internal/lossy.quantizeACSSE2" 0x4aa5222fe6582eee
+def «internal/lossy.quantizeCoeffsGo» : Entry := fp! "internal/lossy.quantizeCoeffsGo" 0x33c7d61f38ec3859
+def «internal/lossy.quantizeSingle» : Entry := fp! "internal/lossy.quantizeSingle" 0x4141121cda8adac0
+def «internal/lossy.readOptionalSigned» : Entry := fp! "internal/lossy.readOptionalSigned" 0xcaac2caa5c29b5c6
+def «internal/lossy.reconstructMBParallel» : Entry := fp! "internal/lossy.reconstructMBParallel" 0x1dacbf3468390da3
+def «internal/lossy.rowSync.signal» : Entry := fp! "internal/lossy.rowSync.signal" 0xd7c548f6ac951e4b
+def «internal/lossy.rowSync.waitFor» : Entry := fp! "internal/lossy.rowSync.waitFor" 0xa371ebe1e222cfce
+def «internal/lossy.sclip1» : Entry := fp! "internal/lossy.sclip1" 0x67a706bf4f2f098e
+def «internal/lossy.sclip2» : Entry := fp! "internal/lossy.sclip2" 0x087f0052e012115d
+def «internal/lossy.setupSegment» : Entry := fp! "internal/lossy.setupSegment" 0xb33f9725a187baec
+def «internal/lossy.simpleHFilter16At» : Entry := fp! "internal/lossy.simpleHFilter16At" 0x596cac6d0c0d91bd
+def «internal/lossy.simpleHFilter16iAt» : Entry := fp! "internal/lossy.simpleHFilter16iAt" 0xfa2871718cfc819e
+def «internal/lossy.smoothSegmentMap» : Entry := fp! "internal/lossy.smoothSegmentMap" 0xe10fe5a56abbd66e
+def «internal/lossy.tryI4ModesParallel» : Entry := fp! "internal/lossy.tryI4ModesParallel" 0x1ee8f37520ce65e9
+def «internal/lossy.tryI4ModesRDParallel» : Entry := fp! "internal/lossy.tryI4ModesRDParallel" 0xf85bb373d9b887a0
+def «internal/lossy.updateNZContextParallel» : Entry := fp! "internal/lossy.updateNZContextParallel" 0xdb7d41d3d19eccc6
+def «internal/lossy.vFilter16iAt» : Entry := fp! "internal/lossy.vFilter16iAt" 0xd429393dc1187a5c
+def «internal/lossy.vFilter8iAt» : Entry := fp! "internal/lossy.vFilter8iAt" 0x9ea6de509720ae83
+def «internal/lossy.var:CoeffsProba0» : Entry := fp! "internal/lossy.var:CoeffsProba0" 0x193ded23d281a207
+def «internal/lossy.var:CoeffsUpdateProba» : Entry := fp! "internal/lossy.var:CoeffsUpdateProba" 0xcaf41db91b2b49f9
+def «internal/lossy.var:ErrPartition0Overflow» : Entry := fp! "internal/lossy.var:ErrPartition0Overflow" 0x7fd844b993513206
+def «internal/lossy.var:ErrPartitionOverflow» : Entry := fp! "internal/lossy.var:ErrPartitionOverflow" 0xfd704e5992088baf
+def «internal/lossy.var:KAcTable» : Entry := fp! "internal/lossy.var:KAcTable" 0xa131b1c8598901cb
+def «internal/lossy.var:KAcTable2» : Entry := fp! "internal/lossy.var:KAcTable2" 0x094c0d6fe7fa0ffd
+def «internal/lossy.var:KBModesProba» : Entry := fp! "internal/lossy.var:KBModesProba" 0x08f1742d6a1e0755
+def «internal/lossy.var:KBands» : Entry := fp! "internal/lossy.var:KBands" 0x5ca2e0ee438381c2
+def «internal/lossy.var:KCat3» : Entry := fp! "internal/lossy.var:KCat3" 0x7852d675dd5cbfa3
+def «internal/lossy.var:KCat4» : Entry := fp! "internal/lossy.var:KCat4" 0xc0e7a3ace6231383
+def «internal/lossy.var:KCat5» : Entry := fp! "internal/lossy.var:KCat5" 0x4ca94a104cacdfa3
+def «internal/lossy.var:KCat6» : Entry := fp! "internal/lossy.var:KCat6" 0xb9eab31d4551ca26
+def «internal/lossy.var:KDcTable» : Entry := fp! "internal/lossy.var:KDcTable" 0xf04c4e87f64a3fd1
+def «internal/lossy.var:KYModesIntra4» : Entry := fp! "internal/lossy.var:KYModesIntra4" 0x98e5212842bc6afb
+def «internal/lossy.var:KZigzag» : Entry := fp! "internal/lossy.var:KZigzag" 0x47ceeb7af8fc589e
+def «internal/lossy.var:VP8FixedCostsI4» : Entry := fp! "internal/lossy.var:VP8FixedCostsI4" 0xb1c15a208a7ef0c6
+def «internal/lossy.var:boolWriterPool» : Entry := fp! "internal/lossy.var:boolWriterPool" 0x9cb30db05e0fd806
+def «internal/lossy.var:encoderPool» : Entry := fp! "internal/lossy.var:encoderPool" 0x9beddf68cdf96936
+def «internal/lossy.var:errPrematureEOF» : Entry := fp! "internal/lossy.var:errPrematureEOF" 0xf4dfed8244dca697
+def «internal/lossy.var:importUVWorkerPool» : Entry := fp! "internal/lossy.var:importUVWorkerPool" 0x0cdbeff12606c96e
+def «internal/lossy.var:kBiasMatrices» : Entry := fp! "internal/lossy.var:kBiasMatrices" 0x47385be2dd23fa46
+def «internal/lossy.var:kCat3456» : Entry := fp! "internal/lossy.var:kCat3456" 0xfec1240ffab8c66d
+def «internal/lossy.var:kFreqSharpening» : Entry := fp! "internal/lossy.var:kFreqSharpening" 0x4d4bd0fd763fbbdd
+def «internal/lossy.var:kLevelsFromDelta» : Entry := fp! "internal/lossy.var:kLevelsFromDelta" 0x956c41bce8a13e70
+def «internal/lossy.var:kReverseZigzag» : Entry := fp! "internal/lossy.var:kReverseZigzag" 0x44a1a6568992120c
+def «internal/lossy.var:kScan» : Entry := fp! "internal/lossy.var:kScan" 0x7ed0bdb8f5957b53
+def «internal/lossy.var:kVP8Log2Range» : Entry := fp! "internal/lossy.var:kVP8Log2Range" 0x08954ed36497c24c
+def «internal/lossy.var:kVP8NewRange» : Entry := fp! "internal/lossy.var:kVP8NewRange" 0x901792f8c49c8a1e
+def «internal/lossy.var:kWeightTrellis» : Entry := fp! "internal/lossy.var:kWeightTrellis" 0x960dff6e9c4ba3a7
+def «internal/lossy.var:lossyDecoderPool» : Entry := fp! "internal/lossy.var:lossyDecoderPool" 0xf236063f9681f924
+def «internal/lossy.var:modeFixedCost16» : Entry := fp! "internal/lossy.var:modeFixedCost16" 0x9042735fa81772dc
+def «internal/lossy.var:modeFixedCostUV» : Entry := fp! "internal/lossy.var:modeFixedCostUV" 0x2f48e72b6c2a05ca
+def «internal/lossy.var:parallelPool» : Entry := fp! "internal/lossy.var:parallelPool" 0x430432ad339457c0
+def «internal/lossy.var:vp8LevelCodes» : Entry := fp! "internal/lossy.var:vp8LevelCodes" 0xae412fb5028f2181
+def «internal/lossy.variableLevelCost» : Entry := fp! "internal/lossy.variableLevelCost" 0xbb2db2c684502e13
+def «internal/lossy.writeI16Mode» : Entry := fp! "internal/lossy.writeI16Mode" 0x308305ac2015ec98
+def «internal/lossy.writeI4ModeBits» : Entry := fp! "internal/lossy.writeI4ModeBits" 0x9b0992e68d816d7f
+def «internal/lossy.writeSegmentID» : Entry := fp! "internal/lossy.writeSegmentID" 0xd048bfaf4181b193
+def «internal/lossy.writeUVMode» : Entry := fp! "internal/lossy.writeUVMode" 0x84ee91ef4dc0b073
+def «internal/pool.const:Size16K» : Entry := fp! "internal/pool.const:Size16K" 0x3aafc99950de10a6
+def «internal/pool.const:Size1K» : Entry := fp! "internal/pool.const:Size1K" 0x61849a4f01eb885c
+def «internal/pool.const:Size256B» : Entry := fp! "internal/pool.const:Size256B" 0x899d72d3cbb516c9
+def «internal/pool.const:Size256K» : Entry := fp! "internal/pool.const:Size256K" 0xbb488440f0568fa2
+def «internal/pool.const:Size4K» : Entry := fp! "internal/pool.const:Size4K" 0xa975880ca2c22303
+def «internal/pool.const:Size64K» : Entry := fp! "internal/pool.const:Size64K" 0x4c0ded47386b4db1
+def «internal/pool.var:pools» : Entry := fp! "internal/pool.var:pools" 0x3d2944769557b2d6
+def «mux.ReadChunkHeader» : Entry := fp! "mux.ReadChunkHeader" 0xdc8bd880160b87ad
+def «mux.chunkTotalSize» : Entry := fp! "mux.chunkTotalSize" 0x0a45fa5968fe1de3
+def «mux.const:BlendAlpha» : Entry := fp! "mux.const:BlendAlpha" 0x9762304d5bef40bb
+def «mux.const:BlendNone» : Entry := fp! "mux.const:BlendNone" 0xffd2d518928544c9
+def «mux.const:DisposeBackground» : Entry := fp! "mux.const:DisposeBackground" 0x2fcf17fcb6869213
+def «mux.const:DisposeNone» : Entry := fp! "mux.const:DisposeNone" 0xe0b5d75eef53a6c4
+def «mux.const:FormatExtended» : Entry := fp! "mux.const:FormatExtended" 0x274f84dab43eec9c
+def «mux.const:FormatLossless» : Entry := fp! "mux.const:FormatLossless" 0xe0ec926799d01bbe
+def «mux.const:FormatLossy» : Entry := fp! "mux.const:FormatLossy" 0x7ee3c1c25bd44d74
+def «mux.const:flagAlpha» : Entry := fp! "mux.const:flagAlpha" 0x12e6720de41971f4
+def «mux.const:flagAnimation» : Entry := fp! "mux.const:flagAnimation" 0xcc65b3d5d743405b
+def «mux.const:flagEXIF» : Entry := fp! "mux.const:flagEXIF" 0x07dab520cdb4d566
+def «mux.const:flagICCP» : Entry := fp! "mux.const:flagICCP" 0x4dbc97304f4f97ae
+def «mux.const:flagXMP» : Entry := fp! "mux.const:flagXMP" 0x1770a7a7cd764b4b
+def «mux.const:maxDuration» : Entry := fp! "mux.const:maxDuration" 0x45e6d396033cdabd
+def «mux.const:maxFrames» : Entry := fp! "mux.const:maxFrames" 0x35cad97ca395a613
+def «mux.const:maxLoopCount» : Entry := fp! "mux.const:maxLoopCount" 0xd5a9f1596416f11b
+def «mux.const:maxMetadataSize» : Entry := fp! "mux.const:maxMetadataSize" 0x15baf0bf04b7ded9
+def «mux.detectBitstreamType» : Entry := fp! "mux.detectBitstreamType" 0x30bcf9f9e1eb55d5
+def «mux.fourCCString» : Entry := fp! "mux.fourCCString" 0xa7dc97991d1be58e
+def «mux.frameDataHasAlpha» : Entry := fp! "mux.frameDataHasAlpha" 0xcc46f13a018b857b
+def «mux.frameDimensions» : Entry := fp! "mux.frameDimensions" 0x38856e8b4f1fa706
+def «mux.frameSubChunksSize» : Entry := fp! "mux.frameSubChunksSize" 0xd6be2256e98a5d5b
+def «mux.parseVP8Dimensions» : Entry := fp! "mux.parseVP8Dimensions" 0x268fdb7adff30e7b
+def «mux.parseVP8LDimensions» : Entry := fp! "mux.parseVP8LDimensions" 0x61f0c0845ea0b791
+def «mux.putLE24» : Entry := fp! "mux.putLE24" 0xa5105e69c50efca9
+def «mux.splitAlphaAndBitstream» : Entry := fp! "mux.splitAlphaAndBitstream" 0x1007b96affd10327
+def «mux.var:ErrChunkNotFound» : Entry := fp! "mux.var:ErrChunkNotFound" 0x00337ba1b810f91d
+def «mux.var:ErrChunkTooLarge» : Entry := fp! "mux.var:ErrChunkTooLarge" 0xacf86c14b09e2e3a
+def «mux.var:ErrFrameEmpty» : Entry := fp! "mux.var:ErrFrameEmpty" 0x17bfe09182d8a5bc
+def «mux.var:ErrFrameOutRange» : Entry := fp! "mux.var:ErrFrameOutRange" 0x7857d156641d445d
+def «mux.var:ErrInvalidANIM» : Entry := fp! "mux.var:ErrInvalidANIM" 0x60dccb096a3fea95
+def «mux.var:ErrInvalidANMF» : Entry := fp! "mux.var:ErrInvalidANMF" 0x1e62458291e35377
+def «mux.var:ErrInvalidChunkHeader» : Entry := fp! "mux.var:ErrInvalidChunkHeader" 0x9df836c1f154bc20
+def «mux.var:ErrInvalidFrame» : Entry := fp! "mux.var:ErrInvalidFrame" 0x91461571e797f75c
+def «mux.var:ErrInvalidRIFF» : Entry := fp! "mux.var:ErrInvalidRIFF" 0xf5eb96a65e15e456
+def «mux.var:ErrInvalidVP8X» : Entry := fp! "mux.var:ErrInvalidVP8X" 0x2ac2475d8b1239b4
+def «mux.var:ErrMetadataTooLarge» : Entry := fp! "mux.var:ErrMetadataTooLarge" 0x869cb15f4605e646
+def «mux.var:ErrMuxValidation» : Entry := fp! "mux.var:ErrMuxValidation" 0x57805913c014b179
+def «mux.var:ErrNoFrames» : Entry := fp! "mux.var:ErrNoFrames" 0x60f9871e4fce4aa6
+def «mux.var:ErrNoImage» : Entry := fp! "mux.var:ErrNoImage" 0x15666504327f4d93
+def «mux.var:ErrTooManyFrames» : Entry := fp! "mux.var:ErrTooManyFrames" 0x255711ae2cf7b2a4
+def «mux.var:ErrTruncated» : Entry := fp! "mux.var:ErrTruncated" 0x92621e336807cc3f
+def «mux.var:FourCCALPH» : Entry := fp! "mux.var:FourCCALPH" 0xae30859577853cd6
+def «mux.var:FourCCANIM» : Entry := fp! "mux.var:FourCCANIM" 0x63503fce273f1ebe
+def «mux.var:FourCCANMF» : Entry := fp! "mux.var:FourCCANMF" 0x0ce6bf81393086da
+def «mux.var:FourCCEXIF» : Entry := fp! "mux.var:FourCCEXIF" 0x3dd82b2fd2ee5073
+def «mux.var:FourCCICCP» : Entry := fp! "mux.var:FourCCICCP" 0x7f17aa5a7a223cee
+def «mux.var:FourCCRIFF» : Entry := fp! "mux.var:FourCCRIFF" 0x07ac178239d6bcb3
+def «mux.var:FourCCVP8» : Entry := fp! "mux.var:FourCCVP8" 0x19fad62655f7c743
+def «mux.var:FourCCVP8L» : Entry := fp! "mux.var:FourCCVP8L" 0xe8d4ba16336896ee
+def «mux.var:FourCCVP8X» : Entry := fp! "mux.var:FourCCVP8X" 0x0405fe8578ec26f7
+def «mux.var:FourCCWEBP» : Entry := fp! "mux.var:FourCCWEBP" 0xf9611d38a706ab66
+def «mux.var:FourCCXMP» : Entry := fp! "mux.var:FourCCXMP" 0x53119e6de500121e
+def «mux.writeChunkHeader» : Entry := fp! "mux.writeChunkHeader" 0x4e4654c91c97dc4f
+def «mux.writeDataChunk» : Entry := fp! "mux.writeDataChunk" 0x22df9bd4c1606da2
+def «webp.Decode» : Entry := fp! "webp.Decode" 0xbe238ad2ba062760
+def «webp.DecodeConfig» : Entry := fp! "webp.DecodeConfig" 0x1e80bfcb198757c8
+def «webp.DefaultOptions» : Entry := fp! "webp.DefaultOptions" 0x53d9fac968b32db8
+def «webp.Encode» : Entry := fp! "webp.Encode" 0x8e4ded1f16dc5c62
+def «webp.buildNRGBA» : Entry := fp! "webp.buildNRGBA" 0xd8549ce286e88cbd
+def «webp.buildYCbCr» : Entry := fp! "webp.buildYCbCr" 0x58eabdcf5af51de5
+def «webp.cleanupTransparentAreaLossless» : Entry := fp! "webp.cleanupTransparentAreaLossless" 0xd627a929fac7ead8
+def «webp.cleanupTransparentAreaLossyWith» : Entry := fp! "webp.cleanupTransparentAreaLossyWith" 0xcd1ba902115978a8
+def «webp.const:MaxDimension» : Entry := fp! "webp.const:MaxDimension" 0xea69fb074b0ec3bd
+def «webp.const:MaxInputSize» : Entry := fp! "webp.const:MaxInputSize" 0x2b0d1cd600b02bc1
+def «webp.const:PresetDefault» : Entry := fp! "webp.const:PresetDefault" 0xb73f18ab21471aec
+def «webp.const:PresetDrawing» : Entry := fp! "webp.const:PresetDrawing" 0x40887f8fd3453b59
+def «webp.const:PresetIcon» : Entry := fp! "webp.const:PresetIcon" 0x226dca483d4c17fd
+def «webp.const:PresetPhoto» : Entry := fp! "webp.const:PresetPhoto" 0x17ec06d057b7f8ee
+def «webp.const:PresetPicture» : Entry := fp! "webp.const:PresetPicture" 0xeb8478f9fbc0c839
+def «webp.const:PresetText» : Entry := fp! "webp.const:PresetText" 0x40f9252437e69346
+def «webp.decodeBytes» : Entry := fp! "webp.decodeBytes" 0xf741524a9c987ae2
+def «webp.decodeFrame» : Entry := fp! "webp.decodeFrame" 0x4504283f57fb7308
+def «webp.decodeFrameForAnimation» : Entry := fp! "webp.decodeFrameForAnimation" 0x5a3305f5ec7df470
+def «webp.decodeLossless» : Entry := fp! "webp.decodeLossless" 0xb111a1f0359d1a1b
+def «webp.decodeLossy» : Entry := fp! "webp.decodeLossy" 0x7eeae068373756e5
+def «webp.encodeFrameForAnimation» : Entry := fp! "webp.encodeFrameForAnimation" 0x02ee76939f088a51
+def «webp.encodeLossless» : Entry := fp! "webp.encodeLossless" 0x6c24a9390e67cfb9
+def «webp.encodeLosslessToWriter» : Entry := fp! "webp.encodeLosslessToWriter" 0x8286e0b6f714af06
+def «webp.encodeLossyWithAlpha» : Entry := fp! "webp.encodeLossyWithAlpha" 0x08226ead4703904f
+def «webp.extractAlphaWith» : Entry := fp! "webp.extractAlphaWith" 0xc43ac4477c1543f8
+def «webp.flattenBlockNRGBA» : Entry := fp! "webp.flattenBlockNRGBA" 0xe455778406f45ea6
+def «webp.imageHasAlpha» : Entry := fp! "webp.imageHasAlpha" 0xeb9a644ac8463430
+def «webp.putLE24» : Entry := fp! "webp.putLE24" 0x882766cad7dd57f2
+def «webp.readAll» : Entry := fp! "webp.readAll" 0x5cacae5d8c177606
+def «webp.resolveAlphaCompression» : Entry := fp! "webp.resolveAlphaCompression" 0x51fbf9804a5d9271
+def «webp.resolveAlphaFiltering» : Entry := fp! "webp.resolveAlphaFiltering" 0x4f12e7e5864c74cd
+def «webp.resolveAlphaQuality» : Entry := fp! "webp.resolveAlphaQuality" 0xec83d6f3bf8a094e
+def «webp.resolveQMax» : Entry := fp! "webp.resolveQMax" 0xdeb8bcc08bfa7566
+def «webp.rgbaIsOpaque» : Entry := fp! "webp.rgbaIsOpaque" 0x3ed934f2ea928e7c
+def «webp.rgbaToNRGBA» : Entry := fp! "webp.rgbaToNRGBA" 0x11f368d18243aaa2
+def «webp.sharpYUVConvert» : Entry := fp! "webp.sharpYUVConvert" 0x890569e2b5163fdb
+def «webp.simpleEncodeForAnimation» : Entry := fp! "webp.simpleEncodeForAnimation" 0xebb862eff8531dd0
+def «webp.smoothenBlockNRGBA» : Entry := fp! "webp.smoothenBlockNRGBA" 0x01128043f846d8ed
+def «webp.validNRGBA» : Entry := fp! "webp.validNRGBA" 0x0e2d86462118b20b
+def «webp.validRGBA» : Entry := fp! "webp.validRGBA" 0x7abbe05cc21ac79f
+def «webp.validateConfig» : Entry := fp! "webp.validateConfig" 0xa6eaf5880aafb153
+def «webp.var:ErrNoFrames» : Entry := fp! "webp.var:ErrNoFrames" 0xe762bed86d6ea34a
+def «webp.var:argbPool» : Entry := fp! "webp.var:argbPool" 0xbef24bd22ece0489
+def «webp.writeRIFF» : Entry := fp! "webp.writeRIFF" 0xd83298f126f9e0d2
+def «webp.writeRIFFExtended» : Entry := fp! "webp.writeRIFFExtended" 0x83c1a0beea12662f
+def «webp.writeRIFFSimple» : Entry := fp! "webp.writeRIFFSimple" 0x847d7dd7e0f78046
+def «webp.ycbcrToNRGBA» : Entry := fp! "webp.ycbcrToNRGBA" 0xcf2cd1bbf410183d
+end dep
+-- END closure entries
+
 /-! ## groups: one per model file -/
 
 /-- Webp/Impl/AnimDec.lean (animation.AnimDecoder: playback) -/
-def animDec : List Entry := [
+def animDec_roots : List Entry := [
   fp! "animation.NewAnimDecoder" 0xface9b38d3731f4b,
   fp! "animation.AnimDecoder.HasNext" 0xbe43a9a689206ae8,
   fp! "animation.AnimDecoder.isKeyFrame" 0xd2edb88c5b5ab08d,
@@ -64,9 +1137,21 @@ def animDec : List Entry := [
   fp! "animation.Frame.Bounds" 0x2371a71e4d603889,
   fp! "animation.toNRGBA" 0x3a9203454c43ee91
 ]
+-- BEGIN deps animDec (written by tools/update_fingerprints.py — do not edit by hand)
+def animDec_deps : List Entry := [
+  dep.«animation.bitstreamFrame.Bounds»,
+  dep.«animation.const:BlendNone»,
+  dep.«animation.const:DisposeBackground»,
+  dep.«animation.const:DisposeNone»,
+  dep.«animation.const:maxCanvasArea»,
+  dep.«animation.var:ErrNilImage»,
+  dep.«animation.var:ErrNoFrames»
+]
+-- END deps animDec
+def animDec : List Entry := animDec_roots ++ animDec_deps
 
 /-- Webp/Impl/AnimEnc.lean (animation.AnimEncoder, the muxer as it sees it, frame codec glue) -/
-def animEnc : List Entry := [
+def animEnc_roots : List Entry := [
   fp! "animation.NewEncoder" 0x87445bda2a3edb65,
   fp! "animation.clampLoopCount" 0xda63291eb0d677a4,
   fp! "animation.sanitizeKeyframeOptions" 0x77eff691921a42b3,
@@ -101,9 +1186,68 @@ def animEnc : List Entry := [
   fp! "mux.clampDuration" 0x5995aa90fb914945,
   fp! "mux.splitAlphaAndBitstream" 0x1007b96affd10327
 ]
+-- BEGIN deps animEnc (written by tools/update_fingerprints.py — do not edit by hand)
+def animEnc_deps : List Entry := [
+  dep.«animation.Frame.Bounds»,
+  dep.«animation.argbToNRGBA»,
+  dep.«animation.bitstreamFrame.Bounds»,
+  dep.«animation.const:BlendAlpha»,
+  dep.«animation.const:BlendNone»,
+  dep.«animation.const:DisposeBackground»,
+  dep.«animation.const:DisposeNone»,
+  dep.«animation.const:maxCanvasDimension»,
+  dep.«animation.const:maxDuration»,
+  dep.«animation.const:maxLoopCount»,
+  dep.«animation.fillRect»,
+  dep.«animation.nrgbaToARGB»,
+  dep.«animation.toNRGBA»,
+  dep.«animation.var:ErrNoDecoder»,
+  dep.«animation.var:FrameDecoderFunc»,
+  dep.«animation.var:FrameEncoderFunc»,
+  dep.«animation.var:SimpleEncodeFunc»,
+  dep.«mux.const:maxDuration»,
+  dep.«mux.var:ErrFrameEmpty»,
+  dep.«mux.var:FourCCALPH»,
+  dep.«webp.DefaultOptions»,
+  dep.«webp.Encode»,
+  dep.«webp.buildNRGBA»,
+  dep.«webp.buildYCbCr»,
+  dep.«webp.cleanupTransparentAreaLossless»,
+  dep.«webp.cleanupTransparentAreaLossyWith»,
+  dep.«webp.const:MaxDimension»,
+  dep.«webp.const:PresetDefault»,
+  dep.«webp.const:PresetText»,
+  dep.«webp.decodeLossless»,
+  dep.«webp.decodeLossy»,
+  dep.«webp.encodeLossless»,
+  dep.«webp.encodeLosslessToWriter»,
+  dep.«webp.encodeLossyWithAlpha»,
+  dep.«webp.extractAlphaWith»,
+  dep.«webp.flattenBlockNRGBA»,
+  dep.«webp.imageHasAlpha»,
+  dep.«webp.putLE24»,
+  dep.«webp.resolveAlphaCompression»,
+  dep.«webp.resolveAlphaFiltering»,
+  dep.«webp.resolveAlphaQuality»,
+  dep.«webp.resolveQMax»,
+  dep.«webp.rgbaIsOpaque»,
+  dep.«webp.rgbaToNRGBA»,
+  dep.«webp.sharpYUVConvert»,
+  dep.«webp.smoothenBlockNRGBA»,
+  dep.«webp.validNRGBA»,
+  dep.«webp.validRGBA»,
+  dep.«webp.validateConfig»,
+  dep.«webp.var:argbPool»,
+  dep.«webp.writeRIFF»,
+  dep.«webp.writeRIFFExtended»,
+  dep.«webp.writeRIFFSimple»,
+  dep.«webp.ycbcrToNRGBA»
+]
+-- END deps animEnc
+def animEnc : List Entry := animEnc_roots ++ animEnc_deps
 
 /-- Webp/Impl/BoolCoder.lean, writer half (internal/bitio/writer_bool.go) -/
-def boolWriter : List Entry := [
+def boolWriter_roots : List Entry := [
   fp! "internal/bitio.NewBoolWriter" 0x2f1f5e2dac597332,
   fp! "internal/bitio.BoolWriter.Reset" 0x5977808e724088b6,
   fp! "internal/bitio.BoolWriter.PutBit" 0xe5835ea59d32e8b9,
@@ -114,9 +1258,17 @@ def boolWriter : List Entry := [
   fp! "internal/bitio.BoolWriter.flush" 0x4414c8c7954961f2,
   fp! "internal/bitio.BoolWriter.Finish" 0xf3c08fadfde4a0ab
 ]
+-- BEGIN deps boolWriter (written by tools/update_fingerprints.py — do not edit by hand)
+def boolWriter_deps : List Entry := [
+  dep.«internal/bitio.boolToInt»,
+  dep.«internal/bitio.var:kNewRange»,
+  dep.«internal/bitio.var:kNorm»
+]
+-- END deps boolWriter
+def boolWriter : List Entry := boolWriter_roots ++ boolWriter_deps
 
 /-- Webp/Impl/BoolCoder.lean, reader half (internal/bitio/reader_bool.go) -/
-def boolReader : List Entry := [
+def boolReader_roots : List Entry := [
   fp! "internal/bitio.NewBoolReader" 0x6ed19273fda561a9,
   fp! "internal/bitio.BoolReader.loadNewBytes" 0x10af2e4f1756fde4,
   fp! "internal/bitio.BoolReader.loadFinalBytes" 0x904d2f94cdfebb03,
@@ -127,9 +1279,17 @@ def boolReader : List Entry := [
   fp! "internal/bitio.BoolReader.GetSignedValue" 0x498581157d2c94e5,
   fp! "internal/bitio.BoolReader.EOF" 0x53aaa85314ac7b5c
 ]
+-- BEGIN deps boolReader (written by tools/update_fingerprints.py — do not edit by hand)
+def boolReader_deps : List Entry := [
+  dep.«internal/bitio.const:boolBITS»,
+  dep.«internal/bitio.var:kVP8Log2Range»,
+  dep.«internal/bitio.var:kVP8NewRange»
+]
+-- END deps boolReader
+def boolReader : List Entry := boolReader_roots ++ boolReader_deps
 
 /-- Webp/Impl/CodecFront.lean (VP8 decoder front end, buffer arithmetic, row slicing of webp.go) -/
-def codecFront : List Entry := [
+def codecFront_roots : List Entry := [
   fp! "internal/lossy.DecodeFrame" 0x0cbe1247c056a9e7,
   fp! "internal/lossy.acquireDecoder" 0x150b38a57a16dc7e,
   fp! "internal/lossy.Decoder.parseHeaders" 0x2d0b0a4e64fe87af,
@@ -146,9 +1306,127 @@ def codecFront : List Entry := [
   fp! "webp.buildNRGBA" 0xd8549ce286e88cbd,
   fp! "internal/dsp.UpsampleLinePairNRGBA" 0x64c0b8cef50f722c
 ]
+-- BEGIN deps codecFront (written by tools/update_fingerprints.py — do not edit by hand)
+def codecFront_deps : List Entry := [
+  dep.«internal/dsp.YUVToB»,
+  dep.«internal/dsp.YUVToG»,
+  dep.«internal/dsp.YUVToR»,
+  dep.«internal/dsp.YUVToRGB»,
+  dep.«internal/dsp.const:kBBias»,
+  dep.«internal/dsp.const:kBCb»,
+  dep.«internal/dsp.const:kGBias»,
+  dep.«internal/dsp.const:kGCb»,
+  dep.«internal/dsp.const:kGCr»,
+  dep.«internal/dsp.const:kRBias»,
+  dep.«internal/dsp.const:kRCr»,
+  dep.«internal/dsp.const:kYScale»,
+  dep.«internal/dsp.const:yuvFix2»,
+  dep.«internal/dsp.const:yuvMask»,
+  dep.«internal/dsp.loadUV»,
+  dep.«internal/dsp.multHi»,
+  dep.«internal/dsp.upsampleLinePairNRGBAGo»,
+  dep.«internal/dsp.var:hasAVX2»,
+  dep.«internal/dsp.var:vp8kClip»,
+  dep.«internal/dsp.yuvPackedToNRGBABatchAVX2»,
+  dep.«internal/dsp.yuvPackedToNRGBABatchSSE2»,
+  dep.«internal/lossy.Decoder.decodeMB»,
+  dep.«internal/lossy.Decoder.doFilter»,
+  dep.«internal/lossy.Decoder.filterRowAt»,
+  dep.«internal/lossy.Decoder.initScanline»,
+  dep.«internal/lossy.Decoder.parseFrame»,
+  dep.«internal/lossy.Decoder.parseIntraModeRow»,
+  dep.«internal/lossy.Decoder.parseResiduals»,
+  dep.«internal/lossy.Decoder.precomputeFilterStrengths»,
+  dep.«internal/lossy.Decoder.reconstructRow»,
+  dep.«internal/lossy.ReleaseDecoder»,
+  dep.«internal/lossy.abs»,
+  dep.«internal/lossy.b2i»,
+  dep.«internal/lossy.brLoad»,
+  dep.«internal/lossy.brSync»,
+  dep.«internal/lossy.checkMode»,
+  dep.«internal/lossy.clamp255»,
+  dep.«internal/lossy.clip»,
+  dep.«internal/lossy.const:BDCPred»,
+  dep.«internal/lossy.const:BDCPredNoLeft»,
+  dep.«internal/lossy.const:BDCPredNoTop»,
+  dep.«internal/lossy.const:BDCPredNoTopLeft»,
+  dep.«internal/lossy.const:BHDPred»,
+  dep.«internal/lossy.const:BHEPred»,
+  dep.«internal/lossy.const:BHUPred»,
+  dep.«internal/lossy.const:BLDPred»,
+  dep.«internal/lossy.const:BPS»,
+  dep.«internal/lossy.const:BRDPred»,
+  dep.«internal/lossy.const:BTMPred»,
+  dep.«internal/lossy.const:BVEPred»,
+  dep.«internal/lossy.const:BVLPred»,
+  dep.«internal/lossy.const:BVRPred»,
+  dep.«internal/lossy.const:DCPred»,
+  dep.«internal/lossy.const:HPred»,
+  dep.«internal/lossy.const:MBFeatureTreeProbs»,
+  dep.«internal/lossy.const:NumBModes»,
+  dep.«internal/lossy.const:NumBands»,
+  dep.«internal/lossy.const:NumCTX»,
+  dep.«internal/lossy.const:NumMBSegments»,
+  dep.«internal/lossy.const:NumModeLFDeltas»,
+  dep.«internal/lossy.const:NumProbas»,
+  dep.«internal/lossy.const:NumRefLFDeltas»,
+  dep.«internal/lossy.const:NumTypes»,
+  dep.«internal/lossy.const:TMPred»,
+  dep.«internal/lossy.const:UOff»,
+  dep.«internal/lossy.const:VOff»,
+  dep.«internal/lossy.const:VPred»,
+  dep.«internal/lossy.const:YOff»,
+  dep.«internal/lossy.const:YUVSize»,
+  dep.«internal/lossy.doSimpleFilter2»,
+  dep.«internal/lossy.doSimpleFilter4»,
+  dep.«internal/lossy.doSimpleFilter6»,
+  dep.«internal/lossy.doTransform»,
+  dep.«internal/lossy.doTransformDCBlock»,
+  dep.«internal/lossy.doUVTransform»,
+  dep.«internal/lossy.fastBit»,
+  dep.«internal/lossy.fastSigned»,
+  dep.«internal/lossy.fillBytes»,
+  dep.«internal/lossy.filterLoop24HAt»,
+  dep.«internal/lossy.filterLoop24VAt»,
+  dep.«internal/lossy.filterLoop26At»,
+  dep.«internal/lossy.filterLoop26HAt»,
+  dep.«internal/lossy.filterLoop26VAt»,
+  dep.«internal/lossy.getCoeffsInline»,
+  dep.«internal/lossy.hFilter16iAt»,
+  dep.«internal/lossy.hFilter8iAt»,
+  dep.«internal/lossy.isHEV»,
+  dep.«internal/lossy.needsFilter2At»,
+  dep.«internal/lossy.nzCodeBits»,
+  dep.«internal/lossy.sclip1»,
+  dep.«internal/lossy.sclip2»,
+  dep.«internal/lossy.simpleHFilter16At»,
+  dep.«internal/lossy.simpleHFilter16iAt»,
+  dep.«internal/lossy.vFilter16iAt»,
+  dep.«internal/lossy.vFilter8iAt»,
+  dep.«internal/lossy.var:CoeffsProba0»,
+  dep.«internal/lossy.var:CoeffsUpdateProba»,
+  dep.«internal/lossy.var:KAcTable»,
+  dep.«internal/lossy.var:KBModesProba»,
+  dep.«internal/lossy.var:KBands»,
+  dep.«internal/lossy.var:KCat3»,
+  dep.«internal/lossy.var:KCat4»,
+  dep.«internal/lossy.var:KCat5»,
+  dep.«internal/lossy.var:KCat6»,
+  dep.«internal/lossy.var:KDcTable»,
+  dep.«internal/lossy.var:KYModesIntra4»,
+  dep.«internal/lossy.var:KZigzag»,
+  dep.«internal/lossy.var:errPrematureEOF»,
+  dep.«internal/lossy.var:kCat3456»,
+  dep.«internal/lossy.var:kScan»,
+  dep.«internal/lossy.var:kVP8Log2Range»,
+  dep.«internal/lossy.var:kVP8NewRange»,
+  dep.«internal/lossy.var:lossyDecoderPool»
+]
+-- END deps codecFront
+def codecFront : List Entry := codecFront_roots ++ codecFront_deps
 
 /-- Webp/Impl/CodecFrontL.lean (VP8L decoder front end, allocation sizes, copy guards) -/
-def codecFrontL : List Entry := [
+def codecFrontL_roots : List Entry := [
   fp! "internal/lossless.DecodeVP8L" 0xc0cdc94041ff097c,
   fp! "internal/lossless.Decoder.decodeHeader" 0xf48ce041e0ec8c61,
   fp! "internal/lossless.Decoder.decodeImageStream" 0xa89562674f52d4c9,
@@ -173,9 +1451,100 @@ def codecFrontL : List Entry := [
   fp! "internal/bitio.LosslessReader.ReadBits" 0xbd7944ab83ba1053,
   fp! "internal/bitio.LosslessReader.IsEndOfStream" 0xbe3eb360ee02fc14
 ]
+-- BEGIN deps codecFrontL (written by tools/update_fingerprints.py — do not edit by hand)
+def codecFrontL_deps : List Entry := [
+  dep.«internal/bitio.LosslessReader.PrefetchBits»,
+  dep.«internal/bitio.LosslessReader.setEndOfStream»,
+  dep.«internal/bitio.LosslessReader.shiftBytes»,
+  dep.«internal/bitio.const:vp8lLBits»,
+  dep.«internal/bitio.const:vp8lMaxNumBitRead»,
+  dep.«internal/bitio.var:kBitMask»,
+  dep.«internal/lossless.BuildHuffmanTableScratch»,
+  dep.«internal/lossless.ColorCache.HashPix»,
+  dep.«internal/lossless.ColorCache.Insert»,
+  dep.«internal/lossless.ColorCache.Lookup»,
+  dep.«internal/lossless.Decoder.getHTreeGroup»,
+  dep.«internal/lossless.Decoder.getMetaIndex»,
+  dep.«internal/lossless.Decoder.huffTableScratch»,
+  dep.«internal/lossless.ReadSymbol»,
+  dep.«internal/lossless.accumulateHCode»,
+  dep.«internal/lossless.acquireDecoder»,
+  dep.«internal/lossless.addGreenToBlueAndRed»,
+  dep.«internal/lossless.addPixels»,
+  dep.«internal/lossless.average2»,
+  dep.«internal/lossless.buildHuffmanTableSize»,
+  dep.«internal/lossless.buildPackedTable»,
+  dep.«internal/lossless.clampedAddSubtractFull»,
+  dep.«internal/lossless.clampedAddSubtractHalf»,
+  dep.«internal/lossless.colorIndexInverseTransform»,
+  dep.«internal/lossless.colorSpaceInverseTransform»,
+  dep.«internal/lossless.colorSpaceInverseTransformParallel»,
+  dep.«internal/lossless.const:CodeLengthCodes»,
+  dep.«internal/lossless.const:CodeLengthLiterals»,
+  dep.«internal/lossless.const:CodeLengthRepeatCode»,
+  dep.«internal/lossless.const:CodeToPlaneCodesCount»,
+  dep.«internal/lossless.const:ColorIndexingTransform»,
+  dep.«internal/lossless.const:CrossColorTransform»,
+  dep.«internal/lossless.const:DefaultCodeLength»,
+  dep.«internal/lossless.const:HuffAlpha»,
+  dep.«internal/lossless.const:HuffBlue»,
+  dep.«internal/lossless.const:HuffDist»,
+  dep.«internal/lossless.const:HuffGreen»,
+  dep.«internal/lossless.const:HuffRed»,
+  dep.«internal/lossless.const:HuffmanCodesPerMetaCode»,
+  dep.«internal/lossless.const:HuffmanPackedBits»,
+  dep.«internal/lossless.const:HuffmanPackedTableSize»,
+  dep.«internal/lossless.const:HuffmanTableBits»,
+  dep.«internal/lossless.const:HuffmanTableMask»,
+  dep.«internal/lossless.const:LengthsTableBits»,
+  dep.«internal/lossless.const:LengthsTableMask»,
+  dep.«internal/lossless.const:MaxAllowedCodeLength»,
+  dep.«internal/lossless.const:MaxCacheBits»,
+  dep.«internal/lossless.const:MinHuffmanBits»,
+  dep.«internal/lossless.const:MinTransformBits»,
+  dep.«internal/lossless.const:NumDistanceCodes»,
+  dep.«internal/lossless.const:NumHuffmanBits»,
+  dep.«internal/lossless.const:NumLengthCodes»,
+  dep.«internal/lossless.const:NumLiteralCodes»,
+  dep.«internal/lossless.const:NumTransformBits»,
+  dep.«internal/lossless.const:PredictorTransform»,
+  dep.«internal/lossless.const:SubtractGreenTransform»,
+  dep.«internal/lossless.const:VP8LHeaderSize»,
+  dep.«internal/lossless.const:VP8LImageSizeBits»,
+  dep.«internal/lossless.const:VP8LMagicByte»,
+  dep.«internal/lossless.const:VP8LVersion»,
+  dep.«internal/lossless.const:VP8LVersionBits»,
+  dep.«internal/lossless.const:bitsSpecialMarker»,
+  dep.«internal/lossless.const:kHashMul»,
+  dep.«internal/lossless.const:minPixelsForParallel»,
+  dep.«internal/lossless.const:numArgbCacheRows»,
+  dep.«internal/lossless.getARGBIndex»,
+  dep.«internal/lossless.getNextKey»,
+  dep.«internal/lossless.inverseTransform»,
+  dep.«internal/lossless.nextTableBitSize»,
+  dep.«internal/lossless.predictorInverseTransform»,
+  dep.«internal/lossless.readPackedSymbols»,
+  dep.«internal/lossless.releaseDecoder»,
+  dep.«internal/lossless.replicateValue»,
+  dep.«internal/lossless.selectPredictor»,
+  dep.«internal/lossless.var:CodeLengthCodeOrder»,
+  dep.«internal/lossless.var:CodeLengthExtraBits»,
+  dep.«internal/lossless.var:CodeLengthRepeatOffsets»,
+  dep.«internal/lossless.var:CodeToPlane»,
+  dep.«internal/lossless.var:ErrBadSignature»,
+  dep.«internal/lossless.var:ErrBadVersion»,
+  dep.«internal/lossless.var:ErrBitstream»,
+  dep.«internal/lossless.var:ErrEmptyCodeLengths»,
+  dep.«internal/lossless.var:ErrInvalidTree»,
+  dep.«internal/lossless.var:KLiteralMap»,
+  dep.«internal/lossless.var:kBaseAlphabetSize»,
+  dep.«internal/lossless.var:losslessDecoderPool»
+]
+-- END deps codecFrontL
+def codecFrontL : List Entry := codecFrontL_roots ++ codecFrontL_deps
 
 /-- Webp/Impl/Config.lean (header-query glue of webp.go) -/
-def config : List Entry := [
+def config_roots : List Entry := [
   fp! "webp.GetFeatures" 0x3ef20086477bf4dd,
   fp! "webp.DecodeConfig" 0x1e80bfcb198757c8,
   fp! "webp.Decode" 0xbe238ad2ba062760,
@@ -185,9 +1554,52 @@ def config : List Entry := [
   fp! "webp.readAll" 0x5cacae5d8c177606,
   fp! "webp.init" 0xff3433fac0c13526
 ]
+-- BEGIN deps config (written by tools/update_fingerprints.py — do not edit by hand)
+def config_deps : List Entry := [
+  dep.«webp.DefaultOptions»,
+  dep.«webp.Encode»,
+  dep.«webp.buildNRGBA»,
+  dep.«webp.buildYCbCr»,
+  dep.«webp.cleanupTransparentAreaLossless»,
+  dep.«webp.cleanupTransparentAreaLossyWith»,
+  dep.«webp.const:MaxDimension»,
+  dep.«webp.const:MaxInputSize»,
+  dep.«webp.const:PresetDefault»,
+  dep.«webp.const:PresetText»,
+  dep.«webp.decodeFrameForAnimation»,
+  dep.«webp.decodeLossy»,
+  dep.«webp.encodeFrameForAnimation»,
+  dep.«webp.encodeLossless»,
+  dep.«webp.encodeLosslessToWriter»,
+  dep.«webp.encodeLossyWithAlpha»,
+  dep.«webp.extractAlphaWith»,
+  dep.«webp.flattenBlockNRGBA»,
+  dep.«webp.imageHasAlpha»,
+  dep.«webp.putLE24»,
+  dep.«webp.resolveAlphaCompression»,
+  dep.«webp.resolveAlphaFiltering»,
+  dep.«webp.resolveAlphaQuality»,
+  dep.«webp.resolveQMax»,
+  dep.«webp.rgbaIsOpaque»,
+  dep.«webp.rgbaToNRGBA»,
+  dep.«webp.sharpYUVConvert»,
+  dep.«webp.simpleEncodeForAnimation»,
+  dep.«webp.smoothenBlockNRGBA»,
+  dep.«webp.validNRGBA»,
+  dep.«webp.validRGBA»,
+  dep.«webp.validateConfig»,
+  dep.«webp.var:ErrNoFrames»,
+  dep.«webp.var:argbPool»,
+  dep.«webp.writeRIFF»,
+  dep.«webp.writeRIFFExtended»,
+  dep.«webp.writeRIFFSimple»,
+  dep.«webp.ycbcrToNRGBA»
+]
+-- END deps config
+def config : List Entry := config_roots ++ config_deps
 
 /-- Webp/Impl/Demux.lean (mux.NewDemuxer) -/
-def demux : List Entry := [
+def demux_roots : List Entry := [
   fp! "mux.ReadChunkHeader" 0xdc8bd880160b87ad,
   fp! "mux.ReadChunk" 0x68d92311e7e20f8e,
   fp! "mux.NewDemuxer" 0xd3b6ec9ff48e0cb1,
@@ -210,9 +1622,53 @@ def demux : List Entry := [
   fp! "mux.Demuxer.LoopCount" 0xe9274ca29149cf17,
   fp! "mux.Demuxer.BackgroundColor" 0x6bbd28dd1c261792
 ]
+-- BEGIN deps demux (written by tools/update_fingerprints.py — do not edit by hand)
+def demux_deps : List Entry := [
+  dep.«mux.const:BlendAlpha»,
+  dep.«mux.const:BlendNone»,
+  dep.«mux.const:DisposeBackground»,
+  dep.«mux.const:DisposeNone»,
+  dep.«mux.const:FormatExtended»,
+  dep.«mux.const:FormatLossless»,
+  dep.«mux.const:FormatLossy»,
+  dep.«mux.const:flagAlpha»,
+  dep.«mux.const:flagAnimation»,
+  dep.«mux.const:flagEXIF»,
+  dep.«mux.const:flagICCP»,
+  dep.«mux.const:flagXMP»,
+  dep.«mux.const:maxFrames»,
+  dep.«mux.const:maxMetadataSize»,
+  dep.«mux.fourCCString»,
+  dep.«mux.var:ErrChunkNotFound»,
+  dep.«mux.var:ErrChunkTooLarge»,
+  dep.«mux.var:ErrFrameOutRange»,
+  dep.«mux.var:ErrInvalidANIM»,
+  dep.«mux.var:ErrInvalidANMF»,
+  dep.«mux.var:ErrInvalidChunkHeader»,
+  dep.«mux.var:ErrInvalidFrame»,
+  dep.«mux.var:ErrInvalidRIFF»,
+  dep.«mux.var:ErrInvalidVP8X»,
+  dep.«mux.var:ErrMetadataTooLarge»,
+  dep.«mux.var:ErrNoImage»,
+  dep.«mux.var:ErrTooManyFrames»,
+  dep.«mux.var:ErrTruncated»,
+  dep.«mux.var:FourCCALPH»,
+  dep.«mux.var:FourCCANIM»,
+  dep.«mux.var:FourCCANMF»,
+  dep.«mux.var:FourCCEXIF»,
+  dep.«mux.var:FourCCICCP»,
+  dep.«mux.var:FourCCRIFF»,
+  dep.«mux.var:FourCCVP8»,
+  dep.«mux.var:FourCCVP8L»,
+  dep.«mux.var:FourCCVP8X»,
+  dep.«mux.var:FourCCWEBP»,
+  dep.«mux.var:FourCCXMP»
+]
+-- END deps demux
+def demux : List Entry := demux_roots ++ demux_deps
 
 /-- Webp/Impl/Import.lean (every place that reads pixels out of the caller's image) -/
-def importPix : List Entry := [
+def importPix_roots : List Entry := [
   fp! "webp.validNRGBA" 0x0e2d86462118b20b,
   fp! "webp.validRGBA" 0x7abbe05cc21ac79f,
   fp! "webp.rgbaIsOpaque" 0x3ed934f2ea928e7c,
@@ -234,9 +1690,18 @@ def importPix : List Entry := [
   fp! "internal/dsp.RandomBits" 0x3ba30af3b22302b0,
   fp! "internal/dsp.RandomBits2" 0x6069485d3343bdb3
 ]
+-- BEGIN deps importPix (written by tools/update_fingerprints.py — do not edit by hand)
+def importPix_deps : List Entry := [
+  dep.«internal/dsp.const:vp8RandomDitherFix»,
+  dep.«internal/dsp.const:vp8RandomTableSize»,
+  dep.«internal/lossy.var:importUVWorkerPool»,
+  dep.«webp.var:argbPool»
+]
+-- END deps importPix
+def importPix : List Entry := importPix_roots ++ importPix_deps
 
 /-- Webp/Impl/Mux.lean (mux.Muxer as a state machine, Assemble) -/
-def muxer : List Entry := [
+def muxer_roots : List Entry := [
   fp! "mux.NewMuxer" 0x9f13310eaba2db8d,
   fp! "mux.Muxer.SetICCProfile" 0x752fe4c0aeb73945,
   fp! "mux.Muxer.SetEXIF" 0x3b847c6a8f55c9bc,
@@ -273,9 +1738,42 @@ def muxer : List Entry := [
   fp! "mux.putLE24" 0xa5105e69c50efca9,
   fp! "mux.writeChunkHeader" 0x4e4654c91c97dc4f
 ]
+-- BEGIN deps muxer (written by tools/update_fingerprints.py — do not edit by hand)
+def muxer_deps : List Entry := [
+  dep.«mux.const:BlendAlpha»,
+  dep.«mux.const:BlendNone»,
+  dep.«mux.const:DisposeBackground»,
+  dep.«mux.const:flagAlpha»,
+  dep.«mux.const:flagAnimation»,
+  dep.«mux.const:flagEXIF»,
+  dep.«mux.const:flagICCP»,
+  dep.«mux.const:flagXMP»,
+  dep.«mux.const:maxDuration»,
+  dep.«mux.const:maxLoopCount»,
+  dep.«mux.const:maxMetadataSize»,
+  dep.«mux.parseVP8Dimensions»,
+  dep.«mux.parseVP8LDimensions»,
+  dep.«mux.var:ErrFrameEmpty»,
+  dep.«mux.var:ErrInvalidFrame»,
+  dep.«mux.var:ErrMuxValidation»,
+  dep.«mux.var:ErrNoFrames»,
+  dep.«mux.var:FourCCALPH»,
+  dep.«mux.var:FourCCANIM»,
+  dep.«mux.var:FourCCANMF»,
+  dep.«mux.var:FourCCEXIF»,
+  dep.«mux.var:FourCCICCP»,
+  dep.«mux.var:FourCCRIFF»,
+  dep.«mux.var:FourCCVP8»,
+  dep.«mux.var:FourCCVP8L»,
+  dep.«mux.var:FourCCVP8X»,
+  dep.«mux.var:FourCCWEBP»,
+  dep.«mux.var:FourCCXMP»
+]
+-- END deps muxer
+def muxer : List Entry := muxer_roots ++ muxer_deps
 
 /-- Webp/Impl/Opts.lean (option handling of encode.go) -/
-def opts : List Entry := [
+def opts_roots : List Entry := [
   fp! "webp.DefaultOptions" 0x53d9fac968b32db8,
   fp! "webp.OptionsForPreset" 0x082ea38bd4fb5ca2,
   fp! "webp.validateConfig" 0xa6eaf5880aafb153,
@@ -302,9 +1800,335 @@ def opts : List Entry := [
   fp! "internal/lossless.DefaultEncoderConfig" 0xbc0fdbec252f99bf,
   fp! "animation.NewEncoder" 0x87445bda2a3edb65
 ]
+-- BEGIN deps opts (written by tools/update_fingerprints.py — do not edit by hand)
+def opts_deps : List Entry := [
+  dep.«animation.clampLoopCount»,
+  dep.«animation.const:maxCanvasDimension»,
+  dep.«animation.const:maxLoopCount»,
+  dep.«animation.nrgbaToARGB»,
+  dep.«animation.sanitizeKeyframeOptions»,
+  dep.«internal/lossless.ApplyNearLossless»,
+  dep.«internal/lossless.ApplyPaletteTransform»,
+  dep.«internal/lossless.BackwardReferences2DLocality»,
+  dep.«internal/lossless.BackwardReferencesLz77»,
+  dep.«internal/lossless.BackwardReferencesLz77Box»,
+  dep.«internal/lossless.BackwardReferencesRle»,
+  dep.«internal/lossless.BackwardRefs.Add»,
+  dep.«internal/lossless.BackwardRefs.Len»,
+  dep.«internal/lossless.BackwardRefs.Refs»,
+  dep.«internal/lossless.BackwardRefs.Reset»,
+  dep.«internal/lossless.BackwardRefsWithLocalCache»,
+  dep.«internal/lossless.BuildCodeLengthTokens»,
+  dep.«internal/lossless.BuildCodeLengthTokensScratch»,
+  dep.«internal/lossless.CachePixel»,
+  dep.«internal/lossless.CalculateBestCacheSize»,
+  dep.«internal/lossless.ColorCache.Contains»,
+  dep.«internal/lossless.ColorCache.HashPix»,
+  dep.«internal/lossless.ColorCache.Insert»,
+  dep.«internal/lossless.ColorCache.Lookup»,
+  dep.«internal/lossless.ColorCache.Reset»,
+  dep.«internal/lossless.ColorIndexBuild»,
+  dep.«internal/lossless.ColorSpaceTransform»,
+  dep.«internal/lossless.CopyPixel»,
+  dep.«internal/lossless.CreateHuffmanTreeScratch»,
+  dep.«internal/lossless.DistanceToPlaneCode»,
+  dep.«internal/lossless.Encoder.analyze»,
+  dep.«internal/lossless.Encoder.applyPaletteTransform»,
+  dep.«internal/lossless.Encoder.applyTransforms»,
+  dep.«internal/lossless.Encoder.encodePalette»,
+  dep.«internal/lossless.Encoder.encodeStream»,
+  dep.«internal/lossless.Encoder.encodeSubImage»,
+  dep.«internal/lossless.Encoder.storeImageData»,
+  dep.«internal/lossless.Encoder.storeSubImageData»,
+  dep.«internal/lossless.Encoder.writeTransformData»,
+  dep.«internal/lossless.GetBackwardReferences»,
+  dep.«internal/lossless.GetBackwardReferencesWithScratch»,
+  dep.«internal/lossless.GetHistoImageSymbols»,
+  dep.«internal/lossless.GetWindowSizeForHashChain»,
+  dep.«internal/lossless.HashChain.Fill»,
+  dep.«internal/lossless.HashChain.GetLength»,
+  dep.«internal/lossless.HashChain.GetOffset»,
+  dep.«internal/lossless.HashChain.fillParallel»,
+  dep.«internal/lossless.HashChain.fillSerial»,
+  dep.«internal/lossless.HistoSet.Get»,
+  dep.«internal/lossless.HistoSet.Size»,
+  dep.«internal/lossless.HistoSet.clearAll»,
+  dep.«internal/lossless.HistoSet.remove»,
+  dep.«internal/lossless.Histogram.AddRefs»,
+  dep.«internal/lossless.Histogram.AddSingle»,
+  dep.«internal/lossless.Histogram.Clear»,
+  dep.«internal/lossless.Histogram.computeHistogramCost»,
+  dep.«internal/lossless.Histogram.copyFrom»,
+  dep.«internal/lossless.Histogram.population»,
+  dep.«internal/lossless.Histogram.resetStats»,
+  dep.«internal/lossless.HuffmanScratch.AllocTree»,
+  dep.«internal/lossless.HuffmanScratch.ResetTreePool»,
+  dep.«internal/lossless.LiteralPixel»,
+  dep.«internal/lossless.NearLosslessBits»,
+  dep.«internal/lossless.NewBackwardRefs»,
+  dep.«internal/lossless.NewColorCache»,
+  dep.«internal/lossless.NewHashChain»,
+  dep.«internal/lossless.NewHistogram»,
+  dep.«internal/lossless.PixOrCopy.Argb»,
+  dep.«internal/lossless.PixOrCopy.CacheIndex»,
+  dep.«internal/lossless.PixOrCopy.Distance»,
+  dep.«internal/lossless.PixOrCopy.IsCacheIdx»,
+  dep.«internal/lossless.PixOrCopy.IsCopy»,
+  dep.«internal/lossless.PixOrCopy.IsLiteral»,
+  dep.«internal/lossless.PixOrCopy.Length»,
+  dep.«internal/lossless.PopulationCost»,
+  dep.«internal/lossless.PrefixEncodeBitsNoLUT»,
+  dep.«internal/lossless.PrefixEncodeNoLUT»,
+  dep.«internal/lossless.ResidualImage»,
+  dep.«internal/lossless.ReuseColorCache»,
+  dep.«internal/lossless.StoreHuffmanCodeScratch»,
+  dep.«internal/lossless.StoreHuffmanTreeOfHuffmanTreeToBitMask»,
+  dep.«internal/lossless.StoreHuffmanTreeToBitMask»,
+  dep.«internal/lossless.SubtractGreen»,
+  dep.«internal/lossless.VP8LSubSampleSize»,
+  dep.«internal/lossless.acquireEncoder»,
+  dep.«internal/lossless.addSingleLiteralWithCostModel»,
+  dep.«internal/lossless.allocateHistoSetReuse»,
+  dep.«internal/lossless.applyColorTransformPixel»,
+  dep.«internal/lossless.applyColorTransformTile»,
+  dep.«internal/lossless.argbHasAlpha»,
+  dep.«internal/lossless.assignCodeLengths»,
+  dep.«internal/lossless.avg2»,
+  dep.«internal/lossless.backwardReferencesHashChainDistanceOnly»,
+  dep.«internal/lossless.backwardReferencesHashChainFollowChosenPath»,
+  dep.«internal/lossless.backwardReferencesTraceBackwardsWithDist»,
+  dep.«internal/lossless.bitsEntropyRefine»,
+  dep.«internal/lossless.bitsLog2Floor»,
+  dep.«internal/lossless.buildTreeAndExtractLengths»,
+  dep.«internal/lossless.cacheBitsForEncoder»,
+  dep.«internal/lossless.clampAddSubFull»,
+  dep.«internal/lossless.clampAddSubHalf»,
+  dep.«internal/lossless.clampBits»,
+  dep.«internal/lossless.clampByte»,
+  dep.«internal/lossless.clearHuffmanTreeIfOnlyOneSymbol»,
+  dep.«internal/lossless.closestDiscretizedArgb»,
+  dep.«internal/lossless.codeRepeatedValues»,
+  dep.«internal/lossless.codeRepeatedZeros»,
+  dep.«internal/lossless.const:ARGBBlack»,
+  dep.«internal/lossless.const:CodeLengthCodes»,
+  dep.«internal/lossless.const:CodeLengthRepeatCode»,
+  dep.«internal/lossless.const:CodeToPlaneCodesCount»,
+  dep.«internal/lossless.const:ColorIndexingTransform»,
+  dep.«internal/lossless.const:CrossColorTransform»,
+  dep.«internal/lossless.const:HuffmanCodesPerMetaCode»,
+  dep.«internal/lossless.const:MaxAllowedCodeLength»,
+  dep.«internal/lossless.const:MaxCacheBits»,
+  dep.«internal/lossless.const:MaxPaletteSize»,
+  dep.«internal/lossless.const:MinHuffmanBits»,
+  dep.«internal/lossless.const:MinTransformBits»,
+  dep.«internal/lossless.const:NumDistanceCodes»,
+  dep.«internal/lossless.const:NumHuffmanBits»,
+  dep.«internal/lossless.const:NumLengthCodes»,
+  dep.«internal/lossless.const:NumLiteralCodes»,
+  dep.«internal/lossless.const:NumTransformBits»,
+  dep.«internal/lossless.const:PredictorTransform»,
+  dep.«internal/lossless.const:SubtractGreenTransform»,
+  dep.«internal/lossless.const:TransformPresent»,
+  dep.«internal/lossless.const:VP8LImageSizeBits»,
+  dep.«internal/lossless.const:VP8LMagicByte»,
+  dep.«internal/lossless.const:VP8LVersion»,
+  dep.«internal/lossless.const:VP8LVersionBits»,
+  dep.«internal/lossless.const:binSize»,
+  dep.«internal/lossless.const:costCacheIntervalSizeMax»,
+  dep.«internal/lossless.const:fastSLog2LUTSize»,
+  dep.«internal/lossless.const:hashBits»,
+  dep.«internal/lossless.const:hashSize»,
+  dep.«internal/lossless.const:histAlpha»,
+  dep.«internal/lossless.const:histBlue»,
+  dep.«internal/lossless.const:histDistance»,
+  dep.«internal/lossless.const:histLiteral»,
+  dep.«internal/lossless.const:histRed»,
+  dep.«internal/lossless.const:kHashMul»,
+  dep.«internal/lossless.const:kHashMultiplierHi»,
+  dep.«internal/lossless.const:kHashMultiplierLo»,
+  dep.«internal/lossless.const:kLZ77Box»,
+  dep.«internal/lossless.const:kLZ77RLE»,
+  dep.«internal/lossless.const:kLZ77Standard»,
+  dep.«internal/lossless.const:maxColorCacheBitsEnc»,
+  dep.«internal/lossless.const:maxHistoGreedy»,
+  dep.«internal/lossless.const:maxHuffImageSize»,
+  dep.«internal/lossless.const:maxHuffmanBits»,
+  dep.«internal/lossless.const:maxLength»,
+  dep.«internal/lossless.const:maxLengthBits»,
+  dep.«internal/lossless.const:maxLimitBits»,
+  dep.«internal/lossless.const:minDimForNearLossless»,
+  dep.«internal/lossless.const:minLength»,
+  dep.«internal/lossless.const:modeCacheIdx»,
+  dep.«internal/lossless.const:modeCopy»,
+  dep.«internal/lossless.const:modeLiteral»,
+  dep.«internal/lossless.const:nonTrivialSym»,
+  dep.«internal/lossless.const:numPartitions»,
+  dep.«internal/lossless.const:numPredictors»,
+  dep.«internal/lossless.const:windowOffsetsMaxSize»,
+  dep.«internal/lossless.const:windowSize»,
+  dep.«internal/lossless.const:windowSizeBits»,
+  dep.«internal/lossless.convertPopulationCountToBitEstimates»,
+  dep.«internal/lossless.copyImageWithPrediction»,
+  dep.«internal/lossless.costManager.allocInterval»,
+  dep.«internal/lossless.costManager.connectIntervals»,
+  dep.«internal/lossless.costManager.freeInterval»,
+  dep.«internal/lossless.costManager.insertInterval»,
+  dep.«internal/lossless.costManager.popInterval»,
+  dep.«internal/lossless.costManager.positionOrphanInterval»,
+  dep.«internal/lossless.costManager.pushInterval»,
+  dep.«internal/lossless.costManager.updateCost»,
+  dep.«internal/lossless.costManager.updateCostAtIndex»,
+  dep.«internal/lossless.costManager.updateCostPerInterval»,
+  dep.«internal/lossless.costModelTrace.build»,
+  dep.«internal/lossless.costModelTrace.getCacheCost»,
+  dep.«internal/lossless.costModelTrace.getDistanceCost»,
+  dep.«internal/lossless.costModelTrace.getLengthCost»,
+  dep.«internal/lossless.costModelTrace.getLiteralCost»,
+  dep.«internal/lossless.dominantCostRange.update»,
+  dep.«internal/lossless.encColorTransformDelta»,
+  dep.«internal/lossless.estimateEntropy»,
+  dep.«internal/lossless.extraCost»,
+  dep.«internal/lossless.extractClusterCenters»,
+  dep.«internal/lossless.fastSLog2»,
+  dep.«internal/lossless.fillMatchRange»,
+  dep.«internal/lossless.finalHuffmanCost»,
+  dep.«internal/lossless.findBestMultiplier»,
+  dep.«internal/lossless.findBestMultipliers»,
+  dep.«internal/lossless.findClosestDiscretized»,
+  dep.«internal/lossless.findMatchLength»,
+  dep.«internal/lossless.fixPair»,
+  dep.«internal/lossless.generateCanonicalCodes»,
+  dep.«internal/lossless.getBinIDForEntropy»,
+  dep.«internal/lossless.getCombineCostFactor»,
+  dep.«internal/lossless.getCombinedEntropy»,
+  dep.«internal/lossless.getCombinedEntropyUnrefined»,
+  dep.«internal/lossless.getCombinedHistogramEntropy»,
+  dep.«internal/lossless.getEntropyUnrefined»,
+  dep.«internal/lossless.getEntropyUnrefinedHelper»,
+  dep.«internal/lossless.getHistoBinIndex»,
+  dep.«internal/lossless.getHistoBits»,
+  dep.«internal/lossless.getMaxItersForQuality»,
+  dep.«internal/lossless.getPixPairHash64»,
+  dep.«internal/lossless.getPixPairHash64Values»,
+  dep.«internal/lossless.getTransformBits»,
+  dep.«internal/lossless.histoQueue.popAt»,
+  dep.«internal/lossless.histoQueue.push»,
+  dep.«internal/lossless.histoQueue.size»,
+  dep.«internal/lossless.histoQueue.updateHead»,
+  dep.«internal/lossless.histogramAdd»,
+  dep.«internal/lossless.histogramAddEvalThresh»,
+  dep.«internal/lossless.histogramAddThresh»,
+  dep.«internal/lossless.histogramBuild»,
+  dep.«internal/lossless.histogramCombineEntropyBin»,
+  dep.«internal/lossless.histogramCombineGreedy»,
+  dep.«internal/lossless.histogramCombineStochastic»,
+  dep.«internal/lossless.histogramEstimateBitsFromRefsScratch»,
+  dep.«internal/lossless.histogramEstimateBitsUint64»,
+  dep.«internal/lossless.histogramNumCodes»,
+  dep.«internal/lossless.histogramRemap»,
+  dep.«internal/lossless.initialHuffmanCost»,
+  dep.«internal/lossless.isNear»,
+  dep.«internal/lossless.isSmooth»,
+  dep.«internal/lossless.lehmerRand»,
+  dep.«internal/lossless.maxFindCopyLength»,
+  dep.«internal/lossless.multiplierCost»,
+  dep.«internal/lossless.nearLosslessPass»,
+  dep.«internal/lossless.newCostManager»,
+  dep.«internal/lossless.newCostModelTrace»,
+  dep.«internal/lossless.newDominantCostRange»,
+  dep.«internal/lossless.nodeHeap.Len»,
+  dep.«internal/lossless.nodeHeap.heapInit»,
+  dep.«internal/lossless.nodeHeap.less»,
+  dep.«internal/lossless.nodeHeap.pop»,
+  dep.«internal/lossless.nodeHeap.push»,
+  dep.«internal/lossless.nodeHeap.siftDown»,
+  dep.«internal/lossless.nodeHeap.swap»,
+  dep.«internal/lossless.optimizeSampling»,
+  dep.«internal/lossless.packMultipliers»,
+  dep.«internal/lossless.paletteCodeBits»,
+  dep.«internal/lossless.parallelComputeHistogramCost»,
+  dep.«internal/lossless.populationCost»,
+  dep.«internal/lossless.predictPixel»,
+  dep.«internal/lossless.releaseEncoder»,
+  dep.«internal/lossless.removeUnusedHistograms»,
+  dep.«internal/lossless.reverseBits»,
+  dep.«internal/lossless.selectPred»,
+  dep.«internal/lossless.storeFullHuffmanCodeScratch»,
+  dep.«internal/lossless.storeSimpleHuffmanCode»,
+  dep.«internal/lossless.subPixels»,
+  dep.«internal/lossless.subPixelsEnc»,
+  dep.«internal/lossless.tileTracker.merge»,
+  dep.«internal/lossless.tileTracker.swapRemove»,
+  dep.«internal/lossless.traceBackwards»,
+  dep.«internal/lossless.var:CodeLengthCodeOrder»,
+  dep.«internal/lossless.var:CodeLengthExtraBits»,
+  dep.«internal/lossless.var:ErrImageTooLarge»,
+  dep.«internal/lossless.var:fastSLog2LUT»,
+  dep.«internal/lossless.var:losslessEncoderPool»,
+  dep.«internal/lossless.var:multiplierDeltaByteLUT»,
+  dep.«internal/lossless.var:planeToCodeLUT»,
+  dep.«internal/lossless.writeHuffmanCode»,
+  dep.«internal/lossy.ResetProba»,
+  dep.«internal/lossy.TokenBuffer.Init»,
+  dep.«internal/lossy.TokenBuffer.Reset»,
+  dep.«internal/lossy.TokenBuffer.addPage»,
+  dep.«internal/lossy.VP8Encoder.allocateBuffers»,
+  dep.«internal/lossy.VP8Encoder.importImage»,
+  dep.«internal/lossy.VP8Encoder.initSegments»,
+  dep.«internal/lossy.VP8Encoder.resetForReuse»,
+  dep.«internal/lossy.clampInt»,
+  dep.«internal/lossy.const:BPS»,
+  dep.«internal/lossy.const:MaxNumPartitions»,
+  dep.«internal/lossy.const:NumBands»,
+  dep.«internal/lossy.const:NumCTX»,
+  dep.«internal/lossy.const:NumMBSegments»,
+  dep.«internal/lossy.const:NumProbas»,
+  dep.«internal/lossy.const:NumTypes»,
+  dep.«internal/lossy.const:YUVSize»,
+  dep.«internal/lossy.getImportUVWorker»,
+  dep.«internal/lossy.imageHasAlpha»,
+  dep.«internal/lossy.initSegmentQuant»,
+  dep.«internal/lossy.maxInt»,
+  dep.«internal/lossy.qualityToCompression»,
+  dep.«internal/lossy.qualityToQIndex»,
+  dep.«internal/lossy.setupSegment»,
+  dep.«internal/lossy.var:CoeffsProba0»,
+  dep.«internal/lossy.var:KAcTable»,
+  dep.«internal/lossy.var:KAcTable2»,
+  dep.«internal/lossy.var:KBands»,
+  dep.«internal/lossy.var:KDcTable»,
+  dep.«internal/lossy.var:encoderPool»,
+  dep.«internal/lossy.var:importUVWorkerPool»,
+  dep.«internal/lossy.var:kBiasMatrices»,
+  dep.«internal/lossy.var:kFreqSharpening»,
+  dep.«webp.cleanupTransparentAreaLossless»,
+  dep.«webp.cleanupTransparentAreaLossyWith»,
+  dep.«webp.const:MaxDimension»,
+  dep.«webp.const:PresetDefault»,
+  dep.«webp.const:PresetDrawing»,
+  dep.«webp.const:PresetIcon»,
+  dep.«webp.const:PresetPhoto»,
+  dep.«webp.const:PresetPicture»,
+  dep.«webp.const:PresetText»,
+  dep.«webp.extractAlphaWith»,
+  dep.«webp.flattenBlockNRGBA»,
+  dep.«webp.putLE24»,
+  dep.«webp.rgbaIsOpaque»,
+  dep.«webp.rgbaToNRGBA»,
+  dep.«webp.sharpYUVConvert»,
+  dep.«webp.smoothenBlockNRGBA»,
+  dep.«webp.validNRGBA»,
+  dep.«webp.validRGBA»,
+  dep.«webp.var:argbPool»,
+  dep.«webp.writeRIFF»,
+  dep.«webp.writeRIFFExtended»,
+  dep.«webp.writeRIFFSimple»
+]
+-- END deps opts
+def opts : List Entry := opts_roots ++ opts_deps
 
 /-- Webp/Impl/Parser.lean (container.NewParser) -/
-def parser : List Entry := [
+def parser_roots : List Entry := [
   fp! "internal/container.FourCC" 0x64b4671b43fd1c8c,
   fp! "internal/container.ReadLE16" 0x5fd0395e7048a4d2,
   fp! "internal/container.ReadLE32" 0x19f762b304399c71,
@@ -324,9 +2148,61 @@ def parser : List Entry := [
   fp! "internal/container.ReadChunkHeader" 0x22074fa78e232bc9,
   fp! "internal/container.PaddedSize" 0x8795090f2fd902f7
 ]
+-- BEGIN deps parser (written by tools/update_fingerprints.py — do not edit by hand)
+def parser_deps : List Entry := [
+  dep.«internal/container.FourCCString»,
+  dep.«internal/container.const:ANIMChunkSize»,
+  dep.«internal/container.const:ANMFChunkSize»,
+  dep.«internal/container.const:AllValidFlags»,
+  dep.«internal/container.const:AlphaFlag»,
+  dep.«internal/container.const:AnimationFlag»,
+  dep.«internal/container.const:BlendNone»,
+  dep.«internal/container.const:ChunkHeaderSize»,
+  dep.«internal/container.const:DisposeBackground»,
+  dep.«internal/container.const:EXIFFlag»,
+  dep.«internal/container.const:FormatVP8»,
+  dep.«internal/container.const:FormatVP8L»,
+  dep.«internal/container.const:FormatVP8X»,
+  dep.«internal/container.const:ICCPFlag»,
+  dep.«internal/container.const:MaxChunkPayload»,
+  dep.«internal/container.const:MaxChunks»,
+  dep.«internal/container.const:MaxFrames»,
+  dep.«internal/container.const:MaxImageArea»,
+  dep.«internal/container.const:MaxMetadataSize»,
+  dep.«internal/container.const:RIFFHeaderSize»,
+  dep.«internal/container.const:VP8FrameHeaderSize»,
+  dep.«internal/container.const:VP8LFrameHeaderSize»,
+  dep.«internal/container.const:VP8LMagicByte»,
+  dep.«internal/container.const:VP8LVersion»,
+  dep.«internal/container.const:VP8Signature»,
+  dep.«internal/container.const:VP8XChunkSize»,
+  dep.«internal/container.const:XMPFlag»,
+  dep.«internal/container.var:ErrInvalidChunk»,
+  dep.«internal/container.var:ErrInvalidFlags»,
+  dep.«internal/container.var:ErrInvalidImage»,
+  dep.«internal/container.var:ErrInvalidRIFF»,
+  dep.«internal/container.var:ErrInvalidVP8X»,
+  dep.«internal/container.var:ErrInvalidWebP»,
+  dep.«internal/container.var:ErrTooLarge»,
+  dep.«internal/container.var:ErrTruncated»,
+  dep.«internal/container.var:ErrUnsupported»,
+  dep.«internal/container.var:FourCCALPH»,
+  dep.«internal/container.var:FourCCANIM»,
+  dep.«internal/container.var:FourCCANMF»,
+  dep.«internal/container.var:FourCCEXIF»,
+  dep.«internal/container.var:FourCCICCP»,
+  dep.«internal/container.var:FourCCRIFF»,
+  dep.«internal/container.var:FourCCVP8»,
+  dep.«internal/container.var:FourCCVP8L»,
+  dep.«internal/container.var:FourCCVP8X»,
+  dep.«internal/container.var:FourCCWEBP»,
+  dep.«internal/container.var:FourCCXMP»
+]
+-- END deps parser
+def parser : List Entry := parser_roots ++ parser_deps
 
 /-- Webp/Impl/Partition.lean + Webp/Impl/GomaxprocsSites.lean (WaitGroup fan-outs and their index ranges) -/
-def partition : List Entry := [
+def partition_roots : List Entry := [
   fp! "animation.Animation.DecodeFramesParallel" 0xc909414b1409d41b,
   fp! "internal/lossless.argbToNRGBA" 0x83b414181bfe68b3,
   fp! "internal/lossless.argbToNRGBARows" 0xf8fd6c00764f6b0a,
@@ -347,11 +2223,355 @@ def partition : List Entry := [
   fp! "internal/lossy.computeAlphas" 0x060c454d74a79b24,
   fp! "internal/lossy.computeAlphasSerial" 0xf39bf9017e8e2182,
   fp! "internal/lossy.VP8Encoder.encodeFrameParallel" 0xe9284025720335ec,
-  fp! "internal/lossy.VP8Encoder.EncodeFrame" 0xa0bfd91be2c1e645
+  fp! "internal/lossy.VP8Encoder.EncodeFrame" 0xa0bfd91be2c1e645,
+  fp! "internal/lossless.GetHistoImageSymbols" 0xd86eb4566668ab72,
+  fp! "internal/lossless.removeUnusedHistograms" 0xfb81932011c19abc,
+  fp! "internal/lossless.histogramCombineEntropyBin" 0x264ebfc2d8159aec,
+  fp! "internal/lossless.histogramCombineStochastic" 0x92242ba403bf0f68,
+  fp! "internal/lossless.histogramCombineGreedy" 0x73e984e3ef951cbd,
+  fp! "internal/lossless.fillMatchRange" 0x980166b6afac43e5,
+  fp! "internal/lossless.GetWindowSizeForHashChain" 0x4f7f82b258661408,
+  fp! "internal/lossless.copyImageWithPrediction" 0x15470999fec8cb33,
+  fp! "internal/lossy.computeMBAlphaDCTWith" 0xff5a35593297b89e,
+  fp! "internal/lossy.computeMBUVAlphaDCTWith" 0x074967e7fd802c84,
+  fp! "internal/lossy.collectHistogramAlphaWith" 0x285f0ff0b03ce473
 ]
+-- BEGIN deps partition (written by tools/update_fingerprints.py — do not edit by hand)
+def partition_deps : List Entry := [
+  dep.«animation.Animation.DecodeFrames»,
+  dep.«animation.var:ErrNoDecoder»,
+  dep.«animation.var:FrameDecoderFunc»,
+  dep.«internal/lossless.HistoSet.clearAll»,
+  dep.«internal/lossless.HistoSet.remove»,
+  dep.«internal/lossless.Histogram.AddSingle»,
+  dep.«internal/lossless.Histogram.Clear»,
+  dep.«internal/lossless.Histogram.computeHistogramCost»,
+  dep.«internal/lossless.Histogram.copyFrom»,
+  dep.«internal/lossless.Histogram.population»,
+  dep.«internal/lossless.Histogram.resetStats»,
+  dep.«internal/lossless.NewHistogram»,
+  dep.«internal/lossless.PixOrCopy.Argb»,
+  dep.«internal/lossless.PixOrCopy.CacheIndex»,
+  dep.«internal/lossless.PixOrCopy.Distance»,
+  dep.«internal/lossless.PixOrCopy.IsCacheIdx»,
+  dep.«internal/lossless.PixOrCopy.IsCopy»,
+  dep.«internal/lossless.PixOrCopy.IsLiteral»,
+  dep.«internal/lossless.PixOrCopy.Length»,
+  dep.«internal/lossless.PrefixEncodeBitsNoLUT»,
+  dep.«internal/lossless.VP8LSubSampleSize»,
+  dep.«internal/lossless.addGreenToBlueAndRed»,
+  dep.«internal/lossless.addPixels»,
+  dep.«internal/lossless.allocateHistoSetReuse»,
+  dep.«internal/lossless.applyColorTransformPixel»,
+  dep.«internal/lossless.applyColorTransformTile»,
+  dep.«internal/lossless.average2»,
+  dep.«internal/lossless.avg2»,
+  dep.«internal/lossless.bitsEntropyRefine»,
+  dep.«internal/lossless.bitsLog2Floor»,
+  dep.«internal/lossless.clampAddSubFull»,
+  dep.«internal/lossless.clampAddSubHalf»,
+  dep.«internal/lossless.clampByte»,
+  dep.«internal/lossless.clampedAddSubtractFull»,
+  dep.«internal/lossless.clampedAddSubtractHalf»,
+  dep.«internal/lossless.colorIndexInverseTransform»,
+  dep.«internal/lossless.const:ARGBBlack»,
+  dep.«internal/lossless.const:CodeLengthCodes»,
+  dep.«internal/lossless.const:ColorIndexingTransform»,
+  dep.«internal/lossless.const:CrossColorTransform»,
+  dep.«internal/lossless.const:NumDistanceCodes»,
+  dep.«internal/lossless.const:NumLengthCodes»,
+  dep.«internal/lossless.const:NumLiteralCodes»,
+  dep.«internal/lossless.const:PredictorTransform»,
+  dep.«internal/lossless.const:SubtractGreenTransform»,
+  dep.«internal/lossless.const:binSize»,
+  dep.«internal/lossless.const:fastSLog2LUTSize»,
+  dep.«internal/lossless.const:hashBits»,
+  dep.«internal/lossless.const:histAlpha»,
+  dep.«internal/lossless.const:histBlue»,
+  dep.«internal/lossless.const:histDistance»,
+  dep.«internal/lossless.const:histLiteral»,
+  dep.«internal/lossless.const:histRed»,
+  dep.«internal/lossless.const:kHashMultiplierHi»,
+  dep.«internal/lossless.const:kHashMultiplierLo»,
+  dep.«internal/lossless.const:maxHistoGreedy»,
+  dep.«internal/lossless.const:maxLength»,
+  dep.«internal/lossless.const:maxLengthBits»,
+  dep.«internal/lossless.const:minPixelsForParallel»,
+  dep.«internal/lossless.const:modeCacheIdx»,
+  dep.«internal/lossless.const:modeCopy»,
+  dep.«internal/lossless.const:modeLiteral»,
+  dep.«internal/lossless.const:nonTrivialSym»,
+  dep.«internal/lossless.const:numPartitions»,
+  dep.«internal/lossless.const:numPredictors»,
+  dep.«internal/lossless.const:windowSize»,
+  dep.«internal/lossless.const:windowSizeBits»,
+  dep.«internal/lossless.dominantCostRange.update»,
+  dep.«internal/lossless.encColorTransformDelta»,
+  dep.«internal/lossless.estimateEntropy»,
+  dep.«internal/lossless.extractClusterCenters»,
+  dep.«internal/lossless.fastSLog2»,
+  dep.«internal/lossless.finalHuffmanCost»,
+  dep.«internal/lossless.findMatchLength»,
+  dep.«internal/lossless.fixPair»,
+  dep.«internal/lossless.getARGBIndex»,
+  dep.«internal/lossless.getBinIDForEntropy»,
+  dep.«internal/lossless.getCombineCostFactor»,
+  dep.«internal/lossless.getCombinedEntropy»,
+  dep.«internal/lossless.getCombinedEntropyUnrefined»,
+  dep.«internal/lossless.getCombinedHistogramEntropy»,
+  dep.«internal/lossless.getEntropyUnrefined»,
+  dep.«internal/lossless.getEntropyUnrefinedHelper»,
+  dep.«internal/lossless.getHistoBinIndex»,
+  dep.«internal/lossless.getMaxItersForQuality»,
+  dep.«internal/lossless.getPixPairHash64»,
+  dep.«internal/lossless.getPixPairHash64Values»,
+  dep.«internal/lossless.histoQueue.popAt»,
+  dep.«internal/lossless.histoQueue.push»,
+  dep.«internal/lossless.histoQueue.size»,
+  dep.«internal/lossless.histoQueue.updateHead»,
+  dep.«internal/lossless.histogramAdd»,
+  dep.«internal/lossless.histogramAddEvalThresh»,
+  dep.«internal/lossless.histogramAddThresh»,
+  dep.«internal/lossless.histogramBuild»,
+  dep.«internal/lossless.histogramNumCodes»,
+  dep.«internal/lossless.initialHuffmanCost»,
+  dep.«internal/lossless.lehmerRand»,
+  dep.«internal/lossless.maxFindCopyLength»,
+  dep.«internal/lossless.newDominantCostRange»,
+  dep.«internal/lossless.packMultipliers»,
+  dep.«internal/lossless.populationCost»,
+  dep.«internal/lossless.predictPixel»,
+  dep.«internal/lossless.predictorInverseTransform»,
+  dep.«internal/lossless.selectPred»,
+  dep.«internal/lossless.selectPredictor»,
+  dep.«internal/lossless.subPixels»,
+  dep.«internal/lossless.tileTracker.merge»,
+  dep.«internal/lossless.tileTracker.swapRemove»,
+  dep.«internal/lossless.var:fastSLog2LUT»,
+  dep.«internal/lossless.var:multiplierDeltaByteLUT»,
+  dep.«internal/lossy.DequantCoeffs»,
+  dep.«internal/lossy.MBIterator.Export»,
+  dep.«internal/lossy.MBIterator.FillPredContext»,
+  dep.«internal/lossy.MBIterator.FillPredictionContext»,
+  dep.«internal/lossy.MBIterator.GetTopModes»,
+  dep.«internal/lossy.MBIterator.Import»,
+  dep.«internal/lossy.MBIterator.IsDone»,
+  dep.«internal/lossy.MBIterator.Next»,
+  dep.«internal/lossy.MBIterator.SaveTopModes»,
+  dep.«internal/lossy.MBIterator.resetLeftContext»,
+  dep.«internal/lossy.PickBestI16Mode»,
+  dep.«internal/lossy.PickBestI4Mode»,
+  dep.«internal/lossy.PickBestUVMode»,
+  dep.«internal/lossy.QuantizeCoeffs»,
+  dep.«internal/lossy.RDScore»,
+  dep.«internal/lossy.TokenBuffer.EmitTokens»,
+  dep.«internal/lossy.TokenBuffer.EmitTokensPartitioned»,
+  dep.«internal/lossy.TokenBuffer.MarkMBStart»,
+  dep.«internal/lossy.TokenBuffer.RecordCoeffs»,
+  dep.«internal/lossy.TokenBuffer.RecordToken»,
+  dep.«internal/lossy.TokenBuffer.Reset»,
+  dep.«internal/lossy.TokenBuffer.addPage»,
+  dep.«internal/lossy.TokenBuffer.recordLevelVP8»,
+  dep.«internal/lossy.TokenBuffer.tokenCount»,
+  dep.«internal/lossy.TokenCostForCoeffs»,
+  dep.«internal/lossy.TrellisQuantizeBlock»,
+  dep.«internal/lossy.VP8Encoder.InitIterator»,
+  dep.«internal/lossy.VP8Encoder.PickBestI16ModeRD»,
+  dep.«internal/lossy.VP8Encoder.PickBestI4ModeRD»,
+  dep.«internal/lossy.VP8Encoder.PickBestI4ModeRDTrellis»,
+  dep.«internal/lossy.VP8Encoder.PickBestUVModeRD»,
+  dep.«internal/lossy.VP8Encoder.adjustQuantForTarget»,
+  dep.«internal/lossy.VP8Encoder.analysis»,
+  dep.«internal/lossy.VP8Encoder.assembleFrame»,
+  dep.«internal/lossy.VP8Encoder.buildSegmentHeader»,
+  dep.«internal/lossy.VP8Encoder.collectAllStats»,
+  dep.«internal/lossy.VP8Encoder.collectMBStats»,
+  dep.«internal/lossy.VP8Encoder.computeStats»,
+  dep.«internal/lossy.VP8Encoder.correctDCValues»,
+  dep.«internal/lossy.VP8Encoder.emitFrame»,
+  dep.«internal/lossy.VP8Encoder.emitPartition0»,
+  dep.«internal/lossy.VP8Encoder.emitTokenPartitions»,
+  dep.«internal/lossy.VP8Encoder.encodeFrame»,
+  dep.«internal/lossy.VP8Encoder.encodeI16Residuals»,
+  dep.«internal/lossy.VP8Encoder.encodeI4Residuals»,
+  dep.«internal/lossy.VP8Encoder.encodeResiduals»,
+  dep.«internal/lossy.VP8Encoder.encodeRow»,
+  dep.«internal/lossy.VP8Encoder.encodeUVResiduals»,
+  dep.«internal/lossy.VP8Encoder.initPassStats»,
+  dep.«internal/lossy.VP8Encoder.pickBestMode»,
+  dep.«internal/lossy.VP8Encoder.reconstructMB»,
+  dep.«internal/lossy.VP8Encoder.recordAllTokens»,
+  dep.«internal/lossy.VP8Encoder.recordMBTokens»,
+  dep.«internal/lossy.VP8Encoder.refreshProbas»,
+  dep.«internal/lossy.VP8Encoder.rerecordAllTokens»,
+  dep.«internal/lossy.VP8Encoder.restoreSourcePixels»,
+  dep.«internal/lossy.VP8Encoder.saveSourcePixels»,
+  dep.«internal/lossy.VP8Encoder.setSegmentParams»,
+  dep.«internal/lossy.VP8Encoder.setSegmentProbas»,
+  dep.«internal/lossy.VP8Encoder.setupFilterStrength»,
+  dep.«internal/lossy.VP8Encoder.simplifySegments»,
+  dep.«internal/lossy.VP8Encoder.statLoop»,
+  dep.«internal/lossy.VP8Encoder.storeDiffusionErrors»,
+  dep.«internal/lossy.VP8Encoder.tryI4Modes»,
+  dep.«internal/lossy.VP8Encoder.tryI4ModesRD»,
+  dep.«internal/lossy.VP8Encoder.updateNZContext»,
+  dep.«internal/lossy.VP8Encoder.writeCoeffProba»,
+  dep.«internal/lossy.VP8Encoder.writeFilterHeader»,
+  dep.«internal/lossy.VP8Encoder.writeMBModes»,
+  dep.«internal/lossy.VP8Encoder.writeQuantParams»,
+  dep.«internal/lossy.VP8Encoder.writeSegmentHeader»,
+  dep.«internal/lossy.abs»,
+  dep.«internal/lossy.assignSegments»,
+  dep.«internal/lossy.boolToIntEnc»,
+  dep.«internal/lossy.branchCost»,
+  dep.«internal/lossy.checkMode»,
+  dep.«internal/lossy.clampInt»,
+  dep.«internal/lossy.collectCoeffStats»,
+  dep.«internal/lossy.collectLevelStats»,
+  dep.«internal/lossy.computeMBAlphaDCT»,
+  dep.«internal/lossy.computeMBAlphaDCTWorker»,
+  dep.«internal/lossy.computeMBUVAlphaDCT»,
+  dep.«internal/lossy.computeMBUVAlphaDCTWorker»,
+  dep.«internal/lossy.const:BDCPred»,
+  dep.«internal/lossy.const:BDCPredNoLeft»,
+  dep.«internal/lossy.const:BDCPredNoTop»,
+  dep.«internal/lossy.const:BDCPredNoTopLeft»,
+  dep.«internal/lossy.const:BHDPred»,
+  dep.«internal/lossy.const:BHEPred»,
+  dep.«internal/lossy.const:BHUPred»,
+  dep.«internal/lossy.const:BLDPred»,
+  dep.«internal/lossy.const:BPS»,
+  dep.«internal/lossy.const:BRDPred»,
+  dep.«internal/lossy.const:BTMPred»,
+  dep.«internal/lossy.const:BVEPred»,
+  dep.«internal/lossy.const:BVLPred»,
+  dep.«internal/lossy.const:BVRPred»,
+  dep.«internal/lossy.const:DCPred»,
+  dep.«internal/lossy.const:HPred»,
+  dep.«internal/lossy.const:MBFeatureTreeProbs»,
+  dep.«internal/lossy.const:NumBModes»,
+  dep.«internal/lossy.const:NumBands»,
+  dep.«internal/lossy.const:NumCTX»,
+  dep.«internal/lossy.const:NumMBSegments»,
+  dep.«internal/lossy.const:NumModeLFDeltas»,
+  dep.«internal/lossy.const:NumPredModes»,
+  dep.«internal/lossy.const:NumProbas»,
+  dep.«internal/lossy.const:NumRefLFDeltas»,
+  dep.«internal/lossy.const:NumTypes»,
+  dep.«internal/lossy.const:TMPred»,
+  dep.«internal/lossy.const:UOff»,
+  dep.«internal/lossy.const:VOff»,
+  dep.«internal/lossy.const:VPred»,
+  dep.«internal/lossy.const:YOff»,
+  dep.«internal/lossy.const:YUVSize»,
+  dep.«internal/lossy.const:alphaScale»,
+  dep.«internal/lossy.const:derrC1»,
+  dep.«internal/lossy.const:derrC2»,
+  dep.«internal/lossy.const:derrDScale»,
+  dep.«internal/lossy.const:derrDShift»,
+  dep.«internal/lossy.const:flatnessLimitI16»,
+  dep.«internal/lossy.const:flatnessLimitI4»,
+  dep.«internal/lossy.const:flatnessLimitUV»,
+  dep.«internal/lossy.const:flatnessPenalty»,
+  dep.«internal/lossy.const:fstrengthCutoff»,
+  dep.«internal/lossy.const:maxAlpha»,
+  dep.«internal/lossy.const:maxCoeffThresh»,
+  dep.«internal/lossy.const:maxIntra16Mode»,
+  dep.«internal/lossy.const:maxItersKMeans»,
+  dep.«internal/lossy.const:maxPartition0Size»,
+  dep.«internal/lossy.const:maxPartitionSize»,
+  dep.«internal/lossy.const:minRefreshCount»,
+  dep.«internal/lossy.const:rdDistoMult»,
+  dep.«internal/lossy.const:tokenPageSize»,
+  dep.«internal/lossy.dequantCoeffsGo»,
+  dep.«internal/lossy.dequantCoeffsSSE2»,
+  dep.«internal/lossy.encodeI16ResidualsParallel»,
+  dep.«internal/lossy.encodeI4ResidualsParallel»,
+  dep.«internal/lossy.encodeResidualsParallel»,
+  dep.«internal/lossy.encodeUVResidualsParallel»,
+  dep.«internal/lossy.exportParallel»,
+  dep.«internal/lossy.fastVariableLevelCost»,
+  dep.«internal/lossy.fillPredContextParallel»,
+  dep.«internal/lossy.filterStrengthFromDelta»,
+  dep.«internal/lossy.generateI16Prediction»,
+  dep.«internal/lossy.getBoolWriter»,
+  dep.«internal/lossy.getImportUVWorker»,
+  dep.«internal/lossy.getMaxI4RDModes»,
+  dep.«internal/lossy.getPSNR»,
+  dep.«internal/lossy.getParallelState»,
+  dep.«internal/lossy.i4SubtreeContains»,
+  dep.«internal/lossy.imageHasAlpha»,
+  dep.«internal/lossy.importBlock»,
+  dep.«internal/lossy.importBlockParallel»,
+  dep.«internal/lossy.initRowWorker»,
+  dep.«internal/lossy.initSegmentQuant»,
+  dep.«internal/lossy.isFlat»,
+  dep.«internal/lossy.isFlatSource16»,
+  dep.«internal/lossy.maxInt»,
+  dep.«internal/lossy.needsLeft4»,
+  dep.«internal/lossy.needsTop4»,
+  dep.«internal/lossy.newRowSync»,
+  dep.«internal/lossy.nzCountACSSE2»,
+  dep.«internal/lossy.optimizeProba»,
+  dep.«internal/lossy.passStats.computeNextQ»,
+  dep.«internal/lossy.pickBestI16ModeRDParallel»,
+  dep.«internal/lossy.pickBestI4ModeRDParallel»,
+  dep.«internal/lossy.pickBestI4ModeRDTrellisParallel»,
+  dep.«internal/lossy.pickBestModeParallel»,
+  dep.«internal/lossy.pickBestUVModeRDParallel»,
+  dep.«internal/lossy.putBoolWriter»,
+  dep.«internal/lossy.putParallelState»,
+  dep.«internal/lossy.qualityToCompression»,
+  dep.«internal/lossy.quantizeACAVX2»,
+  dep.«internal/lossy.quantizeACSSE2»,
+  dep.«internal/lossy.quantizeCoeffsGo»,
+  dep.«internal/lossy.quantizeSingle»,
+  dep.«internal/lossy.reconstructMBParallel»,
+  dep.«internal/lossy.rowSync.signal»,
+  dep.«internal/lossy.rowSync.waitFor»,
+  dep.«internal/lossy.setupSegment»,
+  dep.«internal/lossy.smoothSegmentMap»,
+  dep.«internal/lossy.tryI4ModesParallel»,
+  dep.«internal/lossy.tryI4ModesRDParallel»,
+  dep.«internal/lossy.updateNZContextParallel»,
+  dep.«internal/lossy.var:CoeffsProba0»,
+  dep.«internal/lossy.var:CoeffsUpdateProba»,
+  dep.«internal/lossy.var:ErrPartition0Overflow»,
+  dep.«internal/lossy.var:ErrPartitionOverflow»,
+  dep.«internal/lossy.var:KAcTable»,
+  dep.«internal/lossy.var:KAcTable2»,
+  dep.«internal/lossy.var:KBModesProba»,
+  dep.«internal/lossy.var:KBands»,
+  dep.«internal/lossy.var:KCat3»,
+  dep.«internal/lossy.var:KCat4»,
+  dep.«internal/lossy.var:KCat5»,
+  dep.«internal/lossy.var:KCat6»,
+  dep.«internal/lossy.var:KDcTable»,
+  dep.«internal/lossy.var:KYModesIntra4»,
+  dep.«internal/lossy.var:KZigzag»,
+  dep.«internal/lossy.var:VP8FixedCostsI4»,
+  dep.«internal/lossy.var:boolWriterPool»,
+  dep.«internal/lossy.var:importUVWorkerPool»,
+  dep.«internal/lossy.var:kBiasMatrices»,
+  dep.«internal/lossy.var:kFreqSharpening»,
+  dep.«internal/lossy.var:kLevelsFromDelta»,
+  dep.«internal/lossy.var:kReverseZigzag»,
+  dep.«internal/lossy.var:kWeightTrellis»,
+  dep.«internal/lossy.var:modeFixedCost16»,
+  dep.«internal/lossy.var:modeFixedCostUV»,
+  dep.«internal/lossy.var:parallelPool»,
+  dep.«internal/lossy.var:vp8LevelCodes»,
+  dep.«internal/lossy.variableLevelCost»,
+  dep.«internal/lossy.writeI16Mode»,
+  dep.«internal/lossy.writeI4ModeBits»,
+  dep.«internal/lossy.writeSegmentID»,
+  dep.«internal/lossy.writeUVMode»
+]
+-- END deps partition
+def partition : List Entry := partition_roots ++ partition_deps
 
 /-- Webp/Impl/Pool.lean + Webp/Impl/PoolFields.lean (object reuse: get / reset / work / put) -/
-def pool : List Entry := [
+def pool_roots : List Entry := [
   fp! "internal/lossless.Encode" 0xc7e5c5025edd39bb,
   fp! "internal/lossless.EncodeToWriter" 0x5cc4843276807858,
   fp! "internal/lossless.acquireEncoder" 0x731378e2e5d97c30,
@@ -385,9 +2605,474 @@ def pool : List Entry := [
   fp! "internal/pool.Put" 0xe5c830665ac7c327,
   fp! "internal/bitio.BoolWriter.Reset" 0x5977808e724088b6
 ]
+-- BEGIN deps pool (written by tools/update_fingerprints.py — do not edit by hand)
+def pool_deps : List Entry := [
+  dep.«internal/lossless.ApplyNearLossless»,
+  dep.«internal/lossless.ApplyPaletteTransform»,
+  dep.«internal/lossless.BackwardReferences2DLocality»,
+  dep.«internal/lossless.BackwardReferencesLz77»,
+  dep.«internal/lossless.BackwardReferencesLz77Box»,
+  dep.«internal/lossless.BackwardReferencesRle»,
+  dep.«internal/lossless.BackwardRefs.Add»,
+  dep.«internal/lossless.BackwardRefs.Len»,
+  dep.«internal/lossless.BackwardRefs.Refs»,
+  dep.«internal/lossless.BackwardRefs.Reset»,
+  dep.«internal/lossless.BackwardRefsWithLocalCache»,
+  dep.«internal/lossless.BuildCodeLengthTokens»,
+  dep.«internal/lossless.BuildCodeLengthTokensScratch»,
+  dep.«internal/lossless.BuildHuffmanTableScratch»,
+  dep.«internal/lossless.CachePixel»,
+  dep.«internal/lossless.CalculateBestCacheSize»,
+  dep.«internal/lossless.ColorCache.Contains»,
+  dep.«internal/lossless.ColorCache.HashPix»,
+  dep.«internal/lossless.ColorCache.Insert»,
+  dep.«internal/lossless.ColorCache.Lookup»,
+  dep.«internal/lossless.ColorCache.Reset»,
+  dep.«internal/lossless.ColorIndexBuild»,
+  dep.«internal/lossless.ColorSpaceTransform»,
+  dep.«internal/lossless.CopyPixel»,
+  dep.«internal/lossless.CreateHuffmanTreeScratch»,
+  dep.«internal/lossless.Decoder.applyInverseTransforms»,
+  dep.«internal/lossless.Decoder.decodeHeader»,
+  dep.«internal/lossless.Decoder.decodeImageData»,
+  dep.«internal/lossless.Decoder.decodeImageStream»,
+  dep.«internal/lossless.Decoder.decodeSubImage»,
+  dep.«internal/lossless.Decoder.getHTreeGroup»,
+  dep.«internal/lossless.Decoder.getMetaIndex»,
+  dep.«internal/lossless.Decoder.huffTableScratch»,
+  dep.«internal/lossless.Decoder.readHuffmanCode»,
+  dep.«internal/lossless.Decoder.readHuffmanCodeLengths»,
+  dep.«internal/lossless.Decoder.readHuffmanCodes»,
+  dep.«internal/lossless.Decoder.readTransform»,
+  dep.«internal/lossless.Decoder.updateDecoder»,
+  dep.«internal/lossless.DefaultEncoderConfig»,
+  dep.«internal/lossless.DistanceToPlaneCode»,
+  dep.«internal/lossless.Encoder.analyze»,
+  dep.«internal/lossless.Encoder.applyPaletteTransform»,
+  dep.«internal/lossless.Encoder.applyTransforms»,
+  dep.«internal/lossless.Encoder.encodePalette»,
+  dep.«internal/lossless.Encoder.encodeStream»,
+  dep.«internal/lossless.Encoder.encodeSubImage»,
+  dep.«internal/lossless.Encoder.storeImageData»,
+  dep.«internal/lossless.Encoder.storeSubImageData»,
+  dep.«internal/lossless.Encoder.writeTransformData»,
+  dep.«internal/lossless.GetBackwardReferences»,
+  dep.«internal/lossless.GetBackwardReferencesWithScratch»,
+  dep.«internal/lossless.GetHistoImageSymbols»,
+  dep.«internal/lossless.GetWindowSizeForHashChain»,
+  dep.«internal/lossless.HashChain.Fill»,
+  dep.«internal/lossless.HashChain.GetLength»,
+  dep.«internal/lossless.HashChain.GetOffset»,
+  dep.«internal/lossless.HashChain.fillParallel»,
+  dep.«internal/lossless.HashChain.fillSerial»,
+  dep.«internal/lossless.HistoSet.Get»,
+  dep.«internal/lossless.HistoSet.Size»,
+  dep.«internal/lossless.HistoSet.clearAll»,
+  dep.«internal/lossless.HistoSet.remove»,
+  dep.«internal/lossless.Histogram.AddRefs»,
+  dep.«internal/lossless.Histogram.AddSingle»,
+  dep.«internal/lossless.Histogram.Clear»,
+  dep.«internal/lossless.Histogram.computeHistogramCost»,
+  dep.«internal/lossless.Histogram.copyFrom»,
+  dep.«internal/lossless.Histogram.population»,
+  dep.«internal/lossless.Histogram.resetStats»,
+  dep.«internal/lossless.HuffmanScratch.AllocTree»,
+  dep.«internal/lossless.HuffmanScratch.ResetTreePool»,
+  dep.«internal/lossless.LiteralPixel»,
+  dep.«internal/lossless.NearLosslessBits»,
+  dep.«internal/lossless.NewBackwardRefs»,
+  dep.«internal/lossless.NewColorCache»,
+  dep.«internal/lossless.NewHashChain»,
+  dep.«internal/lossless.NewHistogram»,
+  dep.«internal/lossless.PixOrCopy.Argb»,
+  dep.«internal/lossless.PixOrCopy.CacheIndex»,
+  dep.«internal/lossless.PixOrCopy.Distance»,
+  dep.«internal/lossless.PixOrCopy.IsCacheIdx»,
+  dep.«internal/lossless.PixOrCopy.IsCopy»,
+  dep.«internal/lossless.PixOrCopy.IsLiteral»,
+  dep.«internal/lossless.PixOrCopy.Length»,
+  dep.«internal/lossless.PlaneCodeToDistance»,
+  dep.«internal/lossless.PopulationCost»,
+  dep.«internal/lossless.PrefixEncodeBitsNoLUT»,
+  dep.«internal/lossless.PrefixEncodeNoLUT»,
+  dep.«internal/lossless.ReadSymbol»,
+  dep.«internal/lossless.ResidualImage»,
+  dep.«internal/lossless.ReuseColorCache»,
+  dep.«internal/lossless.StoreHuffmanCodeScratch»,
+  dep.«internal/lossless.StoreHuffmanTreeOfHuffmanTreeToBitMask»,
+  dep.«internal/lossless.StoreHuffmanTreeToBitMask»,
+  dep.«internal/lossless.SubtractGreen»,
+  dep.«internal/lossless.VP8LSubSampleSize»,
+  dep.«internal/lossless.accumulateHCode»,
+  dep.«internal/lossless.addGreenToBlueAndRed»,
+  dep.«internal/lossless.addPixels»,
+  dep.«internal/lossless.addSingleLiteralWithCostModel»,
+  dep.«internal/lossless.allocateHistoSetReuse»,
+  dep.«internal/lossless.applyColorTransformPixel»,
+  dep.«internal/lossless.applyColorTransformTile»,
+  dep.«internal/lossless.argbHasAlpha»,
+  dep.«internal/lossless.argbSliceToBytes»,
+  dep.«internal/lossless.argbToNRGBA»,
+  dep.«internal/lossless.argbToNRGBARows»,
+  dep.«internal/lossless.assignCodeLengths»,
+  dep.«internal/lossless.average2»,
+  dep.«internal/lossless.avg2»,
+  dep.«internal/lossless.backwardReferencesHashChainDistanceOnly»,
+  dep.«internal/lossless.backwardReferencesHashChainFollowChosenPath»,
+  dep.«internal/lossless.backwardReferencesTraceBackwardsWithDist»,
+  dep.«internal/lossless.bitsEntropyRefine»,
+  dep.«internal/lossless.bitsLog2Floor»,
+  dep.«internal/lossless.buildHuffmanTableSize»,
+  dep.«internal/lossless.buildPackedTable»,
+  dep.«internal/lossless.buildTreeAndExtractLengths»,
+  dep.«internal/lossless.bytesToARGBSlice»,
+  dep.«internal/lossless.cacheBitsForEncoder»,
+  dep.«internal/lossless.clampAddSubFull»,
+  dep.«internal/lossless.clampAddSubHalf»,
+  dep.«internal/lossless.clampBits»,
+  dep.«internal/lossless.clampByte»,
+  dep.«internal/lossless.clampedAddSubtractFull»,
+  dep.«internal/lossless.clampedAddSubtractHalf»,
+  dep.«internal/lossless.clearHuffmanTreeIfOnlyOneSymbol»,
+  dep.«internal/lossless.closestDiscretizedArgb»,
+  dep.«internal/lossless.codeRepeatedValues»,
+  dep.«internal/lossless.codeRepeatedZeros»,
+  dep.«internal/lossless.colorIndexInverseTransform»,
+  dep.«internal/lossless.colorSpaceInverseTransform»,
+  dep.«internal/lossless.colorSpaceInverseTransformParallel»,
+  dep.«internal/lossless.const:ARGBBlack»,
+  dep.«internal/lossless.const:CodeLengthCodes»,
+  dep.«internal/lossless.const:CodeLengthLiterals»,
+  dep.«internal/lossless.const:CodeLengthRepeatCode»,
+  dep.«internal/lossless.const:CodeToPlaneCodesCount»,
+  dep.«internal/lossless.const:ColorIndexingTransform»,
+  dep.«internal/lossless.const:CrossColorTransform»,
+  dep.«internal/lossless.const:DefaultCodeLength»,
+  dep.«internal/lossless.const:HuffAlpha»,
+  dep.«internal/lossless.const:HuffBlue»,
+  dep.«internal/lossless.const:HuffDist»,
+  dep.«internal/lossless.const:HuffGreen»,
+  dep.«internal/lossless.const:HuffRed»,
+  dep.«internal/lossless.const:HuffmanCodesPerMetaCode»,
+  dep.«internal/lossless.const:HuffmanPackedBits»,
+  dep.«internal/lossless.const:HuffmanPackedTableSize»,
+  dep.«internal/lossless.const:HuffmanTableBits»,
+  dep.«internal/lossless.const:HuffmanTableMask»,
+  dep.«internal/lossless.const:LengthsTableBits»,
+  dep.«internal/lossless.const:LengthsTableMask»,
+  dep.«internal/lossless.const:MaxAllowedCodeLength»,
+  dep.«internal/lossless.const:MaxCacheBits»,
+  dep.«internal/lossless.const:MaxPaletteSize»,
+  dep.«internal/lossless.const:MinHuffmanBits»,
+  dep.«internal/lossless.const:MinTransformBits»,
+  dep.«internal/lossless.const:NumDistanceCodes»,
+  dep.«internal/lossless.const:NumHuffmanBits»,
+  dep.«internal/lossless.const:NumLengthCodes»,
+  dep.«internal/lossless.const:NumLiteralCodes»,
+  dep.«internal/lossless.const:NumTransformBits»,
+  dep.«internal/lossless.const:PredictorTransform»,
+  dep.«internal/lossless.const:SubtractGreenTransform»,
+  dep.«internal/lossless.const:TransformPresent»,
+  dep.«internal/lossless.const:VP8LHeaderSize»,
+  dep.«internal/lossless.const:VP8LImageSizeBits»,
+  dep.«internal/lossless.const:VP8LMagicByte»,
+  dep.«internal/lossless.const:VP8LVersion»,
+  dep.«internal/lossless.const:VP8LVersionBits»,
+  dep.«internal/lossless.const:binSize»,
+  dep.«internal/lossless.const:bitsSpecialMarker»,
+  dep.«internal/lossless.const:costCacheIntervalSizeMax»,
+  dep.«internal/lossless.const:fastSLog2LUTSize»,
+  dep.«internal/lossless.const:hashBits»,
+  dep.«internal/lossless.const:hashSize»,
+  dep.«internal/lossless.const:histAlpha»,
+  dep.«internal/lossless.const:histBlue»,
+  dep.«internal/lossless.const:histDistance»,
+  dep.«internal/lossless.const:histLiteral»,
+  dep.«internal/lossless.const:histRed»,
+  dep.«internal/lossless.const:kHashMul»,
+  dep.«internal/lossless.const:kHashMultiplierHi»,
+  dep.«internal/lossless.const:kHashMultiplierLo»,
+  dep.«internal/lossless.const:kLZ77Box»,
+  dep.«internal/lossless.const:kLZ77RLE»,
+  dep.«internal/lossless.const:kLZ77Standard»,
+  dep.«internal/lossless.const:maxColorCacheBitsEnc»,
+  dep.«internal/lossless.const:maxHistoGreedy»,
+  dep.«internal/lossless.const:maxHuffImageSize»,
+  dep.«internal/lossless.const:maxHuffmanBits»,
+  dep.«internal/lossless.const:maxLength»,
+  dep.«internal/lossless.const:maxLengthBits»,
+  dep.«internal/lossless.const:maxLimitBits»,
+  dep.«internal/lossless.const:minDimForNearLossless»,
+  dep.«internal/lossless.const:minLength»,
+  dep.«internal/lossless.const:minPixelsForParallel»,
+  dep.«internal/lossless.const:modeCacheIdx»,
+  dep.«internal/lossless.const:modeCopy»,
+  dep.«internal/lossless.const:modeLiteral»,
+  dep.«internal/lossless.const:nonTrivialSym»,
+  dep.«internal/lossless.const:numArgbCacheRows»,
+  dep.«internal/lossless.const:numPartitions»,
+  dep.«internal/lossless.const:numPredictors»,
+  dep.«internal/lossless.const:windowOffsetsMaxSize»,
+  dep.«internal/lossless.const:windowSize»,
+  dep.«internal/lossless.const:windowSizeBits»,
+  dep.«internal/lossless.convertPopulationCountToBitEstimates»,
+  dep.«internal/lossless.copyBlock32»,
+  dep.«internal/lossless.copyImageWithPrediction»,
+  dep.«internal/lossless.costManager.allocInterval»,
+  dep.«internal/lossless.costManager.connectIntervals»,
+  dep.«internal/lossless.costManager.freeInterval»,
+  dep.«internal/lossless.costManager.insertInterval»,
+  dep.«internal/lossless.costManager.popInterval»,
+  dep.«internal/lossless.costManager.positionOrphanInterval»,
+  dep.«internal/lossless.costManager.pushInterval»,
+  dep.«internal/lossless.costManager.updateCost»,
+  dep.«internal/lossless.costManager.updateCostAtIndex»,
+  dep.«internal/lossless.costManager.updateCostPerInterval»,
+  dep.«internal/lossless.costModelTrace.build»,
+  dep.«internal/lossless.costModelTrace.getCacheCost»,
+  dep.«internal/lossless.costModelTrace.getDistanceCost»,
+  dep.«internal/lossless.costModelTrace.getLengthCost»,
+  dep.«internal/lossless.costModelTrace.getLiteralCost»,
+  dep.«internal/lossless.dominantCostRange.update»,
+  dep.«internal/lossless.encColorTransformDelta»,
+  dep.«internal/lossless.estimateEntropy»,
+  dep.«internal/lossless.expandColorMap»,
+  dep.«internal/lossless.extraCost»,
+  dep.«internal/lossless.extractClusterCenters»,
+  dep.«internal/lossless.fastSLog2»,
+  dep.«internal/lossless.fillMatchRange»,
+  dep.«internal/lossless.finalHuffmanCost»,
+  dep.«internal/lossless.findBestMultiplier»,
+  dep.«internal/lossless.findBestMultipliers»,
+  dep.«internal/lossless.findClosestDiscretized»,
+  dep.«internal/lossless.findMatchLength»,
+  dep.«internal/lossless.fixPair»,
+  dep.«internal/lossless.generateCanonicalCodes»,
+  dep.«internal/lossless.getARGBIndex»,
+  dep.«internal/lossless.getBinIDForEntropy»,
+  dep.«internal/lossless.getCombineCostFactor»,
+  dep.«internal/lossless.getCombinedEntropy»,
+  dep.«internal/lossless.getCombinedEntropyUnrefined»,
+  dep.«internal/lossless.getCombinedHistogramEntropy»,
+  dep.«internal/lossless.getEntropyUnrefined»,
+  dep.«internal/lossless.getEntropyUnrefinedHelper»,
+  dep.«internal/lossless.getHistoBinIndex»,
+  dep.«internal/lossless.getHistoBits»,
+  dep.«internal/lossless.getMaxItersForQuality»,
+  dep.«internal/lossless.getNextKey»,
+  dep.«internal/lossless.getPixPairHash64»,
+  dep.«internal/lossless.getPixPairHash64Values»,
+  dep.«internal/lossless.getTransformBits»,
+  dep.«internal/lossless.histoQueue.popAt»,
+  dep.«internal/lossless.histoQueue.push»,
+  dep.«internal/lossless.histoQueue.size»,
+  dep.«internal/lossless.histoQueue.updateHead»,
+  dep.«internal/lossless.histogramAdd»,
+  dep.«internal/lossless.histogramAddEvalThresh»,
+  dep.«internal/lossless.histogramAddThresh»,
+  dep.«internal/lossless.histogramBuild»,
+  dep.«internal/lossless.histogramCombineEntropyBin»,
+  dep.«internal/lossless.histogramCombineGreedy»,
+  dep.«internal/lossless.histogramCombineStochastic»,
+  dep.«internal/lossless.histogramEstimateBitsFromRefsScratch»,
+  dep.«internal/lossless.histogramEstimateBitsUint64»,
+  dep.«internal/lossless.histogramNumCodes»,
+  dep.«internal/lossless.histogramRemap»,
+  dep.«internal/lossless.initialHuffmanCost»,
+  dep.«internal/lossless.inverseTransform»,
+  dep.«internal/lossless.isNear»,
+  dep.«internal/lossless.isSmooth»,
+  dep.«internal/lossless.lehmerRand»,
+  dep.«internal/lossless.maxFindCopyLength»,
+  dep.«internal/lossless.multiplierCost»,
+  dep.«internal/lossless.nearLosslessPass»,
+  dep.«internal/lossless.newCostManager»,
+  dep.«internal/lossless.newCostModelTrace»,
+  dep.«internal/lossless.newDominantCostRange»,
+  dep.«internal/lossless.nextTableBitSize»,
+  dep.«internal/lossless.nodeHeap.Len»,
+  dep.«internal/lossless.nodeHeap.heapInit»,
+  dep.«internal/lossless.nodeHeap.less»,
+  dep.«internal/lossless.nodeHeap.pop»,
+  dep.«internal/lossless.nodeHeap.push»,
+  dep.«internal/lossless.nodeHeap.siftDown»,
+  dep.«internal/lossless.nodeHeap.swap»,
+  dep.«internal/lossless.optimizeSampling»,
+  dep.«internal/lossless.packMultipliers»,
+  dep.«internal/lossless.paletteCodeBits»,
+  dep.«internal/lossless.parallelComputeHistogramCost»,
+  dep.«internal/lossless.populationCost»,
+  dep.«internal/lossless.predictPixel»,
+  dep.«internal/lossless.predictorInverseTransform»,
+  dep.«internal/lossless.readPackedSymbols»,
+  dep.«internal/lossless.removeUnusedHistograms»,
+  dep.«internal/lossless.replicateValue»,
+  dep.«internal/lossless.reverseBits»,
+  dep.«internal/lossless.selectPred»,
+  dep.«internal/lossless.selectPredictor»,
+  dep.«internal/lossless.storeFullHuffmanCodeScratch»,
+  dep.«internal/lossless.storeSimpleHuffmanCode»,
+  dep.«internal/lossless.subPixels»,
+  dep.«internal/lossless.subPixelsEnc»,
+  dep.«internal/lossless.tileTracker.merge»,
+  dep.«internal/lossless.tileTracker.swapRemove»,
+  dep.«internal/lossless.traceBackwards»,
+  dep.«internal/lossless.var:CodeLengthCodeOrder»,
+  dep.«internal/lossless.var:CodeLengthExtraBits»,
+  dep.«internal/lossless.var:CodeLengthRepeatOffsets»,
+  dep.«internal/lossless.var:CodeToPlane»,
+  dep.«internal/lossless.var:ErrBadSignature»,
+  dep.«internal/lossless.var:ErrBadVersion»,
+  dep.«internal/lossless.var:ErrBitstream»,
+  dep.«internal/lossless.var:ErrEmptyCodeLengths»,
+  dep.«internal/lossless.var:ErrImageTooLarge»,
+  dep.«internal/lossless.var:ErrInvalidTree»,
+  dep.«internal/lossless.var:KLiteralMap»,
+  dep.«internal/lossless.var:fastSLog2LUT»,
+  dep.«internal/lossless.var:kBaseAlphabetSize»,
+  dep.«internal/lossless.var:losslessDecoderPool»,
+  dep.«internal/lossless.var:losslessEncoderPool»,
+  dep.«internal/lossless.var:multiplierDeltaByteLUT»,
+  dep.«internal/lossless.var:planeToCodeLUT»,
+  dep.«internal/lossless.writeHuffmanCode»,
+  dep.«internal/lossy.Decoder.decodeMB»,
+  dep.«internal/lossy.Decoder.doFilter»,
+  dep.«internal/lossy.Decoder.filterRowAt»,
+  dep.«internal/lossy.Decoder.initScanline»,
+  dep.«internal/lossy.Decoder.parseFilterHeader»,
+  dep.«internal/lossy.Decoder.parseFrame»,
+  dep.«internal/lossy.Decoder.parseHeaders»,
+  dep.«internal/lossy.Decoder.parseIntraModeRow»,
+  dep.«internal/lossy.Decoder.parsePartitions»,
+  dep.«internal/lossy.Decoder.parseResiduals»,
+  dep.«internal/lossy.Decoder.parseSegmentHeader»,
+  dep.«internal/lossy.Decoder.precomputeFilterStrengths»,
+  dep.«internal/lossy.Decoder.reconstructRow»,
+  dep.«internal/lossy.ParseQuant»,
+  dep.«internal/lossy.ResetProba»,
+  dep.«internal/lossy.TokenBuffer.addPage»,
+  dep.«internal/lossy.VP8Encoder.importImage»,
+  dep.«internal/lossy.VP8Encoder.importYCbCr»,
+  dep.«internal/lossy.VP8Encoder.initEncoderParams»,
+  dep.«internal/lossy.VP8Encoder.initSegments»,
+  dep.«internal/lossy.abs»,
+  dep.«internal/lossy.b2i»,
+  dep.«internal/lossy.brLoad»,
+  dep.«internal/lossy.brSync»,
+  dep.«internal/lossy.checkMode»,
+  dep.«internal/lossy.clamp255»,
+  dep.«internal/lossy.clampInt»,
+  dep.«internal/lossy.clip»,
+  dep.«internal/lossy.const:BDCPred»,
+  dep.«internal/lossy.const:BDCPredNoLeft»,
+  dep.«internal/lossy.const:BDCPredNoTop»,
+  dep.«internal/lossy.const:BDCPredNoTopLeft»,
+  dep.«internal/lossy.const:BHDPred»,
+  dep.«internal/lossy.const:BHEPred»,
+  dep.«internal/lossy.const:BHUPred»,
+  dep.«internal/lossy.const:BLDPred»,
+  dep.«internal/lossy.const:BPS»,
+  dep.«internal/lossy.const:BRDPred»,
+  dep.«internal/lossy.const:BTMPred»,
+  dep.«internal/lossy.const:BVEPred»,
+  dep.«internal/lossy.const:BVLPred»,
+  dep.«internal/lossy.const:BVRPred»,
+  dep.«internal/lossy.const:DCPred»,
+  dep.«internal/lossy.const:HPred»,
+  dep.«internal/lossy.const:MBFeatureTreeProbs»,
+  dep.«internal/lossy.const:MaxNumPartitions»,
+  dep.«internal/lossy.const:NumBModes»,
+  dep.«internal/lossy.const:NumBands»,
+  dep.«internal/lossy.const:NumCTX»,
+  dep.«internal/lossy.const:NumMBSegments»,
+  dep.«internal/lossy.const:NumModeLFDeltas»,
+  dep.«internal/lossy.const:NumProbas»,
+  dep.«internal/lossy.const:NumRefLFDeltas»,
+  dep.«internal/lossy.const:NumTypes»,
+  dep.«internal/lossy.const:TMPred»,
+  dep.«internal/lossy.const:UOff»,
+  dep.«internal/lossy.const:VOff»,
+  dep.«internal/lossy.const:VPred»,
+  dep.«internal/lossy.const:YOff»,
+  dep.«internal/lossy.const:YUVSize»,
+  dep.«internal/lossy.doSimpleFilter2»,
+  dep.«internal/lossy.doSimpleFilter4»,
+  dep.«internal/lossy.doSimpleFilter6»,
+  dep.«internal/lossy.doTransform»,
+  dep.«internal/lossy.doTransformDCBlock»,
+  dep.«internal/lossy.doUVTransform»,
+  dep.«internal/lossy.fastBit»,
+  dep.«internal/lossy.fastSigned»,
+  dep.«internal/lossy.fillBytes»,
+  dep.«internal/lossy.filterLoop24HAt»,
+  dep.«internal/lossy.filterLoop24VAt»,
+  dep.«internal/lossy.filterLoop26At»,
+  dep.«internal/lossy.filterLoop26HAt»,
+  dep.«internal/lossy.filterLoop26VAt»,
+  dep.«internal/lossy.getCoeffsInline»,
+  dep.«internal/lossy.hFilter16iAt»,
+  dep.«internal/lossy.hFilter8iAt»,
+  dep.«internal/lossy.imageHasAlpha»,
+  dep.«internal/lossy.initRowWorker»,
+  dep.«internal/lossy.initSegmentQuant»,
+  dep.«internal/lossy.isHEV»,
+  dep.«internal/lossy.maxInt»,
+  dep.«internal/lossy.needsFilter2At»,
+  dep.«internal/lossy.nzCodeBits»,
+  dep.«internal/lossy.parseProba»,
+  dep.«internal/lossy.qualityToCompression»,
+  dep.«internal/lossy.qualityToQIndex»,
+  dep.«internal/lossy.readOptionalSigned»,
+  dep.«internal/lossy.sclip1»,
+  dep.«internal/lossy.sclip2»,
+  dep.«internal/lossy.setupSegment»,
+  dep.«internal/lossy.simpleHFilter16At»,
+  dep.«internal/lossy.simpleHFilter16iAt»,
+  dep.«internal/lossy.vFilter16iAt»,
+  dep.«internal/lossy.vFilter8iAt»,
+  dep.«internal/lossy.var:CoeffsProba0»,
+  dep.«internal/lossy.var:CoeffsUpdateProba»,
+  dep.«internal/lossy.var:KAcTable»,
+  dep.«internal/lossy.var:KAcTable2»,
+  dep.«internal/lossy.var:KBModesProba»,
+  dep.«internal/lossy.var:KBands»,
+  dep.«internal/lossy.var:KCat3»,
+  dep.«internal/lossy.var:KCat4»,
+  dep.«internal/lossy.var:KCat5»,
+  dep.«internal/lossy.var:KCat6»,
+  dep.«internal/lossy.var:KDcTable»,
+  dep.«internal/lossy.var:KYModesIntra4»,
+  dep.«internal/lossy.var:KZigzag»,
+  dep.«internal/lossy.var:boolWriterPool»,
+  dep.«internal/lossy.var:encoderPool»,
+  dep.«internal/lossy.var:errPrematureEOF»,
+  dep.«internal/lossy.var:importUVWorkerPool»,
+  dep.«internal/lossy.var:kBiasMatrices»,
+  dep.«internal/lossy.var:kCat3456»,
+  dep.«internal/lossy.var:kFreqSharpening»,
+  dep.«internal/lossy.var:kScan»,
+  dep.«internal/lossy.var:kVP8Log2Range»,
+  dep.«internal/lossy.var:kVP8NewRange»,
+  dep.«internal/lossy.var:lossyDecoderPool»,
+  dep.«internal/lossy.var:parallelPool»,
+  dep.«internal/pool.const:Size16K»,
+  dep.«internal/pool.const:Size1K»,
+  dep.«internal/pool.const:Size256B»,
+  dep.«internal/pool.const:Size256K»,
+  dep.«internal/pool.const:Size4K»,
+  dep.«internal/pool.const:Size64K»,
+  dep.«internal/pool.var:pools»,
+  dep.«webp.buildNRGBA»,
+  dep.«webp.cleanupTransparentAreaLossless»,
+  dep.«webp.validNRGBA»,
+  dep.«webp.validRGBA»,
+  dep.«webp.var:argbPool»
+]
+-- END deps pool
+def pool : List Entry := pool_roots ++ pool_deps
 
 /-- Webp/Impl/RowPipe.lean + Webp/Impl/RowSync.lean (row-pipelined lossy encoder) -/
-def rowPipe : List Entry := [
+def rowPipe_roots : List Entry := [
   fp! "internal/lossy.getParallelState" 0xf716f40f33a2e6cf,
   fp! "internal/lossy.putParallelState" 0x9bda47d7951dcb03,
   fp! "internal/lossy.newRowSync" 0xd025aa1d2e02ed81,
@@ -404,9 +3089,115 @@ def rowPipe : List Entry := [
   fp! "internal/lossy.VP8Encoder.recordAllTokens" 0x9e7fc64d34eab2a0,
   fp! "internal/lossy.VP8Encoder.refreshProbas" 0xfab4488e65cba4a9
 ]
+-- BEGIN deps rowPipe (written by tools/update_fingerprints.py — do not edit by hand)
+def rowPipe_deps : List Entry := [
+  dep.«internal/lossy.DequantCoeffs»,
+  dep.«internal/lossy.MBIterator.IsDone»,
+  dep.«internal/lossy.MBIterator.Next»,
+  dep.«internal/lossy.MBIterator.resetLeftContext»,
+  dep.«internal/lossy.PickBestI16Mode»,
+  dep.«internal/lossy.PickBestI4Mode»,
+  dep.«internal/lossy.PickBestUVMode»,
+  dep.«internal/lossy.QuantizeCoeffs»,
+  dep.«internal/lossy.RDScore»,
+  dep.«internal/lossy.TokenBuffer.MarkMBStart»,
+  dep.«internal/lossy.TokenBuffer.RecordCoeffs»,
+  dep.«internal/lossy.TokenBuffer.RecordToken»,
+  dep.«internal/lossy.TokenBuffer.addPage»,
+  dep.«internal/lossy.TokenBuffer.recordLevelVP8»,
+  dep.«internal/lossy.TokenBuffer.tokenCount»,
+  dep.«internal/lossy.TokenCostForCoeffs»,
+  dep.«internal/lossy.TrellisQuantizeBlock»,
+  dep.«internal/lossy.VP8Encoder.InitIterator»,
+  dep.«internal/lossy.VP8Encoder.collectAllStats»,
+  dep.«internal/lossy.VP8Encoder.collectMBStats»,
+  dep.«internal/lossy.VP8Encoder.recordMBTokens»,
+  dep.«internal/lossy.branchCost»,
+  dep.«internal/lossy.checkMode»,
+  dep.«internal/lossy.collectCoeffStats»,
+  dep.«internal/lossy.collectLevelStats»,
+  dep.«internal/lossy.const:BDCPred»,
+  dep.«internal/lossy.const:BDCPredNoLeft»,
+  dep.«internal/lossy.const:BDCPredNoTop»,
+  dep.«internal/lossy.const:BDCPredNoTopLeft»,
+  dep.«internal/lossy.const:BHDPred»,
+  dep.«internal/lossy.const:BHEPred»,
+  dep.«internal/lossy.const:BHUPred»,
+  dep.«internal/lossy.const:BLDPred»,
+  dep.«internal/lossy.const:BPS»,
+  dep.«internal/lossy.const:BRDPred»,
+  dep.«internal/lossy.const:BTMPred»,
+  dep.«internal/lossy.const:BVEPred»,
+  dep.«internal/lossy.const:BVLPred»,
+  dep.«internal/lossy.const:BVRPred»,
+  dep.«internal/lossy.const:DCPred»,
+  dep.«internal/lossy.const:HPred»,
+  dep.«internal/lossy.const:NumBModes»,
+  dep.«internal/lossy.const:NumBands»,
+  dep.«internal/lossy.const:NumCTX»,
+  dep.«internal/lossy.const:NumPredModes»,
+  dep.«internal/lossy.const:NumProbas»,
+  dep.«internal/lossy.const:NumTypes»,
+  dep.«internal/lossy.const:TMPred»,
+  dep.«internal/lossy.const:UOff»,
+  dep.«internal/lossy.const:VOff»,
+  dep.«internal/lossy.const:VPred»,
+  dep.«internal/lossy.const:YOff»,
+  dep.«internal/lossy.const:YUVSize»,
+  dep.«internal/lossy.const:flatnessLimitI16»,
+  dep.«internal/lossy.const:flatnessLimitI4»,
+  dep.«internal/lossy.const:flatnessLimitUV»,
+  dep.«internal/lossy.const:flatnessPenalty»,
+  dep.«internal/lossy.const:minRefreshCount»,
+  dep.«internal/lossy.const:rdDistoMult»,
+  dep.«internal/lossy.const:tokenPageSize»,
+  dep.«internal/lossy.dequantCoeffsGo»,
+  dep.«internal/lossy.dequantCoeffsSSE2»,
+  dep.«internal/lossy.encodeI16ResidualsParallel»,
+  dep.«internal/lossy.encodeI4ResidualsParallel»,
+  dep.«internal/lossy.encodeResidualsParallel»,
+  dep.«internal/lossy.encodeUVResidualsParallel»,
+  dep.«internal/lossy.fastVariableLevelCost»,
+  dep.«internal/lossy.getMaxI4RDModes»,
+  dep.«internal/lossy.importBlock»,
+  dep.«internal/lossy.isFlat»,
+  dep.«internal/lossy.isFlatSource16»,
+  dep.«internal/lossy.needsLeft4»,
+  dep.«internal/lossy.needsTop4»,
+  dep.«internal/lossy.nzCountACSSE2»,
+  dep.«internal/lossy.optimizeProba»,
+  dep.«internal/lossy.pickBestI16ModeRDParallel»,
+  dep.«internal/lossy.pickBestI4ModeRDParallel»,
+  dep.«internal/lossy.pickBestI4ModeRDTrellisParallel»,
+  dep.«internal/lossy.pickBestUVModeRDParallel»,
+  dep.«internal/lossy.quantizeACAVX2»,
+  dep.«internal/lossy.quantizeACSSE2»,
+  dep.«internal/lossy.quantizeCoeffsGo»,
+  dep.«internal/lossy.reconstructMBParallel»,
+  dep.«internal/lossy.tryI4ModesParallel»,
+  dep.«internal/lossy.tryI4ModesRDParallel»,
+  dep.«internal/lossy.var:CoeffsProba0»,
+  dep.«internal/lossy.var:CoeffsUpdateProba»,
+  dep.«internal/lossy.var:KBands»,
+  dep.«internal/lossy.var:KCat3»,
+  dep.«internal/lossy.var:KCat4»,
+  dep.«internal/lossy.var:KCat5»,
+  dep.«internal/lossy.var:KCat6»,
+  dep.«internal/lossy.var:KZigzag»,
+  dep.«internal/lossy.var:VP8FixedCostsI4»,
+  dep.«internal/lossy.var:kReverseZigzag»,
+  dep.«internal/lossy.var:kWeightTrellis»,
+  dep.«internal/lossy.var:modeFixedCost16»,
+  dep.«internal/lossy.var:modeFixedCostUV»,
+  dep.«internal/lossy.var:parallelPool»,
+  dep.«internal/lossy.var:vp8LevelCodes»,
+  dep.«internal/lossy.variableLevelCost»
+]
+-- END deps rowPipe
+def rowPipe : List Entry := rowPipe_roots ++ rowPipe_deps
 
 /-- Webp/Impl/VP8Kernels.lean (portable-Go DSP kernels and the quantiser) -/
-def vp8Kernels : List Entry := [
+def vp8Kernels_roots : List Entry := [
   fp! "internal/dsp.Clip8b" 0x2149951e95093e83,
   fp! "internal/dsp.initClipTables" 0x788ac4af6caf3878,
   fp! "internal/dsp.mul1" 0x4efa0e79c96d0476,
@@ -499,9 +3290,131 @@ def vp8Kernels : List Entry := [
   fp! "internal/lossy.QuantizeCoeffs" 0x9d5f204a89bc1ad4,
   fp! "internal/lossy.DequantCoeffs" 0x1561ef35b35a2eb8
 ]
+-- BEGIN deps vp8Kernels (written by tools/update_fingerprints.py — do not edit by hand)
+def vp8Kernels_deps : List Entry := [
+  dep.«internal/dsp.Kabs0»,
+  dep.«internal/dsp.Kclip1»,
+  dep.«internal/dsp.Ksclip1»,
+  dep.«internal/dsp.Ksclip2»,
+  dep.«internal/dsp.YUVToRGB»,
+  dep.«internal/dsp.abs»,
+  dep.«internal/dsp.b2i»,
+  dep.«internal/dsp.const:BPS»,
+  dep.«internal/dsp.const:abs0Offset»,
+  dep.«internal/dsp.const:c1»,
+  dep.«internal/dsp.const:c2»,
+  dep.«internal/dsp.const:clip1Offset»,
+  dep.«internal/dsp.const:kBBias»,
+  dep.«internal/dsp.const:kBCb»,
+  dep.«internal/dsp.const:kGBias»,
+  dep.«internal/dsp.const:kGCb»,
+  dep.«internal/dsp.const:kGCr»,
+  dep.«internal/dsp.const:kRBias»,
+  dep.«internal/dsp.const:kRCr»,
+  dep.«internal/dsp.const:kYScale»,
+  dep.«internal/dsp.const:sclip1Offset»,
+  dep.«internal/dsp.const:sclip2Offset»,
+  dep.«internal/dsp.const:yuvFix2»,
+  dep.«internal/dsp.const:yuvMask»,
+  dep.«internal/dsp.dc16asmNEON»,
+  dep.«internal/dsp.dc16asmSSE2»,
+  dep.«internal/dsp.dc8uvasmNEON»,
+  dep.«internal/dsp.dc8uvasmSSE2»,
+  dep.«internal/dsp.fTransformAVX2»,
+  dep.«internal/dsp.fTransformSSE2»,
+  dep.«internal/dsp.he16asmNEON»,
+  dep.«internal/dsp.he16asmSSE2»,
+  dep.«internal/dsp.he8uvasmNEON»,
+  dep.«internal/dsp.he8uvasmSSE2»,
+  dep.«internal/dsp.iTransformOneAVX2»,
+  dep.«internal/dsp.iTransformOneSSE2»,
+  dep.«internal/dsp.initLevelCosts»,
+  dep.«internal/dsp.initLosslessPredictors»,
+  dep.«internal/dsp.initSSIM»,
+  dep.«internal/dsp.initScanTable»,
+  dep.«internal/dsp.lAbs»,
+  dep.«internal/dsp.lAverage2»,
+  dep.«internal/dsp.lAverage3»,
+  dep.«internal/dsp.lAverage4»,
+  dep.«internal/dsp.lClamp»,
+  dep.«internal/dsp.lClampedAddSubtractFull»,
+  dep.«internal/dsp.lClampedAddSubtractHalf»,
+  dep.«internal/dsp.lSelect»,
+  dep.«internal/dsp.pred0»,
+  dep.«internal/dsp.pred1»,
+  dep.«internal/dsp.pred10»,
+  dep.«internal/dsp.pred11»,
+  dep.«internal/dsp.pred12»,
+  dep.«internal/dsp.pred13»,
+  dep.«internal/dsp.pred2»,
+  dep.«internal/dsp.pred3»,
+  dep.«internal/dsp.pred4»,
+  dep.«internal/dsp.pred5»,
+  dep.«internal/dsp.pred6»,
+  dep.«internal/dsp.pred7»,
+  dep.«internal/dsp.pred8»,
+  dep.«internal/dsp.pred9»,
+  dep.«internal/dsp.simpleVFilter16AVX2»,
+  dep.«internal/dsp.simpleVFilter16SSE2»,
+  dep.«internal/dsp.sse16x16AVX2»,
+  dep.«internal/dsp.sse16x16NEON»,
+  dep.«internal/dsp.sse16x16SSE2»,
+  dep.«internal/dsp.sse4x4NEON»,
+  dep.«internal/dsp.sse4x4SSE2»,
+  dep.«internal/dsp.tDisto4x4AVX2»,
+  dep.«internal/dsp.tDisto4x4SSE2»,
+  dep.«internal/dsp.tm16asmNEON»,
+  dep.«internal/dsp.tm16asmSSE2»,
+  dep.«internal/dsp.tm8uvasmNEON»,
+  dep.«internal/dsp.tm8uvasmSSE2»,
+  dep.«internal/dsp.var:AddGreenToBlueAndRedFunc»,
+  dep.«internal/dsp.var:DspScan»,
+  dep.«internal/dsp.var:DspScanUV»,
+  dep.«internal/dsp.var:FTransform»,
+  dep.«internal/dsp.var:FTransform2»,
+  dep.«internal/dsp.var:FTransformWHT»,
+  dep.«internal/dsp.var:ITransform»,
+  dep.«internal/dsp.var:LosslessPredictors»,
+  dep.«internal/dsp.var:PredChroma8»,
+  dep.«internal/dsp.var:PredLuma16»,
+  dep.«internal/dsp.var:PredLuma4»,
+  dep.«internal/dsp.var:SSE16x16»,
+  dep.«internal/dsp.var:SSE4x4»,
+  dep.«internal/dsp.var:SubtractGreenFunc»,
+  dep.«internal/dsp.var:Transform»,
+  dep.«internal/dsp.var:TransformAC3»,
+  dep.«internal/dsp.var:TransformDC»,
+  dep.«internal/dsp.var:TransformDCUV»,
+  dep.«internal/dsp.var:TransformUV»,
+  dep.«internal/dsp.var:TransformWHT»,
+  dep.«internal/dsp.var:VP8LevelFixedCosts»,
+  dep.«internal/dsp.var:abs0»,
+  dep.«internal/dsp.var:clip1»,
+  dep.«internal/dsp.var:hasAVX2»,
+  dep.«internal/dsp.var:kWeightY»,
+  dep.«internal/dsp.var:sclip1»,
+  dep.«internal/dsp.var:sclip2»,
+  dep.«internal/dsp.var:vp8LevelFixedCostsTable»,
+  dep.«internal/dsp.var:vp8kClip»,
+  dep.«internal/dsp.var:vp8kClip4Bits»,
+  dep.«internal/dsp.ve16asmNEON»,
+  dep.«internal/dsp.ve16asmSSE2»,
+  dep.«internal/dsp.ve8uvasmNEON»,
+  dep.«internal/dsp.ve8uvasmSSE2»,
+  dep.«internal/dsp.yuvPackedToNRGBABatchAVX2»,
+  dep.«internal/dsp.yuvPackedToNRGBABatchSSE2»,
+  dep.«internal/lossy.const:BPS»,
+  dep.«internal/lossy.dequantCoeffsSSE2»,
+  dep.«internal/lossy.nzCountACSSE2»,
+  dep.«internal/lossy.quantizeACAVX2»,
+  dep.«internal/lossy.quantizeACSSE2»,
+  dep.«internal/lossy.var:kReverseZigzag»
+]
+-- END deps vp8Kernels
+def vp8Kernels : List Entry := vp8Kernels_roots ++ vp8Kernels_deps
 
 /-- Webp/Impl/VP8LFastPaths.lean (literal fast paths of the VP8L pixel loop) -/
-def vp8lFastPaths : List Entry := [
+def vp8lFastPaths_roots : List Entry := [
   fp! "internal/lossless.Decoder.readHuffmanCodes" 0x3635e6f7425b3c09,
   fp! "internal/lossless.buildPackedTable" 0xa1e27ca6a7bffe08,
   fp! "internal/lossless.accumulateHCode" 0xf44f68e817f52029,
@@ -509,9 +3422,78 @@ def vp8lFastPaths : List Entry := [
   fp! "internal/lossless.Decoder.decodeImageData" 0xface28a325742152,
   fp! "internal/lossless.ReadSymbol" 0x69e32bfcf8c46287
 ]
+-- BEGIN deps vp8lFastPaths (written by tools/update_fingerprints.py — do not edit by hand)
+def vp8lFastPaths_deps : List Entry := [
+  dep.«internal/lossless.BuildHuffmanTableScratch»,
+  dep.«internal/lossless.ColorCache.HashPix»,
+  dep.«internal/lossless.ColorCache.Insert»,
+  dep.«internal/lossless.ColorCache.Lookup»,
+  dep.«internal/lossless.Decoder.decodeImageStream»,
+  dep.«internal/lossless.Decoder.decodeSubImage»,
+  dep.«internal/lossless.Decoder.getHTreeGroup»,
+  dep.«internal/lossless.Decoder.getMetaIndex»,
+  dep.«internal/lossless.Decoder.huffTableScratch»,
+  dep.«internal/lossless.Decoder.readHuffmanCode»,
+  dep.«internal/lossless.Decoder.readHuffmanCodeLengths»,
+  dep.«internal/lossless.Decoder.readTransform»,
+  dep.«internal/lossless.Decoder.updateDecoder»,
+  dep.«internal/lossless.PlaneCodeToDistance»,
+  dep.«internal/lossless.VP8LSubSampleSize»,
+  dep.«internal/lossless.argbSliceToBytes»,
+  dep.«internal/lossless.buildHuffmanTableSize»,
+  dep.«internal/lossless.bytesToARGBSlice»,
+  dep.«internal/lossless.const:CodeLengthCodes»,
+  dep.«internal/lossless.const:CodeLengthLiterals»,
+  dep.«internal/lossless.const:CodeLengthRepeatCode»,
+  dep.«internal/lossless.const:CodeToPlaneCodesCount»,
+  dep.«internal/lossless.const:ColorIndexingTransform»,
+  dep.«internal/lossless.const:CrossColorTransform»,
+  dep.«internal/lossless.const:DefaultCodeLength»,
+  dep.«internal/lossless.const:HuffAlpha»,
+  dep.«internal/lossless.const:HuffBlue»,
+  dep.«internal/lossless.const:HuffDist»,
+  dep.«internal/lossless.const:HuffGreen»,
+  dep.«internal/lossless.const:HuffRed»,
+  dep.«internal/lossless.const:HuffmanCodesPerMetaCode»,
+  dep.«internal/lossless.const:HuffmanPackedBits»,
+  dep.«internal/lossless.const:HuffmanPackedTableSize»,
+  dep.«internal/lossless.const:HuffmanTableBits»,
+  dep.«internal/lossless.const:HuffmanTableMask»,
+  dep.«internal/lossless.const:LengthsTableBits»,
+  dep.«internal/lossless.const:LengthsTableMask»,
+  dep.«internal/lossless.const:MaxAllowedCodeLength»,
+  dep.«internal/lossless.const:MaxCacheBits»,
+  dep.«internal/lossless.const:MinHuffmanBits»,
+  dep.«internal/lossless.const:MinTransformBits»,
+  dep.«internal/lossless.const:NumDistanceCodes»,
+  dep.«internal/lossless.const:NumHuffmanBits»,
+  dep.«internal/lossless.const:NumLengthCodes»,
+  dep.«internal/lossless.const:NumLiteralCodes»,
+  dep.«internal/lossless.const:NumTransformBits»,
+  dep.«internal/lossless.const:PredictorTransform»,
+  dep.«internal/lossless.const:SubtractGreenTransform»,
+  dep.«internal/lossless.const:bitsSpecialMarker»,
+  dep.«internal/lossless.const:kHashMul»,
+  dep.«internal/lossless.copyBlock32»,
+  dep.«internal/lossless.expandColorMap»,
+  dep.«internal/lossless.getNextKey»,
+  dep.«internal/lossless.nextTableBitSize»,
+  dep.«internal/lossless.replicateValue»,
+  dep.«internal/lossless.var:CodeLengthCodeOrder»,
+  dep.«internal/lossless.var:CodeLengthExtraBits»,
+  dep.«internal/lossless.var:CodeLengthRepeatOffsets»,
+  dep.«internal/lossless.var:CodeToPlane»,
+  dep.«internal/lossless.var:ErrBitstream»,
+  dep.«internal/lossless.var:ErrEmptyCodeLengths»,
+  dep.«internal/lossless.var:ErrInvalidTree»,
+  dep.«internal/lossless.var:KLiteralMap»,
+  dep.«internal/lossless.var:kBaseAlphabetSize»
+]
+-- END deps vp8lFastPaths
+def vp8lFastPaths : List Entry := vp8lFastPaths_roots ++ vp8lFastPaths_deps
 
 /-- Webp/Impl/Writer.lean (RIFF writers of encode.go, lossless trailer, VP8 frame assembler) -/
-def writer : List Entry := [
+def writer_roots : List Entry := [
   fp! "webp.writeRIFF" 0xd83298f126f9e0d2,
   fp! "webp.writeRIFFSimple" 0x847d7dd7e0f78046,
   fp! "webp.writeRIFFExtended" 0x83c1a0beea12662f,
@@ -526,9 +3508,352 @@ def writer : List Entry := [
   fp! "internal/container.PutLE16" 0x9321ff0e8ba7f277,
   fp! "internal/container.PutLE32" 0x02c4652ec0de62e6
 ]
+-- BEGIN deps writer (written by tools/update_fingerprints.py — do not edit by hand)
+def writer_deps : List Entry := [
+  dep.«internal/lossless.ApplyNearLossless»,
+  dep.«internal/lossless.ApplyPaletteTransform»,
+  dep.«internal/lossless.BackwardReferences2DLocality»,
+  dep.«internal/lossless.BackwardReferencesLz77»,
+  dep.«internal/lossless.BackwardReferencesLz77Box»,
+  dep.«internal/lossless.BackwardReferencesRle»,
+  dep.«internal/lossless.BackwardRefs.Add»,
+  dep.«internal/lossless.BackwardRefs.Len»,
+  dep.«internal/lossless.BackwardRefs.Refs»,
+  dep.«internal/lossless.BackwardRefs.Reset»,
+  dep.«internal/lossless.BackwardRefsWithLocalCache»,
+  dep.«internal/lossless.BuildCodeLengthTokens»,
+  dep.«internal/lossless.BuildCodeLengthTokensScratch»,
+  dep.«internal/lossless.CachePixel»,
+  dep.«internal/lossless.CalculateBestCacheSize»,
+  dep.«internal/lossless.ColorCache.Contains»,
+  dep.«internal/lossless.ColorCache.HashPix»,
+  dep.«internal/lossless.ColorCache.Insert»,
+  dep.«internal/lossless.ColorCache.Lookup»,
+  dep.«internal/lossless.ColorCache.Reset»,
+  dep.«internal/lossless.ColorIndexBuild»,
+  dep.«internal/lossless.ColorSpaceTransform»,
+  dep.«internal/lossless.CopyPixel»,
+  dep.«internal/lossless.CreateHuffmanTreeScratch»,
+  dep.«internal/lossless.DefaultEncoderConfig»,
+  dep.«internal/lossless.DistanceToPlaneCode»,
+  dep.«internal/lossless.Encoder.analyze»,
+  dep.«internal/lossless.Encoder.applyPaletteTransform»,
+  dep.«internal/lossless.Encoder.applyTransforms»,
+  dep.«internal/lossless.Encoder.encodePalette»,
+  dep.«internal/lossless.Encoder.encodeStream»,
+  dep.«internal/lossless.Encoder.encodeSubImage»,
+  dep.«internal/lossless.Encoder.storeImageData»,
+  dep.«internal/lossless.Encoder.storeSubImageData»,
+  dep.«internal/lossless.Encoder.writeTransformData»,
+  dep.«internal/lossless.GetBackwardReferences»,
+  dep.«internal/lossless.GetBackwardReferencesWithScratch»,
+  dep.«internal/lossless.GetHistoImageSymbols»,
+  dep.«internal/lossless.GetWindowSizeForHashChain»,
+  dep.«internal/lossless.HashChain.Fill»,
+  dep.«internal/lossless.HashChain.GetLength»,
+  dep.«internal/lossless.HashChain.GetOffset»,
+  dep.«internal/lossless.HashChain.fillParallel»,
+  dep.«internal/lossless.HashChain.fillSerial»,
+  dep.«internal/lossless.HistoSet.Get»,
+  dep.«internal/lossless.HistoSet.Size»,
+  dep.«internal/lossless.HistoSet.clearAll»,
+  dep.«internal/lossless.HistoSet.remove»,
+  dep.«internal/lossless.Histogram.AddRefs»,
+  dep.«internal/lossless.Histogram.AddSingle»,
+  dep.«internal/lossless.Histogram.Clear»,
+  dep.«internal/lossless.Histogram.computeHistogramCost»,
+  dep.«internal/lossless.Histogram.copyFrom»,
+  dep.«internal/lossless.Histogram.population»,
+  dep.«internal/lossless.Histogram.resetStats»,
+  dep.«internal/lossless.HuffmanScratch.AllocTree»,
+  dep.«internal/lossless.HuffmanScratch.ResetTreePool»,
+  dep.«internal/lossless.LiteralPixel»,
+  dep.«internal/lossless.NearLosslessBits»,
+  dep.«internal/lossless.NewBackwardRefs»,
+  dep.«internal/lossless.NewColorCache»,
+  dep.«internal/lossless.NewHashChain»,
+  dep.«internal/lossless.NewHistogram»,
+  dep.«internal/lossless.PixOrCopy.Argb»,
+  dep.«internal/lossless.PixOrCopy.CacheIndex»,
+  dep.«internal/lossless.PixOrCopy.Distance»,
+  dep.«internal/lossless.PixOrCopy.IsCacheIdx»,
+  dep.«internal/lossless.PixOrCopy.IsCopy»,
+  dep.«internal/lossless.PixOrCopy.IsLiteral»,
+  dep.«internal/lossless.PixOrCopy.Length»,
+  dep.«internal/lossless.PopulationCost»,
+  dep.«internal/lossless.PrefixEncodeBitsNoLUT»,
+  dep.«internal/lossless.PrefixEncodeNoLUT»,
+  dep.«internal/lossless.ResidualImage»,
+  dep.«internal/lossless.ReuseColorCache»,
+  dep.«internal/lossless.StoreHuffmanCodeScratch»,
+  dep.«internal/lossless.StoreHuffmanTreeOfHuffmanTreeToBitMask»,
+  dep.«internal/lossless.StoreHuffmanTreeToBitMask»,
+  dep.«internal/lossless.SubtractGreen»,
+  dep.«internal/lossless.VP8LSubSampleSize»,
+  dep.«internal/lossless.acquireEncoder»,
+  dep.«internal/lossless.addSingleLiteralWithCostModel»,
+  dep.«internal/lossless.allocateHistoSetReuse»,
+  dep.«internal/lossless.applyColorTransformPixel»,
+  dep.«internal/lossless.applyColorTransformTile»,
+  dep.«internal/lossless.argbHasAlpha»,
+  dep.«internal/lossless.assignCodeLengths»,
+  dep.«internal/lossless.avg2»,
+  dep.«internal/lossless.backwardReferencesHashChainDistanceOnly»,
+  dep.«internal/lossless.backwardReferencesHashChainFollowChosenPath»,
+  dep.«internal/lossless.backwardReferencesTraceBackwardsWithDist»,
+  dep.«internal/lossless.bitsEntropyRefine»,
+  dep.«internal/lossless.bitsLog2Floor»,
+  dep.«internal/lossless.buildTreeAndExtractLengths»,
+  dep.«internal/lossless.cacheBitsForEncoder»,
+  dep.«internal/lossless.clampAddSubFull»,
+  dep.«internal/lossless.clampAddSubHalf»,
+  dep.«internal/lossless.clampBits»,
+  dep.«internal/lossless.clampByte»,
+  dep.«internal/lossless.clearHuffmanTreeIfOnlyOneSymbol»,
+  dep.«internal/lossless.closestDiscretizedArgb»,
+  dep.«internal/lossless.codeRepeatedValues»,
+  dep.«internal/lossless.codeRepeatedZeros»,
+  dep.«internal/lossless.const:ARGBBlack»,
+  dep.«internal/lossless.const:CodeLengthCodes»,
+  dep.«internal/lossless.const:CodeLengthRepeatCode»,
+  dep.«internal/lossless.const:CodeToPlaneCodesCount»,
+  dep.«internal/lossless.const:ColorIndexingTransform»,
+  dep.«internal/lossless.const:CrossColorTransform»,
+  dep.«internal/lossless.const:HuffmanCodesPerMetaCode»,
+  dep.«internal/lossless.const:MaxAllowedCodeLength»,
+  dep.«internal/lossless.const:MaxCacheBits»,
+  dep.«internal/lossless.const:MaxPaletteSize»,
+  dep.«internal/lossless.const:MinHuffmanBits»,
+  dep.«internal/lossless.const:MinTransformBits»,
+  dep.«internal/lossless.const:NumDistanceCodes»,
+  dep.«internal/lossless.const:NumHuffmanBits»,
+  dep.«internal/lossless.const:NumLengthCodes»,
+  dep.«internal/lossless.const:NumLiteralCodes»,
+  dep.«internal/lossless.const:NumTransformBits»,
+  dep.«internal/lossless.const:PredictorTransform»,
+  dep.«internal/lossless.const:SubtractGreenTransform»,
+  dep.«internal/lossless.const:TransformPresent»,
+  dep.«internal/lossless.const:VP8LImageSizeBits»,
+  dep.«internal/lossless.const:VP8LMagicByte»,
+  dep.«internal/lossless.const:VP8LVersion»,
+  dep.«internal/lossless.const:VP8LVersionBits»,
+  dep.«internal/lossless.const:binSize»,
+  dep.«internal/lossless.const:costCacheIntervalSizeMax»,
+  dep.«internal/lossless.const:fastSLog2LUTSize»,
+  dep.«internal/lossless.const:hashBits»,
+  dep.«internal/lossless.const:hashSize»,
+  dep.«internal/lossless.const:histAlpha»,
+  dep.«internal/lossless.const:histBlue»,
+  dep.«internal/lossless.const:histDistance»,
+  dep.«internal/lossless.const:histLiteral»,
+  dep.«internal/lossless.const:histRed»,
+  dep.«internal/lossless.const:kHashMul»,
+  dep.«internal/lossless.const:kHashMultiplierHi»,
+  dep.«internal/lossless.const:kHashMultiplierLo»,
+  dep.«internal/lossless.const:kLZ77Box»,
+  dep.«internal/lossless.const:kLZ77RLE»,
+  dep.«internal/lossless.const:kLZ77Standard»,
+  dep.«internal/lossless.const:maxColorCacheBitsEnc»,
+  dep.«internal/lossless.const:maxHistoGreedy»,
+  dep.«internal/lossless.const:maxHuffImageSize»,
+  dep.«internal/lossless.const:maxHuffmanBits»,
+  dep.«internal/lossless.const:maxLength»,
+  dep.«internal/lossless.const:maxLengthBits»,
+  dep.«internal/lossless.const:maxLimitBits»,
+  dep.«internal/lossless.const:minDimForNearLossless»,
+  dep.«internal/lossless.const:minLength»,
+  dep.«internal/lossless.const:modeCacheIdx»,
+  dep.«internal/lossless.const:modeCopy»,
+  dep.«internal/lossless.const:modeLiteral»,
+  dep.«internal/lossless.const:nonTrivialSym»,
+  dep.«internal/lossless.const:numPartitions»,
+  dep.«internal/lossless.const:numPredictors»,
+  dep.«internal/lossless.const:windowOffsetsMaxSize»,
+  dep.«internal/lossless.const:windowSize»,
+  dep.«internal/lossless.const:windowSizeBits»,
+  dep.«internal/lossless.convertPopulationCountToBitEstimates»,
+  dep.«internal/lossless.copyImageWithPrediction»,
+  dep.«internal/lossless.costManager.allocInterval»,
+  dep.«internal/lossless.costManager.connectIntervals»,
+  dep.«internal/lossless.costManager.freeInterval»,
+  dep.«internal/lossless.costManager.insertInterval»,
+  dep.«internal/lossless.costManager.popInterval»,
+  dep.«internal/lossless.costManager.positionOrphanInterval»,
+  dep.«internal/lossless.costManager.pushInterval»,
+  dep.«internal/lossless.costManager.updateCost»,
+  dep.«internal/lossless.costManager.updateCostAtIndex»,
+  dep.«internal/lossless.costManager.updateCostPerInterval»,
+  dep.«internal/lossless.costModelTrace.build»,
+  dep.«internal/lossless.costModelTrace.getCacheCost»,
+  dep.«internal/lossless.costModelTrace.getDistanceCost»,
+  dep.«internal/lossless.costModelTrace.getLengthCost»,
+  dep.«internal/lossless.costModelTrace.getLiteralCost»,
+  dep.«internal/lossless.dominantCostRange.update»,
+  dep.«internal/lossless.encColorTransformDelta»,
+  dep.«internal/lossless.estimateEntropy»,
+  dep.«internal/lossless.extraCost»,
+  dep.«internal/lossless.extractClusterCenters»,
+  dep.«internal/lossless.fastSLog2»,
+  dep.«internal/lossless.fillMatchRange»,
+  dep.«internal/lossless.finalHuffmanCost»,
+  dep.«internal/lossless.findBestMultiplier»,
+  dep.«internal/lossless.findBestMultipliers»,
+  dep.«internal/lossless.findClosestDiscretized»,
+  dep.«internal/lossless.findMatchLength»,
+  dep.«internal/lossless.fixPair»,
+  dep.«internal/lossless.generateCanonicalCodes»,
+  dep.«internal/lossless.getBinIDForEntropy»,
+  dep.«internal/lossless.getCombineCostFactor»,
+  dep.«internal/lossless.getCombinedEntropy»,
+  dep.«internal/lossless.getCombinedEntropyUnrefined»,
+  dep.«internal/lossless.getCombinedHistogramEntropy»,
+  dep.«internal/lossless.getEntropyUnrefined»,
+  dep.«internal/lossless.getEntropyUnrefinedHelper»,
+  dep.«internal/lossless.getHistoBinIndex»,
+  dep.«internal/lossless.getHistoBits»,
+  dep.«internal/lossless.getMaxItersForQuality»,
+  dep.«internal/lossless.getPixPairHash64»,
+  dep.«internal/lossless.getPixPairHash64Values»,
+  dep.«internal/lossless.getTransformBits»,
+  dep.«internal/lossless.histoQueue.popAt»,
+  dep.«internal/lossless.histoQueue.push»,
+  dep.«internal/lossless.histoQueue.size»,
+  dep.«internal/lossless.histoQueue.updateHead»,
+  dep.«internal/lossless.histogramAdd»,
+  dep.«internal/lossless.histogramAddEvalThresh»,
+  dep.«internal/lossless.histogramAddThresh»,
+  dep.«internal/lossless.histogramBuild»,
+  dep.«internal/lossless.histogramCombineEntropyBin»,
+  dep.«internal/lossless.histogramCombineGreedy»,
+  dep.«internal/lossless.histogramCombineStochastic»,
+  dep.«internal/lossless.histogramEstimateBitsFromRefsScratch»,
+  dep.«internal/lossless.histogramEstimateBitsUint64»,
+  dep.«internal/lossless.histogramNumCodes»,
+  dep.«internal/lossless.histogramRemap»,
+  dep.«internal/lossless.initialHuffmanCost»,
+  dep.«internal/lossless.isNear»,
+  dep.«internal/lossless.isSmooth»,
+  dep.«internal/lossless.lehmerRand»,
+  dep.«internal/lossless.maxFindCopyLength»,
+  dep.«internal/lossless.multiplierCost»,
+  dep.«internal/lossless.nearLosslessPass»,
+  dep.«internal/lossless.newCostManager»,
+  dep.«internal/lossless.newCostModelTrace»,
+  dep.«internal/lossless.newDominantCostRange»,
+  dep.«internal/lossless.nodeHeap.Len»,
+  dep.«internal/lossless.nodeHeap.heapInit»,
+  dep.«internal/lossless.nodeHeap.less»,
+  dep.«internal/lossless.nodeHeap.pop»,
+  dep.«internal/lossless.nodeHeap.push»,
+  dep.«internal/lossless.nodeHeap.siftDown»,
+  dep.«internal/lossless.nodeHeap.swap»,
+  dep.«internal/lossless.optimizeSampling»,
+  dep.«internal/lossless.packMultipliers»,
+  dep.«internal/lossless.paletteCodeBits»,
+  dep.«internal/lossless.parallelComputeHistogramCost»,
+  dep.«internal/lossless.populationCost»,
+  dep.«internal/lossless.predictPixel»,
+  dep.«internal/lossless.releaseEncoder»,
+  dep.«internal/lossless.removeUnusedHistograms»,
+  dep.«internal/lossless.reverseBits»,
+  dep.«internal/lossless.selectPred»,
+  dep.«internal/lossless.storeFullHuffmanCodeScratch»,
+  dep.«internal/lossless.storeSimpleHuffmanCode»,
+  dep.«internal/lossless.subPixels»,
+  dep.«internal/lossless.subPixelsEnc»,
+  dep.«internal/lossless.tileTracker.merge»,
+  dep.«internal/lossless.tileTracker.swapRemove»,
+  dep.«internal/lossless.traceBackwards»,
+  dep.«internal/lossless.var:CodeLengthCodeOrder»,
+  dep.«internal/lossless.var:CodeLengthExtraBits»,
+  dep.«internal/lossless.var:ErrImageTooLarge»,
+  dep.«internal/lossless.var:fastSLog2LUT»,
+  dep.«internal/lossless.var:losslessEncoderPool»,
+  dep.«internal/lossless.var:multiplierDeltaByteLUT»,
+  dep.«internal/lossless.var:planeToCodeLUT»,
+  dep.«internal/lossless.writeHuffmanCode»,
+  dep.«internal/lossy.TokenBuffer.EmitTokens»,
+  dep.«internal/lossy.TokenBuffer.EmitTokensPartitioned»,
+  dep.«internal/lossy.TokenBuffer.Reset»,
+  dep.«internal/lossy.TokenBuffer.addPage»,
+  dep.«internal/lossy.TokenBuffer.tokenCount»,
+  dep.«internal/lossy.VP8Encoder.emitPartition0»,
+  dep.«internal/lossy.VP8Encoder.emitTokenPartitions»,
+  dep.«internal/lossy.VP8Encoder.writeCoeffProba»,
+  dep.«internal/lossy.VP8Encoder.writeFilterHeader»,
+  dep.«internal/lossy.VP8Encoder.writeMBModes»,
+  dep.«internal/lossy.VP8Encoder.writeQuantParams»,
+  dep.«internal/lossy.VP8Encoder.writeSegmentHeader»,
+  dep.«internal/lossy.boolToIntEnc»,
+  dep.«internal/lossy.const:BDCPred»,
+  dep.«internal/lossy.const:BHDPred»,
+  dep.«internal/lossy.const:BHEPred»,
+  dep.«internal/lossy.const:BHUPred»,
+  dep.«internal/lossy.const:BLDPred»,
+  dep.«internal/lossy.const:BRDPred»,
+  dep.«internal/lossy.const:BTMPred»,
+  dep.«internal/lossy.const:BVEPred»,
+  dep.«internal/lossy.const:BVLPred»,
+  dep.«internal/lossy.const:BVRPred»,
+  dep.«internal/lossy.const:DCPred»,
+  dep.«internal/lossy.const:HPred»,
+  dep.«internal/lossy.const:MBFeatureTreeProbs»,
+  dep.«internal/lossy.const:NumBModes»,
+  dep.«internal/lossy.const:NumBands»,
+  dep.«internal/lossy.const:NumCTX»,
+  dep.«internal/lossy.const:NumMBSegments»,
+  dep.«internal/lossy.const:NumModeLFDeltas»,
+  dep.«internal/lossy.const:NumProbas»,
+  dep.«internal/lossy.const:NumRefLFDeltas»,
+  dep.«internal/lossy.const:NumTypes»,
+  dep.«internal/lossy.const:TMPred»,
+  dep.«internal/lossy.const:VPred»,
+  dep.«internal/lossy.const:maxPartition0Size»,
+  dep.«internal/lossy.const:maxPartitionSize»,
+  dep.«internal/lossy.const:tokenPageSize»,
+  dep.«internal/lossy.getBoolWriter»,
+  dep.«internal/lossy.i4SubtreeContains»,
+  dep.«internal/lossy.putBoolWriter»,
+  dep.«internal/lossy.var:CoeffsProba0»,
+  dep.«internal/lossy.var:CoeffsUpdateProba»,
+  dep.«internal/lossy.var:ErrPartition0Overflow»,
+  dep.«internal/lossy.var:ErrPartitionOverflow»,
+  dep.«internal/lossy.var:KBModesProba»,
+  dep.«internal/lossy.var:KYModesIntra4»,
+  dep.«internal/lossy.var:boolWriterPool»,
+  dep.«internal/lossy.writeI16Mode»,
+  dep.«internal/lossy.writeI4ModeBits»,
+  dep.«internal/lossy.writeSegmentID»,
+  dep.«internal/lossy.writeUVMode»,
+  dep.«webp.DefaultOptions»,
+  dep.«webp.cleanupTransparentAreaLossless»,
+  dep.«webp.cleanupTransparentAreaLossyWith»,
+  dep.«webp.const:MaxDimension»,
+  dep.«webp.const:PresetDefault»,
+  dep.«webp.const:PresetText»,
+  dep.«webp.encodeLossless»,
+  dep.«webp.encodeLossyWithAlpha»,
+  dep.«webp.extractAlphaWith»,
+  dep.«webp.flattenBlockNRGBA»,
+  dep.«webp.imageHasAlpha»,
+  dep.«webp.resolveAlphaCompression»,
+  dep.«webp.resolveAlphaFiltering»,
+  dep.«webp.resolveAlphaQuality»,
+  dep.«webp.resolveQMax»,
+  dep.«webp.rgbaIsOpaque»,
+  dep.«webp.rgbaToNRGBA»,
+  dep.«webp.sharpYUVConvert»,
+  dep.«webp.smoothenBlockNRGBA»,
+  dep.«webp.validNRGBA»,
+  dep.«webp.validRGBA»,
+  dep.«webp.validateConfig»,
+  dep.«webp.var:argbPool»
+]
+-- END deps writer
+def writer : List Entry := writer_roots ++ writer_deps
 
 /-- Go side of suites vp8 / c05 / c17 against Webp/Spec/VP8 (RFC 6386 decoder): the lossy decoder functions not transcribed elsewhere -/
-def vp8DecodeGo : List Entry := [
+def vp8DecodeGo_roots : List Entry := [
   fp! "internal/lossy.Decoder.precomputeFilterStrengths" 0x29d12a0306b8f0b8,
   fp! "internal/lossy.Decoder.filterRowAt" 0xa49bddb16e72bb5b,
   fp! "internal/lossy.Decoder.doFilter" 0x03447b47c533beff,
@@ -560,18 +3885,53 @@ def vp8DecodeGo : List Entry := [
   fp! "internal/dsp.YUVToRGB" 0x8a31841169aa14ad,
   fp! "internal/dsp.VP8ClipUV" 0x1b20fa8b52a6a3dc
 ]
+-- BEGIN deps vp8DecodeGo (written by tools/update_fingerprints.py — do not edit by hand)
+def vp8DecodeGo_deps : List Entry := [
+  dep.«internal/dsp.YUVToB»,
+  dep.«internal/dsp.YUVToG»,
+  dep.«internal/dsp.YUVToR»,
+  dep.«internal/dsp.const:kBBias»,
+  dep.«internal/dsp.const:kBCb»,
+  dep.«internal/dsp.const:kGBias»,
+  dep.«internal/dsp.const:kGCb»,
+  dep.«internal/dsp.const:kGCr»,
+  dep.«internal/dsp.const:kRBias»,
+  dep.«internal/dsp.const:kRCr»,
+  dep.«internal/dsp.const:kYScale»,
+  dep.«internal/dsp.const:yuvFix»,
+  dep.«internal/dsp.const:yuvFix2»,
+  dep.«internal/dsp.const:yuvMask»,
+  dep.«internal/dsp.multHi»,
+  dep.«internal/dsp.var:vp8kClip»,
+  dep.«internal/lossy.const:NumMBSegments»,
+  dep.«internal/lossy.var:lossyDecoderPool»
+]
+-- END deps vp8DecodeGo
+def vp8DecodeGo : List Entry := vp8DecodeGo_roots ++ vp8DecodeGo_deps
 
 /-- Webp/Impl/Alpha.lean, decoder half (internal/lossy/alpha.go) -/
-def alphaDec : List Entry := [
+def alphaDec_roots : List Entry := [
   fp! "internal/lossy.DecodeAlpha" 0x47a5f28f4696d62a,
   fp! "internal/lossy.alphaUnfilterHorizontal" 0x534f02f0837cd3d7,
   fp! "internal/lossy.alphaUnfilterVertical" 0x35794c7cffaa3e56,
   fp! "internal/lossy.alphaUnfilterHorizontalRow" 0xe75d8bf9a7b354d3,
   fp! "internal/lossy.alphaUnfilterGradient" 0xeb24c3ac6f7e7536
 ]
+-- BEGIN deps alphaDec (written by tools/update_fingerprints.py — do not edit by hand)
+def alphaDec_deps : List Entry := [
+  dep.«internal/lossy.alphaVP8LStream»,
+  dep.«internal/lossy.const:AlphaFilterGradient»,
+  dep.«internal/lossy.const:AlphaFilterHorizontal»,
+  dep.«internal/lossy.const:AlphaFilterNone»,
+  dep.«internal/lossy.const:AlphaFilterVertical»,
+  dep.«internal/lossy.const:AlphaLosslessCompression»,
+  dep.«internal/lossy.const:AlphaNoCompression»
+]
+-- END deps alphaDec
+def alphaDec : List Entry := alphaDec_roots ++ alphaDec_deps
 
 /-- Webp/Impl/Alpha.lean, encoder half (internal/lossy/alpha.go) -/
-def alphaEnc : List Entry := [
+def alphaEnc_roots : List Entry := [
   fp! "internal/lossy.EncodeAlpha" 0x57c16f24275a189c,
   fp! "internal/lossy.getFilterMap" 0x62c1a443510d9045,
   fp! "internal/lossy.getNumColors" 0x0d8e03f4b2308019,
@@ -584,9 +3944,24 @@ def alphaEnc : List Entry := [
   fp! "internal/lossy.applyFiltersAndEncode" 0xdd668cd15793ded6,
   fp! "internal/lossy.quantizeLevels" 0x4ed54d0e021222a7
 ]
+-- BEGIN deps alphaEnc (written by tools/update_fingerprints.py — do not edit by hand)
+def alphaEnc_deps : List Entry := [
+  dep.«internal/lossy.const:AlphaFilterGradient»,
+  dep.«internal/lossy.const:AlphaFilterHorizontal»,
+  dep.«internal/lossy.const:AlphaFilterModeFast»,
+  dep.«internal/lossy.const:AlphaFilterModeNone»,
+  dep.«internal/lossy.const:AlphaFilterNone»,
+  dep.«internal/lossy.const:AlphaFilterVertical»,
+  dep.«internal/lossy.const:AlphaLosslessCompression»,
+  dep.«internal/lossy.const:AlphaNoCompression»,
+  dep.«internal/lossy.const:alphaFilterLast»,
+  dep.«internal/lossy.const:alphaPreprocessedLevels»
+]
+-- END deps alphaEnc
+def alphaEnc : List Entry := alphaEnc_roots ++ alphaEnc_deps
 
 /-- Webp/Impl/Alpha.lean, glue section (encode.go / webp.go) -/
-def alphaGlue : List Entry := [
+def alphaGlue_roots : List Entry := [
   fp! "webp.imageHasAlpha" 0xeb9a644ac8463430,
   fp! "webp.extractAlpha" 0xb83ecd90b2f5f73b,
   fp! "webp.extractAlphaWith" 0xc43ac4477c1543f8,
@@ -594,9 +3969,29 @@ def alphaGlue : List Entry := [
   fp! "webp.decodeLossy" 0x7eeae068373756e5,
   fp! "webp.writeRIFF" 0xd83298f126f9e0d2
 ]
+-- BEGIN deps alphaGlue (written by tools/update_fingerprints.py — do not edit by hand)
+def alphaGlue_deps : List Entry := [
+  dep.«webp.buildNRGBA»,
+  dep.«webp.buildYCbCr»,
+  dep.«webp.cleanupTransparentAreaLossyWith»,
+  dep.«webp.flattenBlockNRGBA»,
+  dep.«webp.putLE24»,
+  dep.«webp.resolveAlphaCompression»,
+  dep.«webp.resolveAlphaFiltering»,
+  dep.«webp.resolveAlphaQuality»,
+  dep.«webp.resolveQMax»,
+  dep.«webp.sharpYUVConvert»,
+  dep.«webp.smoothenBlockNRGBA»,
+  dep.«webp.validNRGBA»,
+  dep.«webp.validRGBA»,
+  dep.«webp.writeRIFFExtended»,
+  dep.«webp.writeRIFFSimple»
+]
+-- END deps alphaGlue
+def alphaGlue : List Entry := alphaGlue_roots ++ alphaGlue_deps
 
 /-- Webp/Impl/LTransform.lean, forward transforms and LZ77 value codes of the encoder -/
-def lTransformFwd : List Entry := [
+def lTransformFwd_roots : List Entry := [
   fp! "internal/lossless.SubtractGreen" 0xb1e25eaccf6437c4,
   fp! "internal/lossless.applyColorTransformPixel" 0x151aa0caa0e8742c,
   fp! "internal/lossless.applyColorTransformTile" 0x183b5611471383a8,
@@ -624,9 +4019,34 @@ def lTransformFwd : List Entry := [
   fp! "internal/dsp.subtractGreenGo" 0xb067e37112d3aa78,
   fp! "webp.cleanupTransparentAreaLossless" 0xd627a929fac7ead8
 ]
+-- BEGIN deps lTransformFwd (written by tools/update_fingerprints.py — do not edit by hand)
+def lTransformFwd_deps : List Entry := [
+  dep.«internal/dsp.var:SubtractGreenFunc»,
+  dep.«internal/lossless.VP8LSubSampleSize»,
+  dep.«internal/lossless.const:ARGBBlack»,
+  dep.«internal/lossless.const:CodeToPlaneCodesCount»,
+  dep.«internal/lossless.const:ColorIndexingTransform»,
+  dep.«internal/lossless.const:CrossColorTransform»,
+  dep.«internal/lossless.const:MaxPaletteSize»,
+  dep.«internal/lossless.const:PredictorTransform»,
+  dep.«internal/lossless.const:SubtractGreenTransform»,
+  dep.«internal/lossless.const:fastSLog2LUTSize»,
+  dep.«internal/lossless.const:numPredictors»,
+  dep.«internal/lossless.estimateEntropy»,
+  dep.«internal/lossless.fastSLog2»,
+  dep.«internal/lossless.findBestMultiplier»,
+  dep.«internal/lossless.findBestMultipliers»,
+  dep.«internal/lossless.multiplierCost»,
+  dep.«internal/lossless.paletteCodeBits»,
+  dep.«internal/lossless.var:fastSLog2LUT»,
+  dep.«internal/lossless.var:multiplierDeltaByteLUT»,
+  dep.«internal/lossless.var:planeToCodeLUT»
+]
+-- END deps lTransformFwd
+def lTransformFwd : List Entry := lTransformFwd_roots ++ lTransformFwd_deps
 
 /-- Webp/Impl/LTransform.lean, inverse transforms and LZ77 value codes of the decoder -/
-def lTransformInv : List Entry := [
+def lTransformInv_roots : List Entry := [
   fp! "internal/lossless.addPixels" 0x704384510638a805,
   fp! "internal/lossless.average2" 0xcea11dfd93a59559,
   fp! "internal/lossless.selectPredictor" 0xb9dc39b68ce06a4a,
@@ -647,9 +4067,25 @@ def lTransformInv : List Entry := [
   fp! "internal/dsp.AddGreenToBlueAndRed" 0xd524534fc735d3d4,
   fp! "internal/dsp.addGreenToBlueAndRedGo" 0x1bf73c4ae5f257d5
 ]
+-- BEGIN deps lTransformInv (written by tools/update_fingerprints.py — do not edit by hand)
+def lTransformInv_deps : List Entry := [
+  dep.«internal/dsp.var:AddGreenToBlueAndRedFunc»,
+  dep.«internal/lossless.VP8LSubSampleSize»,
+  dep.«internal/lossless.argbSliceToBytes»,
+  dep.«internal/lossless.bytesToARGBSlice»,
+  dep.«internal/lossless.const:CodeToPlaneCodesCount»,
+  dep.«internal/lossless.const:ColorIndexingTransform»,
+  dep.«internal/lossless.const:CrossColorTransform»,
+  dep.«internal/lossless.const:PredictorTransform»,
+  dep.«internal/lossless.const:SubtractGreenTransform»,
+  dep.«internal/lossless.const:minPixelsForParallel»,
+  dep.«internal/lossless.var:CodeToPlane»
+]
+-- END deps lTransformInv
+def lTransformInv : List Entry := lTransformInv_roots ++ lTransformInv_deps
 
 /-- Webp/Impl/VP8LEntropy.lean, encoder half (canonical codes, code-length coding, token emission, bit writer) -/
-def vp8lEntropyEnc : List Entry := [
+def vp8lEntropyEnc_roots : List Entry := [
   fp! "internal/lossless.reverseBits" 0x8525511f268e229f,
   fp! "internal/lossless.generateCanonicalCodes" 0x17df4405d68ae7b3,
   fp! "internal/lossless.codeRepeatedZeros" 0x55981a7cb94cccaf,
@@ -686,11 +4122,206 @@ def vp8lEntropyEnc : List Entry := [
   fp! "internal/bitio.LosslessWriter.WriteBits" 0xaf5289fc01eb0364,
   fp! "internal/bitio.LosslessWriter.flushBits" 0xf856a70bc0730fa4,
   fp! "internal/bitio.LosslessWriter.grow" 0xdb0d66ca7abd32f2,
-  fp! "internal/bitio.LosslessWriter.Finish" 0x3e383d6c1ecba8ec
+  fp! "internal/bitio.LosslessWriter.Finish" 0x3e383d6c1ecba8ec,
+  fp! "internal/lossless.GetHistoImageSymbols" 0xd86eb4566668ab72,
+  fp! "internal/lossless.removeUnusedHistograms" 0xfb81932011c19abc,
+  fp! "internal/lossless.histogramCombineEntropyBin" 0x264ebfc2d8159aec,
+  fp! "internal/lossless.histogramCombineStochastic" 0x92242ba403bf0f68,
+  fp! "internal/lossless.histogramCombineGreedy" 0x73e984e3ef951cbd,
+  fp! "internal/lossless.histogramBuild" 0x72aae853e05f424f,
+  fp! "internal/lossless.histogramRemap" 0x864f3b324bdf4c37
 ]
+-- BEGIN deps vp8lEntropyEnc (written by tools/update_fingerprints.py — do not edit by hand)
+def vp8lEntropyEnc_deps : List Entry := [
+  dep.«internal/bitio.const:writerBits»,
+  dep.«internal/bitio.const:writerBytes»,
+  dep.«internal/lossless.BackwardReferencesLz77»,
+  dep.«internal/lossless.BackwardReferencesLz77Box»,
+  dep.«internal/lossless.BackwardReferencesRle»,
+  dep.«internal/lossless.BackwardRefs.Add»,
+  dep.«internal/lossless.BackwardRefs.Len»,
+  dep.«internal/lossless.BackwardRefs.Refs»,
+  dep.«internal/lossless.BackwardRefs.Reset»,
+  dep.«internal/lossless.CachePixel»,
+  dep.«internal/lossless.CalculateBestCacheSize»,
+  dep.«internal/lossless.ColorCache.Reset»,
+  dep.«internal/lossless.CopyPixel»,
+  dep.«internal/lossless.CreateHuffmanTreeScratch»,
+  dep.«internal/lossless.DistanceToPlaneCode»,
+  dep.«internal/lossless.GetBackwardReferences»,
+  dep.«internal/lossless.GetBackwardReferencesWithScratch»,
+  dep.«internal/lossless.GetWindowSizeForHashChain»,
+  dep.«internal/lossless.HashChain.Fill»,
+  dep.«internal/lossless.HashChain.GetLength»,
+  dep.«internal/lossless.HashChain.GetOffset»,
+  dep.«internal/lossless.HashChain.fillParallel»,
+  dep.«internal/lossless.HashChain.fillSerial»,
+  dep.«internal/lossless.HistoSet.Get»,
+  dep.«internal/lossless.HistoSet.Size»,
+  dep.«internal/lossless.HistoSet.clearAll»,
+  dep.«internal/lossless.HistoSet.remove»,
+  dep.«internal/lossless.Histogram.AddRefs»,
+  dep.«internal/lossless.Histogram.AddSingle»,
+  dep.«internal/lossless.Histogram.Clear»,
+  dep.«internal/lossless.Histogram.computeHistogramCost»,
+  dep.«internal/lossless.Histogram.copyFrom»,
+  dep.«internal/lossless.Histogram.population»,
+  dep.«internal/lossless.Histogram.resetStats»,
+  dep.«internal/lossless.HuffmanScratch.AllocTree»,
+  dep.«internal/lossless.HuffmanScratch.ResetTreePool»,
+  dep.«internal/lossless.LiteralPixel»,
+  dep.«internal/lossless.NewBackwardRefs»,
+  dep.«internal/lossless.NewHashChain»,
+  dep.«internal/lossless.NewHistogram»,
+  dep.«internal/lossless.PixOrCopy.Argb»,
+  dep.«internal/lossless.PixOrCopy.CacheIndex»,
+  dep.«internal/lossless.PixOrCopy.Distance»,
+  dep.«internal/lossless.PixOrCopy.IsCacheIdx»,
+  dep.«internal/lossless.PixOrCopy.IsCopy»,
+  dep.«internal/lossless.PixOrCopy.IsLiteral»,
+  dep.«internal/lossless.PixOrCopy.Length»,
+  dep.«internal/lossless.PopulationCost»,
+  dep.«internal/lossless.PrefixEncodeBitsNoLUT»,
+  dep.«internal/lossless.PrefixEncodeNoLUT»,
+  dep.«internal/lossless.ReuseColorCache»,
+  dep.«internal/lossless.VP8LSubSampleSize»,
+  dep.«internal/lossless.addSingleLiteralWithCostModel»,
+  dep.«internal/lossless.allocateHistoSetReuse»,
+  dep.«internal/lossless.assignCodeLengths»,
+  dep.«internal/lossless.backwardReferencesHashChainDistanceOnly»,
+  dep.«internal/lossless.backwardReferencesHashChainFollowChosenPath»,
+  dep.«internal/lossless.backwardReferencesTraceBackwardsWithDist»,
+  dep.«internal/lossless.bitsEntropyRefine»,
+  dep.«internal/lossless.bitsLog2Floor»,
+  dep.«internal/lossless.buildTreeAndExtractLengths»,
+  dep.«internal/lossless.const:CodeLengthCodes»,
+  dep.«internal/lossless.const:CodeLengthRepeatCode»,
+  dep.«internal/lossless.const:CodeToPlaneCodesCount»,
+  dep.«internal/lossless.const:ColorIndexingTransform»,
+  dep.«internal/lossless.const:CrossColorTransform»,
+  dep.«internal/lossless.const:HuffGreen»,
+  dep.«internal/lossless.const:HuffmanCodesPerMetaCode»,
+  dep.«internal/lossless.const:MaxAllowedCodeLength»,
+  dep.«internal/lossless.const:MaxCacheBits»,
+  dep.«internal/lossless.const:MinHuffmanBits»,
+  dep.«internal/lossless.const:MinTransformBits»,
+  dep.«internal/lossless.const:NumDistanceCodes»,
+  dep.«internal/lossless.const:NumHuffmanBits»,
+  dep.«internal/lossless.const:NumLengthCodes»,
+  dep.«internal/lossless.const:NumLiteralCodes»,
+  dep.«internal/lossless.const:NumTransformBits»,
+  dep.«internal/lossless.const:PredictorTransform»,
+  dep.«internal/lossless.const:SubtractGreenTransform»,
+  dep.«internal/lossless.const:TransformPresent»,
+  dep.«internal/lossless.const:VP8LImageSizeBits»,
+  dep.«internal/lossless.const:VP8LMagicByte»,
+  dep.«internal/lossless.const:VP8LVersion»,
+  dep.«internal/lossless.const:VP8LVersionBits»,
+  dep.«internal/lossless.const:binSize»,
+  dep.«internal/lossless.const:costCacheIntervalSizeMax»,
+  dep.«internal/lossless.const:fastSLog2LUTSize»,
+  dep.«internal/lossless.const:hashBits»,
+  dep.«internal/lossless.const:hashSize»,
+  dep.«internal/lossless.const:histAlpha»,
+  dep.«internal/lossless.const:histBlue»,
+  dep.«internal/lossless.const:histDistance»,
+  dep.«internal/lossless.const:histLiteral»,
+  dep.«internal/lossless.const:histRed»,
+  dep.«internal/lossless.const:kHashMul»,
+  dep.«internal/lossless.const:kHashMultiplierHi»,
+  dep.«internal/lossless.const:kHashMultiplierLo»,
+  dep.«internal/lossless.const:kLZ77Box»,
+  dep.«internal/lossless.const:kLZ77RLE»,
+  dep.«internal/lossless.const:kLZ77Standard»,
+  dep.«internal/lossless.const:maxHistoGreedy»,
+  dep.«internal/lossless.const:maxHuffmanBits»,
+  dep.«internal/lossless.const:maxLength»,
+  dep.«internal/lossless.const:maxLengthBits»,
+  dep.«internal/lossless.const:minLength»,
+  dep.«internal/lossless.const:modeCacheIdx»,
+  dep.«internal/lossless.const:modeCopy»,
+  dep.«internal/lossless.const:modeLiteral»,
+  dep.«internal/lossless.const:nonTrivialSym»,
+  dep.«internal/lossless.const:numPartitions»,
+  dep.«internal/lossless.const:windowOffsetsMaxSize»,
+  dep.«internal/lossless.const:windowSize»,
+  dep.«internal/lossless.const:windowSizeBits»,
+  dep.«internal/lossless.convertPopulationCountToBitEstimates»,
+  dep.«internal/lossless.costManager.allocInterval»,
+  dep.«internal/lossless.costManager.connectIntervals»,
+  dep.«internal/lossless.costManager.freeInterval»,
+  dep.«internal/lossless.costManager.insertInterval»,
+  dep.«internal/lossless.costManager.popInterval»,
+  dep.«internal/lossless.costManager.positionOrphanInterval»,
+  dep.«internal/lossless.costManager.pushInterval»,
+  dep.«internal/lossless.costManager.updateCost»,
+  dep.«internal/lossless.costManager.updateCostAtIndex»,
+  dep.«internal/lossless.costManager.updateCostPerInterval»,
+  dep.«internal/lossless.costModelTrace.build»,
+  dep.«internal/lossless.costModelTrace.getCacheCost»,
+  dep.«internal/lossless.costModelTrace.getDistanceCost»,
+  dep.«internal/lossless.costModelTrace.getLengthCost»,
+  dep.«internal/lossless.costModelTrace.getLiteralCost»,
+  dep.«internal/lossless.dominantCostRange.update»,
+  dep.«internal/lossless.extraCost»,
+  dep.«internal/lossless.extractClusterCenters»,
+  dep.«internal/lossless.fastSLog2»,
+  dep.«internal/lossless.fillMatchRange»,
+  dep.«internal/lossless.finalHuffmanCost»,
+  dep.«internal/lossless.findMatchLength»,
+  dep.«internal/lossless.fixPair»,
+  dep.«internal/lossless.getBinIDForEntropy»,
+  dep.«internal/lossless.getCombineCostFactor»,
+  dep.«internal/lossless.getCombinedEntropy»,
+  dep.«internal/lossless.getCombinedEntropyUnrefined»,
+  dep.«internal/lossless.getCombinedHistogramEntropy»,
+  dep.«internal/lossless.getEntropyUnrefined»,
+  dep.«internal/lossless.getEntropyUnrefinedHelper»,
+  dep.«internal/lossless.getHistoBinIndex»,
+  dep.«internal/lossless.getMaxItersForQuality»,
+  dep.«internal/lossless.getPixPairHash64»,
+  dep.«internal/lossless.getPixPairHash64Values»,
+  dep.«internal/lossless.histoQueue.popAt»,
+  dep.«internal/lossless.histoQueue.push»,
+  dep.«internal/lossless.histoQueue.size»,
+  dep.«internal/lossless.histoQueue.updateHead»,
+  dep.«internal/lossless.histogramAdd»,
+  dep.«internal/lossless.histogramAddEvalThresh»,
+  dep.«internal/lossless.histogramAddThresh»,
+  dep.«internal/lossless.histogramEstimateBitsFromRefsScratch»,
+  dep.«internal/lossless.histogramEstimateBitsUint64»,
+  dep.«internal/lossless.histogramNumCodes»,
+  dep.«internal/lossless.initialHuffmanCost»,
+  dep.«internal/lossless.lehmerRand»,
+  dep.«internal/lossless.maxFindCopyLength»,
+  dep.«internal/lossless.newCostManager»,
+  dep.«internal/lossless.newCostModelTrace»,
+  dep.«internal/lossless.newDominantCostRange»,
+  dep.«internal/lossless.nodeHeap.Len»,
+  dep.«internal/lossless.nodeHeap.heapInit»,
+  dep.«internal/lossless.nodeHeap.less»,
+  dep.«internal/lossless.nodeHeap.pop»,
+  dep.«internal/lossless.nodeHeap.push»,
+  dep.«internal/lossless.nodeHeap.siftDown»,
+  dep.«internal/lossless.nodeHeap.swap»,
+  dep.«internal/lossless.parallelComputeHistogramCost»,
+  dep.«internal/lossless.populationCost»,
+  dep.«internal/lossless.subPixelsEnc»,
+  dep.«internal/lossless.tileTracker.merge»,
+  dep.«internal/lossless.tileTracker.swapRemove»,
+  dep.«internal/lossless.traceBackwards»,
+  dep.«internal/lossless.var:CodeLengthCodeOrder»,
+  dep.«internal/lossless.var:CodeLengthExtraBits»,
+  dep.«internal/lossless.var:KLiteralMap»,
+  dep.«internal/lossless.var:fastSLog2LUT»,
+  dep.«internal/lossless.var:kBaseAlphabetSize»,
+  dep.«internal/lossless.var:planeToCodeLUT»
+]
+-- END deps vp8lEntropyEnc
+def vp8lEntropyEnc : List Entry := vp8lEntropyEnc_roots ++ vp8lEntropyEnc_deps
 
 /-- Webp/Impl/VP8LEntropy.lean, decoder half (table builder, bit reader, pixel loop) -/
-def vp8lEntropyDec : List Entry := [
+def vp8lEntropyDec_roots : List Entry := [
   fp! "internal/lossless.getNextKey" 0xba42335c27534752,
   fp! "internal/lossless.replicateValue" 0x28110c4d4970dfaf,
   fp! "internal/lossless.nextTableBitSize" 0xe6faae51b535735f,
@@ -723,9 +4354,53 @@ def vp8lEntropyDec : List Entry := [
   fp! "internal/bitio.LosslessReader.BitPos" 0x1409c1e10c7c3d5d,
   fp! "internal/bitio.LosslessReader.IsEndOfStream" 0xbe3eb360ee02fc14
 ]
+-- BEGIN deps vp8lEntropyDec (written by tools/update_fingerprints.py — do not edit by hand)
+def vp8lEntropyDec_deps : List Entry := [
+  dep.«internal/bitio.const:vp8lLBits»,
+  dep.«internal/bitio.const:vp8lMaxNumBitRead»,
+  dep.«internal/bitio.const:vp8lWBits»,
+  dep.«internal/bitio.var:kBitMask»,
+  dep.«internal/lossless.Decoder.huffTableScratch»,
+  dep.«internal/lossless.VP8LSubSampleSize»,
+  dep.«internal/lossless.const:CodeLengthCodes»,
+  dep.«internal/lossless.const:CodeLengthLiterals»,
+  dep.«internal/lossless.const:CodeLengthRepeatCode»,
+  dep.«internal/lossless.const:CodeToPlaneCodesCount»,
+  dep.«internal/lossless.const:DefaultCodeLength»,
+  dep.«internal/lossless.const:HuffAlpha»,
+  dep.«internal/lossless.const:HuffBlue»,
+  dep.«internal/lossless.const:HuffDist»,
+  dep.«internal/lossless.const:HuffGreen»,
+  dep.«internal/lossless.const:HuffRed»,
+  dep.«internal/lossless.const:HuffmanCodesPerMetaCode»,
+  dep.«internal/lossless.const:HuffmanPackedBits»,
+  dep.«internal/lossless.const:HuffmanPackedTableSize»,
+  dep.«internal/lossless.const:HuffmanTableBits»,
+  dep.«internal/lossless.const:HuffmanTableMask»,
+  dep.«internal/lossless.const:LengthsTableBits»,
+  dep.«internal/lossless.const:LengthsTableMask»,
+  dep.«internal/lossless.const:MaxAllowedCodeLength»,
+  dep.«internal/lossless.const:NumDistanceCodes»,
+  dep.«internal/lossless.const:NumLengthCodes»,
+  dep.«internal/lossless.const:NumLiteralCodes»,
+  dep.«internal/lossless.const:bitsSpecialMarker»,
+  dep.«internal/lossless.const:kHashMul»,
+  dep.«internal/lossless.readPackedSymbols»,
+  dep.«internal/lossless.var:CodeLengthCodeOrder»,
+  dep.«internal/lossless.var:CodeLengthExtraBits»,
+  dep.«internal/lossless.var:CodeLengthRepeatOffsets»,
+  dep.«internal/lossless.var:CodeToPlane»,
+  dep.«internal/lossless.var:ErrBitstream»,
+  dep.«internal/lossless.var:ErrEmptyCodeLengths»,
+  dep.«internal/lossless.var:ErrInvalidTree»,
+  dep.«internal/lossless.var:KLiteralMap»,
+  dep.«internal/lossless.var:kBaseAlphabetSize»
+]
+-- END deps vp8lEntropyDec
+def vp8lEntropyDec : List Entry := vp8lEntropyDec_roots ++ vp8lEntropyDec_deps
 
 /-- Webp/Impl/VP8Recon.lean, encoder side (quantisers, token recording, per-MB reconstruction, iterator, row-parallel copy) -/
-def vp8ReconEnc : List Entry := [
+def vp8ReconEnc_roots : List Entry := [
   fp! "internal/lossy.setupSegment" 0xb33f9725a187baec,
   fp! "internal/lossy.initSegmentQuant" 0x02944d529a02706f,
   fp! "internal/lossy.clampInt" 0x36557d74c015ad18,
@@ -767,11 +4442,194 @@ def vp8ReconEnc : List Entry := [
   fp! "internal/dsp.ITransformDirect" 0x21cda04f43bfc5d1,
   fp! "internal/dsp.PredLuma16Direct" 0xdc6b7230aea1766f,
   fp! "internal/dsp.PredChroma8Direct" 0xadba2b5cddfb75ff,
-  fp! "internal/dsp.PredLuma4Direct" 0xdd52a9768b1f82fd
+  fp! "internal/dsp.PredLuma4Direct" 0xdd52a9768b1f82fd,
+  fp! "internal/lossy.TokenBuffer.MarkMBStart" 0xf124fe6f4541e3f9
 ]
+-- BEGIN deps vp8ReconEnc (written by tools/update_fingerprints.py — do not edit by hand)
+def vp8ReconEnc_deps : List Entry := [
+  dep.«internal/dsp.Clip8b»,
+  dep.«internal/dsp.avg2»,
+  dep.«internal/dsp.avg3»,
+  dep.«internal/dsp.const:BPS»,
+  dep.«internal/dsp.const:c1»,
+  dep.«internal/dsp.const:c2»,
+  dep.«internal/dsp.dc16»,
+  dep.«internal/dsp.dc16NoLeft»,
+  dep.«internal/dsp.dc16NoTop»,
+  dep.«internal/dsp.dc16NoTopLeft»,
+  dep.«internal/dsp.dc16asmNEON»,
+  dep.«internal/dsp.dc16asmSSE2»,
+  dep.«internal/dsp.dc4»,
+  dep.«internal/dsp.dc8uv»,
+  dep.«internal/dsp.dc8uvNoLeft»,
+  dep.«internal/dsp.dc8uvNoTop»,
+  dep.«internal/dsp.dc8uvNoTopLeft»,
+  dep.«internal/dsp.dc8uvasmNEON»,
+  dep.«internal/dsp.dc8uvasmSSE2»,
+  dep.«internal/dsp.hd4»,
+  dep.«internal/dsp.he16»,
+  dep.«internal/dsp.he16asmNEON»,
+  dep.«internal/dsp.he16asmSSE2»,
+  dep.«internal/dsp.he4»,
+  dep.«internal/dsp.he8uv»,
+  dep.«internal/dsp.he8uvasmNEON»,
+  dep.«internal/dsp.he8uvasmSSE2»,
+  dep.«internal/dsp.hu4»,
+  dep.«internal/dsp.iTransform»,
+  dep.«internal/dsp.iTransformOneAVX2»,
+  dep.«internal/dsp.iTransformOneSSE2»,
+  dep.«internal/dsp.ld4»,
+  dep.«internal/dsp.rd4»,
+  dep.«internal/dsp.tm16»,
+  dep.«internal/dsp.tm16asmNEON»,
+  dep.«internal/dsp.tm16asmSSE2»,
+  dep.«internal/dsp.tm4»,
+  dep.«internal/dsp.tm8uv»,
+  dep.«internal/dsp.tm8uvasmNEON»,
+  dep.«internal/dsp.tm8uvasmSSE2»,
+  dep.«internal/dsp.var:hasAVX2»,
+  dep.«internal/dsp.ve16»,
+  dep.«internal/dsp.ve16asmNEON»,
+  dep.«internal/dsp.ve16asmSSE2»,
+  dep.«internal/dsp.ve4»,
+  dep.«internal/dsp.ve8uv»,
+  dep.«internal/dsp.ve8uvasmNEON»,
+  dep.«internal/dsp.ve8uvasmSSE2»,
+  dep.«internal/dsp.vl4»,
+  dep.«internal/dsp.vr4»,
+  dep.«internal/lossy.MBIterator.FillPredictionContext»,
+  dep.«internal/lossy.MBIterator.GetTopModes»,
+  dep.«internal/lossy.MBIterator.IsDone»,
+  dep.«internal/lossy.MBIterator.Next»,
+  dep.«internal/lossy.MBIterator.SaveTopModes»,
+  dep.«internal/lossy.PickBestI16Mode»,
+  dep.«internal/lossy.PickBestI4Mode»,
+  dep.«internal/lossy.PickBestUVMode»,
+  dep.«internal/lossy.QuantizeCoeffs»,
+  dep.«internal/lossy.RDScore»,
+  dep.«internal/lossy.TokenBuffer.Reset»,
+  dep.«internal/lossy.TokenBuffer.addPage»,
+  dep.«internal/lossy.TokenBuffer.tokenCount»,
+  dep.«internal/lossy.TokenCostForCoeffs»,
+  dep.«internal/lossy.TrellisQuantizeBlock»,
+  dep.«internal/lossy.VP8Encoder.PickBestI16ModeRD»,
+  dep.«internal/lossy.VP8Encoder.PickBestI4ModeRD»,
+  dep.«internal/lossy.VP8Encoder.PickBestI4ModeRDTrellis»,
+  dep.«internal/lossy.VP8Encoder.PickBestUVModeRD»,
+  dep.«internal/lossy.VP8Encoder.collectAllStats»,
+  dep.«internal/lossy.VP8Encoder.collectMBStats»,
+  dep.«internal/lossy.VP8Encoder.correctDCValues»,
+  dep.«internal/lossy.VP8Encoder.encodeI16Residuals»,
+  dep.«internal/lossy.VP8Encoder.encodeResiduals»,
+  dep.«internal/lossy.VP8Encoder.encodeUVResiduals»,
+  dep.«internal/lossy.VP8Encoder.pickBestMode»,
+  dep.«internal/lossy.VP8Encoder.refreshProbas»,
+  dep.«internal/lossy.VP8Encoder.setupFilterStrength»,
+  dep.«internal/lossy.VP8Encoder.storeDiffusionErrors»,
+  dep.«internal/lossy.VP8Encoder.tryI4Modes»,
+  dep.«internal/lossy.VP8Encoder.updateNZContext»,
+  dep.«internal/lossy.abs»,
+  dep.«internal/lossy.branchCost»,
+  dep.«internal/lossy.collectCoeffStats»,
+  dep.«internal/lossy.collectLevelStats»,
+  dep.«internal/lossy.const:BDCPred»,
+  dep.«internal/lossy.const:BDCPredNoLeft»,
+  dep.«internal/lossy.const:BDCPredNoTop»,
+  dep.«internal/lossy.const:BDCPredNoTopLeft»,
+  dep.«internal/lossy.const:BHDPred»,
+  dep.«internal/lossy.const:BHEPred»,
+  dep.«internal/lossy.const:BHUPred»,
+  dep.«internal/lossy.const:BLDPred»,
+  dep.«internal/lossy.const:BPS»,
+  dep.«internal/lossy.const:BRDPred»,
+  dep.«internal/lossy.const:BTMPred»,
+  dep.«internal/lossy.const:BVEPred»,
+  dep.«internal/lossy.const:BVLPred»,
+  dep.«internal/lossy.const:BVRPred»,
+  dep.«internal/lossy.const:DCPred»,
+  dep.«internal/lossy.const:HPred»,
+  dep.«internal/lossy.const:NumBModes»,
+  dep.«internal/lossy.const:NumBands»,
+  dep.«internal/lossy.const:NumCTX»,
+  dep.«internal/lossy.const:NumMBSegments»,
+  dep.«internal/lossy.const:NumPredModes»,
+  dep.«internal/lossy.const:NumProbas»,
+  dep.«internal/lossy.const:NumTypes»,
+  dep.«internal/lossy.const:TMPred»,
+  dep.«internal/lossy.const:UOff»,
+  dep.«internal/lossy.const:VOff»,
+  dep.«internal/lossy.const:VPred»,
+  dep.«internal/lossy.const:YOff»,
+  dep.«internal/lossy.const:derrC1»,
+  dep.«internal/lossy.const:derrC2»,
+  dep.«internal/lossy.const:derrDScale»,
+  dep.«internal/lossy.const:derrDShift»,
+  dep.«internal/lossy.const:flatnessLimitI16»,
+  dep.«internal/lossy.const:flatnessLimitI4»,
+  dep.«internal/lossy.const:flatnessLimitUV»,
+  dep.«internal/lossy.const:flatnessPenalty»,
+  dep.«internal/lossy.const:fstrengthCutoff»,
+  dep.«internal/lossy.const:maxAlpha»,
+  dep.«internal/lossy.const:maxItersKMeans»,
+  dep.«internal/lossy.const:minRefreshCount»,
+  dep.«internal/lossy.const:rdDistoMult»,
+  dep.«internal/lossy.const:tokenPageSize»,
+  dep.«internal/lossy.dequantCoeffsSSE2»,
+  dep.«internal/lossy.encodeI16ResidualsParallel»,
+  dep.«internal/lossy.encodeResidualsParallel»,
+  dep.«internal/lossy.encodeUVResidualsParallel»,
+  dep.«internal/lossy.fastVariableLevelCost»,
+  dep.«internal/lossy.filterStrengthFromDelta»,
+  dep.«internal/lossy.getMaxI4RDModes»,
+  dep.«internal/lossy.isFlat»,
+  dep.«internal/lossy.isFlatSource16»,
+  dep.«internal/lossy.maxInt»,
+  dep.«internal/lossy.needsLeft4»,
+  dep.«internal/lossy.needsTop4»,
+  dep.«internal/lossy.nzCountACSSE2»,
+  dep.«internal/lossy.optimizeProba»,
+  dep.«internal/lossy.pickBestI16ModeRDParallel»,
+  dep.«internal/lossy.pickBestI4ModeRDParallel»,
+  dep.«internal/lossy.pickBestI4ModeRDTrellisParallel»,
+  dep.«internal/lossy.pickBestModeParallel»,
+  dep.«internal/lossy.pickBestUVModeRDParallel»,
+  dep.«internal/lossy.qualityToCompression»,
+  dep.«internal/lossy.quantizeACAVX2»,
+  dep.«internal/lossy.quantizeACSSE2»,
+  dep.«internal/lossy.quantizeCoeffsGo»,
+  dep.«internal/lossy.quantizeSingle»,
+  dep.«internal/lossy.rowSync.signal»,
+  dep.«internal/lossy.rowSync.waitFor»,
+  dep.«internal/lossy.smoothSegmentMap»,
+  dep.«internal/lossy.tryI4ModesParallel»,
+  dep.«internal/lossy.updateNZContextParallel»,
+  dep.«internal/lossy.var:CoeffsProba0»,
+  dep.«internal/lossy.var:CoeffsUpdateProba»,
+  dep.«internal/lossy.var:KAcTable»,
+  dep.«internal/lossy.var:KAcTable2»,
+  dep.«internal/lossy.var:KBands»,
+  dep.«internal/lossy.var:KCat3»,
+  dep.«internal/lossy.var:KCat4»,
+  dep.«internal/lossy.var:KCat5»,
+  dep.«internal/lossy.var:KCat6»,
+  dep.«internal/lossy.var:KDcTable»,
+  dep.«internal/lossy.var:KZigzag»,
+  dep.«internal/lossy.var:VP8FixedCostsI4»,
+  dep.«internal/lossy.var:kBiasMatrices»,
+  dep.«internal/lossy.var:kFreqSharpening»,
+  dep.«internal/lossy.var:kLevelsFromDelta»,
+  dep.«internal/lossy.var:kReverseZigzag»,
+  dep.«internal/lossy.var:kWeightTrellis»,
+  dep.«internal/lossy.var:modeFixedCost16»,
+  dep.«internal/lossy.var:modeFixedCostUV»,
+  dep.«internal/lossy.var:vp8LevelCodes»,
+  dep.«internal/lossy.variableLevelCost»
+]
+-- END deps vp8ReconEnc
+def vp8ReconEnc : List Entry := vp8ReconEnc_roots ++ vp8ReconEnc_deps
 
 /-- Webp/Impl/VP8Recon.lean, decoder side (quantiser parsing, residual tokens, modes, row reconstruction) -/
-def vp8ReconDec : List Entry := [
+def vp8ReconDec_roots : List Entry := [
   fp! "internal/lossy.ParseQuant" 0x69547494a70a55c5,
   fp! "internal/lossy.clip" 0x123880c144584ac1,
   fp! "internal/lossy.getCoeffsInline" 0x4b5693d9ffcc7d97,
@@ -803,9 +4661,107 @@ def vp8ReconDec : List Entry := [
   fp! "internal/dsp.store" 0x65471a5764d12578,
   fp! "internal/dsp.PredLuma4Direct" 0xdd52a9768b1f82fd
 ]
+-- BEGIN deps vp8ReconDec (written by tools/update_fingerprints.py — do not edit by hand)
+def vp8ReconDec_deps : List Entry := [
+  dep.«internal/dsp.Clip8b»,
+  dep.«internal/dsp.avg2»,
+  dep.«internal/dsp.avg3»,
+  dep.«internal/dsp.const:BPS»,
+  dep.«internal/dsp.const:c1»,
+  dep.«internal/dsp.const:c2»,
+  dep.«internal/dsp.dc4»,
+  dep.«internal/dsp.hd4»,
+  dep.«internal/dsp.he4»,
+  dep.«internal/dsp.hu4»,
+  dep.«internal/dsp.ld4»,
+  dep.«internal/dsp.rd4»,
+  dep.«internal/dsp.tm4»,
+  dep.«internal/dsp.ve4»,
+  dep.«internal/dsp.vl4»,
+  dep.«internal/dsp.vr4»,
+  dep.«internal/lossy.Decoder.doFilter»,
+  dep.«internal/lossy.Decoder.filterRowAt»,
+  dep.«internal/lossy.Decoder.parseFilterHeader»,
+  dep.«internal/lossy.Decoder.parsePartitions»,
+  dep.«internal/lossy.Decoder.parseSegmentHeader»,
+  dep.«internal/lossy.ResetProba»,
+  dep.«internal/lossy.abs»,
+  dep.«internal/lossy.b2i»,
+  dep.«internal/lossy.clamp255»,
+  dep.«internal/lossy.const:BDCPred»,
+  dep.«internal/lossy.const:BDCPredNoLeft»,
+  dep.«internal/lossy.const:BDCPredNoTop»,
+  dep.«internal/lossy.const:BDCPredNoTopLeft»,
+  dep.«internal/lossy.const:BHDPred»,
+  dep.«internal/lossy.const:BHEPred»,
+  dep.«internal/lossy.const:BHUPred»,
+  dep.«internal/lossy.const:BLDPred»,
+  dep.«internal/lossy.const:BPS»,
+  dep.«internal/lossy.const:BRDPred»,
+  dep.«internal/lossy.const:BTMPred»,
+  dep.«internal/lossy.const:BVEPred»,
+  dep.«internal/lossy.const:BVLPred»,
+  dep.«internal/lossy.const:BVRPred»,
+  dep.«internal/lossy.const:DCPred»,
+  dep.«internal/lossy.const:HPred»,
+  dep.«internal/lossy.const:MBFeatureTreeProbs»,
+  dep.«internal/lossy.const:NumBModes»,
+  dep.«internal/lossy.const:NumBands»,
+  dep.«internal/lossy.const:NumCTX»,
+  dep.«internal/lossy.const:NumMBSegments»,
+  dep.«internal/lossy.const:NumModeLFDeltas»,
+  dep.«internal/lossy.const:NumProbas»,
+  dep.«internal/lossy.const:NumRefLFDeltas»,
+  dep.«internal/lossy.const:NumTypes»,
+  dep.«internal/lossy.const:TMPred»,
+  dep.«internal/lossy.const:UOff»,
+  dep.«internal/lossy.const:VOff»,
+  dep.«internal/lossy.const:VPred»,
+  dep.«internal/lossy.const:YOff»,
+  dep.«internal/lossy.doSimpleFilter2»,
+  dep.«internal/lossy.doSimpleFilter4»,
+  dep.«internal/lossy.doSimpleFilter6»,
+  dep.«internal/lossy.fillBytes»,
+  dep.«internal/lossy.filterLoop24HAt»,
+  dep.«internal/lossy.filterLoop24VAt»,
+  dep.«internal/lossy.filterLoop26At»,
+  dep.«internal/lossy.filterLoop26HAt»,
+  dep.«internal/lossy.filterLoop26VAt»,
+  dep.«internal/lossy.hFilter16iAt»,
+  dep.«internal/lossy.hFilter8iAt»,
+  dep.«internal/lossy.isHEV»,
+  dep.«internal/lossy.needsFilter2At»,
+  dep.«internal/lossy.parseProba»,
+  dep.«internal/lossy.readOptionalSigned»,
+  dep.«internal/lossy.sclip1»,
+  dep.«internal/lossy.sclip2»,
+  dep.«internal/lossy.simpleHFilter16At»,
+  dep.«internal/lossy.simpleHFilter16iAt»,
+  dep.«internal/lossy.vFilter16iAt»,
+  dep.«internal/lossy.vFilter8iAt»,
+  dep.«internal/lossy.var:CoeffsProba0»,
+  dep.«internal/lossy.var:CoeffsUpdateProba»,
+  dep.«internal/lossy.var:KAcTable»,
+  dep.«internal/lossy.var:KBModesProba»,
+  dep.«internal/lossy.var:KBands»,
+  dep.«internal/lossy.var:KCat3»,
+  dep.«internal/lossy.var:KCat4»,
+  dep.«internal/lossy.var:KCat5»,
+  dep.«internal/lossy.var:KCat6»,
+  dep.«internal/lossy.var:KDcTable»,
+  dep.«internal/lossy.var:KYModesIntra4»,
+  dep.«internal/lossy.var:KZigzag»,
+  dep.«internal/lossy.var:errPrematureEOF»,
+  dep.«internal/lossy.var:kCat3456»,
+  dep.«internal/lossy.var:kScan»,
+  dep.«internal/lossy.var:kVP8Log2Range»,
+  dep.«internal/lossy.var:kVP8NewRange»
+]
+-- END deps vp8ReconDec
+def vp8ReconDec : List Entry := vp8ReconDec_roots ++ vp8ReconDec_deps
 
 /-- Webp/Impl/VP8Recon.lean (syntax pass) and Webp/Impl/Writer.lean: what the lossy encoder writes -/
-def vp8Syntax : List Entry := [
+def vp8Syntax_roots : List Entry := [
   fp! "internal/lossy.VP8Encoder.emitFrame" 0x29a6d3bb1525df9f,
   fp! "internal/lossy.VP8Encoder.emitPartition0" 0xf6cfee7f08cd08d8,
   fp! "internal/lossy.VP8Encoder.emitTokenPartitions" 0x0431ab2920e6fedc,
@@ -823,11 +4779,55 @@ def vp8Syntax : List Entry := [
   fp! "internal/lossy.TokenBuffer.EmitTokens" 0xc4c419e2830f93db,
   fp! "internal/lossy.TokenBuffer.EmitTokensPartitioned" 0x615500966ad8cbfd
 ]
+-- BEGIN deps vp8Syntax (written by tools/update_fingerprints.py — do not edit by hand)
+def vp8Syntax_deps : List Entry := [
+  dep.«internal/lossy.TokenBuffer.Reset»,
+  dep.«internal/lossy.TokenBuffer.addPage»,
+  dep.«internal/lossy.TokenBuffer.tokenCount»,
+  dep.«internal/lossy.boolToIntEnc»,
+  dep.«internal/lossy.const:BDCPred»,
+  dep.«internal/lossy.const:BHDPred»,
+  dep.«internal/lossy.const:BHEPred»,
+  dep.«internal/lossy.const:BHUPred»,
+  dep.«internal/lossy.const:BLDPred»,
+  dep.«internal/lossy.const:BRDPred»,
+  dep.«internal/lossy.const:BTMPred»,
+  dep.«internal/lossy.const:BVEPred»,
+  dep.«internal/lossy.const:BVLPred»,
+  dep.«internal/lossy.const:BVRPred»,
+  dep.«internal/lossy.const:DCPred»,
+  dep.«internal/lossy.const:HPred»,
+  dep.«internal/lossy.const:MBFeatureTreeProbs»,
+  dep.«internal/lossy.const:NumBModes»,
+  dep.«internal/lossy.const:NumBands»,
+  dep.«internal/lossy.const:NumCTX»,
+  dep.«internal/lossy.const:NumMBSegments»,
+  dep.«internal/lossy.const:NumModeLFDeltas»,
+  dep.«internal/lossy.const:NumProbas»,
+  dep.«internal/lossy.const:NumRefLFDeltas»,
+  dep.«internal/lossy.const:NumTypes»,
+  dep.«internal/lossy.const:TMPred»,
+  dep.«internal/lossy.const:VPred»,
+  dep.«internal/lossy.const:maxPartition0Size»,
+  dep.«internal/lossy.const:maxPartitionSize»,
+  dep.«internal/lossy.const:tokenPageSize»,
+  dep.«internal/lossy.getBoolWriter»,
+  dep.«internal/lossy.putBoolWriter»,
+  dep.«internal/lossy.var:CoeffsProba0»,
+  dep.«internal/lossy.var:CoeffsUpdateProba»,
+  dep.«internal/lossy.var:ErrPartition0Overflow»,
+  dep.«internal/lossy.var:ErrPartitionOverflow»,
+  dep.«internal/lossy.var:KBModesProba»,
+  dep.«internal/lossy.var:KYModesIntra4»,
+  dep.«internal/lossy.var:boolWriterPool»
+]
+-- END deps vp8Syntax
+def vp8Syntax : List Entry := vp8Syntax_roots ++ vp8Syntax_deps
 
 /-! ## properties -/
 
 /-- named in the anchors of C01 (properties.jsonl) and not in one of its groups -/
-def extra_C01 : List Entry := [
+def extra_C01_roots : List Entry := [
   fp! "webp.encodeLossless" 0x6c24a9390e67cfb9,
   fp! "webp.encodeLosslessToWriter" 0x8286e0b6f714af06,
   fp! "webp.decodeLossless" 0xb111a1f0359d1a1b,
@@ -838,6 +4838,279 @@ def extra_C01 : List Entry := [
   fp! "asm:internal/dsp/lossless_amd64.s" 0xfca87935e80d42e5,
   fp! "asm:internal/dsp/lossless_avx2_amd64.s" 0x17932ab2009d5402
 ]
+-- BEGIN deps extra_C01 (written by tools/update_fingerprints.py — do not edit by hand)
+def extra_C01_deps : List Entry := [
+  dep.«internal/lossless.ApplyNearLossless»,
+  dep.«internal/lossless.ApplyPaletteTransform»,
+  dep.«internal/lossless.BackwardReferences2DLocality»,
+  dep.«internal/lossless.BackwardReferencesLz77»,
+  dep.«internal/lossless.BackwardReferencesLz77Box»,
+  dep.«internal/lossless.BackwardReferencesRle»,
+  dep.«internal/lossless.BackwardRefs.Add»,
+  dep.«internal/lossless.BackwardRefs.Len»,
+  dep.«internal/lossless.BackwardRefs.Refs»,
+  dep.«internal/lossless.BackwardRefs.Reset»,
+  dep.«internal/lossless.BackwardRefsWithLocalCache»,
+  dep.«internal/lossless.BuildCodeLengthTokens»,
+  dep.«internal/lossless.BuildCodeLengthTokensScratch»,
+  dep.«internal/lossless.CachePixel»,
+  dep.«internal/lossless.CalculateBestCacheSize»,
+  dep.«internal/lossless.ColorCache.Contains»,
+  dep.«internal/lossless.ColorCache.HashPix»,
+  dep.«internal/lossless.ColorCache.Insert»,
+  dep.«internal/lossless.ColorCache.Lookup»,
+  dep.«internal/lossless.ColorCache.Reset»,
+  dep.«internal/lossless.ColorIndexBuild»,
+  dep.«internal/lossless.ColorSpaceTransform»,
+  dep.«internal/lossless.CopyPixel»,
+  dep.«internal/lossless.CreateHuffmanTreeScratch»,
+  dep.«internal/lossless.DefaultEncoderConfig»,
+  dep.«internal/lossless.DistanceToPlaneCode»,
+  dep.«internal/lossless.Encoder.analyze»,
+  dep.«internal/lossless.Encoder.applyPaletteTransform»,
+  dep.«internal/lossless.Encoder.applyTransforms»,
+  dep.«internal/lossless.Encoder.encodePalette»,
+  dep.«internal/lossless.Encoder.encodeStream»,
+  dep.«internal/lossless.Encoder.encodeSubImage»,
+  dep.«internal/lossless.Encoder.storeImageData»,
+  dep.«internal/lossless.Encoder.storeSubImageData»,
+  dep.«internal/lossless.Encoder.writeTransformData»,
+  dep.«internal/lossless.GetBackwardReferences»,
+  dep.«internal/lossless.GetBackwardReferencesWithScratch»,
+  dep.«internal/lossless.GetHistoImageSymbols»,
+  dep.«internal/lossless.GetWindowSizeForHashChain»,
+  dep.«internal/lossless.HashChain.Fill»,
+  dep.«internal/lossless.HashChain.GetLength»,
+  dep.«internal/lossless.HashChain.GetOffset»,
+  dep.«internal/lossless.HashChain.fillParallel»,
+  dep.«internal/lossless.HashChain.fillSerial»,
+  dep.«internal/lossless.HistoSet.Get»,
+  dep.«internal/lossless.HistoSet.Size»,
+  dep.«internal/lossless.HistoSet.clearAll»,
+  dep.«internal/lossless.HistoSet.remove»,
+  dep.«internal/lossless.Histogram.AddRefs»,
+  dep.«internal/lossless.Histogram.AddSingle»,
+  dep.«internal/lossless.Histogram.Clear»,
+  dep.«internal/lossless.Histogram.computeHistogramCost»,
+  dep.«internal/lossless.Histogram.copyFrom»,
+  dep.«internal/lossless.Histogram.population»,
+  dep.«internal/lossless.Histogram.resetStats»,
+  dep.«internal/lossless.HuffmanScratch.AllocTree»,
+  dep.«internal/lossless.HuffmanScratch.ResetTreePool»,
+  dep.«internal/lossless.LiteralPixel»,
+  dep.«internal/lossless.NearLosslessBits»,
+  dep.«internal/lossless.NewBackwardRefs»,
+  dep.«internal/lossless.NewColorCache»,
+  dep.«internal/lossless.NewHashChain»,
+  dep.«internal/lossless.NewHistogram»,
+  dep.«internal/lossless.PixOrCopy.Argb»,
+  dep.«internal/lossless.PixOrCopy.CacheIndex»,
+  dep.«internal/lossless.PixOrCopy.Distance»,
+  dep.«internal/lossless.PixOrCopy.IsCacheIdx»,
+  dep.«internal/lossless.PixOrCopy.IsCopy»,
+  dep.«internal/lossless.PixOrCopy.IsLiteral»,
+  dep.«internal/lossless.PixOrCopy.Length»,
+  dep.«internal/lossless.PopulationCost»,
+  dep.«internal/lossless.PrefixEncodeBitsNoLUT»,
+  dep.«internal/lossless.PrefixEncodeNoLUT»,
+  dep.«internal/lossless.ResidualImage»,
+  dep.«internal/lossless.ReuseColorCache»,
+  dep.«internal/lossless.StoreHuffmanCodeScratch»,
+  dep.«internal/lossless.StoreHuffmanTreeOfHuffmanTreeToBitMask»,
+  dep.«internal/lossless.StoreHuffmanTreeToBitMask»,
+  dep.«internal/lossless.SubtractGreen»,
+  dep.«internal/lossless.VP8LSubSampleSize»,
+  dep.«internal/lossless.acquireEncoder»,
+  dep.«internal/lossless.addSingleLiteralWithCostModel»,
+  dep.«internal/lossless.allocateHistoSetReuse»,
+  dep.«internal/lossless.applyColorTransformPixel»,
+  dep.«internal/lossless.applyColorTransformTile»,
+  dep.«internal/lossless.assignCodeLengths»,
+  dep.«internal/lossless.avg2»,
+  dep.«internal/lossless.backwardReferencesHashChainDistanceOnly»,
+  dep.«internal/lossless.backwardReferencesHashChainFollowChosenPath»,
+  dep.«internal/lossless.backwardReferencesTraceBackwardsWithDist»,
+  dep.«internal/lossless.bitsEntropyRefine»,
+  dep.«internal/lossless.bitsLog2Floor»,
+  dep.«internal/lossless.buildTreeAndExtractLengths»,
+  dep.«internal/lossless.cacheBitsForEncoder»,
+  dep.«internal/lossless.clampAddSubFull»,
+  dep.«internal/lossless.clampAddSubHalf»,
+  dep.«internal/lossless.clampBits»,
+  dep.«internal/lossless.clampByte»,
+  dep.«internal/lossless.clearHuffmanTreeIfOnlyOneSymbol»,
+  dep.«internal/lossless.closestDiscretizedArgb»,
+  dep.«internal/lossless.codeRepeatedValues»,
+  dep.«internal/lossless.codeRepeatedZeros»,
+  dep.«internal/lossless.const:ARGBBlack»,
+  dep.«internal/lossless.const:CodeLengthCodes»,
+  dep.«internal/lossless.const:CodeLengthRepeatCode»,
+  dep.«internal/lossless.const:CodeToPlaneCodesCount»,
+  dep.«internal/lossless.const:ColorIndexingTransform»,
+  dep.«internal/lossless.const:CrossColorTransform»,
+  dep.«internal/lossless.const:HuffmanCodesPerMetaCode»,
+  dep.«internal/lossless.const:MaxAllowedCodeLength»,
+  dep.«internal/lossless.const:MaxCacheBits»,
+  dep.«internal/lossless.const:MaxPaletteSize»,
+  dep.«internal/lossless.const:MinHuffmanBits»,
+  dep.«internal/lossless.const:MinTransformBits»,
+  dep.«internal/lossless.const:NumDistanceCodes»,
+  dep.«internal/lossless.const:NumHuffmanBits»,
+  dep.«internal/lossless.const:NumLengthCodes»,
+  dep.«internal/lossless.const:NumLiteralCodes»,
+  dep.«internal/lossless.const:NumTransformBits»,
+  dep.«internal/lossless.const:PredictorTransform»,
+  dep.«internal/lossless.const:SubtractGreenTransform»,
+  dep.«internal/lossless.const:TransformPresent»,
+  dep.«internal/lossless.const:VP8LImageSizeBits»,
+  dep.«internal/lossless.const:VP8LMagicByte»,
+  dep.«internal/lossless.const:VP8LVersion»,
+  dep.«internal/lossless.const:VP8LVersionBits»,
+  dep.«internal/lossless.const:binSize»,
+  dep.«internal/lossless.const:costCacheIntervalSizeMax»,
+  dep.«internal/lossless.const:fastSLog2LUTSize»,
+  dep.«internal/lossless.const:hashBits»,
+  dep.«internal/lossless.const:hashSize»,
+  dep.«internal/lossless.const:histAlpha»,
+  dep.«internal/lossless.const:histBlue»,
+  dep.«internal/lossless.const:histDistance»,
+  dep.«internal/lossless.const:histLiteral»,
+  dep.«internal/lossless.const:histRed»,
+  dep.«internal/lossless.const:kHashMul»,
+  dep.«internal/lossless.const:kHashMultiplierHi»,
+  dep.«internal/lossless.const:kHashMultiplierLo»,
+  dep.«internal/lossless.const:kLZ77Box»,
+  dep.«internal/lossless.const:kLZ77RLE»,
+  dep.«internal/lossless.const:kLZ77Standard»,
+  dep.«internal/lossless.const:maxColorCacheBitsEnc»,
+  dep.«internal/lossless.const:maxHistoGreedy»,
+  dep.«internal/lossless.const:maxHuffImageSize»,
+  dep.«internal/lossless.const:maxHuffmanBits»,
+  dep.«internal/lossless.const:maxLength»,
+  dep.«internal/lossless.const:maxLengthBits»,
+  dep.«internal/lossless.const:maxLimitBits»,
+  dep.«internal/lossless.const:minDimForNearLossless»,
+  dep.«internal/lossless.const:minLength»,
+  dep.«internal/lossless.const:modeCacheIdx»,
+  dep.«internal/lossless.const:modeCopy»,
+  dep.«internal/lossless.const:modeLiteral»,
+  dep.«internal/lossless.const:nonTrivialSym»,
+  dep.«internal/lossless.const:numPartitions»,
+  dep.«internal/lossless.const:numPredictors»,
+  dep.«internal/lossless.const:windowOffsetsMaxSize»,
+  dep.«internal/lossless.const:windowSize»,
+  dep.«internal/lossless.const:windowSizeBits»,
+  dep.«internal/lossless.convertPopulationCountToBitEstimates»,
+  dep.«internal/lossless.copyImageWithPrediction»,
+  dep.«internal/lossless.costManager.allocInterval»,
+  dep.«internal/lossless.costManager.connectIntervals»,
+  dep.«internal/lossless.costManager.freeInterval»,
+  dep.«internal/lossless.costManager.insertInterval»,
+  dep.«internal/lossless.costManager.popInterval»,
+  dep.«internal/lossless.costManager.positionOrphanInterval»,
+  dep.«internal/lossless.costManager.pushInterval»,
+  dep.«internal/lossless.costManager.updateCost»,
+  dep.«internal/lossless.costManager.updateCostAtIndex»,
+  dep.«internal/lossless.costManager.updateCostPerInterval»,
+  dep.«internal/lossless.costModelTrace.build»,
+  dep.«internal/lossless.costModelTrace.getCacheCost»,
+  dep.«internal/lossless.costModelTrace.getDistanceCost»,
+  dep.«internal/lossless.costModelTrace.getLengthCost»,
+  dep.«internal/lossless.costModelTrace.getLiteralCost»,
+  dep.«internal/lossless.dominantCostRange.update»,
+  dep.«internal/lossless.encColorTransformDelta»,
+  dep.«internal/lossless.estimateEntropy»,
+  dep.«internal/lossless.extraCost»,
+  dep.«internal/lossless.extractClusterCenters»,
+  dep.«internal/lossless.fastSLog2»,
+  dep.«internal/lossless.fillMatchRange»,
+  dep.«internal/lossless.finalHuffmanCost»,
+  dep.«internal/lossless.findBestMultiplier»,
+  dep.«internal/lossless.findBestMultipliers»,
+  dep.«internal/lossless.findClosestDiscretized»,
+  dep.«internal/lossless.findMatchLength»,
+  dep.«internal/lossless.fixPair»,
+  dep.«internal/lossless.generateCanonicalCodes»,
+  dep.«internal/lossless.getBinIDForEntropy»,
+  dep.«internal/lossless.getCombineCostFactor»,
+  dep.«internal/lossless.getCombinedEntropy»,
+  dep.«internal/lossless.getCombinedEntropyUnrefined»,
+  dep.«internal/lossless.getCombinedHistogramEntropy»,
+  dep.«internal/lossless.getEntropyUnrefined»,
+  dep.«internal/lossless.getEntropyUnrefinedHelper»,
+  dep.«internal/lossless.getHistoBinIndex»,
+  dep.«internal/lossless.getHistoBits»,
+  dep.«internal/lossless.getMaxItersForQuality»,
+  dep.«internal/lossless.getPixPairHash64»,
+  dep.«internal/lossless.getPixPairHash64Values»,
+  dep.«internal/lossless.getTransformBits»,
+  dep.«internal/lossless.histoQueue.popAt»,
+  dep.«internal/lossless.histoQueue.push»,
+  dep.«internal/lossless.histoQueue.size»,
+  dep.«internal/lossless.histoQueue.updateHead»,
+  dep.«internal/lossless.histogramAdd»,
+  dep.«internal/lossless.histogramAddEvalThresh»,
+  dep.«internal/lossless.histogramAddThresh»,
+  dep.«internal/lossless.histogramBuild»,
+  dep.«internal/lossless.histogramCombineEntropyBin»,
+  dep.«internal/lossless.histogramCombineGreedy»,
+  dep.«internal/lossless.histogramCombineStochastic»,
+  dep.«internal/lossless.histogramEstimateBitsFromRefsScratch»,
+  dep.«internal/lossless.histogramEstimateBitsUint64»,
+  dep.«internal/lossless.histogramNumCodes»,
+  dep.«internal/lossless.histogramRemap»,
+  dep.«internal/lossless.initialHuffmanCost»,
+  dep.«internal/lossless.isNear»,
+  dep.«internal/lossless.isSmooth»,
+  dep.«internal/lossless.lehmerRand»,
+  dep.«internal/lossless.maxFindCopyLength»,
+  dep.«internal/lossless.multiplierCost»,
+  dep.«internal/lossless.nearLosslessPass»,
+  dep.«internal/lossless.newCostManager»,
+  dep.«internal/lossless.newCostModelTrace»,
+  dep.«internal/lossless.newDominantCostRange»,
+  dep.«internal/lossless.nodeHeap.Len»,
+  dep.«internal/lossless.nodeHeap.heapInit»,
+  dep.«internal/lossless.nodeHeap.less»,
+  dep.«internal/lossless.nodeHeap.pop»,
+  dep.«internal/lossless.nodeHeap.push»,
+  dep.«internal/lossless.nodeHeap.siftDown»,
+  dep.«internal/lossless.nodeHeap.swap»,
+  dep.«internal/lossless.optimizeSampling»,
+  dep.«internal/lossless.packMultipliers»,
+  dep.«internal/lossless.paletteCodeBits»,
+  dep.«internal/lossless.parallelComputeHistogramCost»,
+  dep.«internal/lossless.populationCost»,
+  dep.«internal/lossless.predictPixel»,
+  dep.«internal/lossless.releaseEncoder»,
+  dep.«internal/lossless.removeUnusedHistograms»,
+  dep.«internal/lossless.reverseBits»,
+  dep.«internal/lossless.selectPred»,
+  dep.«internal/lossless.storeFullHuffmanCodeScratch»,
+  dep.«internal/lossless.storeSimpleHuffmanCode»,
+  dep.«internal/lossless.subPixels»,
+  dep.«internal/lossless.subPixelsEnc»,
+  dep.«internal/lossless.tileTracker.merge»,
+  dep.«internal/lossless.tileTracker.swapRemove»,
+  dep.«internal/lossless.traceBackwards»,
+  dep.«internal/lossless.var:CodeLengthCodeOrder»,
+  dep.«internal/lossless.var:CodeLengthExtraBits»,
+  dep.«internal/lossless.var:ErrImageTooLarge»,
+  dep.«internal/lossless.var:fastSLog2LUT»,
+  dep.«internal/lossless.var:losslessEncoderPool»,
+  dep.«internal/lossless.var:multiplierDeltaByteLUT»,
+  dep.«internal/lossless.var:planeToCodeLUT»,
+  dep.«internal/lossless.writeHuffmanCode»,
+  dep.«webp.buildNRGBA»,
+  dep.«webp.buildYCbCr»,
+  dep.«webp.cleanupTransparentAreaLossless»,
+  dep.«webp.decodeLossy»,
+  dep.«webp.validNRGBA»,
+  dep.«webp.validRGBA»,
+  dep.«webp.var:argbPool»
+]
+-- END deps extra_C01
+def extra_C01 : List Entry := extra_C01_roots ++ extra_C01_deps
 
 def expected_C01 : List Entry :=
   lTransformFwd ++ lTransformInv ++ vp8lEntropyEnc ++ vp8lEntropyDec ++ vp8lFastPaths ++ codecFrontL ++ extra_C01
@@ -845,26 +5118,53 @@ def expected_C01 : List Entry :=
 def stale_C01 : List String := stale expected_C01
 
 /-- named in the anchors of C02 (properties.jsonl) and not in one of its groups -/
-def extra_C02 : List Entry := [
+def extra_C02_roots : List Entry := [
   fp! "webp.encodeLossyWithAlpha" 0x08226ead4703904f,
   fp! "webp.encodeLossy" 0x008407f1596aa1cc,
   fp! "webp.encodeLossless" 0x6c24a9390e67cfb9,
   fp! "internal/container.FourCC" 0x64b4671b43fd1c8c,
   fp! "internal/lossless.argbHasAlpha" 0xab7003d387ee9714
 ]
+-- BEGIN deps extra_C02 (written by tools/update_fingerprints.py — do not edit by hand)
+def extra_C02_deps : List Entry := [
+  dep.«webp.cleanupTransparentAreaLossless»,
+  dep.«webp.cleanupTransparentAreaLossyWith»,
+  dep.«webp.extractAlphaWith»,
+  dep.«webp.flattenBlockNRGBA»,
+  dep.«webp.imageHasAlpha»,
+  dep.«webp.resolveAlphaCompression»,
+  dep.«webp.resolveAlphaFiltering»,
+  dep.«webp.resolveAlphaQuality»,
+  dep.«webp.resolveQMax»,
+  dep.«webp.sharpYUVConvert»,
+  dep.«webp.smoothenBlockNRGBA»,
+  dep.«webp.validNRGBA»,
+  dep.«webp.validRGBA»,
+  dep.«webp.var:argbPool»
+]
+-- END deps extra_C02
+def extra_C02 : List Entry := extra_C02_roots ++ extra_C02_deps
 
 def expected_C02 : List Entry :=
-  writer ++ boolWriter ++ vp8Syntax ++ vp8lEntropyEnc ++ alphaEnc ++ extra_C02
+  writer ++ boolWriter ++ vp8Syntax ++ vp8lEntropyEnc ++ alphaEnc ++ codecFront ++ vp8ReconDec ++ codecFrontL ++ vp8lEntropyDec ++ vp8lFastPaths ++ lTransformInv ++ extra_C02
 
 def stale_C02 : List String := stale expected_C02
 
 /-- named in the anchors of C03 (properties.jsonl) and not in one of its groups -/
-def extra_C03 : List Entry := [
+def extra_C03_roots : List Entry := [
   fp! "webp.decodeLossless" 0xb111a1f0359d1a1b,
   fp! "webp.decodeFrame" 0x4504283f57fb7308,
   fp! "asm:internal/dsp/lossless_amd64.s" 0xfca87935e80d42e5,
   fp! "asm:internal/dsp/lossless_avx2_amd64.s" 0x17932ab2009d5402
 ]
+-- BEGIN deps extra_C03 (written by tools/update_fingerprints.py — do not edit by hand)
+def extra_C03_deps : List Entry := [
+  dep.«webp.buildNRGBA»,
+  dep.«webp.buildYCbCr»,
+  dep.«webp.decodeLossy»
+]
+-- END deps extra_C03
+def extra_C03 : List Entry := extra_C03_roots ++ extra_C03_deps
 
 def expected_C03 : List Entry :=
   lTransformInv ++ vp8lEntropyDec ++ vp8lFastPaths ++ codecFrontL ++ extra_C03
@@ -872,7 +5172,7 @@ def expected_C03 : List Entry :=
 def stale_C03 : List String := stale expected_C03
 
 /-- named in the anchors of C04 (properties.jsonl) and not in one of its groups -/
-def extra_C04 : List Entry := [
+def extra_C04_roots : List Entry := [
   fp! "webp.decodeFrame" 0x4504283f57fb7308,
   fp! "asm:internal/dsp/filter_amd64.s" 0x36127713c2b7fe6d,
   fp! "asm:internal/dsp/filter_avx2_amd64.s" 0x61255f5bdc52d65b,
@@ -880,8 +5180,17 @@ def extra_C04 : List Entry := [
   fp! "asm:internal/dsp/transforms_amd64.s" 0x2b5df04c02662792,
   fp! "asm:internal/dsp/transforms_avx2_amd64.s" 0x8d92fa93ebb73e80,
   fp! "asm:internal/dsp/upsample_amd64.s" 0x47d16d763c479650,
-  fp! "asm:internal/dsp/upsample_avx2_amd64.s" 0x71f044c4b6b69406
+  fp! "asm:internal/dsp/upsample_avx2_amd64.s" 0x71f044c4b6b69406,
+  fp! "webp.decodeLossless" 0xb111a1f0359d1a1b,
+  fp! "webp.decodeLossy" 0x7eeae068373756e5,
+  fp! "webp.buildYCbCr" 0x58eabdcf5af51de5
 ]
+-- BEGIN deps extra_C04 (written by tools/update_fingerprints.py — do not edit by hand)
+def extra_C04_deps : List Entry := [
+  dep.«webp.buildNRGBA»
+]
+-- END deps extra_C04
+def extra_C04 : List Entry := extra_C04_roots ++ extra_C04_deps
 
 def expected_C04 : List Entry :=
   vp8Kernels ++ codecFront ++ vp8ReconDec ++ vp8DecodeGo ++ boolReader ++ alphaDec ++ extra_C04
@@ -889,12 +5198,21 @@ def expected_C04 : List Entry :=
 def stale_C04 : List String := stale expected_C04
 
 /-- named in the anchors of C05 (properties.jsonl) and not in one of its groups -/
-def extra_C05 : List Entry := [
+def extra_C05_roots : List Entry := [
   fp! "animation.Decode" 0xb6c2ed2987896743,
   fp! "animation.DecodeBytes" 0x81d573a1cbad1e0d,
   fp! "animation.Animation.DecodeFrames" 0x4b216a8b4a7737e1,
   fp! "animation.Animation.DecodeFramesParallel" 0xc909414b1409d41b
 ]
+-- BEGIN deps extra_C05 (written by tools/update_fingerprints.py — do not edit by hand)
+def extra_C05_deps : List Entry := [
+  dep.«animation.argbToNRGBA»,
+  dep.«animation.const:maxInputSize»,
+  dep.«animation.var:ErrNoDecoder»,
+  dep.«animation.var:FrameDecoderFunc»
+]
+-- END deps extra_C05
+def extra_C05 : List Entry := extra_C05_roots ++ extra_C05_deps
 
 def expected_C05 : List Entry :=
   parser ++ demux ++ config ++ animDec ++ codecFront ++ codecFrontL ++ vp8ReconDec ++ vp8DecodeGo ++ boolReader ++ alphaDec ++ vp8lEntropyDec ++ vp8lFastPaths ++ lTransformInv ++ extra_C05
@@ -902,7 +5220,52 @@ def expected_C05 : List Entry :=
 def stale_C05 : List String := stale expected_C05
 
 /-- named in the anchors of C06 (properties.jsonl) and not in one of its groups -/
-def extra_C06 : List Entry := []
+def extra_C06_roots : List Entry := [
+  fp! "internal/lossy.NewEncoder" 0x242437fa11374545,
+  fp! "internal/lossy.VP8Encoder.resetForReuse" 0x8c9d2f78b6de5265,
+  fp! "internal/lossy.VP8Encoder.collectAllStats" 0x1d0299c8f5a665b8
+]
+-- BEGIN deps extra_C06 (written by tools/update_fingerprints.py — do not edit by hand)
+def extra_C06_deps : List Entry := [
+  dep.«internal/lossy.ResetProba»,
+  dep.«internal/lossy.TokenBuffer.Init»,
+  dep.«internal/lossy.TokenBuffer.Reset»,
+  dep.«internal/lossy.TokenBuffer.addPage»,
+  dep.«internal/lossy.VP8Encoder.allocateBuffers»,
+  dep.«internal/lossy.VP8Encoder.importImage»,
+  dep.«internal/lossy.VP8Encoder.initEncoderParams»,
+  dep.«internal/lossy.VP8Encoder.initSegments»,
+  dep.«internal/lossy.clampInt»,
+  dep.«internal/lossy.collectCoeffStats»,
+  dep.«internal/lossy.collectLevelStats»,
+  dep.«internal/lossy.const:BPS»,
+  dep.«internal/lossy.const:MaxNumPartitions»,
+  dep.«internal/lossy.const:NumBands»,
+  dep.«internal/lossy.const:NumCTX»,
+  dep.«internal/lossy.const:NumMBSegments»,
+  dep.«internal/lossy.const:NumProbas»,
+  dep.«internal/lossy.const:NumTypes»,
+  dep.«internal/lossy.const:YUVSize»,
+  dep.«internal/lossy.getImportUVWorker»,
+  dep.«internal/lossy.imageHasAlpha»,
+  dep.«internal/lossy.initSegmentQuant»,
+  dep.«internal/lossy.maxInt»,
+  dep.«internal/lossy.qualityToCompression»,
+  dep.«internal/lossy.qualityToQIndex»,
+  dep.«internal/lossy.setupSegment»,
+  dep.«internal/lossy.var:CoeffsProba0»,
+  dep.«internal/lossy.var:KAcTable»,
+  dep.«internal/lossy.var:KAcTable2»,
+  dep.«internal/lossy.var:KBands»,
+  dep.«internal/lossy.var:KDcTable»,
+  dep.«internal/lossy.var:KZigzag»,
+  dep.«internal/lossy.var:encoderPool»,
+  dep.«internal/lossy.var:importUVWorkerPool»,
+  dep.«internal/lossy.var:kBiasMatrices»,
+  dep.«internal/lossy.var:kFreqSharpening»
+]
+-- END deps extra_C06
+def extra_C06 : List Entry := extra_C06_roots ++ extra_C06_deps
 
 def expected_C06 : List Entry :=
   vp8ReconEnc ++ vp8ReconDec ++ vp8Syntax ++ vp8Kernels ++ boolWriter ++ boolReader ++ extra_C06
@@ -910,7 +5273,7 @@ def expected_C06 : List Entry :=
 def stale_C06 : List String := stale expected_C06
 
 /-- named in the anchors of C07 (properties.jsonl) and not in one of its groups -/
-def extra_C07 : List Entry := [
+def extra_C07_roots : List Entry := [
   fp! "webp.resolveAlphaCompression" 0x51fbf9804a5d9271,
   fp! "webp.resolveAlphaFiltering" 0x4f12e7e5864c74cd,
   fp! "webp.resolveAlphaQuality" 0xec83d6f3bf8a094e,
@@ -918,22 +5281,60 @@ def extra_C07 : List Entry := [
   fp! "webp.encodeLossy" 0x008407f1596aa1cc,
   fp! "webp.buildNRGBA" 0xd8549ce286e88cbd
 ]
+-- BEGIN deps extra_C07 (written by tools/update_fingerprints.py — do not edit by hand)
+def extra_C07_deps : List Entry := [
+  dep.«webp.DefaultOptions»,
+  dep.«webp.cleanupTransparentAreaLossless»,
+  dep.«webp.cleanupTransparentAreaLossyWith»,
+  dep.«webp.const:MaxDimension»,
+  dep.«webp.const:PresetDefault»,
+  dep.«webp.const:PresetText»,
+  dep.«webp.encodeLossless»,
+  dep.«webp.encodeLosslessToWriter»,
+  dep.«webp.encodeLossyWithAlpha»,
+  dep.«webp.extractAlphaWith»,
+  dep.«webp.flattenBlockNRGBA»,
+  dep.«webp.imageHasAlpha»,
+  dep.«webp.putLE24»,
+  dep.«webp.resolveQMax»,
+  dep.«webp.rgbaIsOpaque»,
+  dep.«webp.rgbaToNRGBA»,
+  dep.«webp.sharpYUVConvert»,
+  dep.«webp.smoothenBlockNRGBA»,
+  dep.«webp.validNRGBA»,
+  dep.«webp.validRGBA»,
+  dep.«webp.validateConfig»,
+  dep.«webp.var:argbPool»,
+  dep.«webp.writeRIFF»,
+  dep.«webp.writeRIFFExtended»,
+  dep.«webp.writeRIFFSimple»
+]
+-- END deps extra_C07
+def extra_C07 : List Entry := extra_C07_roots ++ extra_C07_deps
 
 def expected_C07 : List Entry :=
-  alphaDec ++ alphaEnc ++ alphaGlue ++ config ++ parser ++ extra_C07
+  alphaDec ++ alphaEnc ++ alphaGlue ++ config ++ parser ++ vp8lEntropyEnc ++ lTransformFwd ++ partition ++ vp8lEntropyDec ++ lTransformInv ++ codecFrontL ++ vp8lFastPaths ++ extra_C07
 
 def stale_C07 : List String := stale expected_C07
 
 /-- named in the anchors of C08 (properties.jsonl) and not in one of its groups -/
-def extra_C08 : List Entry := []
+def extra_C08_roots : List Entry := []
+-- BEGIN deps extra_C08 (written by tools/update_fingerprints.py — do not edit by hand)
+def extra_C08_deps : List Entry := []
+-- END deps extra_C08
+def extra_C08 : List Entry := extra_C08_roots ++ extra_C08_deps
 
 def expected_C08 : List Entry :=
-  animEnc ++ animDec ++ extra_C08
+  animEnc ++ animDec ++ vp8lEntropyEnc ++ lTransformFwd ++ partition ++ extra_C08
 
 def stale_C08 : List String := stale expected_C08
 
 /-- named in the anchors of C09 (properties.jsonl) and not in one of its groups -/
-def extra_C09 : List Entry := []
+def extra_C09_roots : List Entry := []
+-- BEGIN deps extra_C09 (written by tools/update_fingerprints.py — do not edit by hand)
+def extra_C09_deps : List Entry := []
+-- END deps extra_C09
+def extra_C09 : List Entry := extra_C09_roots ++ extra_C09_deps
 
 def expected_C09 : List Entry :=
   animDec ++ extra_C09
@@ -941,23 +5342,430 @@ def expected_C09 : List Entry :=
 def stale_C09 : List String := stale expected_C09
 
 /-- named in the anchors of C10 (properties.jsonl) and not in one of its groups -/
-def extra_C10 : List Entry := []
+def extra_C10_roots : List Entry := [
+  fp! "internal/lossy.VP8Encoder.rerecordAllTokens" 0x9234a00e5d1f2f2b,
+  fp! "internal/lossy.TokenBuffer.EmitTokensPartitioned" 0x615500966ad8cbfd,
+  fp! "internal/lossy.TokenBuffer.MarkMBStart" 0xf124fe6f4541e3f9,
+  fp! "internal/lossy.TokenBuffer.EmitTokens" 0xc4c419e2830f93db
+]
+-- BEGIN deps extra_C10 (written by tools/update_fingerprints.py — do not edit by hand)
+def extra_C10_deps : List Entry := [
+  dep.«internal/lossy.TokenBuffer.RecordCoeffs»,
+  dep.«internal/lossy.TokenBuffer.RecordToken»,
+  dep.«internal/lossy.TokenBuffer.Reset»,
+  dep.«internal/lossy.TokenBuffer.addPage»,
+  dep.«internal/lossy.TokenBuffer.recordLevelVP8»,
+  dep.«internal/lossy.TokenBuffer.tokenCount»,
+  dep.«internal/lossy.VP8Encoder.recordMBTokens»,
+  dep.«internal/lossy.const:tokenPageSize»,
+  dep.«internal/lossy.var:KCat3»,
+  dep.«internal/lossy.var:KCat4»,
+  dep.«internal/lossy.var:KCat5»,
+  dep.«internal/lossy.var:KCat6»,
+  dep.«internal/lossy.var:KZigzag»
+]
+-- END deps extra_C10
+def extra_C10 : List Entry := extra_C10_roots ++ extra_C10_deps
 
 def expected_C10 : List Entry :=
-  rowPipe ++ partition ++ pool ++ extra_C10
+  rowPipe ++ partition ++ pool ++ codecFrontL ++ lTransformInv ++ vp8lEntropyDec ++ vp8lFastPaths ++ vp8DecodeGo ++ codecFront ++ vp8ReconDec ++ extra_C10
 
 def stale_C10 : List String := stale expected_C10
 
 /-- named in the anchors of C11 (properties.jsonl) and not in one of its groups -/
-def extra_C11 : List Entry := []
+def extra_C11_roots : List Entry := [
+  fp! "webp.decodeLossless" 0xb111a1f0359d1a1b,
+  fp! "webp.decodeLossy" 0x7eeae068373756e5,
+  fp! "webp.buildYCbCr" 0x58eabdcf5af51de5,
+  fp! "webp.buildNRGBA" 0xd8549ce286e88cbd,
+  fp! "internal/lossy.VP8Encoder.recordAllTokens" 0x9e7fc64d34eab2a0,
+  fp! "internal/lossy.VP8Encoder.rerecordAllTokens" 0x9234a00e5d1f2f2b,
+  fp! "internal/lossy.TokenBuffer.EmitTokensPartitioned" 0x615500966ad8cbfd,
+  fp! "internal/lossy.TokenBuffer.EmitTokens" 0xc4c419e2830f93db,
+  fp! "internal/lossy.TokenBuffer.MarkMBStart" 0xf124fe6f4541e3f9,
+  fp! "internal/lossy.TokenBuffer.addPage" 0x5f03fb3db8db57b5,
+  fp! "internal/lossy.TokenBuffer.RecordToken" 0x94c0a157b39ae2a2,
+  fp! "internal/lossy.VP8Encoder.encodeFrame" 0xbf531c0793dbc470,
+  fp! "internal/lossy.VP8Encoder.encodeFrameParallel" 0xe9284025720335ec,
+  fp! "internal/lossy.VP8Encoder.collectAllStats" 0x1d0299c8f5a665b8,
+  fp! "internal/lossy.MBIterator.Export" 0x14019dfc824910e6,
+  fp! "internal/lossy.MBIterator.Import" 0xea1f4e187ace3afa,
+  fp! "internal/lossy.MBIterator.GetNZContext" 0xac5b7007fb54ba2a,
+  fp! "internal/lossy.MBIterator.SetNZ" 0x43b42bf91a633b82,
+  fp! "internal/lossy.MBIterator.FillPredictionContext" 0xff60051e8bbcfb99,
+  fp! "internal/lossy.VP8Encoder.InitIterator" 0xd00bb1f62f338cfc,
+  fp! "internal/lossy.VP8Encoder.analysis" 0xbb3bd89f3141d0a2,
+  fp! "internal/lossy.computeAlphas" 0x060c454d74a79b24,
+  fp! "internal/lossy.computeMBAlphaDCTWith" 0xff5a35593297b89e,
+  fp! "internal/lossy.generateI16Prediction" 0x59902b343665d52f,
+  fp! "internal/lossy.isFlat" 0xcd516e60b0825361,
+  fp! "internal/lossy.smoothSegmentMap" 0xe10fe5a56abbd66e,
+  fp! "internal/lossy.fillPredContextParallel" 0x2d12a6b9c1a3976a,
+  fp! "internal/lossy.importBlockParallel" 0xc7616111b493f6c8,
+  fp! "internal/lossy.VP8Encoder.importImage" 0xdcbead9ae5c81b42,
+  fp! "internal/lossy.VP8Encoder.importYCbCr" 0x2c90d78613403233,
+  fp! "internal/lossy.PickBestI4Mode" 0xffb4274cba82a27a,
+  fp! "internal/lossy.TrellisQuantizeBlock" 0xbd731a5b811c07b3,
+  fp! "internal/lossy.QuantizeCoeffs" 0x9d5f204a89bc1ad4,
+  fp! "internal/lossy.DequantCoeffs" 0x1561ef35b35a2eb8,
+  fp! "internal/lossy.VP8Encoder.writeMBModes" 0x2eda066cff52b8af,
+  fp! "internal/lossy.Decoder.parseHeaders" 0x2d0b0a4e64fe87af,
+  fp! "internal/lossy.Decoder.parseSegmentHeader" 0x216c491ad5d42b6a,
+  fp! "internal/lossy.Decoder.parseFilterHeader" 0xca9adfbba28d138f,
+  fp! "internal/lossy.Decoder.parsePartitions" 0xf81891a20822b56c,
+  fp! "internal/lossy.parseProba" 0x0e591a027be741c7,
+  fp! "internal/lossy.ParseQuant" 0x69547494a70a55c5,
+  fp! "internal/lossy.ResetProba" 0xd08825b0e929bd2b,
+  fp! "internal/lossy.Decoder.precomputeFilterStrengths" 0x29d12a0306b8f0b8,
+  fp! "internal/lossless.BackwardRefs.Add" 0x5c64d92ab558f780,
+  fp! "internal/lossless.BackwardRefs.Reset" 0x55a8f1c5bddc9a43,
+  fp! "internal/lossless.HuffmanScratch.AllocTree" 0x11fc7187e8bd268d,
+  fp! "internal/lossless.BuildCodeLengthTokensScratch" 0x2472fd9408a4e98d,
+  fp! "internal/lossless.CalculateBestCacheSize" 0x5028818c7ea2ec66,
+  fp! "internal/lossless.Histogram.Clear" 0x712a0fd88ec2d1fe,
+  fp! "internal/lossless.Histogram.copyFrom" 0x3b77a719785d9abc,
+  fp! "internal/lossless.Histogram.resetStats" 0x9045c9dc8f5f9378,
+  fp! "internal/lossless.HashChain.Fill" 0x31868e57d6b7da4b,
+  fp! "internal/lossless.HashChain.fillParallel" 0x7faa9efe4e666803,
+  fp! "internal/lossless.NewHashChain" 0x3e8fa35f52b5ac64,
+  fp! "internal/lossless.NewHistogram" 0x294b27acd61f7987,
+  fp! "internal/lossless.ColorCache.Reset" 0x37326803261a9758,
+  fp! "internal/lossless.ReuseColorCache" 0xe6c53d899ae5bb95,
+  fp! "internal/lossless.allocateHistoSetReuse" 0x64df1fc865a96456,
+  fp! "internal/lossless.costModelTrace.build" 0x2ceb76cc9a240242,
+  fp! "internal/lossless.HistoSet.clearAll" 0xb1e25516a20a93a9,
+  fp! "internal/lossless.colorIndexInverseTransform" 0x44fadfc26c8ffbdc,
+  fp! "internal/lossless.copyImageWithPrediction" 0x15470999fec8cb33,
+  fp! "internal/lossless.histogramBuild" 0x72aae853e05f424f,
+  fp! "internal/lossless.newCostManager" 0x8bd12dc544d6ec27,
+  fp! "internal/lossless.paletteCodeBits" 0xca5341b0d315af09,
+  fp! "internal/lossless.Decoder.readTransform" 0xa7604f17566de0d1,
+  fp! "internal/lossless.traceBackwards" 0x1e9c5d626dec81b0
+]
+-- BEGIN deps extra_C11 (written by tools/update_fingerprints.py — do not edit by hand)
+def extra_C11_deps : List Entry := [
+  dep.«internal/lossless.BuildHuffmanTableScratch»,
+  dep.«internal/lossless.ColorCache.HashPix»,
+  dep.«internal/lossless.ColorCache.Insert»,
+  dep.«internal/lossless.ColorCache.Lookup»,
+  dep.«internal/lossless.Decoder.decodeImageData»,
+  dep.«internal/lossless.Decoder.decodeImageStream»,
+  dep.«internal/lossless.Decoder.decodeSubImage»,
+  dep.«internal/lossless.Decoder.getHTreeGroup»,
+  dep.«internal/lossless.Decoder.getMetaIndex»,
+  dep.«internal/lossless.Decoder.huffTableScratch»,
+  dep.«internal/lossless.Decoder.readHuffmanCode»,
+  dep.«internal/lossless.Decoder.readHuffmanCodeLengths»,
+  dep.«internal/lossless.Decoder.readHuffmanCodes»,
+  dep.«internal/lossless.Decoder.updateDecoder»,
+  dep.«internal/lossless.DistanceToPlaneCode»,
+  dep.«internal/lossless.GetWindowSizeForHashChain»,
+  dep.«internal/lossless.HashChain.fillSerial»,
+  dep.«internal/lossless.Histogram.AddSingle»,
+  dep.«internal/lossless.Histogram.population»,
+  dep.«internal/lossless.NewColorCache»,
+  dep.«internal/lossless.PixOrCopy.Argb»,
+  dep.«internal/lossless.PixOrCopy.CacheIndex»,
+  dep.«internal/lossless.PixOrCopy.Distance»,
+  dep.«internal/lossless.PixOrCopy.IsCacheIdx»,
+  dep.«internal/lossless.PixOrCopy.IsCopy»,
+  dep.«internal/lossless.PixOrCopy.IsLiteral»,
+  dep.«internal/lossless.PixOrCopy.Length»,
+  dep.«internal/lossless.PlaneCodeToDistance»,
+  dep.«internal/lossless.PopulationCost»,
+  dep.«internal/lossless.PrefixEncodeBitsNoLUT»,
+  dep.«internal/lossless.ReadSymbol»,
+  dep.«internal/lossless.VP8LSubSampleSize»,
+  dep.«internal/lossless.accumulateHCode»,
+  dep.«internal/lossless.argbSliceToBytes»,
+  dep.«internal/lossless.avg2»,
+  dep.«internal/lossless.bitsEntropyRefine»,
+  dep.«internal/lossless.bitsLog2Floor»,
+  dep.«internal/lossless.buildHuffmanTableSize»,
+  dep.«internal/lossless.buildPackedTable»,
+  dep.«internal/lossless.bytesToARGBSlice»,
+  dep.«internal/lossless.clampAddSubFull»,
+  dep.«internal/lossless.clampAddSubHalf»,
+  dep.«internal/lossless.clampByte»,
+  dep.«internal/lossless.codeRepeatedValues»,
+  dep.«internal/lossless.codeRepeatedZeros»,
+  dep.«internal/lossless.const:ARGBBlack»,
+  dep.«internal/lossless.const:CodeLengthCodes»,
+  dep.«internal/lossless.const:CodeLengthLiterals»,
+  dep.«internal/lossless.const:CodeLengthRepeatCode»,
+  dep.«internal/lossless.const:CodeToPlaneCodesCount»,
+  dep.«internal/lossless.const:ColorIndexingTransform»,
+  dep.«internal/lossless.const:CrossColorTransform»,
+  dep.«internal/lossless.const:DefaultCodeLength»,
+  dep.«internal/lossless.const:HuffAlpha»,
+  dep.«internal/lossless.const:HuffBlue»,
+  dep.«internal/lossless.const:HuffDist»,
+  dep.«internal/lossless.const:HuffGreen»,
+  dep.«internal/lossless.const:HuffRed»,
+  dep.«internal/lossless.const:HuffmanCodesPerMetaCode»,
+  dep.«internal/lossless.const:HuffmanPackedBits»,
+  dep.«internal/lossless.const:HuffmanPackedTableSize»,
+  dep.«internal/lossless.const:HuffmanTableBits»,
+  dep.«internal/lossless.const:HuffmanTableMask»,
+  dep.«internal/lossless.const:LengthsTableBits»,
+  dep.«internal/lossless.const:LengthsTableMask»,
+  dep.«internal/lossless.const:MaxAllowedCodeLength»,
+  dep.«internal/lossless.const:MaxCacheBits»,
+  dep.«internal/lossless.const:MinHuffmanBits»,
+  dep.«internal/lossless.const:MinTransformBits»,
+  dep.«internal/lossless.const:NumDistanceCodes»,
+  dep.«internal/lossless.const:NumHuffmanBits»,
+  dep.«internal/lossless.const:NumLengthCodes»,
+  dep.«internal/lossless.const:NumLiteralCodes»,
+  dep.«internal/lossless.const:NumTransformBits»,
+  dep.«internal/lossless.const:PredictorTransform»,
+  dep.«internal/lossless.const:SubtractGreenTransform»,
+  dep.«internal/lossless.const:bitsSpecialMarker»,
+  dep.«internal/lossless.const:fastSLog2LUTSize»,
+  dep.«internal/lossless.const:hashBits»,
+  dep.«internal/lossless.const:hashSize»,
+  dep.«internal/lossless.const:histAlpha»,
+  dep.«internal/lossless.const:histBlue»,
+  dep.«internal/lossless.const:histDistance»,
+  dep.«internal/lossless.const:histLiteral»,
+  dep.«internal/lossless.const:histRed»,
+  dep.«internal/lossless.const:kHashMul»,
+  dep.«internal/lossless.const:kHashMultiplierHi»,
+  dep.«internal/lossless.const:kHashMultiplierLo»,
+  dep.«internal/lossless.const:maxLength»,
+  dep.«internal/lossless.const:maxLengthBits»,
+  dep.«internal/lossless.const:modeCacheIdx»,
+  dep.«internal/lossless.const:modeCopy»,
+  dep.«internal/lossless.const:modeLiteral»,
+  dep.«internal/lossless.const:nonTrivialSym»,
+  dep.«internal/lossless.const:windowSize»,
+  dep.«internal/lossless.const:windowSizeBits»,
+  dep.«internal/lossless.convertPopulationCountToBitEstimates»,
+  dep.«internal/lossless.copyBlock32»,
+  dep.«internal/lossless.costModelTrace.getLengthCost»,
+  dep.«internal/lossless.expandColorMap»,
+  dep.«internal/lossless.extraCost»,
+  dep.«internal/lossless.fastSLog2»,
+  dep.«internal/lossless.fillMatchRange»,
+  dep.«internal/lossless.finalHuffmanCost»,
+  dep.«internal/lossless.findMatchLength»,
+  dep.«internal/lossless.getARGBIndex»,
+  dep.«internal/lossless.getEntropyUnrefined»,
+  dep.«internal/lossless.getEntropyUnrefinedHelper»,
+  dep.«internal/lossless.getMaxItersForQuality»,
+  dep.«internal/lossless.getNextKey»,
+  dep.«internal/lossless.getPixPairHash64»,
+  dep.«internal/lossless.getPixPairHash64Values»,
+  dep.«internal/lossless.histogramEstimateBitsUint64»,
+  dep.«internal/lossless.histogramNumCodes»,
+  dep.«internal/lossless.initialHuffmanCost»,
+  dep.«internal/lossless.maxFindCopyLength»,
+  dep.«internal/lossless.nextTableBitSize»,
+  dep.«internal/lossless.populationCost»,
+  dep.«internal/lossless.predictPixel»,
+  dep.«internal/lossless.readPackedSymbols»,
+  dep.«internal/lossless.replicateValue»,
+  dep.«internal/lossless.selectPred»,
+  dep.«internal/lossless.subPixels»,
+  dep.«internal/lossless.var:CodeLengthCodeOrder»,
+  dep.«internal/lossless.var:CodeLengthExtraBits»,
+  dep.«internal/lossless.var:CodeLengthRepeatOffsets»,
+  dep.«internal/lossless.var:CodeToPlane»,
+  dep.«internal/lossless.var:ErrBitstream»,
+  dep.«internal/lossless.var:ErrEmptyCodeLengths»,
+  dep.«internal/lossless.var:ErrInvalidTree»,
+  dep.«internal/lossless.var:KLiteralMap»,
+  dep.«internal/lossless.var:fastSLog2LUT»,
+  dep.«internal/lossless.var:kBaseAlphabetSize»,
+  dep.«internal/lossless.var:planeToCodeLUT»,
+  dep.«internal/lossy.MBIterator.FillPredContext»,
+  dep.«internal/lossy.MBIterator.GetTopModes»,
+  dep.«internal/lossy.MBIterator.IsDone»,
+  dep.«internal/lossy.MBIterator.Next»,
+  dep.«internal/lossy.MBIterator.SaveTopModes»,
+  dep.«internal/lossy.MBIterator.resetLeftContext»,
+  dep.«internal/lossy.PickBestI16Mode»,
+  dep.«internal/lossy.PickBestUVMode»,
+  dep.«internal/lossy.RDScore»,
+  dep.«internal/lossy.TokenBuffer.RecordCoeffs»,
+  dep.«internal/lossy.TokenBuffer.Reset»,
+  dep.«internal/lossy.TokenBuffer.recordLevelVP8»,
+  dep.«internal/lossy.TokenBuffer.tokenCount»,
+  dep.«internal/lossy.TokenCostForCoeffs»,
+  dep.«internal/lossy.VP8Encoder.PickBestI16ModeRD»,
+  dep.«internal/lossy.VP8Encoder.PickBestI4ModeRD»,
+  dep.«internal/lossy.VP8Encoder.PickBestI4ModeRDTrellis»,
+  dep.«internal/lossy.VP8Encoder.PickBestUVModeRD»,
+  dep.«internal/lossy.VP8Encoder.buildSegmentHeader»,
+  dep.«internal/lossy.VP8Encoder.collectMBStats»,
+  dep.«internal/lossy.VP8Encoder.correctDCValues»,
+  dep.«internal/lossy.VP8Encoder.encodeI16Residuals»,
+  dep.«internal/lossy.VP8Encoder.encodeI4Residuals»,
+  dep.«internal/lossy.VP8Encoder.encodeResiduals»,
+  dep.«internal/lossy.VP8Encoder.encodeRow»,
+  dep.«internal/lossy.VP8Encoder.encodeUVResiduals»,
+  dep.«internal/lossy.VP8Encoder.pickBestMode»,
+  dep.«internal/lossy.VP8Encoder.reconstructMB»,
+  dep.«internal/lossy.VP8Encoder.recordMBTokens»,
+  dep.«internal/lossy.VP8Encoder.refreshProbas»,
+  dep.«internal/lossy.VP8Encoder.setSegmentParams»,
+  dep.«internal/lossy.VP8Encoder.setupFilterStrength»,
+  dep.«internal/lossy.VP8Encoder.simplifySegments»,
+  dep.«internal/lossy.VP8Encoder.storeDiffusionErrors»,
+  dep.«internal/lossy.VP8Encoder.tryI4Modes»,
+  dep.«internal/lossy.VP8Encoder.tryI4ModesRD»,
+  dep.«internal/lossy.VP8Encoder.updateNZContext»,
+  dep.«internal/lossy.abs»,
+  dep.«internal/lossy.assignSegments»,
+  dep.«internal/lossy.branchCost»,
+  dep.«internal/lossy.checkMode»,
+  dep.«internal/lossy.clampInt»,
+  dep.«internal/lossy.clip»,
+  dep.«internal/lossy.collectCoeffStats»,
+  dep.«internal/lossy.collectHistogramAlphaWith»,
+  dep.«internal/lossy.collectLevelStats»,
+  dep.«internal/lossy.computeAlphasSerial»,
+  dep.«internal/lossy.computeMBAlphaDCT»,
+  dep.«internal/lossy.computeMBAlphaDCTWorker»,
+  dep.«internal/lossy.computeMBUVAlphaDCT»,
+  dep.«internal/lossy.computeMBUVAlphaDCTWith»,
+  dep.«internal/lossy.computeMBUVAlphaDCTWorker»,
+  dep.«internal/lossy.const:BDCPred»,
+  dep.«internal/lossy.const:BDCPredNoLeft»,
+  dep.«internal/lossy.const:BDCPredNoTop»,
+  dep.«internal/lossy.const:BDCPredNoTopLeft»,
+  dep.«internal/lossy.const:BHDPred»,
+  dep.«internal/lossy.const:BHEPred»,
+  dep.«internal/lossy.const:BHUPred»,
+  dep.«internal/lossy.const:BLDPred»,
+  dep.«internal/lossy.const:BPS»,
+  dep.«internal/lossy.const:BRDPred»,
+  dep.«internal/lossy.const:BTMPred»,
+  dep.«internal/lossy.const:BVEPred»,
+  dep.«internal/lossy.const:BVLPred»,
+  dep.«internal/lossy.const:BVRPred»,
+  dep.«internal/lossy.const:DCPred»,
+  dep.«internal/lossy.const:HPred»,
+  dep.«internal/lossy.const:MBFeatureTreeProbs»,
+  dep.«internal/lossy.const:NumBModes»,
+  dep.«internal/lossy.const:NumBands»,
+  dep.«internal/lossy.const:NumCTX»,
+  dep.«internal/lossy.const:NumMBSegments»,
+  dep.«internal/lossy.const:NumModeLFDeltas»,
+  dep.«internal/lossy.const:NumPredModes»,
+  dep.«internal/lossy.const:NumProbas»,
+  dep.«internal/lossy.const:NumRefLFDeltas»,
+  dep.«internal/lossy.const:NumTypes»,
+  dep.«internal/lossy.const:TMPred»,
+  dep.«internal/lossy.const:UOff»,
+  dep.«internal/lossy.const:VOff»,
+  dep.«internal/lossy.const:VPred»,
+  dep.«internal/lossy.const:YOff»,
+  dep.«internal/lossy.const:YUVSize»,
+  dep.«internal/lossy.const:alphaScale»,
+  dep.«internal/lossy.const:derrC1»,
+  dep.«internal/lossy.const:derrC2»,
+  dep.«internal/lossy.const:derrDScale»,
+  dep.«internal/lossy.const:derrDShift»,
+  dep.«internal/lossy.const:flatnessLimitI16»,
+  dep.«internal/lossy.const:flatnessLimitI4»,
+  dep.«internal/lossy.const:flatnessLimitUV»,
+  dep.«internal/lossy.const:flatnessPenalty»,
+  dep.«internal/lossy.const:fstrengthCutoff»,
+  dep.«internal/lossy.const:maxAlpha»,
+  dep.«internal/lossy.const:maxCoeffThresh»,
+  dep.«internal/lossy.const:maxIntra16Mode»,
+  dep.«internal/lossy.const:maxItersKMeans»,
+  dep.«internal/lossy.const:minRefreshCount»,
+  dep.«internal/lossy.const:rdDistoMult»,
+  dep.«internal/lossy.const:tokenPageSize»,
+  dep.«internal/lossy.dequantCoeffsGo»,
+  dep.«internal/lossy.dequantCoeffsSSE2»,
+  dep.«internal/lossy.encodeI16ResidualsParallel»,
+  dep.«internal/lossy.encodeI4ResidualsParallel»,
+  dep.«internal/lossy.encodeResidualsParallel»,
+  dep.«internal/lossy.encodeUVResidualsParallel»,
+  dep.«internal/lossy.exportParallel»,
+  dep.«internal/lossy.fastVariableLevelCost»,
+  dep.«internal/lossy.filterStrengthFromDelta»,
+  dep.«internal/lossy.getImportUVWorker»,
+  dep.«internal/lossy.getMaxI4RDModes»,
+  dep.«internal/lossy.getParallelState»,
+  dep.«internal/lossy.i4SubtreeContains»,
+  dep.«internal/lossy.imageHasAlpha»,
+  dep.«internal/lossy.importBlock»,
+  dep.«internal/lossy.initRowWorker»,
+  dep.«internal/lossy.initSegmentQuant»,
+  dep.«internal/lossy.isFlatSource16»,
+  dep.«internal/lossy.maxInt»,
+  dep.«internal/lossy.needsLeft4»,
+  dep.«internal/lossy.needsTop4»,
+  dep.«internal/lossy.newRowSync»,
+  dep.«internal/lossy.nzCountACSSE2»,
+  dep.«internal/lossy.optimizeProba»,
+  dep.«internal/lossy.pickBestI16ModeRDParallel»,
+  dep.«internal/lossy.pickBestI4ModeRDParallel»,
+  dep.«internal/lossy.pickBestI4ModeRDTrellisParallel»,
+  dep.«internal/lossy.pickBestModeParallel»,
+  dep.«internal/lossy.pickBestUVModeRDParallel»,
+  dep.«internal/lossy.putParallelState»,
+  dep.«internal/lossy.qualityToCompression»,
+  dep.«internal/lossy.quantizeACAVX2»,
+  dep.«internal/lossy.quantizeACSSE2»,
+  dep.«internal/lossy.quantizeCoeffsGo»,
+  dep.«internal/lossy.quantizeSingle»,
+  dep.«internal/lossy.readOptionalSigned»,
+  dep.«internal/lossy.reconstructMBParallel»,
+  dep.«internal/lossy.rowSync.signal»,
+  dep.«internal/lossy.rowSync.waitFor»,
+  dep.«internal/lossy.setupSegment»,
+  dep.«internal/lossy.tryI4ModesParallel»,
+  dep.«internal/lossy.tryI4ModesRDParallel»,
+  dep.«internal/lossy.updateNZContextParallel»,
+  dep.«internal/lossy.var:CoeffsProba0»,
+  dep.«internal/lossy.var:CoeffsUpdateProba»,
+  dep.«internal/lossy.var:KAcTable»,
+  dep.«internal/lossy.var:KAcTable2»,
+  dep.«internal/lossy.var:KBModesProba»,
+  dep.«internal/lossy.var:KBands»,
+  dep.«internal/lossy.var:KCat3»,
+  dep.«internal/lossy.var:KCat4»,
+  dep.«internal/lossy.var:KCat5»,
+  dep.«internal/lossy.var:KCat6»,
+  dep.«internal/lossy.var:KDcTable»,
+  dep.«internal/lossy.var:KYModesIntra4»,
+  dep.«internal/lossy.var:KZigzag»,
+  dep.«internal/lossy.var:VP8FixedCostsI4»,
+  dep.«internal/lossy.var:importUVWorkerPool»,
+  dep.«internal/lossy.var:kBiasMatrices»,
+  dep.«internal/lossy.var:kFreqSharpening»,
+  dep.«internal/lossy.var:kLevelsFromDelta»,
+  dep.«internal/lossy.var:kReverseZigzag»,
+  dep.«internal/lossy.var:kWeightTrellis»,
+  dep.«internal/lossy.var:modeFixedCost16»,
+  dep.«internal/lossy.var:modeFixedCostUV»,
+  dep.«internal/lossy.var:parallelPool»,
+  dep.«internal/lossy.var:vp8LevelCodes»,
+  dep.«internal/lossy.variableLevelCost»,
+  dep.«internal/lossy.writeI16Mode»,
+  dep.«internal/lossy.writeI4ModeBits»,
+  dep.«internal/lossy.writeSegmentID»,
+  dep.«internal/lossy.writeUVMode»
+]
+-- END deps extra_C11
+def extra_C11 : List Entry := extra_C11_roots ++ extra_C11_deps
 
 def expected_C11 : List Entry :=
-  pool ++ extra_C11
+  pool ++ codecFrontL ++ lTransformInv ++ vp8lEntropyDec ++ vp8lFastPaths ++ vp8DecodeGo ++ codecFront ++ vp8ReconDec ++ extra_C11
 
 def stale_C11 : List String := stale expected_C11
 
 /-- named in the anchors of C12 (properties.jsonl) and not in one of its groups -/
-def extra_C12 : List Entry := []
+def extra_C12_roots : List Entry := []
+-- BEGIN deps extra_C12 (written by tools/update_fingerprints.py — do not edit by hand)
+def extra_C12_deps : List Entry := []
+-- END deps extra_C12
+def extra_C12 : List Entry := extra_C12_roots ++ extra_C12_deps
 
 def expected_C12 : List Entry :=
   partition ++ rowPipe ++ extra_C12
@@ -965,7 +5773,7 @@ def expected_C12 : List Entry :=
 def stale_C12 : List String := stale expected_C12
 
 /-- named in the anchors of C13 (properties.jsonl) and not in one of its groups -/
-def extra_C13 : List Entry := [
+def extra_C13_roots : List Entry := [
   fp! "internal/dsp.init" 0x1745b3604e07cb3f,
   fp! "internal/dsp.HasAVX2" 0xfb33f2f6d3357dbd,
   fp! "internal/dsp.InitRandom" 0x44af8b8668690db9,
@@ -993,8 +5801,207 @@ def extra_C13 : List Entry := [
   fp! "asm:internal/lossy/encode_quant_avx2_amd64.s" 0x99fd87f7f1939612,
   fp! "asmfiles:internal/dsp" 0x31a257cf7e19f9ad,
   fp! "asmfiles:internal/lossless" 0xe3b0c44298fc1c14,
-  fp! "asmfiles:internal/lossy" 0x07b98268116a1ff5
+  fp! "asmfiles:internal/lossy" 0x07b98268116a1ff5,
+  fp! "mux.writeDataChunk" 0x22df9bd4c1606da2,
+  fp! "mux.chunkTotalSize" 0x0a45fa5968fe1de3,
+  fp! "mux.subChunkSize" 0x0973f4937abeb2ba,
+  fp! "mux.frameSubChunksSize" 0xd6be2256e98a5d5b
 ]
+-- BEGIN deps extra_C13 (written by tools/update_fingerprints.py — do not edit by hand)
+def extra_C13_deps : List Entry := [
+  dep.«internal/dsp.Clip8b»,
+  dep.«internal/dsp.Init»,
+  dep.«internal/dsp.abs»,
+  dep.«internal/dsp.addGreenToBlueAndRedAVX2»,
+  dep.«internal/dsp.addGreenToBlueAndRedGo»,
+  dep.«internal/dsp.addGreenToBlueAndRedNEON»,
+  dep.«internal/dsp.addGreenToBlueAndRedSSE2»,
+  dep.«internal/dsp.avg2»,
+  dep.«internal/dsp.avg3»,
+  dep.«internal/dsp.b2i»,
+  dep.«internal/dsp.const:BPS»,
+  dep.«internal/dsp.const:abs0Offset»,
+  dep.«internal/dsp.const:c1»,
+  dep.«internal/dsp.const:c2»,
+  dep.«internal/dsp.const:clip1Offset»,
+  dep.«internal/dsp.const:sclip1Offset»,
+  dep.«internal/dsp.const:sclip2Offset»,
+  dep.«internal/dsp.const:vp8RandomDitherFix»,
+  dep.«internal/dsp.const:vp8RandomTableSize»,
+  dep.«internal/dsp.const:yuvFix2»,
+  dep.«internal/dsp.const:yuvMask»,
+  dep.«internal/dsp.cpuidAVX2Check»,
+  dep.«internal/dsp.dc16»,
+  dep.«internal/dsp.dc16NEON»,
+  dep.«internal/dsp.dc16NoLeft»,
+  dep.«internal/dsp.dc16NoTop»,
+  dep.«internal/dsp.dc16NoTopLeft»,
+  dep.«internal/dsp.dc16SSE2»,
+  dep.«internal/dsp.dc16asmNEON»,
+  dep.«internal/dsp.dc16asmSSE2»,
+  dep.«internal/dsp.dc4»,
+  dep.«internal/dsp.dc8uv»,
+  dep.«internal/dsp.dc8uvNEON»,
+  dep.«internal/dsp.dc8uvNoLeft»,
+  dep.«internal/dsp.dc8uvNoTop»,
+  dep.«internal/dsp.dc8uvNoTopLeft»,
+  dep.«internal/dsp.dc8uvSSE2»,
+  dep.«internal/dsp.dc8uvasmNEON»,
+  dep.«internal/dsp.dc8uvasmSSE2»,
+  dep.«internal/dsp.fTransform»,
+  dep.«internal/dsp.fTransform2»,
+  dep.«internal/dsp.fTransform2AVX2»,
+  dep.«internal/dsp.fTransformAVX2»,
+  dep.«internal/dsp.fTransformSSE2»,
+  dep.«internal/dsp.fTransformWHT»,
+  dep.«internal/dsp.fTransformWHTNEON»,
+  dep.«internal/dsp.fTransformWHTSSE2»,
+  dep.«internal/dsp.hd4»,
+  dep.«internal/dsp.he16»,
+  dep.«internal/dsp.he16NEON»,
+  dep.«internal/dsp.he16SSE2»,
+  dep.«internal/dsp.he16asmNEON»,
+  dep.«internal/dsp.he16asmSSE2»,
+  dep.«internal/dsp.he4»,
+  dep.«internal/dsp.he8uv»,
+  dep.«internal/dsp.he8uvNEON»,
+  dep.«internal/dsp.he8uvSSE2»,
+  dep.«internal/dsp.he8uvasmNEON»,
+  dep.«internal/dsp.he8uvasmSSE2»,
+  dep.«internal/dsp.hu4»,
+  dep.«internal/dsp.iTransform»,
+  dep.«internal/dsp.iTransformAVX2»,
+  dep.«internal/dsp.iTransformNEON»,
+  dep.«internal/dsp.iTransformOne»,
+  dep.«internal/dsp.iTransformOneAVX2»,
+  dep.«internal/dsp.iTransformOneNEON»,
+  dep.«internal/dsp.iTransformOneSSE2»,
+  dep.«internal/dsp.iTransformSSE2»,
+  dep.«internal/dsp.initClipTables»,
+  dep.«internal/dsp.initLevelCosts»,
+  dep.«internal/dsp.initLosslessPredictors»,
+  dep.«internal/dsp.initPredictors»,
+  dep.«internal/dsp.initSSIM»,
+  dep.«internal/dsp.initScanTable»,
+  dep.«internal/dsp.initYUVTables»,
+  dep.«internal/dsp.lAbs»,
+  dep.«internal/dsp.lAverage2»,
+  dep.«internal/dsp.lAverage3»,
+  dep.«internal/dsp.lAverage4»,
+  dep.«internal/dsp.lClamp»,
+  dep.«internal/dsp.lClampedAddSubtractFull»,
+  dep.«internal/dsp.lClampedAddSubtractHalf»,
+  dep.«internal/dsp.lSelect»,
+  dep.«internal/dsp.ld4»,
+  dep.«internal/dsp.mul1»,
+  dep.«internal/dsp.mul2»,
+  dep.«internal/dsp.pred0»,
+  dep.«internal/dsp.pred1»,
+  dep.«internal/dsp.pred10»,
+  dep.«internal/dsp.pred11»,
+  dep.«internal/dsp.pred12»,
+  dep.«internal/dsp.pred13»,
+  dep.«internal/dsp.pred2»,
+  dep.«internal/dsp.pred3»,
+  dep.«internal/dsp.pred4»,
+  dep.«internal/dsp.pred5»,
+  dep.«internal/dsp.pred6»,
+  dep.«internal/dsp.pred7»,
+  dep.«internal/dsp.pred8»,
+  dep.«internal/dsp.pred9»,
+  dep.«internal/dsp.rd4»,
+  dep.«internal/dsp.sse16x16»,
+  dep.«internal/dsp.sse16x16AVX2»,
+  dep.«internal/dsp.sse16x16NEON»,
+  dep.«internal/dsp.sse16x16SSE2»,
+  dep.«internal/dsp.sse4x4»,
+  dep.«internal/dsp.sse4x4NEON»,
+  dep.«internal/dsp.sse4x4SSE2»,
+  dep.«internal/dsp.store»,
+  dep.«internal/dsp.subtractGreenAVX2»,
+  dep.«internal/dsp.subtractGreenGo»,
+  dep.«internal/dsp.subtractGreenNEON»,
+  dep.«internal/dsp.subtractGreenSSE2»,
+  dep.«internal/dsp.tDisto4x4AVX2»,
+  dep.«internal/dsp.tDisto4x4Go»,
+  dep.«internal/dsp.tDisto4x4SSE2»,
+  dep.«internal/dsp.tTransform»,
+  dep.«internal/dsp.tm16»,
+  dep.«internal/dsp.tm16NEON»,
+  dep.«internal/dsp.tm16SSE2»,
+  dep.«internal/dsp.tm16asmNEON»,
+  dep.«internal/dsp.tm16asmSSE2»,
+  dep.«internal/dsp.tm4»,
+  dep.«internal/dsp.tm8uv»,
+  dep.«internal/dsp.tm8uvNEON»,
+  dep.«internal/dsp.tm8uvSSE2»,
+  dep.«internal/dsp.tm8uvasmNEON»,
+  dep.«internal/dsp.tm8uvasmSSE2»,
+  dep.«internal/dsp.transformAC3»,
+  dep.«internal/dsp.transformDC»,
+  dep.«internal/dsp.transformDCUV»,
+  dep.«internal/dsp.transformOne»,
+  dep.«internal/dsp.transformTwo»,
+  dep.«internal/dsp.transformTwoDecAVX2»,
+  dep.«internal/dsp.transformTwoDecNEON»,
+  dep.«internal/dsp.transformTwoDecSSE2»,
+  dep.«internal/dsp.transformUV»,
+  dep.«internal/dsp.transformUVAVX2»,
+  dep.«internal/dsp.transformUVNEON»,
+  dep.«internal/dsp.transformUVSSE2»,
+  dep.«internal/dsp.transformWHT»,
+  dep.«internal/dsp.transformWHTNEON»,
+  dep.«internal/dsp.transformWHTSSE2»,
+  dep.«internal/dsp.var:AddGreenToBlueAndRedFunc»,
+  dep.«internal/dsp.var:DspScan»,
+  dep.«internal/dsp.var:DspScanUV»,
+  dep.«internal/dsp.var:FTransform»,
+  dep.«internal/dsp.var:FTransform2»,
+  dep.«internal/dsp.var:FTransformWHT»,
+  dep.«internal/dsp.var:ITransform»,
+  dep.«internal/dsp.var:LosslessPredictors»,
+  dep.«internal/dsp.var:PredChroma8»,
+  dep.«internal/dsp.var:PredLuma16»,
+  dep.«internal/dsp.var:PredLuma4»,
+  dep.«internal/dsp.var:SSE16x16»,
+  dep.«internal/dsp.var:SSE4x4»,
+  dep.«internal/dsp.var:SubtractGreenFunc»,
+  dep.«internal/dsp.var:Transform»,
+  dep.«internal/dsp.var:TransformAC3»,
+  dep.«internal/dsp.var:TransformDC»,
+  dep.«internal/dsp.var:TransformDCUV»,
+  dep.«internal/dsp.var:TransformUV»,
+  dep.«internal/dsp.var:TransformWHT»,
+  dep.«internal/dsp.var:VP8LevelFixedCosts»,
+  dep.«internal/dsp.var:abs0»,
+  dep.«internal/dsp.var:clip1»,
+  dep.«internal/dsp.var:hasAVX2»,
+  dep.«internal/dsp.var:kRandomTable»,
+  dep.«internal/dsp.var:kWeightY»,
+  dep.«internal/dsp.var:sclip1»,
+  dep.«internal/dsp.var:sclip2»,
+  dep.«internal/dsp.var:vp8LevelFixedCostsTable»,
+  dep.«internal/dsp.var:vp8kClip»,
+  dep.«internal/dsp.var:vp8kClip4Bits»,
+  dep.«internal/dsp.ve16»,
+  dep.«internal/dsp.ve16NEON»,
+  dep.«internal/dsp.ve16SSE2»,
+  dep.«internal/dsp.ve16asmNEON»,
+  dep.«internal/dsp.ve16asmSSE2»,
+  dep.«internal/dsp.ve4»,
+  dep.«internal/dsp.ve8uv»,
+  dep.«internal/dsp.ve8uvNEON»,
+  dep.«internal/dsp.ve8uvSSE2»,
+  dep.«internal/dsp.ve8uvasmNEON»,
+  dep.«internal/dsp.ve8uvasmSSE2»,
+  dep.«internal/dsp.vl4»,
+  dep.«internal/dsp.vr4»,
+  dep.«mux.splitAlphaAndBitstream»,
+  dep.«mux.var:FourCCALPH»,
+  dep.«mux.writeChunkHeader»
+]
+-- END deps extra_C13
+def extra_C13 : List Entry := extra_C13_roots ++ extra_C13_deps
 
 def expected_C13 : List Entry :=
   vp8Kernels ++ extra_C13
@@ -1002,7 +6009,11 @@ def expected_C13 : List Entry :=
 def stale_C13 : List String := stale expected_C13
 
 /-- named in the anchors of C14 (properties.jsonl) and not in one of its groups -/
-def extra_C14 : List Entry := []
+def extra_C14_roots : List Entry := []
+-- BEGIN deps extra_C14 (written by tools/update_fingerprints.py — do not edit by hand)
+def extra_C14_deps : List Entry := []
+-- END deps extra_C14
+def extra_C14 : List Entry := extra_C14_roots ++ extra_C14_deps
 
 def expected_C14 : List Entry :=
   muxer ++ demux ++ parser ++ extra_C14
@@ -1010,7 +6021,7 @@ def expected_C14 : List Entry :=
 def stale_C14 : List String := stale expected_C14
 
 /-- named in the anchors of C15 (properties.jsonl) and not in one of its groups -/
-def extra_C15 : List Entry := [
+def extra_C15_roots : List Entry := [
   fp! "webp.encodeLossless" 0x6c24a9390e67cfb9,
   fp! "webp.encodeLossyWithAlpha" 0x08226ead4703904f,
   fp! "webp.encodeLossy" 0x008407f1596aa1cc,
@@ -1020,6 +6031,27 @@ def extra_C15 : List Entry := [
   fp! "animation.AnimEncoder.SetXMP" 0x900f356589d3bce9,
   fp! "animation.AnimEncoder.Close" 0xb95353744d73d5ad
 ]
+-- BEGIN deps extra_C15 (written by tools/update_fingerprints.py — do not edit by hand)
+def extra_C15_deps : List Entry := [
+  dep.«animation.argbToNRGBA»,
+  dep.«animation.var:SimpleEncodeFunc»,
+  dep.«webp.cleanupTransparentAreaLossless»,
+  dep.«webp.cleanupTransparentAreaLossyWith»,
+  dep.«webp.extractAlphaWith»,
+  dep.«webp.flattenBlockNRGBA»,
+  dep.«webp.imageHasAlpha»,
+  dep.«webp.resolveAlphaCompression»,
+  dep.«webp.resolveAlphaFiltering»,
+  dep.«webp.resolveAlphaQuality»,
+  dep.«webp.resolveQMax»,
+  dep.«webp.sharpYUVConvert»,
+  dep.«webp.smoothenBlockNRGBA»,
+  dep.«webp.validNRGBA»,
+  dep.«webp.validRGBA»,
+  dep.«webp.var:argbPool»
+]
+-- END deps extra_C15
+def extra_C15 : List Entry := extra_C15_roots ++ extra_C15_deps
 
 def expected_C15 : List Entry :=
   muxer ++ demux ++ parser ++ writer ++ config ++ extra_C15
@@ -1027,13 +6059,131 @@ def expected_C15 : List Entry :=
 def stale_C15 : List String := stale expected_C15
 
 /-- named in the anchors of C16 (properties.jsonl) and not in one of its groups -/
-def extra_C16 : List Entry := [
+def extra_C16_roots : List Entry := [
   fp! "webp.decodeLossy" 0x7eeae068373756e5,
   fp! "animation.DecodeBytes" 0x81d573a1cbad1e0d,
   fp! "internal/lossless.argbHasAlpha" 0xab7003d387ee9714,
   fp! "internal/lossless.Decoder.decodeHeader" 0xf48ce041e0ec8c61,
-  fp! "internal/lossy.DecodeFrame" 0x0cbe1247c056a9e7
+  fp! "internal/lossy.DecodeFrame" 0x0cbe1247c056a9e7,
+  fp! "webp.buildYCbCr" 0x58eabdcf5af51de5,
+  fp! "webp.buildNRGBA" 0xd8549ce286e88cbd
 ]
+-- BEGIN deps extra_C16 (written by tools/update_fingerprints.py — do not edit by hand)
+def extra_C16_deps : List Entry := [
+  dep.«animation.argbToNRGBA»,
+  dep.«internal/lossless.const:VP8LHeaderSize»,
+  dep.«internal/lossless.const:VP8LImageSizeBits»,
+  dep.«internal/lossless.const:VP8LMagicByte»,
+  dep.«internal/lossless.const:VP8LVersion»,
+  dep.«internal/lossless.const:VP8LVersionBits»,
+  dep.«internal/lossless.var:ErrBadSignature»,
+  dep.«internal/lossless.var:ErrBadVersion»,
+  dep.«internal/lossless.var:ErrBitstream»,
+  dep.«internal/lossy.Decoder.decodeMB»,
+  dep.«internal/lossy.Decoder.doFilter»,
+  dep.«internal/lossy.Decoder.filterRowAt»,
+  dep.«internal/lossy.Decoder.initFrame»,
+  dep.«internal/lossy.Decoder.initScanline»,
+  dep.«internal/lossy.Decoder.parseFilterHeader»,
+  dep.«internal/lossy.Decoder.parseFrame»,
+  dep.«internal/lossy.Decoder.parseHeaders»,
+  dep.«internal/lossy.Decoder.parseIntraModeRow»,
+  dep.«internal/lossy.Decoder.parsePartitions»,
+  dep.«internal/lossy.Decoder.parseResiduals»,
+  dep.«internal/lossy.Decoder.parseSegmentHeader»,
+  dep.«internal/lossy.Decoder.precomputeFilterStrengths»,
+  dep.«internal/lossy.Decoder.reconstructRow»,
+  dep.«internal/lossy.ParseQuant»,
+  dep.«internal/lossy.ReleaseDecoder»,
+  dep.«internal/lossy.ResetProba»,
+  dep.«internal/lossy.abs»,
+  dep.«internal/lossy.acquireDecoder»,
+  dep.«internal/lossy.b2i»,
+  dep.«internal/lossy.brLoad»,
+  dep.«internal/lossy.brSync»,
+  dep.«internal/lossy.checkMode»,
+  dep.«internal/lossy.clamp255»,
+  dep.«internal/lossy.clip»,
+  dep.«internal/lossy.const:BDCPred»,
+  dep.«internal/lossy.const:BDCPredNoLeft»,
+  dep.«internal/lossy.const:BDCPredNoTop»,
+  dep.«internal/lossy.const:BDCPredNoTopLeft»,
+  dep.«internal/lossy.const:BHDPred»,
+  dep.«internal/lossy.const:BHEPred»,
+  dep.«internal/lossy.const:BHUPred»,
+  dep.«internal/lossy.const:BLDPred»,
+  dep.«internal/lossy.const:BPS»,
+  dep.«internal/lossy.const:BRDPred»,
+  dep.«internal/lossy.const:BTMPred»,
+  dep.«internal/lossy.const:BVEPred»,
+  dep.«internal/lossy.const:BVLPred»,
+  dep.«internal/lossy.const:BVRPred»,
+  dep.«internal/lossy.const:DCPred»,
+  dep.«internal/lossy.const:HPred»,
+  dep.«internal/lossy.const:MBFeatureTreeProbs»,
+  dep.«internal/lossy.const:NumBModes»,
+  dep.«internal/lossy.const:NumBands»,
+  dep.«internal/lossy.const:NumCTX»,
+  dep.«internal/lossy.const:NumMBSegments»,
+  dep.«internal/lossy.const:NumModeLFDeltas»,
+  dep.«internal/lossy.const:NumProbas»,
+  dep.«internal/lossy.const:NumRefLFDeltas»,
+  dep.«internal/lossy.const:NumTypes»,
+  dep.«internal/lossy.const:TMPred»,
+  dep.«internal/lossy.const:UOff»,
+  dep.«internal/lossy.const:VOff»,
+  dep.«internal/lossy.const:VPred»,
+  dep.«internal/lossy.const:YOff»,
+  dep.«internal/lossy.const:YUVSize»,
+  dep.«internal/lossy.doSimpleFilter2»,
+  dep.«internal/lossy.doSimpleFilter4»,
+  dep.«internal/lossy.doSimpleFilter6»,
+  dep.«internal/lossy.doTransform»,
+  dep.«internal/lossy.doTransformDCBlock»,
+  dep.«internal/lossy.doUVTransform»,
+  dep.«internal/lossy.fastBit»,
+  dep.«internal/lossy.fastSigned»,
+  dep.«internal/lossy.fillBytes»,
+  dep.«internal/lossy.filterLoop24HAt»,
+  dep.«internal/lossy.filterLoop24VAt»,
+  dep.«internal/lossy.filterLoop26At»,
+  dep.«internal/lossy.filterLoop26HAt»,
+  dep.«internal/lossy.filterLoop26VAt»,
+  dep.«internal/lossy.getCoeffsInline»,
+  dep.«internal/lossy.hFilter16iAt»,
+  dep.«internal/lossy.hFilter8iAt»,
+  dep.«internal/lossy.isHEV»,
+  dep.«internal/lossy.needsFilter2At»,
+  dep.«internal/lossy.nzCodeBits»,
+  dep.«internal/lossy.parseProba»,
+  dep.«internal/lossy.readOptionalSigned»,
+  dep.«internal/lossy.sclip1»,
+  dep.«internal/lossy.sclip2»,
+  dep.«internal/lossy.simpleHFilter16At»,
+  dep.«internal/lossy.simpleHFilter16iAt»,
+  dep.«internal/lossy.vFilter16iAt»,
+  dep.«internal/lossy.vFilter8iAt»,
+  dep.«internal/lossy.var:CoeffsProba0»,
+  dep.«internal/lossy.var:CoeffsUpdateProba»,
+  dep.«internal/lossy.var:KAcTable»,
+  dep.«internal/lossy.var:KBModesProba»,
+  dep.«internal/lossy.var:KBands»,
+  dep.«internal/lossy.var:KCat3»,
+  dep.«internal/lossy.var:KCat4»,
+  dep.«internal/lossy.var:KCat5»,
+  dep.«internal/lossy.var:KCat6»,
+  dep.«internal/lossy.var:KDcTable»,
+  dep.«internal/lossy.var:KYModesIntra4»,
+  dep.«internal/lossy.var:KZigzag»,
+  dep.«internal/lossy.var:errPrematureEOF»,
+  dep.«internal/lossy.var:kCat3456»,
+  dep.«internal/lossy.var:kScan»,
+  dep.«internal/lossy.var:kVP8Log2Range»,
+  dep.«internal/lossy.var:kVP8NewRange»,
+  dep.«internal/lossy.var:lossyDecoderPool»
+]
+-- END deps extra_C16
+def extra_C16 : List Entry := extra_C16_roots ++ extra_C16_deps
 
 def expected_C16 : List Entry :=
   config ++ parser ++ demux ++ extra_C16
@@ -1041,7 +6191,7 @@ def expected_C16 : List Entry :=
 def stale_C16 : List String := stale expected_C16
 
 /-- named in the anchors of C17 (properties.jsonl) and not in one of its groups -/
-def extra_C17 : List Entry := [
+def extra_C17_roots : List Entry := [
   fp! "webp.decodeLossy" 0x7eeae068373756e5,
   fp! "internal/lossy.DecodeFrame" 0x0cbe1247c056a9e7,
   fp! "internal/lossy.Decoder.parseHeaders" 0x2d0b0a4e64fe87af,
@@ -1057,6 +6207,217 @@ def extra_C17 : List Entry := [
   fp! "internal/lossless.Decoder.readHuffmanCode" 0x8f6b9bb571b5245d,
   fp! "internal/lossless.Decoder.readHuffmanCodes" 0x3635e6f7425b3c09
 ]
+-- BEGIN deps extra_C17 (written by tools/update_fingerprints.py — do not edit by hand)
+def extra_C17_deps : List Entry := [
+  dep.«internal/bitio.const:vp8lLBits»,
+  dep.«internal/lossless.BuildHuffmanTableScratch»,
+  dep.«internal/lossless.ColorCache.HashPix»,
+  dep.«internal/lossless.ColorCache.Insert»,
+  dep.«internal/lossless.ColorCache.Lookup»,
+  dep.«internal/lossless.Decoder.applyInverseTransforms»,
+  dep.«internal/lossless.Decoder.decodeHeader»,
+  dep.«internal/lossless.Decoder.decodeImageStream»,
+  dep.«internal/lossless.Decoder.decodeSubImage»,
+  dep.«internal/lossless.Decoder.getHTreeGroup»,
+  dep.«internal/lossless.Decoder.getMetaIndex»,
+  dep.«internal/lossless.Decoder.huffTableScratch»,
+  dep.«internal/lossless.Decoder.readHuffmanCodeLengths»,
+  dep.«internal/lossless.Decoder.readTransform»,
+  dep.«internal/lossless.Decoder.updateDecoder»,
+  dep.«internal/lossless.PlaneCodeToDistance»,
+  dep.«internal/lossless.ReadSymbol»,
+  dep.«internal/lossless.VP8LSubSampleSize»,
+  dep.«internal/lossless.accumulateHCode»,
+  dep.«internal/lossless.acquireDecoder»,
+  dep.«internal/lossless.addGreenToBlueAndRed»,
+  dep.«internal/lossless.addPixels»,
+  dep.«internal/lossless.argbSliceToBytes»,
+  dep.«internal/lossless.argbToNRGBA»,
+  dep.«internal/lossless.argbToNRGBARows»,
+  dep.«internal/lossless.average2»,
+  dep.«internal/lossless.buildHuffmanTableSize»,
+  dep.«internal/lossless.buildPackedTable»,
+  dep.«internal/lossless.bytesToARGBSlice»,
+  dep.«internal/lossless.clampedAddSubtractFull»,
+  dep.«internal/lossless.clampedAddSubtractHalf»,
+  dep.«internal/lossless.colorIndexInverseTransform»,
+  dep.«internal/lossless.colorSpaceInverseTransform»,
+  dep.«internal/lossless.colorSpaceInverseTransformParallel»,
+  dep.«internal/lossless.const:CodeLengthCodes»,
+  dep.«internal/lossless.const:CodeLengthLiterals»,
+  dep.«internal/lossless.const:CodeLengthRepeatCode»,
+  dep.«internal/lossless.const:CodeToPlaneCodesCount»,
+  dep.«internal/lossless.const:ColorIndexingTransform»,
+  dep.«internal/lossless.const:CrossColorTransform»,
+  dep.«internal/lossless.const:DefaultCodeLength»,
+  dep.«internal/lossless.const:HuffAlpha»,
+  dep.«internal/lossless.const:HuffBlue»,
+  dep.«internal/lossless.const:HuffDist»,
+  dep.«internal/lossless.const:HuffGreen»,
+  dep.«internal/lossless.const:HuffRed»,
+  dep.«internal/lossless.const:HuffmanCodesPerMetaCode»,
+  dep.«internal/lossless.const:HuffmanPackedBits»,
+  dep.«internal/lossless.const:HuffmanPackedTableSize»,
+  dep.«internal/lossless.const:HuffmanTableBits»,
+  dep.«internal/lossless.const:HuffmanTableMask»,
+  dep.«internal/lossless.const:LengthsTableBits»,
+  dep.«internal/lossless.const:LengthsTableMask»,
+  dep.«internal/lossless.const:MaxAllowedCodeLength»,
+  dep.«internal/lossless.const:MaxCacheBits»,
+  dep.«internal/lossless.const:MinHuffmanBits»,
+  dep.«internal/lossless.const:MinTransformBits»,
+  dep.«internal/lossless.const:NumDistanceCodes»,
+  dep.«internal/lossless.const:NumHuffmanBits»,
+  dep.«internal/lossless.const:NumLengthCodes»,
+  dep.«internal/lossless.const:NumLiteralCodes»,
+  dep.«internal/lossless.const:NumTransformBits»,
+  dep.«internal/lossless.const:PredictorTransform»,
+  dep.«internal/lossless.const:SubtractGreenTransform»,
+  dep.«internal/lossless.const:VP8LHeaderSize»,
+  dep.«internal/lossless.const:VP8LImageSizeBits»,
+  dep.«internal/lossless.const:VP8LMagicByte»,
+  dep.«internal/lossless.const:VP8LVersion»,
+  dep.«internal/lossless.const:VP8LVersionBits»,
+  dep.«internal/lossless.const:bitsSpecialMarker»,
+  dep.«internal/lossless.const:kHashMul»,
+  dep.«internal/lossless.const:minPixelsForParallel»,
+  dep.«internal/lossless.const:numArgbCacheRows»,
+  dep.«internal/lossless.copyBlock32»,
+  dep.«internal/lossless.expandColorMap»,
+  dep.«internal/lossless.getARGBIndex»,
+  dep.«internal/lossless.getNextKey»,
+  dep.«internal/lossless.inverseTransform»,
+  dep.«internal/lossless.nextTableBitSize»,
+  dep.«internal/lossless.predictorInverseTransform»,
+  dep.«internal/lossless.readPackedSymbols»,
+  dep.«internal/lossless.releaseDecoder»,
+  dep.«internal/lossless.replicateValue»,
+  dep.«internal/lossless.selectPredictor»,
+  dep.«internal/lossless.var:CodeLengthCodeOrder»,
+  dep.«internal/lossless.var:CodeLengthExtraBits»,
+  dep.«internal/lossless.var:CodeLengthRepeatOffsets»,
+  dep.«internal/lossless.var:CodeToPlane»,
+  dep.«internal/lossless.var:ErrBadSignature»,
+  dep.«internal/lossless.var:ErrBadVersion»,
+  dep.«internal/lossless.var:ErrBitstream»,
+  dep.«internal/lossless.var:ErrEmptyCodeLengths»,
+  dep.«internal/lossless.var:ErrInvalidTree»,
+  dep.«internal/lossless.var:KLiteralMap»,
+  dep.«internal/lossless.var:kBaseAlphabetSize»,
+  dep.«internal/lossless.var:losslessDecoderPool»,
+  dep.«internal/lossy.Decoder.doFilter»,
+  dep.«internal/lossy.Decoder.filterRowAt»,
+  dep.«internal/lossy.Decoder.initFrame»,
+  dep.«internal/lossy.Decoder.initScanline»,
+  dep.«internal/lossy.Decoder.parseFilterHeader»,
+  dep.«internal/lossy.Decoder.parseResiduals»,
+  dep.«internal/lossy.Decoder.parseSegmentHeader»,
+  dep.«internal/lossy.Decoder.precomputeFilterStrengths»,
+  dep.«internal/lossy.Decoder.reconstructRow»,
+  dep.«internal/lossy.ParseQuant»,
+  dep.«internal/lossy.ReleaseDecoder»,
+  dep.«internal/lossy.ResetProba»,
+  dep.«internal/lossy.abs»,
+  dep.«internal/lossy.acquireDecoder»,
+  dep.«internal/lossy.alphaUnfilterGradient»,
+  dep.«internal/lossy.alphaUnfilterHorizontal»,
+  dep.«internal/lossy.alphaUnfilterHorizontalRow»,
+  dep.«internal/lossy.alphaUnfilterVertical»,
+  dep.«internal/lossy.alphaVP8LStream»,
+  dep.«internal/lossy.b2i»,
+  dep.«internal/lossy.brLoad»,
+  dep.«internal/lossy.brSync»,
+  dep.«internal/lossy.checkMode»,
+  dep.«internal/lossy.clamp255»,
+  dep.«internal/lossy.clip»,
+  dep.«internal/lossy.const:AlphaFilterGradient»,
+  dep.«internal/lossy.const:AlphaFilterHorizontal»,
+  dep.«internal/lossy.const:AlphaFilterNone»,
+  dep.«internal/lossy.const:AlphaFilterVertical»,
+  dep.«internal/lossy.const:AlphaLosslessCompression»,
+  dep.«internal/lossy.const:AlphaNoCompression»,
+  dep.«internal/lossy.const:BDCPred»,
+  dep.«internal/lossy.const:BDCPredNoLeft»,
+  dep.«internal/lossy.const:BDCPredNoTop»,
+  dep.«internal/lossy.const:BDCPredNoTopLeft»,
+  dep.«internal/lossy.const:BHDPred»,
+  dep.«internal/lossy.const:BHEPred»,
+  dep.«internal/lossy.const:BHUPred»,
+  dep.«internal/lossy.const:BLDPred»,
+  dep.«internal/lossy.const:BPS»,
+  dep.«internal/lossy.const:BRDPred»,
+  dep.«internal/lossy.const:BTMPred»,
+  dep.«internal/lossy.const:BVEPred»,
+  dep.«internal/lossy.const:BVLPred»,
+  dep.«internal/lossy.const:BVRPred»,
+  dep.«internal/lossy.const:DCPred»,
+  dep.«internal/lossy.const:HPred»,
+  dep.«internal/lossy.const:MBFeatureTreeProbs»,
+  dep.«internal/lossy.const:NumBModes»,
+  dep.«internal/lossy.const:NumBands»,
+  dep.«internal/lossy.const:NumCTX»,
+  dep.«internal/lossy.const:NumMBSegments»,
+  dep.«internal/lossy.const:NumModeLFDeltas»,
+  dep.«internal/lossy.const:NumProbas»,
+  dep.«internal/lossy.const:NumRefLFDeltas»,
+  dep.«internal/lossy.const:NumTypes»,
+  dep.«internal/lossy.const:TMPred»,
+  dep.«internal/lossy.const:UOff»,
+  dep.«internal/lossy.const:VOff»,
+  dep.«internal/lossy.const:VPred»,
+  dep.«internal/lossy.const:YOff»,
+  dep.«internal/lossy.const:YUVSize»,
+  dep.«internal/lossy.doSimpleFilter2»,
+  dep.«internal/lossy.doSimpleFilter4»,
+  dep.«internal/lossy.doSimpleFilter6»,
+  dep.«internal/lossy.doTransform»,
+  dep.«internal/lossy.doTransformDCBlock»,
+  dep.«internal/lossy.doUVTransform»,
+  dep.«internal/lossy.fastBit»,
+  dep.«internal/lossy.fastSigned»,
+  dep.«internal/lossy.fillBytes»,
+  dep.«internal/lossy.filterLoop24HAt»,
+  dep.«internal/lossy.filterLoop24VAt»,
+  dep.«internal/lossy.filterLoop26At»,
+  dep.«internal/lossy.filterLoop26HAt»,
+  dep.«internal/lossy.filterLoop26VAt»,
+  dep.«internal/lossy.getCoeffsInline»,
+  dep.«internal/lossy.hFilter16iAt»,
+  dep.«internal/lossy.hFilter8iAt»,
+  dep.«internal/lossy.isHEV»,
+  dep.«internal/lossy.needsFilter2At»,
+  dep.«internal/lossy.nzCodeBits»,
+  dep.«internal/lossy.parseProba»,
+  dep.«internal/lossy.readOptionalSigned»,
+  dep.«internal/lossy.sclip1»,
+  dep.«internal/lossy.sclip2»,
+  dep.«internal/lossy.simpleHFilter16At»,
+  dep.«internal/lossy.simpleHFilter16iAt»,
+  dep.«internal/lossy.vFilter16iAt»,
+  dep.«internal/lossy.vFilter8iAt»,
+  dep.«internal/lossy.var:CoeffsProba0»,
+  dep.«internal/lossy.var:CoeffsUpdateProba»,
+  dep.«internal/lossy.var:KAcTable»,
+  dep.«internal/lossy.var:KBModesProba»,
+  dep.«internal/lossy.var:KBands»,
+  dep.«internal/lossy.var:KCat3»,
+  dep.«internal/lossy.var:KCat4»,
+  dep.«internal/lossy.var:KCat5»,
+  dep.«internal/lossy.var:KCat6»,
+  dep.«internal/lossy.var:KDcTable»,
+  dep.«internal/lossy.var:KYModesIntra4»,
+  dep.«internal/lossy.var:KZigzag»,
+  dep.«internal/lossy.var:errPrematureEOF»,
+  dep.«internal/lossy.var:kCat3456»,
+  dep.«internal/lossy.var:kScan»,
+  dep.«internal/lossy.var:kVP8Log2Range»,
+  dep.«internal/lossy.var:kVP8NewRange»,
+  dep.«internal/lossy.var:lossyDecoderPool»,
+  dep.«webp.buildNRGBA»,
+  dep.«webp.buildYCbCr»
+]
+-- END deps extra_C17
+def extra_C17 : List Entry := extra_C17_roots ++ extra_C17_deps
 
 def expected_C17 : List Entry :=
   config ++ parser ++ demux ++ extra_C17
@@ -1064,7 +6425,7 @@ def expected_C17 : List Entry :=
 def stale_C17 : List String := stale expected_C17
 
 /-- named in the anchors of C18 (properties.jsonl) and not in one of its groups -/
-def extra_C18 : List Entry := [
+def extra_C18_roots : List Entry := [
   fp! "webp.init" 0xff3433fac0c13526,
   fp! "webp.encodeLossy" 0x008407f1596aa1cc,
   fp! "webp.encodeLossyWithAlpha" 0x08226ead4703904f,
@@ -1074,14 +6435,90 @@ def extra_C18 : List Entry := [
   fp! "mux.Muxer.hasAlpha" 0xd5d4b2f75b38fd5c,
   fp! "mux.Demuxer.parseANMF" 0x189cba55f7c02bf0
 ]
+-- BEGIN deps extra_C18 (written by tools/update_fingerprints.py — do not edit by hand)
+def extra_C18_deps : List Entry := [
+  dep.«mux.ReadChunkHeader»,
+  dep.«mux.chunkTotalSize»,
+  dep.«mux.const:BlendAlpha»,
+  dep.«mux.const:BlendNone»,
+  dep.«mux.const:DisposeBackground»,
+  dep.«mux.const:DisposeNone»,
+  dep.«mux.const:maxFrames»,
+  dep.«mux.detectBitstreamType»,
+  dep.«mux.frameDataHasAlpha»,
+  dep.«mux.frameDimensions»,
+  dep.«mux.frameSubChunksSize»,
+  dep.«mux.parseVP8Dimensions»,
+  dep.«mux.parseVP8LDimensions»,
+  dep.«mux.putLE24»,
+  dep.«mux.splitAlphaAndBitstream»,
+  dep.«mux.var:ErrChunkTooLarge»,
+  dep.«mux.var:ErrInvalidANMF»,
+  dep.«mux.var:ErrInvalidChunkHeader»,
+  dep.«mux.var:ErrInvalidFrame»,
+  dep.«mux.var:ErrTooManyFrames»,
+  dep.«mux.var:FourCCALPH»,
+  dep.«mux.var:FourCCANMF»,
+  dep.«mux.var:FourCCVP8»,
+  dep.«mux.var:FourCCVP8L»,
+  dep.«mux.writeChunkHeader»,
+  dep.«mux.writeDataChunk»,
+  dep.«webp.Decode»,
+  dep.«webp.DecodeConfig»,
+  dep.«webp.DefaultOptions»,
+  dep.«webp.Encode»,
+  dep.«webp.buildYCbCr»,
+  dep.«webp.cleanupTransparentAreaLossless»,
+  dep.«webp.cleanupTransparentAreaLossyWith»,
+  dep.«webp.const:MaxDimension»,
+  dep.«webp.const:MaxInputSize»,
+  dep.«webp.const:PresetDefault»,
+  dep.«webp.const:PresetText»,
+  dep.«webp.decodeBytes»,
+  dep.«webp.decodeFrame»,
+  dep.«webp.decodeFrameForAnimation»,
+  dep.«webp.decodeLossless»,
+  dep.«webp.encodeFrameForAnimation»,
+  dep.«webp.encodeLossless»,
+  dep.«webp.encodeLosslessToWriter»,
+  dep.«webp.extractAlphaWith»,
+  dep.«webp.flattenBlockNRGBA»,
+  dep.«webp.imageHasAlpha»,
+  dep.«webp.putLE24»,
+  dep.«webp.readAll»,
+  dep.«webp.resolveAlphaCompression»,
+  dep.«webp.resolveAlphaFiltering»,
+  dep.«webp.resolveAlphaQuality»,
+  dep.«webp.resolveQMax»,
+  dep.«webp.rgbaIsOpaque»,
+  dep.«webp.rgbaToNRGBA»,
+  dep.«webp.sharpYUVConvert»,
+  dep.«webp.simpleEncodeForAnimation»,
+  dep.«webp.smoothenBlockNRGBA»,
+  dep.«webp.validNRGBA»,
+  dep.«webp.validRGBA»,
+  dep.«webp.validateConfig»,
+  dep.«webp.var:ErrNoFrames»,
+  dep.«webp.var:argbPool»,
+  dep.«webp.writeRIFF»,
+  dep.«webp.writeRIFFExtended»,
+  dep.«webp.writeRIFFSimple»,
+  dep.«webp.ycbcrToNRGBA»
+]
+-- END deps extra_C18
+def extra_C18 : List Entry := extra_C18_roots ++ extra_C18_deps
 
 def expected_C18 : List Entry :=
-  animEnc ++ animDec ++ extra_C18
+  animEnc ++ animDec ++ vp8lEntropyEnc ++ lTransformFwd ++ partition ++ alphaEnc ++ alphaDec ++ alphaGlue ++ extra_C18
 
 def stale_C18 : List String := stale expected_C18
 
 /-- named in the anchors of C19 (properties.jsonl) and not in one of its groups -/
-def extra_C19 : List Entry := []
+def extra_C19_roots : List Entry := []
+-- BEGIN deps extra_C19 (written by tools/update_fingerprints.py — do not edit by hand)
+def extra_C19_deps : List Entry := []
+-- END deps extra_C19
+def extra_C19 : List Entry := extra_C19_roots ++ extra_C19_deps
 
 def expected_C19 : List Entry :=
   importPix ++ extra_C19
@@ -1089,11 +6526,234 @@ def expected_C19 : List Entry :=
 def stale_C19 : List String := stale expected_C19
 
 /-- named in the anchors of C20 (properties.jsonl) and not in one of its groups -/
-def extra_C20 : List Entry := [
+def extra_C20_roots : List Entry := [
   fp! "internal/lossy.VP8Encoder.emitTokenPartitions" 0x0431ab2920e6fedc,
   fp! "internal/lossy.TokenBuffer.EmitTokensPartitioned" 0x615500966ad8cbfd,
   fp! "internal/lossy.VP8Encoder.EncodeFrame" 0xa0bfd91be2c1e645
 ]
+-- BEGIN deps extra_C20 (written by tools/update_fingerprints.py — do not edit by hand)
+def extra_C20_deps : List Entry := [
+  dep.«internal/lossy.DequantCoeffs»,
+  dep.«internal/lossy.MBIterator.Export»,
+  dep.«internal/lossy.MBIterator.FillPredContext»,
+  dep.«internal/lossy.MBIterator.FillPredictionContext»,
+  dep.«internal/lossy.MBIterator.GetTopModes»,
+  dep.«internal/lossy.MBIterator.Import»,
+  dep.«internal/lossy.MBIterator.IsDone»,
+  dep.«internal/lossy.MBIterator.Next»,
+  dep.«internal/lossy.MBIterator.SaveTopModes»,
+  dep.«internal/lossy.MBIterator.resetLeftContext»,
+  dep.«internal/lossy.PickBestI16Mode»,
+  dep.«internal/lossy.PickBestI4Mode»,
+  dep.«internal/lossy.PickBestUVMode»,
+  dep.«internal/lossy.QuantizeCoeffs»,
+  dep.«internal/lossy.RDScore»,
+  dep.«internal/lossy.TokenBuffer.EmitTokens»,
+  dep.«internal/lossy.TokenBuffer.MarkMBStart»,
+  dep.«internal/lossy.TokenBuffer.RecordCoeffs»,
+  dep.«internal/lossy.TokenBuffer.RecordToken»,
+  dep.«internal/lossy.TokenBuffer.Reset»,
+  dep.«internal/lossy.TokenBuffer.addPage»,
+  dep.«internal/lossy.TokenBuffer.recordLevelVP8»,
+  dep.«internal/lossy.TokenBuffer.tokenCount»,
+  dep.«internal/lossy.TokenCostForCoeffs»,
+  dep.«internal/lossy.TrellisQuantizeBlock»,
+  dep.«internal/lossy.VP8Encoder.InitIterator»,
+  dep.«internal/lossy.VP8Encoder.PickBestI16ModeRD»,
+  dep.«internal/lossy.VP8Encoder.PickBestI4ModeRD»,
+  dep.«internal/lossy.VP8Encoder.PickBestI4ModeRDTrellis»,
+  dep.«internal/lossy.VP8Encoder.PickBestUVModeRD»,
+  dep.«internal/lossy.VP8Encoder.adjustQuantForTarget»,
+  dep.«internal/lossy.VP8Encoder.analysis»,
+  dep.«internal/lossy.VP8Encoder.assembleFrame»,
+  dep.«internal/lossy.VP8Encoder.buildSegmentHeader»,
+  dep.«internal/lossy.VP8Encoder.collectAllStats»,
+  dep.«internal/lossy.VP8Encoder.collectMBStats»,
+  dep.«internal/lossy.VP8Encoder.computeStats»,
+  dep.«internal/lossy.VP8Encoder.correctDCValues»,
+  dep.«internal/lossy.VP8Encoder.emitFrame»,
+  dep.«internal/lossy.VP8Encoder.emitPartition0»,
+  dep.«internal/lossy.VP8Encoder.encodeFrame»,
+  dep.«internal/lossy.VP8Encoder.encodeFrameParallel»,
+  dep.«internal/lossy.VP8Encoder.encodeI16Residuals»,
+  dep.«internal/lossy.VP8Encoder.encodeI4Residuals»,
+  dep.«internal/lossy.VP8Encoder.encodeResiduals»,
+  dep.«internal/lossy.VP8Encoder.encodeRow»,
+  dep.«internal/lossy.VP8Encoder.encodeUVResiduals»,
+  dep.«internal/lossy.VP8Encoder.initPassStats»,
+  dep.«internal/lossy.VP8Encoder.pickBestMode»,
+  dep.«internal/lossy.VP8Encoder.reconstructMB»,
+  dep.«internal/lossy.VP8Encoder.recordAllTokens»,
+  dep.«internal/lossy.VP8Encoder.recordMBTokens»,
+  dep.«internal/lossy.VP8Encoder.refreshProbas»,
+  dep.«internal/lossy.VP8Encoder.rerecordAllTokens»,
+  dep.«internal/lossy.VP8Encoder.restoreSourcePixels»,
+  dep.«internal/lossy.VP8Encoder.saveSourcePixels»,
+  dep.«internal/lossy.VP8Encoder.setSegmentParams»,
+  dep.«internal/lossy.VP8Encoder.setSegmentProbas»,
+  dep.«internal/lossy.VP8Encoder.setupFilterStrength»,
+  dep.«internal/lossy.VP8Encoder.simplifySegments»,
+  dep.«internal/lossy.VP8Encoder.statLoop»,
+  dep.«internal/lossy.VP8Encoder.storeDiffusionErrors»,
+  dep.«internal/lossy.VP8Encoder.tryI4Modes»,
+  dep.«internal/lossy.VP8Encoder.tryI4ModesRD»,
+  dep.«internal/lossy.VP8Encoder.updateNZContext»,
+  dep.«internal/lossy.VP8Encoder.writeCoeffProba»,
+  dep.«internal/lossy.VP8Encoder.writeFilterHeader»,
+  dep.«internal/lossy.VP8Encoder.writeMBModes»,
+  dep.«internal/lossy.VP8Encoder.writeQuantParams»,
+  dep.«internal/lossy.VP8Encoder.writeSegmentHeader»,
+  dep.«internal/lossy.abs»,
+  dep.«internal/lossy.assignSegments»,
+  dep.«internal/lossy.boolToIntEnc»,
+  dep.«internal/lossy.branchCost»,
+  dep.«internal/lossy.checkMode»,
+  dep.«internal/lossy.clampInt»,
+  dep.«internal/lossy.collectCoeffStats»,
+  dep.«internal/lossy.collectHistogramAlphaWith»,
+  dep.«internal/lossy.collectLevelStats»,
+  dep.«internal/lossy.computeAlphas»,
+  dep.«internal/lossy.computeAlphasSerial»,
+  dep.«internal/lossy.computeMBAlphaDCT»,
+  dep.«internal/lossy.computeMBAlphaDCTWith»,
+  dep.«internal/lossy.computeMBAlphaDCTWorker»,
+  dep.«internal/lossy.computeMBUVAlphaDCT»,
+  dep.«internal/lossy.computeMBUVAlphaDCTWith»,
+  dep.«internal/lossy.computeMBUVAlphaDCTWorker»,
+  dep.«internal/lossy.const:BDCPred»,
+  dep.«internal/lossy.const:BDCPredNoLeft»,
+  dep.«internal/lossy.const:BDCPredNoTop»,
+  dep.«internal/lossy.const:BDCPredNoTopLeft»,
+  dep.«internal/lossy.const:BHDPred»,
+  dep.«internal/lossy.const:BHEPred»,
+  dep.«internal/lossy.const:BHUPred»,
+  dep.«internal/lossy.const:BLDPred»,
+  dep.«internal/lossy.const:BPS»,
+  dep.«internal/lossy.const:BRDPred»,
+  dep.«internal/lossy.const:BTMPred»,
+  dep.«internal/lossy.const:BVEPred»,
+  dep.«internal/lossy.const:BVLPred»,
+  dep.«internal/lossy.const:BVRPred»,
+  dep.«internal/lossy.const:DCPred»,
+  dep.«internal/lossy.const:HPred»,
+  dep.«internal/lossy.const:MBFeatureTreeProbs»,
+  dep.«internal/lossy.const:NumBModes»,
+  dep.«internal/lossy.const:NumBands»,
+  dep.«internal/lossy.const:NumCTX»,
+  dep.«internal/lossy.const:NumMBSegments»,
+  dep.«internal/lossy.const:NumModeLFDeltas»,
+  dep.«internal/lossy.const:NumPredModes»,
+  dep.«internal/lossy.const:NumProbas»,
+  dep.«internal/lossy.const:NumRefLFDeltas»,
+  dep.«internal/lossy.const:NumTypes»,
+  dep.«internal/lossy.const:TMPred»,
+  dep.«internal/lossy.const:UOff»,
+  dep.«internal/lossy.const:VOff»,
+  dep.«internal/lossy.const:VPred»,
+  dep.«internal/lossy.const:YOff»,
+  dep.«internal/lossy.const:YUVSize»,
+  dep.«internal/lossy.const:alphaScale»,
+  dep.«internal/lossy.const:derrC1»,
+  dep.«internal/lossy.const:derrC2»,
+  dep.«internal/lossy.const:derrDScale»,
+  dep.«internal/lossy.const:derrDShift»,
+  dep.«internal/lossy.const:flatnessLimitI16»,
+  dep.«internal/lossy.const:flatnessLimitI4»,
+  dep.«internal/lossy.const:flatnessLimitUV»,
+  dep.«internal/lossy.const:flatnessPenalty»,
+  dep.«internal/lossy.const:fstrengthCutoff»,
+  dep.«internal/lossy.const:maxAlpha»,
+  dep.«internal/lossy.const:maxCoeffThresh»,
+  dep.«internal/lossy.const:maxIntra16Mode»,
+  dep.«internal/lossy.const:maxItersKMeans»,
+  dep.«internal/lossy.const:maxPartition0Size»,
+  dep.«internal/lossy.const:maxPartitionSize»,
+  dep.«internal/lossy.const:minRefreshCount»,
+  dep.«internal/lossy.const:rdDistoMult»,
+  dep.«internal/lossy.const:tokenPageSize»,
+  dep.«internal/lossy.dequantCoeffsGo»,
+  dep.«internal/lossy.dequantCoeffsSSE2»,
+  dep.«internal/lossy.encodeI16ResidualsParallel»,
+  dep.«internal/lossy.encodeI4ResidualsParallel»,
+  dep.«internal/lossy.encodeResidualsParallel»,
+  dep.«internal/lossy.encodeUVResidualsParallel»,
+  dep.«internal/lossy.exportParallel»,
+  dep.«internal/lossy.fastVariableLevelCost»,
+  dep.«internal/lossy.fillPredContextParallel»,
+  dep.«internal/lossy.filterStrengthFromDelta»,
+  dep.«internal/lossy.generateI16Prediction»,
+  dep.«internal/lossy.getBoolWriter»,
+  dep.«internal/lossy.getMaxI4RDModes»,
+  dep.«internal/lossy.getPSNR»,
+  dep.«internal/lossy.getParallelState»,
+  dep.«internal/lossy.i4SubtreeContains»,
+  dep.«internal/lossy.importBlock»,
+  dep.«internal/lossy.importBlockParallel»,
+  dep.«internal/lossy.initRowWorker»,
+  dep.«internal/lossy.initSegmentQuant»,
+  dep.«internal/lossy.isFlat»,
+  dep.«internal/lossy.isFlatSource16»,
+  dep.«internal/lossy.maxInt»,
+  dep.«internal/lossy.needsLeft4»,
+  dep.«internal/lossy.needsTop4»,
+  dep.«internal/lossy.newRowSync»,
+  dep.«internal/lossy.nzCountACSSE2»,
+  dep.«internal/lossy.optimizeProba»,
+  dep.«internal/lossy.passStats.computeNextQ»,
+  dep.«internal/lossy.pickBestI16ModeRDParallel»,
+  dep.«internal/lossy.pickBestI4ModeRDParallel»,
+  dep.«internal/lossy.pickBestI4ModeRDTrellisParallel»,
+  dep.«internal/lossy.pickBestModeParallel»,
+  dep.«internal/lossy.pickBestUVModeRDParallel»,
+  dep.«internal/lossy.putBoolWriter»,
+  dep.«internal/lossy.putParallelState»,
+  dep.«internal/lossy.qualityToCompression»,
+  dep.«internal/lossy.quantizeACAVX2»,
+  dep.«internal/lossy.quantizeACSSE2»,
+  dep.«internal/lossy.quantizeCoeffsGo»,
+  dep.«internal/lossy.quantizeSingle»,
+  dep.«internal/lossy.reconstructMBParallel»,
+  dep.«internal/lossy.rowSync.signal»,
+  dep.«internal/lossy.rowSync.waitFor»,
+  dep.«internal/lossy.setupSegment»,
+  dep.«internal/lossy.smoothSegmentMap»,
+  dep.«internal/lossy.tryI4ModesParallel»,
+  dep.«internal/lossy.tryI4ModesRDParallel»,
+  dep.«internal/lossy.updateNZContextParallel»,
+  dep.«internal/lossy.var:CoeffsProba0»,
+  dep.«internal/lossy.var:CoeffsUpdateProba»,
+  dep.«internal/lossy.var:ErrPartition0Overflow»,
+  dep.«internal/lossy.var:ErrPartitionOverflow»,
+  dep.«internal/lossy.var:KAcTable»,
+  dep.«internal/lossy.var:KAcTable2»,
+  dep.«internal/lossy.var:KBModesProba»,
+  dep.«internal/lossy.var:KBands»,
+  dep.«internal/lossy.var:KCat3»,
+  dep.«internal/lossy.var:KCat4»,
+  dep.«internal/lossy.var:KCat5»,
+  dep.«internal/lossy.var:KCat6»,
+  dep.«internal/lossy.var:KDcTable»,
+  dep.«internal/lossy.var:KYModesIntra4»,
+  dep.«internal/lossy.var:KZigzag»,
+  dep.«internal/lossy.var:VP8FixedCostsI4»,
+  dep.«internal/lossy.var:boolWriterPool»,
+  dep.«internal/lossy.var:kBiasMatrices»,
+  dep.«internal/lossy.var:kFreqSharpening»,
+  dep.«internal/lossy.var:kLevelsFromDelta»,
+  dep.«internal/lossy.var:kReverseZigzag»,
+  dep.«internal/lossy.var:kWeightTrellis»,
+  dep.«internal/lossy.var:modeFixedCost16»,
+  dep.«internal/lossy.var:modeFixedCostUV»,
+  dep.«internal/lossy.var:parallelPool»,
+  dep.«internal/lossy.var:vp8LevelCodes»,
+  dep.«internal/lossy.variableLevelCost»,
+  dep.«internal/lossy.writeI16Mode»,
+  dep.«internal/lossy.writeI4ModeBits»,
+  dep.«internal/lossy.writeSegmentID»,
+  dep.«internal/lossy.writeUVMode»
+]
+-- END deps extra_C20
+def extra_C20 : List Entry := extra_C20_roots ++ extra_C20_deps
 
 def expected_C20 : List Entry :=
   opts ++ extra_C20
